@@ -1,0 +1,16254 @@
+	.file	"abquick.c"
+	.text
+.Ltext0:
+	.file 0 "/repo/aldor/aldor/src" "test/abquick.c"
+	.globl	sequence0
+	.type	sequence0, @function
+sequence0:
+.LFB0:
+	.file 1 "test/abquick.c"
+	.loc 1 23 19
+	.cfi_startproc
+	pushq	%rbp
+	.cfi_def_cfa_offset 16
+	.cfi_offset 6, -16
+	movq	%rsp, %rbp
+	.cfi_def_cfa_register 6
+	.loc 1 23 28
+	movq	sposNone(%rip), %rax
+	movl	$0, %edx
+	movq	%rax, %rsi
+	movl	$64, %edi
+	movl	$0, %eax
+	call	abNew@PLT
+	.loc 1 23 61
+	popq	%rbp
+	.cfi_def_cfa 7, 8
+	ret
+	.cfi_endproc
+.LFE0:
+	.size	sequence0, .-sequence0
+	.globl	sequence1
+	.type	sequence1, @function
+sequence1:
+.LFB1:
+	.loc 1 24 26
+	.cfi_startproc
+	pushq	%rbp
+	.cfi_def_cfa_offset 16
+	.cfi_offset 6, -16
+	movq	%rsp, %rbp
+	.cfi_def_cfa_register 6
+	subq	$16, %rsp
+	movq	%rdi, -8(%rbp)
+	.loc 1 24 35
+	movq	sposNone(%rip), %rax
+	movq	-8(%rbp), %rdx
+	movq	%rdx, %rcx
+	movl	$1, %edx
+	movq	%rax, %rsi
+	movl	$64, %edi
+	movl	$0, %eax
+	call	abNew@PLT
+	.loc 1 24 70
+	leave
+	.cfi_def_cfa 7, 8
+	ret
+	.cfi_endproc
+.LFE1:
+	.size	sequence1, .-sequence1
+	.globl	sequence2
+	.type	sequence2, @function
+sequence2:
+.LFB2:
+	.loc 1 25 35
+	.cfi_startproc
+	pushq	%rbp
+	.cfi_def_cfa_offset 16
+	.cfi_offset 6, -16
+	movq	%rsp, %rbp
+	.cfi_def_cfa_register 6
+	subq	$16, %rsp
+	movq	%rdi, -8(%rbp)
+	movq	%rsi, -16(%rbp)
+	.loc 1 25 44
+	movq	sposNone(%rip), %rax
+	movq	-16(%rbp), %rcx
+	movq	-8(%rbp), %rdx
+	movq	%rcx, %r8
+	movq	%rdx, %rcx
+	movl	$2, %edx
+	movq	%rax, %rsi
+	movl	$64, %edi
+	movl	$0, %eax
+	call	abNew@PLT
+	.loc 1 25 81
+	leave
+	.cfi_def_cfa 7, 8
+	ret
+	.cfi_endproc
+.LFE2:
+	.size	sequence2, .-sequence2
+	.globl	comma0
+	.type	comma0, @function
+comma0:
+.LFB3:
+	.loc 1 26 16
+	.cfi_startproc
+	pushq	%rbp
+	.cfi_def_cfa_offset 16
+	.cfi_offset 6, -16
+	movq	%rsp, %rbp
+	.cfi_def_cfa_register 6
+	.loc 1 26 25
+	movq	sposNone(%rip), %rax
+	movl	$0, %edx
+	movq	%rax, %rsi
+	movl	$16, %edi
+	movl	$0, %eax
+	call	abNew@PLT
+	.loc 1 26 55
+	popq	%rbp
+	.cfi_def_cfa 7, 8
+	ret
+	.cfi_endproc
+.LFE3:
+	.size	comma0, .-comma0
+	.globl	comma1
+	.type	comma1, @function
+comma1:
+.LFB4:
+	.loc 1 27 23
+	.cfi_startproc
+	pushq	%rbp
+	.cfi_def_cfa_offset 16
+	.cfi_offset 6, -16
+	movq	%rsp, %rbp
+	.cfi_def_cfa_register 6
+	subq	$16, %rsp
+	movq	%rdi, -8(%rbp)
+	.loc 1 27 32
+	movq	sposNone(%rip), %rax
+	movq	-8(%rbp), %rdx
+	movq	%rdx, %rcx
+	movl	$1, %edx
+	movq	%rax, %rsi
+	movl	$16, %edi
+	movl	$0, %eax
+	call	abNew@PLT
+	.loc 1 27 64
+	leave
+	.cfi_def_cfa 7, 8
+	ret
+	.cfi_endproc
+.LFE4:
+	.size	comma1, .-comma1
+	.globl	comma2
+	.type	comma2, @function
+comma2:
+.LFB5:
+	.loc 1 28 32
+	.cfi_startproc
+	pushq	%rbp
+	.cfi_def_cfa_offset 16
+	.cfi_offset 6, -16
+	movq	%rsp, %rbp
+	.cfi_def_cfa_register 6
+	subq	$16, %rsp
+	movq	%rdi, -8(%rbp)
+	movq	%rsi, -16(%rbp)
+	.loc 1 28 41
+	movq	sposNone(%rip), %rax
+	movq	-16(%rbp), %rcx
+	movq	-8(%rbp), %rdx
+	movq	%rcx, %r8
+	movq	%rdx, %rcx
+	movl	$2, %edx
+	movq	%rax, %rsi
+	movl	$16, %edi
+	movl	$0, %eax
+	call	abNew@PLT
+	.loc 1 28 75
+	leave
+	.cfi_def_cfa 7, 8
+	ret
+	.cfi_endproc
+.LFE5:
+	.size	comma2, .-comma2
+	.globl	nothing
+	.type	nothing, @function
+nothing:
+.LFB6:
+	.loc 1 29 17
+	.cfi_startproc
+	pushq	%rbp
+	.cfi_def_cfa_offset 16
+	.cfi_offset 6, -16
+	movq	%rsp, %rbp
+	.cfi_def_cfa_register 6
+	.loc 1 29 26
+	movq	sposNone(%rip), %rax
+	movl	$0, %edx
+	movq	%rax, %rsi
+	movl	$51, %edi
+	movl	$0, %eax
+	call	abNew@PLT
+	.loc 1 29 58
+	popq	%rbp
+	.cfi_def_cfa 7, 8
+	ret
+	.cfi_endproc
+.LFE6:
+	.size	nothing, .-nothing
+	.globl	define
+	.type	define, @function
+define:
+.LFB7:
+	.loc 1 30 32
+	.cfi_startproc
+	pushq	%rbp
+	.cfi_def_cfa_offset 16
+	.cfi_offset 6, -16
+	movq	%rsp, %rbp
+	.cfi_def_cfa_register 6
+	subq	$16, %rsp
+	movq	%rdi, -8(%rbp)
+	movq	%rsi, -16(%rbp)
+	.loc 1 30 41
+	movq	sposNone(%rip), %rax
+	movq	-16(%rbp), %rcx
+	movq	-8(%rbp), %rdx
+	movq	%rcx, %r8
+	movq	%rdx, %rcx
+	movl	$2, %edx
+	movq	%rax, %rsi
+	movl	$19, %edi
+	movl	$0, %eax
+	call	abNew@PLT
+	.loc 1 30 76
+	leave
+	.cfi_def_cfa 7, 8
+	ret
+	.cfi_endproc
+.LFE7:
+	.size	define, .-define
+	.globl	declare
+	.type	declare, @function
+declare:
+.LFB8:
+	.loc 1 31 33
+	.cfi_startproc
+	pushq	%rbp
+	.cfi_def_cfa_offset 16
+	.cfi_offset 6, -16
+	movq	%rsp, %rbp
+	.cfi_def_cfa_register 6
+	subq	$16, %rsp
+	movq	%rdi, -8(%rbp)
+	movq	%rsi, -16(%rbp)
+	.loc 1 31 42
+	movq	sposNone(%rip), %rax
+	movq	-16(%rbp), %rcx
+	movq	-8(%rbp), %rdx
+	movq	%rcx, %r8
+	movq	%rdx, %rcx
+	movl	$2, %edx
+	movq	%rax, %rsi
+	movl	$17, %edi
+	movl	$0, %eax
+	call	abNew@PLT
+	.loc 1 31 78
+	leave
+	.cfi_def_cfa 7, 8
+	ret
+	.cfi_endproc
+.LFE8:
+	.size	declare, .-declare
+	.globl	with
+	.type	with, @function
+with:
+.LFB9:
+	.loc 1 32 30
+	.cfi_startproc
+	pushq	%rbp
+	.cfi_def_cfa_offset 16
+	.cfi_offset 6, -16
+	movq	%rsp, %rbp
+	.cfi_def_cfa_register 6
+	subq	$16, %rsp
+	movq	%rdi, -8(%rbp)
+	movq	%rsi, -16(%rbp)
+	.loc 1 32 39
+	movq	sposNone(%rip), %rax
+	movq	-16(%rbp), %rcx
+	movq	-8(%rbp), %rdx
+	movq	%rcx, %r8
+	movq	%rdx, %rcx
+	movl	$2, %edx
+	movq	%rax, %rsi
+	movl	$70, %edi
+	movl	$0, %eax
+	call	abNew@PLT
+	.loc 1 32 72
+	leave
+	.cfi_def_cfa 7, 8
+	ret
+	.cfi_endproc
+.LFE9:
+	.size	with, .-with
+	.globl	add
+	.type	add, @function
+add:
+.LFB10:
+	.loc 1 33 29
+	.cfi_startproc
+	pushq	%rbp
+	.cfi_def_cfa_offset 16
+	.cfi_offset 6, -16
+	movq	%rsp, %rbp
+	.cfi_def_cfa_register 6
+	subq	$16, %rsp
+	movq	%rdi, -8(%rbp)
+	movq	%rsi, -16(%rbp)
+	.loc 1 33 38
+	movq	sposNone(%rip), %rax
+	movq	-16(%rbp), %rcx
+	movq	-8(%rbp), %rdx
+	movq	%rcx, %r8
+	movq	%rdx, %rcx
+	movl	$2, %edx
+	movq	%rax, %rsi
+	movl	$7, %edi
+	movl	$0, %eax
+	call	abNew@PLT
+	.loc 1 33 70
+	leave
+	.cfi_def_cfa 7, 8
+	ret
+	.cfi_endproc
+.LFE10:
+	.size	add, .-add
+	.globl	label
+	.type	label, @function
+label:
+.LFB11:
+	.loc 1 34 31
+	.cfi_startproc
+	pushq	%rbp
+	.cfi_def_cfa_offset 16
+	.cfi_offset 6, -16
+	movq	%rsp, %rbp
+	.cfi_def_cfa_register 6
+	subq	$16, %rsp
+	movq	%rdi, -8(%rbp)
+	movq	%rsi, -16(%rbp)
+	.loc 1 34 40
+	movq	sposNone(%rip), %rax
+	movq	-16(%rbp), %rcx
+	movq	-8(%rbp), %rdx
+	movq	%rcx, %r8
+	movq	%rdx, %rcx
+	movl	$2, %edx
+	movq	%rax, %rsi
+	movl	$42, %edi
+	movl	$0, %eax
+	call	abNew@PLT
+	.loc 1 34 74
+	leave
+	.cfi_def_cfa 7, 8
+	ret
+	.cfi_endproc
+.LFE11:
+	.size	label, .-label
+	.globl	has
+	.type	has, @function
+has:
+.LFB12:
+	.loc 1 35 29
+	.cfi_startproc
+	pushq	%rbp
+	.cfi_def_cfa_offset 16
+	.cfi_offset 6, -16
+	movq	%rsp, %rbp
+	.cfi_def_cfa_register 6
+	subq	$16, %rsp
+	movq	%rdi, -8(%rbp)
+	movq	%rsi, -16(%rbp)
+	.loc 1 35 38
+	movq	sposNone(%rip), %rax
+	movq	-16(%rbp), %rcx
+	movq	-8(%rbp), %rdx
+	movq	%rcx, %r8
+	movq	%rdx, %rcx
+	movl	$2, %edx
+	movq	%rax, %rsi
+	movl	$36, %edi
+	movl	$0, %eax
+	call	abNew@PLT
+	.loc 1 35 70
+	leave
+	.cfi_def_cfa 7, 8
+	ret
+	.cfi_endproc
+.LFE12:
+	.size	has, .-has
+	.globl	apply1
+	.type	apply1, @function
+apply1:
+.LFB13:
+	.loc 1 36 32
+	.cfi_startproc
+	pushq	%rbp
+	.cfi_def_cfa_offset 16
+	.cfi_offset 6, -16
+	movq	%rsp, %rbp
+	.cfi_def_cfa_register 6
+	subq	$16, %rsp
+	movq	%rdi, -8(%rbp)
+	movq	%rsi, -16(%rbp)
+	.loc 1 36 41
+	movq	sposNone(%rip), %rax
+	movq	-16(%rbp), %rcx
+	movq	-8(%rbp), %rdx
+	movq	%rcx, %r8
+	movq	%rdx, %rcx
+	movl	$2, %edx
+	movq	%rax, %rsi
+	movl	$9, %edi
+	movl	$0, %eax
+	call	abNew@PLT
+	.loc 1 36 75
+	leave
+	.cfi_def_cfa 7, 8
+	ret
+	.cfi_endproc
+.LFE13:
+	.size	apply1, .-apply1
+	.globl	apply2
+	.type	apply2, @function
+apply2:
+.LFB14:
+	.loc 1 37 41
+	.cfi_startproc
+	pushq	%rbp
+	.cfi_def_cfa_offset 16
+	.cfi_offset 6, -16
+	movq	%rsp, %rbp
+	.cfi_def_cfa_register 6
+	subq	$32, %rsp
+	movq	%rdi, -8(%rbp)
+	movq	%rsi, -16(%rbp)
+	movq	%rdx, -24(%rbp)
+	.loc 1 37 50
+	movq	sposNone(%rip), %rax
+	movq	-24(%rbp), %rsi
+	movq	-16(%rbp), %rcx
+	movq	-8(%rbp), %rdx
+	movq	%rsi, %r9
+	movq	%rcx, %r8
+	movq	%rdx, %rcx
+	movl	$3, %edx
+	movq	%rax, %rsi
+	movl	$9, %edi
+	movl	$0, %eax
+	call	abNew@PLT
+	.loc 1 37 86
+	leave
+	.cfi_def_cfa 7, 8
+	ret
+	.cfi_endproc
+.LFE14:
+	.size	apply2, .-apply2
+	.globl	lambda
+	.type	lambda, @function
+lambda:
+.LFB15:
+	.loc 1 38 41
+	.cfi_startproc
+	pushq	%rbp
+	.cfi_def_cfa_offset 16
+	.cfi_offset 6, -16
+	movq	%rsp, %rbp
+	.cfi_def_cfa_register 6
+	subq	$32, %rsp
+	movq	%rdi, -8(%rbp)
+	movq	%rsi, -16(%rbp)
+	movq	%rdx, -24(%rbp)
+	.loc 1 38 50
+	movq	sposNone(%rip), %rax
+	movq	-24(%rbp), %rsi
+	movq	-16(%rbp), %rcx
+	movq	-8(%rbp), %rdx
+	movq	%rsi, %r9
+	movq	%rcx, %r8
+	movq	%rdx, %rcx
+	movl	$3, %edx
+	movq	%rax, %rsi
+	movl	$43, %edi
+	movl	$0, %eax
+	call	abNew@PLT
+	.loc 1 38 87
+	leave
+	.cfi_def_cfa 7, 8
+	ret
+	.cfi_endproc
+.LFE15:
+	.size	lambda, .-lambda
+	.globl	_if0
+	.type	_if0, @function
+_if0:
+.LFB16:
+	.loc 1 39 39
+	.cfi_startproc
+	pushq	%rbp
+	.cfi_def_cfa_offset 16
+	.cfi_offset 6, -16
+	movq	%rsp, %rbp
+	.cfi_def_cfa_register 6
+	subq	$32, %rsp
+	movq	%rdi, -8(%rbp)
+	movq	%rsi, -16(%rbp)
+	movq	%rdx, -24(%rbp)
+	.loc 1 39 48
+	movq	sposNone(%rip), %rax
+	movq	-24(%rbp), %rsi
+	movq	-16(%rbp), %rcx
+	movq	-8(%rbp), %rdx
+	movq	%rsi, %r9
+	movq	%rcx, %r8
+	movq	%rdx, %rcx
+	movl	$3, %edx
+	movq	%rax, %rsi
+	movl	$38, %edi
+	movl	$0, %eax
+	call	abNew@PLT
+	.loc 1 39 81
+	leave
+	.cfi_def_cfa 7, 8
+	ret
+	.cfi_endproc
+.LFE16:
+	.size	_if0, .-_if0
+	.globl	import
+	.type	import, @function
+import:
+.LFB17:
+	.loc 1 40 32
+	.cfi_startproc
+	pushq	%rbp
+	.cfi_def_cfa_offset 16
+	.cfi_offset 6, -16
+	movq	%rsp, %rbp
+	.cfi_def_cfa_register 6
+	subq	$16, %rsp
+	movq	%rdi, -8(%rbp)
+	movq	%rsi, -16(%rbp)
+	.loc 1 40 41
+	movq	sposNone(%rip), %rax
+	movq	-16(%rbp), %rcx
+	movq	-8(%rbp), %rdx
+	movq	%rcx, %r8
+	movq	%rdx, %rcx
+	movl	$2, %edx
+	movq	%rax, %rsi
+	movl	$39, %edi
+	movl	$0, %eax
+	call	abNew@PLT
+	.loc 1 40 76
+	leave
+	.cfi_def_cfa 7, 8
+	ret
+	.cfi_endproc
+.LFE17:
+	.size	import, .-import
+	.globl	qualify
+	.type	qualify, @function
+qualify:
+.LFB18:
+	.loc 1 41 33
+	.cfi_startproc
+	pushq	%rbp
+	.cfi_def_cfa_offset 16
+	.cfi_offset 6, -16
+	movq	%rsp, %rbp
+	.cfi_def_cfa_register 6
+	subq	$16, %rsp
+	movq	%rdi, -8(%rbp)
+	movq	%rsi, -16(%rbp)
+	.loc 1 41 42
+	movq	sposNone(%rip), %rax
+	movq	-16(%rbp), %rcx
+	movq	-8(%rbp), %rdx
+	movq	%rcx, %r8
+	movq	%rdx, %rcx
+	movl	$2, %edx
+	movq	%rax, %rsi
+	movl	$56, %edi
+	movl	$0, %eax
+	call	abNew@PLT
+	.loc 1 41 78
+	leave
+	.cfi_def_cfa 7, 8
+	ret
+	.cfi_endproc
+.LFE18:
+	.size	qualify, .-qualify
+	.globl	pretend
+	.type	pretend, @function
+pretend:
+.LFB19:
+	.loc 1 42 33
+	.cfi_startproc
+	pushq	%rbp
+	.cfi_def_cfa_offset 16
+	.cfi_offset 6, -16
+	movq	%rsp, %rbp
+	.cfi_def_cfa_register 6
+	subq	$16, %rsp
+	movq	%rdi, -8(%rbp)
+	movq	%rsi, -16(%rbp)
+	.loc 1 42 42
+	movq	sposNone(%rip), %rax
+	movq	-16(%rbp), %rcx
+	movq	-8(%rbp), %rdx
+	movq	%rcx, %r8
+	movq	%rdx, %rcx
+	movl	$2, %edx
+	movq	%rax, %rsi
+	movl	$55, %edi
+	movl	$0, %eax
+	call	abNew@PLT
+	.loc 1 42 80
+	leave
+	.cfi_def_cfa 7, 8
+	ret
+	.cfi_endproc
+.LFE19:
+	.size	pretend, .-pretend
+	.globl	restrictTo
+	.type	restrictTo, @function
+restrictTo:
+.LFB20:
+	.loc 1 43 36
+	.cfi_startproc
+	pushq	%rbp
+	.cfi_def_cfa_offset 16
+	.cfi_offset 6, -16
+	movq	%rsp, %rbp
+	.cfi_def_cfa_register 6
+	subq	$16, %rsp
+	movq	%rdi, -8(%rbp)
+	movq	%rsi, -16(%rbp)
+	.loc 1 43 45
+	movq	sposNone(%rip), %rax
+	movq	-16(%rbp), %rcx
+	movq	-8(%rbp), %rdx
+	movq	%rcx, %r8
+	movq	%rdx, %rcx
+	movl	$2, %edx
+	movq	%rax, %rsi
+	movl	$61, %edi
+	movl	$0, %eax
+	call	abNew@PLT
+	.loc 1 43 84
+	leave
+	.cfi_def_cfa 7, 8
+	ret
+	.cfi_endproc
+.LFE20:
+	.size	restrictTo, .-restrictTo
+	.globl	test
+	.type	test, @function
+test:
+.LFB21:
+	.loc 1 44 21
+	.cfi_startproc
+	pushq	%rbp
+	.cfi_def_cfa_offset 16
+	.cfi_offset 6, -16
+	movq	%rsp, %rbp
+	.cfi_def_cfa_register 6
+	subq	$16, %rsp
+	movq	%rdi, -8(%rbp)
+	.loc 1 44 30
+	movq	sposNone(%rip), %rax
+	movq	-8(%rbp), %rdx
+	movq	%rdx, %rcx
+	movl	$1, %edx
+	movq	%rax, %rsi
+	movl	$65, %edi
+	movl	$0, %eax
+	call	abNew@PLT
+	.loc 1 44 61
+	leave
+	.cfi_def_cfa 7, 8
+	ret
+	.cfi_endproc
+.LFE21:
+	.size	test, .-test
+	.globl	and
+	.type	and, @function
+and:
+.LFB22:
+	.loc 1 45 29
+	.cfi_startproc
+	pushq	%rbp
+	.cfi_def_cfa_offset 16
+	.cfi_offset 6, -16
+	movq	%rsp, %rbp
+	.cfi_def_cfa_register 6
+	subq	$16, %rsp
+	movq	%rdi, -8(%rbp)
+	movq	%rsi, -16(%rbp)
+	.loc 1 45 38
+	movq	sposNone(%rip), %rax
+	movq	-16(%rbp), %rcx
+	movq	-8(%rbp), %rdx
+	movq	%rcx, %r8
+	movq	%rdx, %rcx
+	movl	$2, %edx
+	movq	%rax, %rsi
+	movl	$8, %edi
+	movl	$0, %eax
+	call	abNew@PLT
+	.loc 1 45 70
+	leave
+	.cfi_def_cfa 7, 8
+	ret
+	.cfi_endproc
+.LFE22:
+	.size	and, .-and
+	.globl	id
+	.type	id, @function
+id:
+.LFB23:
+	.loc 1 47 22
+	.cfi_startproc
+	pushq	%rbp
+	.cfi_def_cfa_offset 16
+	.cfi_offset 6, -16
+	movq	%rsp, %rbp
+	.cfi_def_cfa_register 6
+	subq	$16, %rsp
+	movq	%rdi, -8(%rbp)
+	.loc 1 47 31
+	movq	-8(%rbp), %rax
+	movl	$3, %esi
+	movq	%rax, %rdi
+	call	symProbe@PLT
+	movq	%rax, %rdx
+	movq	sposNone(%rip), %rax
+	movq	%rdx, %rcx
+	movl	$1, %edx
+	movq	%rax, %rsi
+	movl	$0, %edi
+	movl	$0, %eax
+	call	abNew@PLT
+	.loc 1 47 79
+	leave
+	.cfi_def_cfa 7, 8
+	ret
+	.cfi_endproc
+.LFE23:
+	.size	id, .-id
+	.globl	_if
+	.type	_if, @function
+_if:
+.LFB24:
+	.loc 1 51 1
+	.cfi_startproc
+	pushq	%rbp
+	.cfi_def_cfa_offset 16
+	.cfi_offset 6, -16
+	movq	%rsp, %rbp
+	.cfi_def_cfa_register 6
+	subq	$32, %rsp
+	movq	%rdi, -8(%rbp)
+	movq	%rsi, -16(%rbp)
+	movq	%rdx, -24(%rbp)
+	.loc 1 52 9
+	movq	-8(%rbp), %rax
+	movq	%rax, %rdi
+	call	test
+	movq	%rax, %rcx
+	movq	-24(%rbp), %rdx
+	movq	-16(%rbp), %rax
+	movq	%rax, %rsi
+	movq	%rcx, %rdi
+	call	_if0
+	.loc 1 53 1
+	leave
+	.cfi_def_cfa 7, 8
+	ret
+	.cfi_endproc
+.LFE24:
+	.size	_if, .-_if
+	.globl	emptyAdd
+	.type	emptyAdd, @function
+emptyAdd:
+.LFB25:
+	.loc 1 57 1
+	.cfi_startproc
+	pushq	%rbp
+	.cfi_def_cfa_offset 16
+	.cfi_offset 6, -16
+	movq	%rsp, %rbp
+	.cfi_def_cfa_register 6
+	pushq	%rbx
+	subq	$8, %rsp
+	.cfi_offset 3, -24
+	.loc 1 58 9
+	call	nothing
+	movq	%rax, %rbx
+	call	nothing
+	movq	%rbx, %rsi
+	movq	%rax, %rdi
+	call	add
+	.loc 1 59 1
+	movq	-8(%rbp), %rbx
+	leave
+	.cfi_def_cfa 7, 8
+	ret
+	.cfi_endproc
+.LFE25:
+	.size	emptyAdd, .-emptyAdd
+	.globl	emptyWith
+	.type	emptyWith, @function
+emptyWith:
+.LFB26:
+	.loc 1 62 1
+	.cfi_startproc
+	pushq	%rbp
+	.cfi_def_cfa_offset 16
+	.cfi_offset 6, -16
+	movq	%rsp, %rbp
+	.cfi_def_cfa_register 6
+	pushq	%rbx
+	subq	$8, %rsp
+	.cfi_offset 3, -24
+	.loc 1 63 9
+	call	nothing
+	movq	%rax, %rbx
+	call	nothing
+	movq	%rbx, %rsi
+	movq	%rax, %rdi
+	call	with
+	.loc 1 64 1
+	movq	-8(%rbp), %rbx
+	leave
+	.cfi_def_cfa 7, 8
+	ret
+	.cfi_endproc
+.LFE26:
+	.size	emptyWith, .-emptyWith
+	.section	.rodata
+.LC0:
+	.string	"Type"
+	.text
+	.globl	typeDecl
+	.type	typeDecl, @function
+typeDecl:
+.LFB27:
+	.loc 1 67 1
+	.cfi_startproc
+	pushq	%rbp
+	.cfi_def_cfa_offset 16
+	.cfi_offset 6, -16
+	movq	%rsp, %rbp
+	.cfi_def_cfa_register 6
+	pushq	%rbx
+	subq	$24, %rsp
+	.cfi_offset 3, -24
+	movq	%rdi, -24(%rbp)
+	.loc 1 68 9
+	leaq	.LC0(%rip), %rax
+	movq	%rax, %rdi
+	call	id
+	movq	%rax, %rbx
+	movq	-24(%rbp), %rax
+	movq	%rax, %rdi
+	call	id
+	movq	%rbx, %rsi
+	movq	%rax, %rdi
+	call	declare
+	.loc 1 69 1
+	movq	-8(%rbp), %rbx
+	leave
+	.cfi_def_cfa 7, 8
+	ret
+	.cfi_endproc
+.LFE27:
+	.size	typeDecl, .-typeDecl
+	.section	.rodata
+.LC1:
+	.string	"->"
+	.text
+	.globl	defineUnary
+	.type	defineUnary, @function
+defineUnary:
+.LFB28:
+	.loc 1 73 1
+	.cfi_startproc
+	pushq	%rbp
+	.cfi_def_cfa_offset 16
+	.cfi_offset 6, -16
+	movq	%rsp, %rbp
+	.cfi_def_cfa_register 6
+	pushq	%r12
+	pushq	%rbx
+	subq	$48, %rsp
+	.cfi_offset 12, -24
+	.cfi_offset 3, -32
+	movq	%rdi, -40(%rbp)
+	movq	%rsi, -48(%rbp)
+	movq	%rdx, -56(%rbp)
+	movq	%rcx, -64(%rbp)
+	.loc 1 74 20
+	movq	-40(%rbp), %rax
+	movq	%rax, %rdi
+	call	id
+	movq	%rax, %rdx
+	movq	-64(%rbp), %rax
+	movq	%rax, %rsi
+	movq	%rdx, %rdi
+	call	label
+	movq	%rax, %r12
+	movq	-56(%rbp), %rax
+	movq	%rax, %rdi
+	call	abCopy@PLT
+	movq	%rax, %rbx
+	movq	-48(%rbp), %rax
+	movq	%rax, %rdi
+	call	abCopy@PLT
+	movq	%rax, %rdi
+	call	comma1
+	movq	%r12, %rdx
+	movq	%rbx, %rsi
+	movq	%rax, %rdi
+	call	lambda
+	movq	%rax, -24(%rbp)
+	.loc 1 77 20
+	movq	-56(%rbp), %rax
+	movq	%rax, %rdi
+	call	abCopy@PLT
+	movq	%rax, %r12
+	movq	-48(%rbp), %rax
+	movq	%rax, %rdi
+	call	abCopy@PLT
+	movq	%rax, %rbx
+	leaq	.LC1(%rip), %rax
+	movq	%rax, %rdi
+	call	id
+	movq	%r12, %rdx
+	movq	%rbx, %rsi
+	movq	%rax, %rdi
+	call	apply2
+	movq	%rax, %rbx
+	movq	-40(%rbp), %rax
+	movq	%rax, %rdi
+	call	id
+	movq	%rbx, %rsi
+	movq	%rax, %rdi
+	call	declare
+	movq	%rax, %rdx
+	movq	-24(%rbp), %rax
+	movq	%rax, %rsi
+	movq	%rdx, %rdi
+	call	define
+	movq	%rax, -32(%rbp)
+	.loc 1 82 2
+	movq	-56(%rbp), %rax
+	movq	%rax, %rdi
+	call	abFree@PLT
+	.loc 1 83 2
+	movq	-48(%rbp), %rax
+	movq	%rax, %rdi
+	call	abFree@PLT
+	.loc 1 85 9
+	movq	-32(%rbp), %rax
+	.loc 1 86 1
+	addq	$48, %rsp
+	popq	%rbx
+	popq	%r12
+	popq	%rbp
+	.cfi_def_cfa 7, 8
+	ret
+	.cfi_endproc
+.LFE28:
+	.size	defineUnary, .-defineUnary
+	.globl	abqParse
+	.type	abqParse, @function
+abqParse:
+.LFB29:
+	.loc 1 91 1
+	.cfi_startproc
+	pushq	%rbp
+	.cfi_def_cfa_offset 16
+	.cfi_offset 6, -16
+	movq	%rsp, %rbp
+	.cfi_def_cfa_register 6
+	subq	$32, %rsp
+	movq	%rdi, -24(%rbp)
+	.loc 1 92 20
+	movq	sposNone(%rip), %rax
+	movq	-24(%rbp), %rdx
+	movl	$0, %esi
+	movq	%rax, %rdi
+	call	slineNew@PLT
+	movq	%rax, -8(%rbp)
+	.loc 1 94 46
+	movq	SrcLine_listPointer(%rip), %rax
+	movq	16(%rax), %rdx
+	.loc 1 94 9
+	movq	-8(%rbp), %rax
+	movq	%rax, %rsi
+	movl	$1, %edi
+	movl	$0, %eax
+	call	*%rdx
+.LVL0:
+	movq	%rax, %rdi
+	call	abqParseSrcLines
+	.loc 1 95 1
+	leave
+	.cfi_def_cfa 7, 8
+	ret
+	.cfi_endproc
+.LFE29:
+	.size	abqParse, .-abqParse
+	.type	abqParseSrcLines, @function
+abqParseSrcLines:
+.LFB30:
+	.loc 1 99 1
+	.cfi_startproc
+	pushq	%rbp
+	.cfi_def_cfa_offset 16
+	.cfi_offset 6, -16
+	movq	%rsp, %rbp
+	.cfi_def_cfa_register 6
+	subq	$32, %rsp
+	movq	%rdi, -24(%rbp)
+	.loc 1 103 7
+	movq	-24(%rbp), %rax
+	movq	%rax, %rdi
+	call	scan@PLT
+	.loc 1 103 5
+	movq	%rax, -16(%rbp)
+	.loc 1 104 7
+	movq	-16(%rbp), %rax
+	movq	%rax, %rdi
+	call	linearize@PLT
+	.loc 1 104 5
+	movq	%rax, -16(%rbp)
+	.loc 1 105 7
+	leaq	-16(%rbp), %rax
+	movq	%rax, %rdi
+	call	parse@PLT
+	movq	%rax, -8(%rbp)
+	.loc 1 106 7
+	movq	-8(%rbp), %rax
+	movl	$0, %esi
+	movq	%rax, %rdi
+	call	abNormal@PLT
+	movq	%rax, -8(%rbp)
+	.loc 1 107 7
+	movq	-8(%rbp), %rax
+	movq	%rax, %rdi
+	call	macroExpand@PLT
+	movq	%rax, -8(%rbp)
+	.loc 1 108 7
+	movq	-8(%rbp), %rax
+	movl	$1, %esi
+	movq	%rax, %rdi
+	call	abNormal@PLT
+	movq	%rax, -8(%rbp)
+	.loc 1 110 9
+	movq	-8(%rbp), %rax
+	.loc 1 111 1
+	leave
+	.cfi_def_cfa 7, 8
+	ret
+	.cfi_endproc
+.LFE30:
+	.size	abqParseSrcLines, .-abqParseSrcLines
+	.section	.rodata
+.LC2:
+	.string	"\n"
+	.text
+	.globl	abqParseLinesAsSeq
+	.type	abqParseLinesAsSeq, @function
+abqParseLinesAsSeq:
+.LFB31:
+	.loc 1 115 1
+	.cfi_startproc
+	pushq	%rbp
+	.cfi_def_cfa_offset 16
+	.cfi_offset 6, -16
+	movq	%rsp, %rbp
+	.cfi_def_cfa_register 6
+	subq	$64, %rsp
+	movq	%rdi, -56(%rbp)
+	.loc 1 116 14
+	movq	$0, -8(%rbp)
+	.loc 1 118 8
+	jmp	.L64
+.L67:
+.LBB2:
+	.loc 1 122 7
+	movl	$0, -12(%rbp)
+	.loc 1 123 9
+	movq	-56(%rbp), %rax
+	movq	(%rax), %rax
+	movq	%rax, -24(%rbp)
+	.loc 1 124 9
+	movq	-56(%rbp), %rax
+	movq	8(%rax), %rax
+	movq	%rax, -56(%rbp)
+	.loc 1 125 9
+	jmp	.L65
+.L66:
+	.loc 1 125 24 discriminator 2
+	addq	$1, -24(%rbp)
+	.loc 1 125 34 discriminator 2
+	addl	$1, -12(%rbp)
+.L65:
+	.loc 1 125 10 discriminator 1
+	movq	-24(%rbp), %rax
+	movzbl	(%rax), %eax
+	.loc 1 125 13 discriminator 1
+	cmpb	$32, %al
+	je	.L66
+	.loc 1 126 9
+	movq	-24(%rbp), %rax
+	leaq	.LC2(%rip), %rdx
+	movq	%rdx, %rsi
+	movq	%rax, %rdi
+	call	strConcat@PLT
+	movq	%rax, -32(%rbp)
+	.loc 1 127 10
+	movq	sposNone(%rip), %rax
+	movq	-32(%rbp), %rdx
+	movl	-12(%rbp), %ecx
+	movl	%ecx, %esi
+	movq	%rax, %rdi
+	call	slineNew@PLT
+	movq	%rax, -40(%rbp)
+	.loc 1 128 3
+	movq	-32(%rbp), %rax
+	movq	%rax, %rdi
+	call	strFree@PLT
+	.loc 1 129 29
+	movq	SrcLine_listPointer(%rip), %rax
+	movq	(%rax), %rcx
+	movq	-8(%rbp), %rdx
+	movq	-40(%rbp), %rax
+	movq	%rdx, %rsi
+	movq	%rax, %rdi
+	call	*%rcx
+.LVL1:
+	movq	%rax, -8(%rbp)
+.L64:
+.LBE2:
+	.loc 1 118 15
+	cmpq	$0, -56(%rbp)
+	jne	.L67
+	.loc 1 132 46
+	movq	SrcLine_listPointer(%rip), %rax
+	movq	216(%rax), %rdx
+	.loc 1 132 9
+	movq	-8(%rbp), %rax
+	movq	%rax, %rdi
+	call	*%rdx
+.LVL2:
+	movq	%rax, %rdi
+	call	abqParseSrcLines
+	.loc 1 133 1
+	leave
+	.cfi_def_cfa 7, 8
+	ret
+	.cfi_endproc
+.LFE31:
+	.size	abqParseLinesAsSeq, .-abqParseLinesAsSeq
+	.globl	abqParseLines
+	.type	abqParseLines, @function
+abqParseLines:
+.LFB32:
+	.loc 1 137 1
+	.cfi_startproc
+	pushq	%rbp
+	.cfi_def_cfa_offset 16
+	.cfi_offset 6, -16
+	movq	%rsp, %rbp
+	.cfi_def_cfa_register 6
+	pushq	%rbx
+	subq	$40, %rsp
+	.cfi_offset 3, -24
+	movq	%rdi, -40(%rbp)
+	.loc 1 138 12
+	movq	$0, -24(%rbp)
+	.loc 1 139 8
+	jmp	.L70
+.L71:
+	.loc 1 140 30
+	movq	AbSyn_listPointer(%rip), %rax
+	movq	(%rax), %rbx
+	movq	-40(%rbp), %rax
+	movq	(%rax), %rax
+	movq	%rax, %rdi
+	call	abqParse
+	movq	%rax, %rdx
+	movq	-24(%rbp), %rax
+	movq	%rax, %rsi
+	movq	%rdx, %rdi
+	call	*%rbx
+.LVL3:
+	movq	%rax, -24(%rbp)
+	.loc 1 141 30
+	movq	String_listPointer(%rip), %rax
+	movq	56(%rax), %rdx
+	movq	-40(%rbp), %rax
+	movq	%rax, %rdi
+	call	*%rdx
+.LVL4:
+	movq	%rax, -40(%rbp)
+.L70:
+	.loc 1 139 15
+	cmpq	$0, -40(%rbp)
+	jne	.L71
+	.loc 1 143 27
+	movq	AbSyn_listPointer(%rip), %rax
+	movq	216(%rax), %rdx
+	movq	-24(%rbp), %rax
+	movq	%rax, %rdi
+	call	*%rdx
+.LVL5:
+	.loc 1 144 1
+	movq	-8(%rbp), %rbx
+	leave
+	.cfi_def_cfa 7, 8
+	ret
+	.cfi_endproc
+.LFE32:
+	.size	abqParseLines, .-abqParseLines
+	.section	.rodata
+.LC3:
+	.string	"Type: with == add"
+.LC4:
+	.string	"Category: with == add"
+.LC5:
+	.string	"Tuple(T: Type): with == add"
+	.align 8
+.LC6:
+	.string	"Cross(T: Tuple Type): with == add"
+	.align 8
+.LC7:
+	.string	"Generator(T: Type): with == add"
+	.align 8
+.LC8:
+	.string	"(->)(A: Tuple Type, R: Tuple Type): with == add"
+.LC9:
+	.string	"Boolean: with == add"
+	.align 8
+.LC10:
+	.string	"Join(T: Tuple Category): Category == with"
+	.align 8
+.LC11:
+	.string	"Record(T: Tuple Type): with == add"
+	.align 8
+.LC12:
+	.string	"Union(T: Tuple Type): with == add"
+	.align 8
+.LC13:
+	.string	"Enumeration(T: Tuple Type): with == add"
+	.text
+	.globl	stdtypes
+	.type	stdtypes, @function
+stdtypes:
+.LFB33:
+	.loc 1 150 1
+	.cfi_startproc
+	pushq	%rbp
+	.cfi_def_cfa_offset 16
+	.cfi_offset 6, -16
+	movq	%rsp, %rbp
+	.cfi_def_cfa_register 6
+	subq	$112, %rsp
+	.loc 1 151 9
+	leaq	.LC3(%rip), %rax
+	movq	%rax, -8(%rbp)
+	.loc 1 152 9
+	leaq	.LC4(%rip), %rax
+	movq	%rax, -16(%rbp)
+	.loc 1 153 9
+	leaq	.LC5(%rip), %rax
+	movq	%rax, -24(%rbp)
+	.loc 1 154 9
+	leaq	.LC6(%rip), %rax
+	movq	%rax, -32(%rbp)
+	.loc 1 155 9
+	leaq	.LC7(%rip), %rax
+	movq	%rax, -40(%rbp)
+	.loc 1 156 9
+	leaq	.LC8(%rip), %rax
+	movq	%rax, -48(%rbp)
+	.loc 1 157 9
+	leaq	.LC9(%rip), %rax
+	movq	%rax, -56(%rbp)
+	.loc 1 158 9
+	leaq	.LC10(%rip), %rax
+	movq	%rax, -64(%rbp)
+	.loc 1 159 9
+	leaq	.LC11(%rip), %rax
+	movq	%rax, -72(%rbp)
+	.loc 1 160 9
+	leaq	.LC12(%rip), %rax
+	movq	%rax, -80(%rbp)
+	.loc 1 161 9
+	leaq	.LC13(%rip), %rax
+	movq	%rax, -88(%rbp)
+	.loc 1 163 40
+	movq	String_listPointer(%rip), %rax
+	movq	16(%rax), %r10
+	movq	-48(%rbp), %rdi
+	movq	-24(%rbp), %rsi
+	movq	-32(%rbp), %rcx
+	movq	-16(%rbp), %rdx
+	movq	-8(%rbp), %rax
+	pushq	-88(%rbp)
+	pushq	-80(%rbp)
+	pushq	-72(%rbp)
+	pushq	-40(%rbp)
+	pushq	-64(%rbp)
+	pushq	-56(%rbp)
+	movq	%rdi, %r9
+	movq	%rsi, %r8
+	movq	%rax, %rsi
+	movl	$11, %edi
+	movl	$0, %eax
+	call	*%r10
+.LVL6:
+	addq	$48, %rsp
+	movq	%rax, -96(%rbp)
+	.loc 1 167 19
+	movq	-96(%rbp), %rax
+	movq	%rax, %rdi
+	call	abqParseLines
+	movq	%rax, -104(%rbp)
+	.loc 1 168 16
+	movq	sposNone(%rip), %rax
+	movq	-104(%rbp), %rdx
+	movq	%rax, %rsi
+	movl	$64, %edi
+	call	abNewOfList@PLT
+	movq	%rax, -112(%rbp)
+	.loc 1 170 9
+	movq	-112(%rbp), %rax
+	.loc 1 171 1
+	leave
+	.cfi_def_cfa 7, 8
+	ret
+	.cfi_endproc
+.LFE33:
+	.size	stdtypes, .-stdtypes
+	.section	.rodata
+.LC14:
+	.string	"import from Boolean"
+.LC15:
+	.string	"Declare is sefo"
+.LC16:
+	.string	"Error Count"
+	.text
+	.globl	stdscope
+	.type	stdscope, @function
+stdscope:
+.LFB34:
+	.loc 1 175 1
+	.cfi_startproc
+	pushq	%rbp
+	.cfi_def_cfa_offset 16
+	.cfi_offset 6, -16
+	movq	%rsp, %rbp
+	.cfi_def_cfa_register 6
+	pushq	%r12
+	pushq	%rbx
+	subq	$48, %rsp
+	.cfi_offset 12, -24
+	.cfi_offset 3, -32
+	movq	%rdi, -56(%rbp)
+	.loc 1 176 9
+	leaq	.LC14(%rip), %rax
+	movq	%rax, -24(%rbp)
+	.loc 1 177 40
+	movq	String_listPointer(%rip), %rax
+	movq	16(%rax), %rdx
+	movq	-24(%rbp), %rax
+	movq	%rax, %rsi
+	movl	$1, %edi
+	movl	$0, %eax
+	call	*%rdx
+.LVL7:
+	movq	%rax, -32(%rbp)
+	.loc 1 178 67
+	movq	AbSyn_listPointer(%rip), %rax
+	movq	(%rax), %rbx
+	.loc 1 178 16
+	movq	-32(%rbp), %rax
+	movq	%rax, %rdi
+	call	abqParseLines
+	movq	%rax, %r12
+	movl	$0, %eax
+	call	stdtypes
+	movq	%r12, %rsi
+	movq	%rax, %rdi
+	call	*%rbx
+.LVL8:
+	movq	%rax, %rdx
+	movq	sposNone(%rip), %rax
+	movq	%rax, %rsi
+	movl	$64, %edi
+	call	abNewOfList@PLT
+	movq	%rax, -40(%rbp)
+	.loc 1 180 2
+	movq	-40(%rbp), %rax
+	movl	$7, %esi
+	movq	%rax, %rdi
+	call	abPutUse@PLT
+	.loc 1 181 2
+	movq	-40(%rbp), %rax
+	movq	%rax, %rdi
+	call	abPrintDb@PLT
+	.loc 1 182 2
+	movq	-40(%rbp), %rdx
+	movq	-56(%rbp), %rax
+	movq	%rdx, %rsi
+	movq	%rax, %rdi
+	call	scopeBind@PLT
+	.loc 1 183 2
+	movq	-40(%rbp), %rdx
+	movq	-56(%rbp), %rax
+	movq	%rdx, %rsi
+	movq	%rax, %rdi
+	call	typeInfer@PLT
+	.loc 1 185 46
+	movq	-40(%rbp), %rax
+	movzbl	2(%rax), %eax
+	.loc 1 185 2
+	cmpb	$2, %al
+	sete	%al
+	movzbl	%al, %eax
+	movl	%eax, %esi
+	leaq	.LC15(%rip), %rax
+	movq	%rax, %rdi
+	call	testTrue@PLT
+	.loc 1 186 2
+	call	comsgErrorCount@PLT
+	movl	%eax, %edx
+	movl	$0, %esi
+	leaq	.LC16(%rip), %rax
+	movq	%rax, %rdi
+	call	testIntEqual@PLT
+	.loc 1 187 1
+	nop
+	addq	$48, %rsp
+	popq	%rbx
+	popq	%r12
+	popq	%rbp
+	.cfi_def_cfa 7, 8
+	ret
+	.cfi_endproc
+.LFE34:
+	.size	stdscope, .-stdscope
+	.globl	tfqTypeForm
+	.type	tfqTypeForm, @function
+tfqTypeForm:
+.LFB35:
+	.loc 1 191 1
+	.cfi_startproc
+	pushq	%rbp
+	.cfi_def_cfa_offset 16
+	.cfi_offset 6, -16
+	movq	%rsp, %rbp
+	.cfi_def_cfa_register 6
+	subq	$32, %rsp
+	movq	%rdi, -24(%rbp)
+	movq	%rsi, -32(%rbp)
+	.loc 1 192 16
+	movq	-32(%rbp), %rax
+	movq	%rax, %rdi
+	call	abqParse
+	movq	%rax, -8(%rbp)
+	.loc 1 193 2
+	movq	-8(%rbp), %rax
+	movl	$7, %esi
+	movq	%rax, %rdi
+	call	abPutUse@PLT
+	.loc 1 194 2
+	movq	-8(%rbp), %rax
+	movq	%rax, %rdi
+	call	abPrintDb@PLT
+	.loc 1 195 2
+	movq	-8(%rbp), %rdx
+	movq	-24(%rbp), %rax
+	movq	%rdx, %rsi
+	movq	%rax, %rdi
+	call	scopeBind@PLT
+	.loc 1 196 2
+	movq	-8(%rbp), %rdx
+	movq	-24(%rbp), %rax
+	movq	%rdx, %rsi
+	movq	%rax, %rdi
+	call	typeInfer@PLT
+	.loc 1 198 46
+	movq	-8(%rbp), %rax
+	movzbl	2(%rax), %eax
+	.loc 1 198 2
+	cmpb	$2, %al
+	sete	%al
+	movzbl	%al, %eax
+	movl	%eax, %esi
+	leaq	.LC15(%rip), %rax
+	movq	%rax, %rdi
+	call	testTrue@PLT
+	.loc 1 199 2
+	call	comsgErrorCount@PLT
+	movl	%eax, %edx
+	movl	$0, %esi
+	leaq	.LC16(%rip), %rax
+	movq	%rax, %rdi
+	call	testIntEqual@PLT
+	.loc 1 201 9
+	movq	-8(%rbp), %rdx
+	movq	-24(%rbp), %rax
+	movq	%rdx, %rsi
+	movq	%rax, %rdi
+	call	tiGetTForm@PLT
+	.loc 1 202 1
+	leave
+	.cfi_def_cfa 7, 8
+	ret
+	.cfi_endproc
+.LFE35:
+	.size	tfqTypeForm, .-tfqTypeForm
+	.globl	tfqTypeInfer
+	.type	tfqTypeInfer, @function
+tfqTypeInfer:
+.LFB36:
+	.loc 1 206 1
+	.cfi_startproc
+	pushq	%rbp
+	.cfi_def_cfa_offset 16
+	.cfi_offset 6, -16
+	movq	%rsp, %rbp
+	.cfi_def_cfa_register 6
+	subq	$32, %rsp
+	movq	%rdi, -24(%rbp)
+	movq	%rsi, -32(%rbp)
+	.loc 1 207 16
+	call	comsgErrorCount@PLT
+	movl	%eax, -4(%rbp)
+	.loc 1 208 16
+	movq	-32(%rbp), %rax
+	movq	%rax, %rdi
+	call	abqParse
+	movq	%rax, -16(%rbp)
+	.loc 1 209 2
+	movq	-16(%rbp), %rax
+	movl	$7, %esi
+	movq	%rax, %rdi
+	call	abPutUse@PLT
+	.loc 1 211 2
+	movq	-16(%rbp), %rdx
+	movq	-24(%rbp), %rax
+	movq	%rdx, %rsi
+	movq	%rax, %rdi
+	call	scopeBind@PLT
+	.loc 1 212 2
+	movq	-16(%rbp), %rdx
+	movq	-24(%rbp), %rax
+	movq	%rdx, %rsi
+	movq	%rax, %rdi
+	call	typeInfer@PLT
+	.loc 1 214 46
+	movq	-16(%rbp), %rax
+	movzbl	2(%rax), %eax
+	.loc 1 214 2
+	cmpb	$2, %al
+	sete	%al
+	movzbl	%al, %eax
+	movl	%eax, %esi
+	leaq	.LC15(%rip), %rax
+	movq	%rax, %rdi
+	call	testTrue@PLT
+	.loc 1 215 2
+	call	comsgErrorCount@PLT
+	movl	%eax, %edx
+	movl	-4(%rbp), %eax
+	movl	%eax, %esi
+	leaq	.LC16(%rip), %rax
+	movq	%rax, %rdi
+	call	testIntEqual@PLT
+	.loc 1 217 9
+	movq	-16(%rbp), %rax
+	.loc 1 218 1
+	leave
+	.cfi_def_cfa 7, 8
+	ret
+	.cfi_endproc
+.LFE36:
+	.size	tfqTypeInfer, .-tfqTypeInfer
+	.section	.rodata
+.LC17:
+	.string	"Error produced"
+	.text
+	.globl	tfqTypeInferFails
+	.type	tfqTypeInferFails, @function
+tfqTypeInferFails:
+.LFB37:
+	.loc 1 222 1
+	.cfi_startproc
+	pushq	%rbp
+	.cfi_def_cfa_offset 16
+	.cfi_offset 6, -16
+	movq	%rsp, %rbp
+	.cfi_def_cfa_register 6
+	subq	$32, %rsp
+	movq	%rdi, -24(%rbp)
+	movq	%rsi, -32(%rbp)
+	.loc 1 223 16
+	movq	-32(%rbp), %rax
+	movq	%rax, %rdi
+	call	abqParse
+	movq	%rax, -8(%rbp)
+	.loc 1 224 16
+	call	comsgErrorCount@PLT
+	movl	%eax, -12(%rbp)
+	.loc 1 225 2
+	movq	-8(%rbp), %rax
+	movl	$7, %esi
+	movq	%rax, %rdi
+	call	abPutUse@PLT
+	.loc 1 227 2
+	movq	-8(%rbp), %rdx
+	movq	-24(%rbp), %rax
+	movq	%rdx, %rsi
+	movq	%rax, %rdi
+	call	scopeBind@PLT
+	.loc 1 228 2
+	movq	-8(%rbp), %rdx
+	movq	-24(%rbp), %rax
+	movq	%rdx, %rsi
+	movq	%rax, %rdi
+	call	typeInfer@PLT
+	.loc 1 230 29
+	call	comsgErrorCount@PLT
+	.loc 1 230 2
+	cmpl	%eax, -12(%rbp)
+	setl	%al
+	movzbl	%al, %eax
+	movl	%eax, %esi
+	leaq	.LC17(%rip), %rax
+	movq	%rax, %rdi
+	call	testTrue@PLT
+	.loc 1 231 1
+	nop
+	leave
+	.cfi_def_cfa 7, 8
+	ret
+	.cfi_endproc
+.LFE37:
+	.size	tfqTypeInferFails, .-tfqTypeInferFails
+	.section	.rodata
+.LC18:
+	.string	""
+	.text
+	.globl	uniqueMeaning
+	.type	uniqueMeaning, @function
+uniqueMeaning:
+.LFB38:
+	.loc 1 235 1
+	.cfi_startproc
+	pushq	%rbp
+	.cfi_def_cfa_offset 16
+	.cfi_offset 6, -16
+	movq	%rsp, %rbp
+	.cfi_def_cfa_register 6
+	pushq	%rbx
+	subq	$40, %rsp
+	.cfi_offset 3, -24
+	movq	%rdi, -40(%rbp)
+	movq	%rsi, -48(%rbp)
+	.loc 1 236 28
+	movq	-48(%rbp), %rax
+	movl	$3, %esi
+	movq	%rax, %rdi
+	call	symProbe@PLT
+	movq	%rax, %rbx
+	call	ablogTrue@PLT
+	movq	%rax, %rcx
+	movq	-40(%rbp), %rax
+	movq	%rbx, %rdx
+	movq	%rcx, %rsi
+	movq	%rax, %rdi
+	call	stabGetMeanings@PLT
+	movq	%rax, -24(%rbp)
+	.loc 1 239 34
+	movq	-24(%rbp), %rax
+	movq	8(%rax), %rax
+	.loc 1 239 2
+	movq	%rax, %rsi
+	leaq	.LC18(%rip), %rax
+	movq	%rax, %rdi
+	call	testIsNull@PLT
+	.loc 1 241 4
+	movq	-24(%rbp), %rax
+	movq	(%rax), %rax
+	movq	%rax, -32(%rbp)
+	.loc 1 243 9
+	movq	-32(%rbp), %rax
+	.loc 1 244 1
+	movq	-8(%rbp), %rbx
+	leave
+	.cfi_def_cfa 7, 8
+	ret
+	.cfi_endproc
+.LFE38:
+	.size	uniqueMeaning, .-uniqueMeaning
+	.globl	sefo
+	.type	sefo, @function
+sefo:
+.LFB39:
+	.loc 1 248 1
+	.cfi_startproc
+	pushq	%rbp
+	.cfi_def_cfa_offset 16
+	.cfi_offset 6, -16
+	movq	%rsp, %rbp
+	.cfi_def_cfa_register 6
+	subq	$16, %rsp
+	movq	%rdi, -8(%rbp)
+	.loc 1 249 2
+	call	stabFile@PLT
+	movq	%rax, %rdx
+	movq	-8(%rbp), %rax
+	movq	%rax, %rsi
+	movq	%rdx, %rdi
+	call	tiSefo@PLT
+	.loc 1 250 9
+	movq	-8(%rbp), %rax
+	.loc 1 251 1
+	leave
+	.cfi_def_cfa 7, 8
+	ret
+	.cfi_endproc
+.LFE39:
+	.size	sefo, .-sefo
+.Letext0:
+	.file 2 "/usr/include/x86_64-linux-gnu/bits/types.h"
+	.file 3 "<built-in>"
+	.file 4 "/usr/lib/gcc/x86_64-linux-gnu/12/include/stddef.h"
+	.file 5 "/usr/include/x86_64-linux-gnu/bits/types/struct_FILE.h"
+	.file 6 "/usr/include/x86_64-linux-gnu/bits/types/FILE.h"
+	.file 7 "./cport.h"
+	.file 8 "./buffer.h"
+	.file 9 "./ostream.h"
+	.file 10 "./axlgen.h"
+	.file 11 "./fname.h"
+	.file 12 "./srcpos.h"
+	.file 13 "./table.h"
+	.file 14 "./axlobs.h"
+	.file 15 "./srcline.h"
+	.file 16 "./symbol.h"
+	.file 17 "./token.h"
+	.file 18 "./absyn.h"
+	.file 19 "./ablogic.h"
+	.file 20 "./syme.h"
+	.file 21 "./tform.h"
+	.file 22 "./foam.h"
+	.file 23 "./lib.h"
+	.file 24 "./stab.h"
+	.file 25 "./strops.h"
+	.file 26 "./tfcond.h"
+	.file 27 "./symeset.h"
+	.file 28 "./ti_sef.h"
+	.file 29 "test/testlib.h"
+	.file 30 "./tinfer.h"
+	.file 31 "./comsg.h"
+	.file 32 "./scobind.h"
+	.file 33 "./abuse.h"
+	.file 34 "./macex.h"
+	.file 35 "./abnorm.h"
+	.file 36 "./parseby.h"
+	.file 37 "./linear.h"
+	.file 38 "./scan.h"
+	.section	.debug_info,"",@progbits
+.Ldebug_info0:
+	.long	0x5f7a
+	.value	0x5
+	.byte	0x1
+	.byte	0x8
+	.long	.Ldebug_abbrev0
+	.uleb128 0x31
+	.long	.LASF783
+	.byte	0xc
+	.long	.LASF0
+	.long	.LASF1
+	.quad	.Ltext0
+	.quad	.Letext0-.Ltext0
+	.long	.Ldebug_line0
+	.uleb128 0x32
+	.byte	0x4
+	.byte	0x5
+	.string	"int"
+	.uleb128 0x17
+	.byte	0x1
+	.byte	0x8
+	.long	.LASF2
+	.uleb128 0x17
+	.byte	0x2
+	.byte	0x7
+	.long	.LASF3
+	.uleb128 0x17
+	.byte	0x4
+	.byte	0x7
+	.long	.LASF4
+	.uleb128 0x17
+	.byte	0x8
+	.byte	0x7
+	.long	.LASF5
+	.uleb128 0x17
+	.byte	0x1
+	.byte	0x6
+	.long	.LASF6
+	.uleb128 0x17
+	.byte	0x2
+	.byte	0x5
+	.long	.LASF7
+	.uleb128 0x17
+	.byte	0x8
+	.byte	0x5
+	.long	.LASF8
+	.uleb128 0xb
+	.long	.LASF9
+	.byte	0x2
+	.byte	0x98
+	.byte	0x12
+	.long	0x5f
+	.uleb128 0xb
+	.long	.LASF10
+	.byte	0x2
+	.byte	0x99
+	.byte	0x12
+	.long	0x5f
+	.uleb128 0x33
+	.byte	0x8
+	.uleb128 0x5
+	.long	0x85
+	.uleb128 0x17
+	.byte	0x1
+	.byte	0x6
+	.long	.LASF11
+	.uleb128 0x20
+	.long	0x85
+	.uleb128 0x17
+	.byte	0x4
+	.byte	0x4
+	.long	.LASF12
+	.uleb128 0x17
+	.byte	0x8
+	.byte	0x4
+	.long	.LASF13
+	.uleb128 0x34
+	.long	.LASF784
+	.byte	0x18
+	.byte	0x3
+	.byte	0
+	.long	0xd4
+	.uleb128 0x21
+	.long	.LASF14
+	.long	0x43
+	.byte	0
+	.uleb128 0x21
+	.long	.LASF15
+	.long	0x43
+	.byte	0x4
+	.uleb128 0x21
+	.long	.LASF16
+	.long	0x7e
+	.byte	0x8
+	.uleb128 0x21
+	.long	.LASF17
+	.long	0x7e
+	.byte	0x10
+	.byte	0
+	.uleb128 0xb
+	.long	.LASF18
+	.byte	0x4
+	.byte	0xd6
+	.byte	0x1b
+	.long	0x4a
+	.uleb128 0xd
+	.long	.LASF72
+	.byte	0xd8
+	.byte	0x5
+	.byte	0x31
+	.byte	0x8
+	.long	0x267
+	.uleb128 0x3
+	.long	.LASF19
+	.byte	0x5
+	.byte	0x33
+	.byte	0x7
+	.long	0x2e
+	.byte	0
+	.uleb128 0x3
+	.long	.LASF20
+	.byte	0x5
+	.byte	0x36
+	.byte	0x9
+	.long	0x80
+	.byte	0x8
+	.uleb128 0x3
+	.long	.LASF21
+	.byte	0x5
+	.byte	0x37
+	.byte	0x9
+	.long	0x80
+	.byte	0x10
+	.uleb128 0x3
+	.long	.LASF22
+	.byte	0x5
+	.byte	0x38
+	.byte	0x9
+	.long	0x80
+	.byte	0x18
+	.uleb128 0x3
+	.long	.LASF23
+	.byte	0x5
+	.byte	0x39
+	.byte	0x9
+	.long	0x80
+	.byte	0x20
+	.uleb128 0x3
+	.long	.LASF24
+	.byte	0x5
+	.byte	0x3a
+	.byte	0x9
+	.long	0x80
+	.byte	0x28
+	.uleb128 0x3
+	.long	.LASF25
+	.byte	0x5
+	.byte	0x3b
+	.byte	0x9
+	.long	0x80
+	.byte	0x30
+	.uleb128 0x3
+	.long	.LASF26
+	.byte	0x5
+	.byte	0x3c
+	.byte	0x9
+	.long	0x80
+	.byte	0x38
+	.uleb128 0x3
+	.long	.LASF27
+	.byte	0x5
+	.byte	0x3d
+	.byte	0x9
+	.long	0x80
+	.byte	0x40
+	.uleb128 0x3
+	.long	.LASF28
+	.byte	0x5
+	.byte	0x40
+	.byte	0x9
+	.long	0x80
+	.byte	0x48
+	.uleb128 0x3
+	.long	.LASF29
+	.byte	0x5
+	.byte	0x41
+	.byte	0x9
+	.long	0x80
+	.byte	0x50
+	.uleb128 0x3
+	.long	.LASF30
+	.byte	0x5
+	.byte	0x42
+	.byte	0x9
+	.long	0x80
+	.byte	0x58
+	.uleb128 0x3
+	.long	.LASF31
+	.byte	0x5
+	.byte	0x44
+	.byte	0x16
+	.long	0x280
+	.byte	0x60
+	.uleb128 0x3
+	.long	.LASF32
+	.byte	0x5
+	.byte	0x46
+	.byte	0x14
+	.long	0x285
+	.byte	0x68
+	.uleb128 0x3
+	.long	.LASF33
+	.byte	0x5
+	.byte	0x48
+	.byte	0x7
+	.long	0x2e
+	.byte	0x70
+	.uleb128 0x3
+	.long	.LASF34
+	.byte	0x5
+	.byte	0x49
+	.byte	0x7
+	.long	0x2e
+	.byte	0x74
+	.uleb128 0x3
+	.long	.LASF35
+	.byte	0x5
+	.byte	0x4a
+	.byte	0xb
+	.long	0x66
+	.byte	0x78
+	.uleb128 0x3
+	.long	.LASF36
+	.byte	0x5
+	.byte	0x4d
+	.byte	0x12
+	.long	0x3c
+	.byte	0x80
+	.uleb128 0x3
+	.long	.LASF37
+	.byte	0x5
+	.byte	0x4e
+	.byte	0xf
+	.long	0x51
+	.byte	0x82
+	.uleb128 0x3
+	.long	.LASF38
+	.byte	0x5
+	.byte	0x4f
+	.byte	0x8
+	.long	0x28a
+	.byte	0x83
+	.uleb128 0x3
+	.long	.LASF39
+	.byte	0x5
+	.byte	0x51
+	.byte	0xf
+	.long	0x29a
+	.byte	0x88
+	.uleb128 0x3
+	.long	.LASF40
+	.byte	0x5
+	.byte	0x59
+	.byte	0xd
+	.long	0x72
+	.byte	0x90
+	.uleb128 0x3
+	.long	.LASF41
+	.byte	0x5
+	.byte	0x5b
+	.byte	0x17
+	.long	0x2a4
+	.byte	0x98
+	.uleb128 0x3
+	.long	.LASF42
+	.byte	0x5
+	.byte	0x5c
+	.byte	0x19
+	.long	0x2ae
+	.byte	0xa0
+	.uleb128 0x3
+	.long	.LASF43
+	.byte	0x5
+	.byte	0x5d
+	.byte	0x14
+	.long	0x285
+	.byte	0xa8
+	.uleb128 0x3
+	.long	.LASF44
+	.byte	0x5
+	.byte	0x5e
+	.byte	0x9
+	.long	0x7e
+	.byte	0xb0
+	.uleb128 0x3
+	.long	.LASF45
+	.byte	0x5
+	.byte	0x5f
+	.byte	0xa
+	.long	0xd4
+	.byte	0xb8
+	.uleb128 0x3
+	.long	.LASF46
+	.byte	0x5
+	.byte	0x60
+	.byte	0x7
+	.long	0x2e
+	.byte	0xc0
+	.uleb128 0x3
+	.long	.LASF47
+	.byte	0x5
+	.byte	0x62
+	.byte	0x8
+	.long	0x2b3
+	.byte	0xc4
+	.byte	0
+	.uleb128 0xb
+	.long	.LASF48
+	.byte	0x6
+	.byte	0x7
+	.byte	0x19
+	.long	0xe0
+	.uleb128 0x35
+	.long	.LASF785
+	.byte	0x5
+	.byte	0x2b
+	.byte	0xe
+	.uleb128 0x13
+	.long	.LASF49
+	.uleb128 0x5
+	.long	0x27b
+	.uleb128 0x5
+	.long	0xe0
+	.uleb128 0x18
+	.long	0x85
+	.long	0x29a
+	.uleb128 0x19
+	.long	0x4a
+	.byte	0
+	.byte	0
+	.uleb128 0x5
+	.long	0x273
+	.uleb128 0x13
+	.long	.LASF50
+	.uleb128 0x5
+	.long	0x29f
+	.uleb128 0x13
+	.long	.LASF51
+	.uleb128 0x5
+	.long	0x2a9
+	.uleb128 0x18
+	.long	0x85
+	.long	0x2c3
+	.uleb128 0x19
+	.long	0x4a
+	.byte	0x13
+	.byte	0
+	.uleb128 0x5
+	.long	0x267
+	.uleb128 0x17
+	.byte	0x8
+	.byte	0x5
+	.long	.LASF52
+	.uleb128 0x5
+	.long	0x8c
+	.uleb128 0x12
+	.long	.LASF53
+	.byte	0x7
+	.value	0x138
+	.byte	0x17
+	.long	0x35
+	.uleb128 0x12
+	.long	.LASF54
+	.byte	0x7
+	.value	0x139
+	.byte	0x18
+	.long	0x3c
+	.uleb128 0x12
+	.long	.LASF55
+	.byte	0x7
+	.value	0x13a
+	.byte	0x17
+	.long	0x4a
+	.uleb128 0x12
+	.long	.LASF56
+	.byte	0x7
+	.value	0x141
+	.byte	0x10
+	.long	0x5f
+	.uleb128 0x12
+	.long	.LASF57
+	.byte	0x7
+	.value	0x142
+	.byte	0x19
+	.long	0x4a
+	.uleb128 0x12
+	.long	.LASF58
+	.byte	0x7
+	.value	0x156
+	.byte	0xd
+	.long	0x2e
+	.uleb128 0x12
+	.long	.LASF59
+	.byte	0x7
+	.value	0x157
+	.byte	0xf
+	.long	0x308
+	.uleb128 0x12
+	.long	.LASF60
+	.byte	0x7
+	.value	0x158
+	.byte	0x10
+	.long	0xd4
+	.uleb128 0x12
+	.long	.LASF61
+	.byte	0x7
+	.value	0x159
+	.byte	0xf
+	.long	0x2ee
+	.uleb128 0x12
+	.long	.LASF62
+	.byte	0x7
+	.value	0x166
+	.byte	0x12
+	.long	0x7e
+	.uleb128 0x12
+	.long	.LASF63
+	.byte	0x7
+	.value	0x16a
+	.byte	0xf
+	.long	0x80
+	.uleb128 0x12
+	.long	.LASF64
+	.byte	0x7
+	.value	0x16b
+	.byte	0x15
+	.long	0x2cf
+	.uleb128 0x12
+	.long	.LASF65
+	.byte	0x7
+	.value	0x176
+	.byte	0x11
+	.long	0x91
+	.uleb128 0x12
+	.long	.LASF66
+	.byte	0x7
+	.value	0x178
+	.byte	0x10
+	.long	0x98
+	.uleb128 0x12
+	.long	.LASF67
+	.byte	0x7
+	.value	0x17a
+	.byte	0x10
+	.long	0x98
+	.uleb128 0xb
+	.long	.LASF68
+	.byte	0x8
+	.byte	0x10
+	.byte	0x18
+	.long	0x3a3
+	.uleb128 0x5
+	.long	0x3a8
+	.uleb128 0x13
+	.long	.LASF69
+	.uleb128 0xb
+	.long	.LASF70
+	.byte	0x9
+	.byte	0x7
+	.byte	0xf
+	.long	0x3b9
+	.uleb128 0x5
+	.long	0x3be
+	.uleb128 0x9
+	.long	0x2e
+	.long	0x3d2
+	.uleb128 0x1
+	.long	0x363
+	.uleb128 0x1
+	.long	0x2e
+	.byte	0
+	.uleb128 0xb
+	.long	.LASF71
+	.byte	0x9
+	.byte	0x9
+	.byte	0x19
+	.long	0x3de
+	.uleb128 0x5
+	.long	0x3e3
+	.uleb128 0xd
+	.long	.LASF73
+	.byte	0x10
+	.byte	0x9
+	.byte	0x15
+	.byte	0x8
+	.long	0x40b
+	.uleb128 0x11
+	.string	"ops"
+	.byte	0x9
+	.byte	0x16
+	.byte	0xd
+	.long	0x4a7
+	.byte	0
+	.uleb128 0x3
+	.long	.LASF74
+	.byte	0x9
+	.byte	0x1a
+	.byte	0x4
+	.long	0x4b8
+	.byte	0x8
+	.byte	0
+	.uleb128 0xb
+	.long	.LASF75
+	.byte	0x9
+	.byte	0xb
+	.byte	0xe
+	.long	0x417
+	.uleb128 0x15
+	.long	0x427
+	.uleb128 0x1
+	.long	0x3d2
+	.uleb128 0x1
+	.long	0x85
+	.byte	0
+	.uleb128 0xb
+	.long	.LASF76
+	.byte	0x9
+	.byte	0xc
+	.byte	0xd
+	.long	0x433
+	.uleb128 0x9
+	.long	0x2e
+	.long	0x44c
+	.uleb128 0x1
+	.long	0x3d2
+	.uleb128 0x1
+	.long	0x2cf
+	.uleb128 0x1
+	.long	0x2e
+	.byte	0
+	.uleb128 0xb
+	.long	.LASF77
+	.byte	0x9
+	.byte	0xd
+	.byte	0xe
+	.long	0x458
+	.uleb128 0x15
+	.long	0x463
+	.uleb128 0x1
+	.long	0x3d2
+	.byte	0
+	.uleb128 0xd
+	.long	.LASF78
+	.byte	0x18
+	.byte	0x9
+	.byte	0xf
+	.byte	0x10
+	.long	0x498
+	.uleb128 0x3
+	.long	.LASF79
+	.byte	0x9
+	.byte	0x10
+	.byte	0x12
+	.long	0x498
+	.byte	0
+	.uleb128 0x3
+	.long	.LASF80
+	.byte	0x9
+	.byte	0x11
+	.byte	0x14
+	.long	0x49d
+	.byte	0x8
+	.uleb128 0x3
+	.long	.LASF81
+	.byte	0x9
+	.byte	0x12
+	.byte	0xe
+	.long	0x4a2
+	.byte	0x10
+	.byte	0
+	.uleb128 0x5
+	.long	0x40b
+	.uleb128 0x5
+	.long	0x427
+	.uleb128 0x5
+	.long	0x44c
+	.uleb128 0xb
+	.long	.LASF82
+	.byte	0x9
+	.byte	0x13
+	.byte	0x4
+	.long	0x4b3
+	.uleb128 0x5
+	.long	0x463
+	.uleb128 0x2b
+	.byte	0x9
+	.byte	0x17
+	.long	0x4d8
+	.uleb128 0x22
+	.string	"obj"
+	.byte	0x9
+	.byte	0x18
+	.byte	0xb
+	.long	0x349
+	.uleb128 0x22
+	.string	"fun"
+	.byte	0x9
+	.byte	0x19
+	.byte	0x11
+	.long	0x3ad
+	.byte	0
+	.uleb128 0x5
+	.long	0x9f
+	.uleb128 0x5
+	.long	0x2e
+	.uleb128 0xb
+	.long	.LASF83
+	.byte	0xa
+	.byte	0x28
+	.byte	0x1b
+	.long	0x4ee
+	.uleb128 0x5
+	.long	0x4f3
+	.uleb128 0xd
+	.long	.LASF84
+	.byte	0x50
+	.byte	0xb
+	.byte	0xe
+	.byte	0x8
+	.long	0x50e
+	.uleb128 0x3
+	.long	.LASF85
+	.byte	0xb
+	.byte	0xf
+	.byte	0x9
+	.long	0x23bf
+	.byte	0
+	.byte	0
+	.uleb128 0xb
+	.long	.LASF86
+	.byte	0xa
+	.byte	0x29
+	.byte	0xf
+	.long	0x2ee
+	.uleb128 0xb
+	.long	.LASF87
+	.byte	0xa
+	.byte	0x2a
+	.byte	0x1b
+	.long	0x526
+	.uleb128 0x5
+	.long	0x52b
+	.uleb128 0xd
+	.long	.LASF88
+	.byte	0x10
+	.byte	0xc
+	.byte	0x43
+	.byte	0x8
+	.long	0x553
+	.uleb128 0x3
+	.long	.LASF89
+	.byte	0xc
+	.byte	0x44
+	.byte	0x9
+	.long	0x50e
+	.byte	0
+	.uleb128 0x3
+	.long	.LASF90
+	.byte	0xc
+	.byte	0x45
+	.byte	0xe
+	.long	0x553
+	.byte	0x8
+	.byte	0
+	.uleb128 0xb
+	.long	.LASF91
+	.byte	0xa
+	.byte	0x2b
+	.byte	0x19
+	.long	0x55f
+	.uleb128 0x36
+	.long	.LASF116
+	.byte	0x8
+	.byte	0xc
+	.byte	0x3e
+	.byte	0x7
+	.long	0x583
+	.uleb128 0x2c
+	.long	.LASF89
+	.byte	0x3f
+	.byte	0x9
+	.long	0x50e
+	.uleb128 0x2c
+	.long	.LASF92
+	.byte	0x40
+	.byte	0xd
+	.long	0x51a
+	.byte	0
+	.uleb128 0xb
+	.long	.LASF93
+	.byte	0xa
+	.byte	0x2d
+	.byte	0x18
+	.long	0x58f
+	.uleb128 0x5
+	.long	0x594
+	.uleb128 0xd
+	.long	.LASF94
+	.byte	0x30
+	.byte	0xd
+	.byte	0x21
+	.byte	0x8
+	.long	0x5f0
+	.uleb128 0x3
+	.long	.LASF95
+	.byte	0xd
+	.byte	0x22
+	.byte	0xd
+	.long	0x23f3
+	.byte	0
+	.uleb128 0x3
+	.long	.LASF96
+	.byte	0xd
+	.byte	0x23
+	.byte	0xb
+	.long	0x2413
+	.byte	0x8
+	.uleb128 0x3
+	.long	.LASF97
+	.byte	0xd
+	.byte	0x24
+	.byte	0xa
+	.long	0x349
+	.byte	0x10
+	.uleb128 0x3
+	.long	.LASF98
+	.byte	0xd
+	.byte	0x25
+	.byte	0x9
+	.long	0x32f
+	.byte	0x18
+	.uleb128 0x3
+	.long	.LASF99
+	.byte	0xd
+	.byte	0x26
+	.byte	0x9
+	.long	0x32f
+	.byte	0x20
+	.uleb128 0x3
+	.long	.LASF100
+	.byte	0xd
+	.byte	0x27
+	.byte	0x13
+	.long	0x247f
+	.byte	0x28
+	.byte	0
+	.uleb128 0xb
+	.long	.LASF101
+	.byte	0xa
+	.byte	0x2e
+	.byte	0x17
+	.long	0x5fc
+	.uleb128 0x5
+	.long	0x601
+	.uleb128 0x13
+	.long	.LASF102
+	.uleb128 0xb
+	.long	.LASF103
+	.byte	0xe
+	.byte	0x18
+	.byte	0x1a
+	.long	0x612
+	.uleb128 0x5
+	.long	0x617
+	.uleb128 0xd
+	.long	.LASF104
+	.byte	0x18
+	.byte	0xf
+	.byte	0xe
+	.byte	0x8
+	.long	0x66d
+	.uleb128 0x3
+	.long	.LASF89
+	.byte	0xf
+	.byte	0xf
+	.byte	0x9
+	.long	0x50e
+	.byte	0
+	.uleb128 0x3
+	.long	.LASF105
+	.byte	0xf
+	.byte	0x10
+	.byte	0x11
+	.long	0x3c
+	.byte	0x8
+	.uleb128 0x26
+	.long	.LASF106
+	.byte	0x11
+	.long	0x43
+	.byte	0x50
+	.uleb128 0x26
+	.long	.LASF107
+	.byte	0x12
+	.long	0x43
+	.byte	0x51
+	.uleb128 0x26
+	.long	.LASF108
+	.byte	0x13
+	.long	0x43
+	.byte	0x52
+	.uleb128 0x3
+	.long	.LASF109
+	.byte	0xf
+	.byte	0x14
+	.byte	0x9
+	.long	0x356
+	.byte	0x10
+	.byte	0
+	.uleb128 0xb
+	.long	.LASF110
+	.byte	0xe
+	.byte	0x19
+	.byte	0x19
+	.long	0x679
+	.uleb128 0x5
+	.long	0x67e
+	.uleb128 0xd
+	.long	.LASF111
+	.byte	0x10
+	.byte	0x10
+	.byte	0x19
+	.byte	0x8
+	.long	0x6a6
+	.uleb128 0x3
+	.long	.LASF97
+	.byte	0x10
+	.byte	0x1a
+	.byte	0x13
+	.long	0x2484
+	.byte	0
+	.uleb128 0x11
+	.string	"str"
+	.byte	0x10
+	.byte	0x1b
+	.byte	0x9
+	.long	0x356
+	.byte	0x8
+	.byte	0
+	.uleb128 0xb
+	.long	.LASF112
+	.byte	0xe
+	.byte	0x1b
+	.byte	0x18
+	.long	0x6b2
+	.uleb128 0x5
+	.long	0x6b7
+	.uleb128 0xd
+	.long	.LASF113
+	.byte	0x20
+	.byte	0x11
+	.byte	0xc2
+	.byte	0x8
+	.long	0x706
+	.uleb128 0x11
+	.string	"tag"
+	.byte	0x11
+	.byte	0xc3
+	.byte	0x8
+	.long	0x2d4
+	.byte	0
+	.uleb128 0x3
+	.long	.LASF114
+	.byte	0x11
+	.byte	0xc4
+	.byte	0x8
+	.long	0x2d4
+	.byte	0x1
+	.uleb128 0x11
+	.string	"pos"
+	.byte	0x11
+	.byte	0xc5
+	.byte	0x9
+	.long	0x50e
+	.byte	0x8
+	.uleb128 0x11
+	.string	"end"
+	.byte	0x11
+	.byte	0xc5
+	.byte	0xe
+	.long	0x50e
+	.byte	0x10
+	.uleb128 0x11
+	.string	"val"
+	.byte	0x11
+	.byte	0xc9
+	.byte	0x4
+	.long	0x24b5
+	.byte	0x18
+	.byte	0
+	.uleb128 0x2d
+	.string	"Doc"
+	.byte	0x1c
+	.long	0x710
+	.uleb128 0x5
+	.long	0x715
+	.uleb128 0x37
+	.string	"doc"
+	.uleb128 0xb
+	.long	.LASF115
+	.byte	0xe
+	.byte	0x1d
+	.byte	0x17
+	.long	0x726
+	.uleb128 0x5
+	.long	0x72b
+	.uleb128 0x2e
+	.long	.LASF117
+	.byte	0x80
+	.byte	0x12
+	.value	0x2e0
+	.long	0xaee
+	.uleb128 0x6
+	.long	.LASF118
+	.byte	0x12
+	.value	0x2e4
+	.byte	0xf
+	.long	0x2841
+	.uleb128 0x6
+	.long	.LASF119
+	.byte	0x12
+	.value	0x2e5
+	.byte	0xf
+	.long	0x28ff
+	.uleb128 0x6
+	.long	.LASF120
+	.byte	0x12
+	.value	0x2ec
+	.byte	0x11
+	.long	0x2929
+	.uleb128 0x6
+	.long	.LASF121
+	.byte	0x12
+	.value	0x2ed
+	.byte	0xe
+	.long	0x2953
+	.uleb128 0x6
+	.long	.LASF122
+	.byte	0x12
+	.value	0x2ee
+	.byte	0x10
+	.long	0x297d
+	.uleb128 0x6
+	.long	.LASF123
+	.byte	0x12
+	.value	0x2f0
+	.byte	0x13
+	.long	0x29a7
+	.uleb128 0x6
+	.long	.LASF124
+	.byte	0x12
+	.value	0x2f1
+	.byte	0x16
+	.long	0x29d1
+	.uleb128 0x6
+	.long	.LASF125
+	.byte	0x12
+	.value	0x2f2
+	.byte	0x15
+	.long	0x2a25
+	.uleb128 0x6
+	.long	.LASF126
+	.byte	0x12
+	.value	0x2f3
+	.byte	0x14
+	.long	0x29fb
+	.uleb128 0x6
+	.long	.LASF127
+	.byte	0x12
+	.value	0x2f6
+	.byte	0xf
+	.long	0x2a4f
+	.uleb128 0x6
+	.long	.LASF128
+	.byte	0x12
+	.value	0x2f7
+	.byte	0xf
+	.long	0x2a87
+	.uleb128 0x6
+	.long	.LASF129
+	.byte	0x12
+	.value	0x2f8
+	.byte	0x11
+	.long	0x2ab1
+	.uleb128 0x6
+	.long	.LASF130
+	.byte	0x12
+	.value	0x2f9
+	.byte	0x12
+	.long	0x2ae8
+	.uleb128 0x6
+	.long	.LASF131
+	.byte	0x12
+	.value	0x2fa
+	.byte	0x12
+	.long	0x2b12
+	.uleb128 0x6
+	.long	.LASF132
+	.byte	0x12
+	.value	0x2fb
+	.byte	0x11
+	.long	0x2b4a
+	.uleb128 0x6
+	.long	.LASF133
+	.byte	0x12
+	.value	0x2fc
+	.byte	0x13
+	.long	0x2b74
+	.uleb128 0x6
+	.long	.LASF134
+	.byte	0x12
+	.value	0x2fd
+	.byte	0x13
+	.long	0x2b9e
+	.uleb128 0x6
+	.long	.LASF135
+	.byte	0x12
+	.value	0x2fe
+	.byte	0x14
+	.long	0x2c37
+	.uleb128 0x6
+	.long	.LASF136
+	.byte	0x12
+	.value	0x2ff
+	.byte	0x13
+	.long	0x2c6f
+	.uleb128 0x6
+	.long	.LASF137
+	.byte	0x12
+	.value	0x300
+	.byte	0x11
+	.long	0x2ca7
+	.uleb128 0x6
+	.long	.LASF138
+	.byte	0x12
+	.value	0x301
+	.byte	0x13
+	.long	0x2cd1
+	.uleb128 0x6
+	.long	.LASF139
+	.byte	0x12
+	.value	0x302
+	.byte	0x12
+	.long	0x2cfb
+	.uleb128 0x6
+	.long	.LASF140
+	.byte	0x12
+	.value	0x303
+	.byte	0x13
+	.long	0x2d33
+	.uleb128 0x6
+	.long	.LASF141
+	.byte	0x12
+	.value	0x304
+	.byte	0xe
+	.long	0x2bd5
+	.uleb128 0x6
+	.long	.LASF142
+	.byte	0x12
+	.value	0x305
+	.byte	0x16
+	.long	0x2bff
+	.uleb128 0x6
+	.long	.LASF143
+	.byte	0x12
+	.value	0x306
+	.byte	0x12
+	.long	0x2d5d
+	.uleb128 0x6
+	.long	.LASF144
+	.byte	0x12
+	.value	0x307
+	.byte	0x10
+	.long	0x2d95
+	.uleb128 0x6
+	.long	.LASF145
+	.byte	0x12
+	.value	0x308
+	.byte	0x12
+	.long	0x2dcd
+	.uleb128 0x6
+	.long	.LASF146
+	.byte	0x12
+	.value	0x309
+	.byte	0x12
+	.long	0x2e13
+	.uleb128 0x6
+	.long	.LASF147
+	.byte	0x12
+	.value	0x30a
+	.byte	0xf
+	.long	0x2e3d
+	.uleb128 0x6
+	.long	.LASF148
+	.byte	0x12
+	.value	0x30b
+	.byte	0x11
+	.long	0x2e67
+	.uleb128 0x6
+	.long	.LASF149
+	.byte	0x12
+	.value	0x30c
+	.byte	0xf
+	.long	0x2e91
+	.uleb128 0x6
+	.long	.LASF150
+	.byte	0x12
+	.value	0x30d
+	.byte	0x19
+	.long	0x2ed7
+	.uleb128 0x6
+	.long	.LASF151
+	.byte	0x12
+	.value	0x30e
+	.byte	0x19
+	.long	0x2f0f
+	.uleb128 0x6
+	.long	.LASF152
+	.byte	0x12
+	.value	0x30f
+	.byte	0x10
+	.long	0x2f47
+	.uleb128 0x6
+	.long	.LASF153
+	.byte	0x12
+	.value	0x310
+	.byte	0x14
+	.long	0x2f71
+	.uleb128 0x6
+	.long	.LASF154
+	.byte	0x12
+	.value	0x311
+	.byte	0x10
+	.long	0x2fa9
+	.uleb128 0x6
+	.long	.LASF155
+	.byte	0x12
+	.value	0x312
+	.byte	0xf
+	.long	0x2fd3
+	.uleb128 0x6
+	.long	.LASF156
+	.byte	0x12
+	.value	0x313
+	.byte	0x10
+	.long	0x300b
+	.uleb128 0x6
+	.long	.LASF157
+	.byte	0x12
+	.value	0x314
+	.byte	0x10
+	.long	0x3035
+	.uleb128 0x6
+	.long	.LASF158
+	.byte	0x12
+	.value	0x315
+	.byte	0xe
+	.long	0x305f
+	.uleb128 0x6
+	.long	.LASF159
+	.byte	0x12
+	.value	0x316
+	.byte	0x12
+	.long	0x30a5
+	.uleb128 0x6
+	.long	.LASF160
+	.byte	0x12
+	.value	0x317
+	.byte	0x12
+	.long	0x30dd
+	.uleb128 0x6
+	.long	.LASF161
+	.byte	0x12
+	.value	0x318
+	.byte	0x13
+	.long	0x3115
+	.uleb128 0x6
+	.long	.LASF162
+	.byte	0x12
+	.value	0x319
+	.byte	0x11
+	.long	0x313f
+	.uleb128 0x6
+	.long	.LASF163
+	.byte	0x12
+	.value	0x31a
+	.byte	0x12
+	.long	0x3177
+	.uleb128 0x6
+	.long	.LASF164
+	.byte	0x12
+	.value	0x31b
+	.byte	0xf
+	.long	0x31bd
+	.uleb128 0x6
+	.long	.LASF165
+	.byte	0x12
+	.value	0x31c
+	.byte	0x11
+	.long	0x31f5
+	.uleb128 0x6
+	.long	.LASF166
+	.byte	0x12
+	.value	0x31d
+	.byte	0x11
+	.long	0x321f
+	.uleb128 0x6
+	.long	.LASF167
+	.byte	0x12
+	.value	0x31e
+	.byte	0x13
+	.long	0x3249
+	.uleb128 0x6
+	.long	.LASF168
+	.byte	0x12
+	.value	0x31f
+	.byte	0x13
+	.long	0x3281
+	.uleb128 0x6
+	.long	.LASF169
+	.byte	0x12
+	.value	0x320
+	.byte	0x11
+	.long	0x32b9
+	.uleb128 0x6
+	.long	.LASF170
+	.byte	0x12
+	.value	0x321
+	.byte	0xf
+	.long	0x32d5
+	.uleb128 0x6
+	.long	.LASF171
+	.byte	0x12
+	.value	0x322
+	.byte	0x13
+	.long	0x32ff
+	.uleb128 0x6
+	.long	.LASF172
+	.byte	0x12
+	.value	0x323
+	.byte	0xe
+	.long	0x331b
+	.uleb128 0x6
+	.long	.LASF173
+	.byte	0x12
+	.value	0x324
+	.byte	0x11
+	.long	0x3345
+	.uleb128 0x6
+	.long	.LASF174
+	.byte	0x12
+	.value	0x325
+	.byte	0x13
+	.long	0x336f
+	.uleb128 0x6
+	.long	.LASF175
+	.byte	0x12
+	.value	0x326
+	.byte	0x15
+	.long	0x33b5
+	.uleb128 0x6
+	.long	.LASF176
+	.byte	0x12
+	.value	0x327
+	.byte	0x13
+	.long	0x33ed
+	.uleb128 0x6
+	.long	.LASF177
+	.byte	0x12
+	.value	0x328
+	.byte	0x11
+	.long	0x3425
+	.uleb128 0x6
+	.long	.LASF178
+	.byte	0x12
+	.value	0x329
+	.byte	0x15
+	.long	0x344f
+	.uleb128 0x6
+	.long	.LASF179
+	.byte	0x12
+	.value	0x32a
+	.byte	0x12
+	.long	0x3479
+	.uleb128 0x6
+	.long	.LASF180
+	.byte	0x12
+	.value	0x32b
+	.byte	0x16
+	.long	0x34b1
+	.uleb128 0x6
+	.long	.LASF181
+	.byte	0x12
+	.value	0x32c
+	.byte	0x15
+	.long	0x34e9
+	.uleb128 0x6
+	.long	.LASF182
+	.byte	0x12
+	.value	0x32d
+	.byte	0x12
+	.long	0x3521
+	.uleb128 0x6
+	.long	.LASF183
+	.byte	0x12
+	.value	0x32e
+	.byte	0x12
+	.long	0x354b
+	.uleb128 0x6
+	.long	.LASF184
+	.byte	0x12
+	.value	0x32f
+	.byte	0x14
+	.long	0x3583
+	.uleb128 0x6
+	.long	.LASF185
+	.byte	0x12
+	.value	0x330
+	.byte	0x10
+	.long	0x35ad
+	.uleb128 0x6
+	.long	.LASF186
+	.byte	0x12
+	.value	0x331
+	.byte	0xf
+	.long	0x35d7
+	.uleb128 0x6
+	.long	.LASF187
+	.byte	0x12
+	.value	0x332
+	.byte	0x11
+	.long	0x362a
+	.uleb128 0x6
+	.long	.LASF188
+	.byte	0x12
+	.value	0x333
+	.byte	0x11
+	.long	0x3662
+	.uleb128 0x6
+	.long	.LASF189
+	.byte	0x12
+	.value	0x334
+	.byte	0x10
+	.long	0x368c
+	.uleb128 0x6
+	.long	.LASF190
+	.byte	0x12
+	.value	0x335
+	.byte	0x11
+	.long	0x36c4
+	.byte	0
+	.uleb128 0xb
+	.long	.LASF191
+	.byte	0xe
+	.byte	0x1e
+	.byte	0x17
+	.long	0x726
+	.uleb128 0xb
+	.long	.LASF192
+	.byte	0xe
+	.byte	0x20
+	.byte	0x18
+	.long	0xb06
+	.uleb128 0x5
+	.long	0xb0b
+	.uleb128 0x13
+	.long	.LASF193
+	.uleb128 0xb
+	.long	.LASF194
+	.byte	0xe
+	.byte	0x21
+	.byte	0x1a
+	.long	0xb1c
+	.uleb128 0x5
+	.long	0xb21
+	.uleb128 0xd
+	.long	.LASF195
+	.byte	0x8
+	.byte	0x13
+	.byte	0x13
+	.byte	0x8
+	.long	0xb3c
+	.uleb128 0x3
+	.long	.LASF196
+	.byte	0x13
+	.byte	0x14
+	.byte	0x9
+	.long	0x98
+	.byte	0
+	.byte	0
+	.uleb128 0xb
+	.long	.LASF197
+	.byte	0xe
+	.byte	0x22
+	.byte	0x17
+	.long	0xb48
+	.uleb128 0x5
+	.long	0xb4d
+	.uleb128 0x13
+	.long	.LASF198
+	.uleb128 0xb
+	.long	.LASF199
+	.byte	0xe
+	.byte	0x23
+	.byte	0x17
+	.long	0xb5e
+	.uleb128 0x5
+	.long	0xb63
+	.uleb128 0xd
+	.long	.LASF200
+	.byte	0x40
+	.byte	0x14
+	.byte	0xcf
+	.byte	0x8
+	.long	0xbff
+	.uleb128 0x3
+	.long	.LASF201
+	.byte	0x14
+	.byte	0xd0
+	.byte	0x8
+	.long	0x2d4
+	.byte	0
+	.uleb128 0x3
+	.long	.LASF202
+	.byte	0x14
+	.byte	0xd1
+	.byte	0x8
+	.long	0x2d4
+	.byte	0x1
+	.uleb128 0x3
+	.long	.LASF203
+	.byte	0x14
+	.byte	0xd2
+	.byte	0x9
+	.long	0x2e1
+	.byte	0x2
+	.uleb128 0x11
+	.string	"id"
+	.byte	0x14
+	.byte	0xd4
+	.byte	0x9
+	.long	0x66d
+	.byte	0x8
+	.uleb128 0x11
+	.string	"lib"
+	.byte	0x14
+	.byte	0xd5
+	.byte	0x6
+	.long	0x1221
+	.byte	0x10
+	.uleb128 0x3
+	.long	.LASF204
+	.byte	0x14
+	.byte	0xd6
+	.byte	0x7
+	.long	0x322
+	.byte	0x18
+	.uleb128 0x3
+	.long	.LASF205
+	.byte	0x14
+	.byte	0xd7
+	.byte	0x8
+	.long	0xbff
+	.byte	0x20
+	.uleb128 0x3
+	.long	.LASF206
+	.byte	0x14
+	.byte	0xd9
+	.byte	0xf
+	.long	0x43
+	.byte	0x28
+	.uleb128 0x3
+	.long	.LASF207
+	.byte	0x14
+	.byte	0xda
+	.byte	0xf
+	.long	0x43
+	.byte	0x2c
+	.uleb128 0x3
+	.long	.LASF208
+	.byte	0x14
+	.byte	0xdb
+	.byte	0x7
+	.long	0xb52
+	.byte	0x30
+	.uleb128 0x3
+	.long	.LASF209
+	.byte	0x14
+	.byte	0xdc
+	.byte	0x9
+	.long	0x2381
+	.byte	0x38
+	.byte	0
+	.uleb128 0xb
+	.long	.LASF210
+	.byte	0xe
+	.byte	0x24
+	.byte	0x18
+	.long	0xc0b
+	.uleb128 0x5
+	.long	0xc10
+	.uleb128 0xd
+	.long	.LASF211
+	.byte	0xd0
+	.byte	0x15
+	.byte	0x78
+	.byte	0x8
+	.long	0xdbd
+	.uleb128 0x11
+	.string	"tag"
+	.byte	0x15
+	.byte	0x79
+	.byte	0x8
+	.long	0x2d4
+	.byte	0
+	.uleb128 0x3
+	.long	.LASF212
+	.byte	0x15
+	.byte	0x7a
+	.byte	0x8
+	.long	0x2d4
+	.byte	0x1
+	.uleb128 0x3
+	.long	.LASF213
+	.byte	0x15
+	.byte	0x7b
+	.byte	0x8
+	.long	0x2d4
+	.byte	0x2
+	.uleb128 0x3
+	.long	.LASF214
+	.byte	0x15
+	.byte	0x7c
+	.byte	0x8
+	.long	0x2d4
+	.byte	0x3
+	.uleb128 0x3
+	.long	.LASF215
+	.byte	0x15
+	.byte	0x7d
+	.byte	0x8
+	.long	0x2d4
+	.byte	0x4
+	.uleb128 0x3
+	.long	.LASF216
+	.byte	0x15
+	.byte	0x7e
+	.byte	0x8
+	.long	0x2d4
+	.byte	0x5
+	.uleb128 0x11
+	.string	"raw"
+	.byte	0x15
+	.byte	0x7f
+	.byte	0x8
+	.long	0x2d4
+	.byte	0x6
+	.uleb128 0x3
+	.long	.LASF204
+	.byte	0x15
+	.byte	0x80
+	.byte	0x7
+	.long	0x322
+	.byte	0x8
+	.uleb128 0x3
+	.long	.LASF217
+	.byte	0x15
+	.byte	0x81
+	.byte	0x8
+	.long	0x71a
+	.byte	0x10
+	.uleb128 0x3
+	.long	.LASF218
+	.byte	0x15
+	.byte	0x82
+	.byte	0x9
+	.long	0x2e1
+	.byte	0x18
+	.uleb128 0x3
+	.long	.LASF219
+	.byte	0x15
+	.byte	0x84
+	.byte	0x9
+	.long	0x32f
+	.byte	0x20
+	.uleb128 0x3
+	.long	.LASF220
+	.byte	0x15
+	.byte	0x85
+	.byte	0x9
+	.long	0x228e
+	.byte	0x28
+	.uleb128 0x3
+	.long	.LASF221
+	.byte	0x15
+	.byte	0x87
+	.byte	0x7
+	.long	0x14fe
+	.byte	0x30
+	.uleb128 0x3
+	.long	.LASF222
+	.byte	0x15
+	.byte	0x88
+	.byte	0xb
+	.long	0x236b
+	.byte	0x38
+	.uleb128 0x3
+	.long	.LASF223
+	.byte	0x15
+	.byte	0x89
+	.byte	0xb
+	.long	0x236b
+	.byte	0x40
+	.uleb128 0x3
+	.long	.LASF224
+	.byte	0x15
+	.byte	0x8a
+	.byte	0xb
+	.long	0x236b
+	.byte	0x48
+	.uleb128 0x3
+	.long	.LASF225
+	.byte	0x15
+	.byte	0x8b
+	.byte	0xb
+	.long	0x236b
+	.byte	0x50
+	.uleb128 0x3
+	.long	.LASF226
+	.byte	0x15
+	.byte	0x8d
+	.byte	0xb
+	.long	0x236b
+	.byte	0x58
+	.uleb128 0x3
+	.long	.LASF227
+	.byte	0x15
+	.byte	0x8e
+	.byte	0xb
+	.long	0x236b
+	.byte	0x60
+	.uleb128 0x3
+	.long	.LASF228
+	.byte	0x15
+	.byte	0x8f
+	.byte	0xb
+	.long	0x236b
+	.byte	0x68
+	.uleb128 0x3
+	.long	.LASF229
+	.byte	0x15
+	.byte	0x91
+	.byte	0xa
+	.long	0x50e2
+	.byte	0x70
+	.uleb128 0x3
+	.long	.LASF230
+	.byte	0x15
+	.byte	0x93
+	.byte	0xd
+	.long	0x24a4
+	.byte	0x78
+	.uleb128 0x3
+	.long	.LASF231
+	.byte	0x15
+	.byte	0x95
+	.byte	0xd
+	.long	0x22c0
+	.byte	0x80
+	.uleb128 0x3
+	.long	.LASF232
+	.byte	0x15
+	.byte	0x96
+	.byte	0xc
+	.long	0x2282
+	.byte	0x88
+	.uleb128 0x3
+	.long	.LASF233
+	.byte	0x15
+	.byte	0x97
+	.byte	0xc
+	.long	0x22f9
+	.byte	0x90
+	.uleb128 0x3
+	.long	.LASF234
+	.byte	0x15
+	.byte	0x99
+	.byte	0x9
+	.long	0x50a9
+	.byte	0x98
+	.uleb128 0x3
+	.long	.LASF235
+	.byte	0x15
+	.byte	0x9b
+	.byte	0x8
+	.long	0xafa
+	.byte	0xa0
+	.uleb128 0x11
+	.string	"fv"
+	.byte	0x15
+	.byte	0x9c
+	.byte	0xa
+	.long	0xb3c
+	.byte	0xa8
+	.uleb128 0x11
+	.string	"rho"
+	.byte	0x15
+	.byte	0x9d
+	.byte	0xa
+	.long	0x50f3
+	.byte	0xb0
+	.uleb128 0x3
+	.long	.LASF236
+	.byte	0x15
+	.byte	0x9f
+	.byte	0xb
+	.long	0x154d
+	.byte	0xb8
+	.uleb128 0x3
+	.long	.LASF237
+	.byte	0x15
+	.byte	0xa0
+	.byte	0x8
+	.long	0xbff
+	.byte	0xc0
+	.uleb128 0x3
+	.long	.LASF238
+	.byte	0x15
+	.byte	0xa1
+	.byte	0x8
+	.long	0x2ee
+	.byte	0xc8
+	.byte	0
+	.uleb128 0xb
+	.long	.LASF239
+	.byte	0xe
+	.byte	0x25
+	.byte	0x18
+	.long	0xdc9
+	.uleb128 0x5
+	.long	0xdce
+	.uleb128 0x13
+	.long	.LASF240
+	.uleb128 0xb
+	.long	.LASF241
+	.byte	0xe
+	.byte	0x26
+	.byte	0x19
+	.long	0xddf
+	.uleb128 0x5
+	.long	0xde4
+	.uleb128 0x13
+	.long	.LASF242
+	.uleb128 0xb
+	.long	.LASF243
+	.byte	0xe
+	.byte	0x27
+	.byte	0x18
+	.long	0xdf5
+	.uleb128 0x5
+	.long	0xdfa
+	.uleb128 0x13
+	.long	.LASF244
+	.uleb128 0xb
+	.long	.LASF245
+	.byte	0xe
+	.byte	0x28
+	.byte	0x16
+	.long	0xe0b
+	.uleb128 0x5
+	.long	0xe10
+	.uleb128 0x2e
+	.long	.LASF246
+	.byte	0x98
+	.byte	0x16
+	.value	0x4af
+	.long	0x1221
+	.uleb128 0x1a
+	.string	"hdr"
+	.byte	0x16
+	.value	0x4b0
+	.byte	0x11
+	.long	0x377a
+	.uleb128 0x6
+	.long	.LASF247
+	.byte	0x16
+	.value	0x4b1
+	.byte	0x11
+	.long	0x3843
+	.uleb128 0x6
+	.long	.LASF248
+	.byte	0x16
+	.value	0x4b3
+	.byte	0x11
+	.long	0x387d
+	.uleb128 0x6
+	.long	.LASF249
+	.byte	0x16
+	.value	0x4b4
+	.byte	0x12
+	.long	0x3899
+	.uleb128 0x6
+	.long	.LASF250
+	.byte	0x16
+	.value	0x4b5
+	.byte	0x12
+	.long	0x38c3
+	.uleb128 0x6
+	.long	.LASF251
+	.byte	0x16
+	.value	0x4b6
+	.byte	0x12
+	.long	0x38ed
+	.uleb128 0x6
+	.long	.LASF252
+	.byte	0x16
+	.value	0x4b7
+	.byte	0x12
+	.long	0x3917
+	.uleb128 0x6
+	.long	.LASF253
+	.byte	0x16
+	.value	0x4b8
+	.byte	0x12
+	.long	0x3941
+	.uleb128 0x6
+	.long	.LASF254
+	.byte	0x16
+	.value	0x4b9
+	.byte	0x12
+	.long	0x396b
+	.uleb128 0x6
+	.long	.LASF255
+	.byte	0x16
+	.value	0x4ba
+	.byte	0x12
+	.long	0x3995
+	.uleb128 0x6
+	.long	.LASF256
+	.byte	0x16
+	.value	0x4bb
+	.byte	0x12
+	.long	0x39bf
+	.uleb128 0x6
+	.long	.LASF257
+	.byte	0x16
+	.value	0x4bc
+	.byte	0x12
+	.long	0x39e9
+	.uleb128 0x6
+	.long	.LASF258
+	.byte	0x16
+	.value	0x4bd
+	.byte	0x11
+	.long	0x3a13
+	.uleb128 0x6
+	.long	.LASF259
+	.byte	0x16
+	.value	0x4be
+	.byte	0x11
+	.long	0x3a4d
+	.uleb128 0x6
+	.long	.LASF260
+	.byte	0x16
+	.value	0x4bf
+	.byte	0x11
+	.long	0x3a95
+	.uleb128 0x6
+	.long	.LASF261
+	.byte	0x16
+	.value	0x4c0
+	.byte	0x12
+	.long	0x3add
+	.uleb128 0x6
+	.long	.LASF262
+	.byte	0x16
+	.value	0x4c1
+	.byte	0x12
+	.long	0x3b23
+	.uleb128 0x6
+	.long	.LASF263
+	.byte	0x16
+	.value	0x4c2
+	.byte	0x12
+	.long	0x3bf5
+	.uleb128 0x6
+	.long	.LASF264
+	.byte	0x16
+	.value	0x4c4
+	.byte	0x12
+	.long	0x3c9c
+	.uleb128 0x6
+	.long	.LASF265
+	.byte	0x16
+	.value	0x4c5
+	.byte	0x13
+	.long	0x3c2d
+	.uleb128 0x6
+	.long	.LASF266
+	.byte	0x16
+	.value	0x4c6
+	.byte	0x13
+	.long	0x3cef
+	.uleb128 0x6
+	.long	.LASF267
+	.byte	0x16
+	.value	0x4c7
+	.byte	0x14
+	.long	0x3d27
+	.uleb128 0x6
+	.long	.LASF268
+	.byte	0x16
+	.value	0x4c8
+	.byte	0x12
+	.long	0x3d51
+	.uleb128 0x6
+	.long	.LASF269
+	.byte	0x16
+	.value	0x4c9
+	.byte	0x12
+	.long	0x3d7b
+	.uleb128 0x6
+	.long	.LASF270
+	.byte	0x16
+	.value	0x4ca
+	.byte	0x11
+	.long	0x3da5
+	.uleb128 0x6
+	.long	.LASF271
+	.byte	0x16
+	.value	0x4cb
+	.byte	0x12
+	.long	0x3ddd
+	.uleb128 0x6
+	.long	.LASF272
+	.byte	0x16
+	.value	0x4cd
+	.byte	0x11
+	.long	0x3e07
+	.uleb128 0x6
+	.long	.LASF273
+	.byte	0x16
+	.value	0x4ce
+	.byte	0x11
+	.long	0x3e31
+	.uleb128 0x6
+	.long	.LASF274
+	.byte	0x16
+	.value	0x4cf
+	.byte	0x11
+	.long	0x3e5b
+	.uleb128 0x6
+	.long	.LASF275
+	.byte	0x16
+	.value	0x4d0
+	.byte	0x11
+	.long	0x3e93
+	.uleb128 0x6
+	.long	.LASF276
+	.byte	0x16
+	.value	0x4d1
+	.byte	0x13
+	.long	0x3ee7
+	.uleb128 0x6
+	.long	.LASF277
+	.byte	0x16
+	.value	0x4d2
+	.byte	0x13
+	.long	0x3ebd
+	.uleb128 0x6
+	.long	.LASF278
+	.byte	0x16
+	.value	0x4d3
+	.byte	0x11
+	.long	0x3f11
+	.uleb128 0x6
+	.long	.LASF279
+	.byte	0x16
+	.value	0x4d4
+	.byte	0x12
+	.long	0x3f3b
+	.uleb128 0x6
+	.long	.LASF280
+	.byte	0x16
+	.value	0x4d5
+	.byte	0x12
+	.long	0x3f73
+	.uleb128 0x6
+	.long	.LASF281
+	.byte	0x16
+	.value	0x4d6
+	.byte	0x13
+	.long	0x3fab
+	.uleb128 0x6
+	.long	.LASF282
+	.byte	0x16
+	.value	0x4d7
+	.byte	0x11
+	.long	0x3fd5
+	.uleb128 0x6
+	.long	.LASF283
+	.byte	0x16
+	.value	0x4d8
+	.byte	0x13
+	.long	0x3fff
+	.uleb128 0x6
+	.long	.LASF284
+	.byte	0x16
+	.value	0x4d9
+	.byte	0x12
+	.long	0x4029
+	.uleb128 0x6
+	.long	.LASF285
+	.byte	0x16
+	.value	0x4da
+	.byte	0x13
+	.long	0x4053
+	.uleb128 0x6
+	.long	.LASF286
+	.byte	0x16
+	.value	0x4db
+	.byte	0x15
+	.long	0x407d
+	.uleb128 0x6
+	.long	.LASF287
+	.byte	0x16
+	.value	0x4dc
+	.byte	0x13
+	.long	0x40a7
+	.uleb128 0x6
+	.long	.LASF288
+	.byte	0x16
+	.value	0x4dd
+	.byte	0x12
+	.long	0x40d1
+	.uleb128 0x6
+	.long	.LASF289
+	.byte	0x16
+	.value	0x4de
+	.byte	0x12
+	.long	0x41bf
+	.uleb128 0x6
+	.long	.LASF290
+	.byte	0x16
+	.value	0x4df
+	.byte	0x13
+	.long	0x414f
+	.uleb128 0x6
+	.long	.LASF291
+	.byte	0x16
+	.value	0x4e0
+	.byte	0x13
+	.long	0x4205
+	.uleb128 0x6
+	.long	.LASF292
+	.byte	0x16
+	.value	0x4e1
+	.byte	0x13
+	.long	0x424b
+	.uleb128 0x6
+	.long	.LASF293
+	.byte	0x16
+	.value	0x4e2
+	.byte	0x12
+	.long	0x429f
+	.uleb128 0x6
+	.long	.LASF294
+	.byte	0x16
+	.value	0x4e3
+	.byte	0x12
+	.long	0x42f3
+	.uleb128 0x6
+	.long	.LASF295
+	.byte	0x16
+	.value	0x4e5
+	.byte	0x13
+	.long	0x431d
+	.uleb128 0x6
+	.long	.LASF296
+	.byte	0x16
+	.value	0x4e6
+	.byte	0x11
+	.long	0x4347
+	.uleb128 0x6
+	.long	.LASF297
+	.byte	0x16
+	.value	0x4e7
+	.byte	0x11
+	.long	0x4363
+	.uleb128 0x6
+	.long	.LASF298
+	.byte	0x16
+	.value	0x4e8
+	.byte	0x10
+	.long	0x439b
+	.uleb128 0x6
+	.long	.LASF299
+	.byte	0x16
+	.value	0x4e9
+	.byte	0x11
+	.long	0x43d3
+	.uleb128 0x6
+	.long	.LASF300
+	.byte	0x16
+	.value	0x4ea
+	.byte	0x14
+	.long	0x46a7
+	.uleb128 0x6
+	.long	.LASF301
+	.byte	0x16
+	.value	0x4eb
+	.byte	0x12
+	.long	0x43fd
+	.uleb128 0x6
+	.long	.LASF302
+	.byte	0x16
+	.value	0x4ec
+	.byte	0x12
+	.long	0x4435
+	.uleb128 0x6
+	.long	.LASF303
+	.byte	0x16
+	.value	0x4ed
+	.byte	0x13
+	.long	0x4117
+	.uleb128 0x6
+	.long	.LASF304
+	.byte	0x16
+	.value	0x4ee
+	.byte	0x13
+	.long	0x445f
+	.uleb128 0x6
+	.long	.LASF305
+	.byte	0x16
+	.value	0x4ef
+	.byte	0x12
+	.long	0x4497
+	.uleb128 0x6
+	.long	.LASF306
+	.byte	0x16
+	.value	0x4f0
+	.byte	0x13
+	.long	0x44cf
+	.uleb128 0x6
+	.long	.LASF307
+	.byte	0x16
+	.value	0x4f1
+	.byte	0x13
+	.long	0x4522
+	.uleb128 0x6
+	.long	.LASF308
+	.byte	0x16
+	.value	0x4f2
+	.byte	0x13
+	.long	0x4559
+	.uleb128 0x6
+	.long	.LASF309
+	.byte	0x16
+	.value	0x4f3
+	.byte	0x13
+	.long	0x459e
+	.uleb128 0x6
+	.long	.LASF310
+	.byte	0x16
+	.value	0x4f4
+	.byte	0x14
+	.long	0x45f1
+	.uleb128 0x6
+	.long	.LASF311
+	.byte	0x16
+	.value	0x4f5
+	.byte	0x14
+	.long	0x4645
+	.uleb128 0x6
+	.long	.LASF312
+	.byte	0x16
+	.value	0x4f6
+	.byte	0x15
+	.long	0x4716
+	.uleb128 0x6
+	.long	.LASF313
+	.byte	0x16
+	.value	0x4f7
+	.byte	0x14
+	.long	0x474e
+	.uleb128 0x6
+	.long	.LASF314
+	.byte	0x16
+	.value	0x4f8
+	.byte	0x12
+	.long	0x476a
+	.uleb128 0x6
+	.long	.LASF315
+	.byte	0x16
+	.value	0x4f9
+	.byte	0x13
+	.long	0x4195
+	.uleb128 0x6
+	.long	.LASF316
+	.byte	0x16
+	.value	0x4fa
+	.byte	0x14
+	.long	0x47a2
+	.uleb128 0x6
+	.long	.LASF317
+	.byte	0x16
+	.value	0x4fc
+	.byte	0x12
+	.long	0x46de
+	.uleb128 0x6
+	.long	.LASF318
+	.byte	0x16
+	.value	0x4fe
+	.byte	0x12
+	.long	0x47cc
+	.uleb128 0x6
+	.long	.LASF319
+	.byte	0x16
+	.value	0x4ff
+	.byte	0x12
+	.long	0x47f6
+	.uleb128 0x6
+	.long	.LASF320
+	.byte	0x16
+	.value	0x500
+	.byte	0x12
+	.long	0x4820
+	.uleb128 0x6
+	.long	.LASF321
+	.byte	0x16
+	.value	0x501
+	.byte	0x13
+	.long	0x484a
+	.uleb128 0x6
+	.long	.LASF322
+	.byte	0x16
+	.value	0x502
+	.byte	0x13
+	.long	0x4882
+	.uleb128 0x6
+	.long	.LASF323
+	.byte	0x16
+	.value	0x503
+	.byte	0x15
+	.long	0x48ba
+	.uleb128 0x6
+	.long	.LASF324
+	.byte	0x16
+	.value	0x504
+	.byte	0x14
+	.long	0x4900
+	.byte	0
+	.uleb128 0x2d
+	.string	"Lib"
+	.byte	0x2a
+	.long	0x122b
+	.uleb128 0x5
+	.long	0x1230
+	.uleb128 0x38
+	.string	"lib"
+	.value	0x308
+	.byte	0x17
+	.byte	0x63
+	.byte	0x8
+	.long	0x13df
+	.uleb128 0x3
+	.long	.LASF325
+	.byte	0x17
+	.byte	0x64
+	.byte	0xb
+	.long	0x4e2
+	.byte	0
+	.uleb128 0x3
+	.long	.LASF326
+	.byte	0x17
+	.byte	0x65
+	.byte	0xa
+	.long	0x13df
+	.byte	0x8
+	.uleb128 0x3
+	.long	.LASF327
+	.byte	0x17
+	.byte	0x66
+	.byte	0x8
+	.long	0x2d4
+	.byte	0x10
+	.uleb128 0x3
+	.long	.LASF328
+	.byte	0x17
+	.byte	0x67
+	.byte	0x8
+	.long	0x2d4
+	.byte	0x11
+	.uleb128 0x3
+	.long	.LASF329
+	.byte	0x17
+	.byte	0x68
+	.byte	0x8
+	.long	0x2d4
+	.byte	0x12
+	.uleb128 0x3
+	.long	.LASF330
+	.byte	0x17
+	.byte	0x69
+	.byte	0x9
+	.long	0x356
+	.byte	0x18
+	.uleb128 0x3
+	.long	.LASF331
+	.byte	0x17
+	.byte	0x6a
+	.byte	0x9
+	.long	0x2c3
+	.byte	0x20
+	.uleb128 0x3
+	.long	.LASF332
+	.byte	0x17
+	.byte	0x6b
+	.byte	0x9
+	.long	0x33c
+	.byte	0x28
+	.uleb128 0x3
+	.long	.LASF222
+	.byte	0x17
+	.byte	0x6c
+	.byte	0x7
+	.long	0xb52
+	.byte	0x30
+	.uleb128 0x3
+	.long	.LASF221
+	.byte	0x17
+	.byte	0x6d
+	.byte	0x7
+	.long	0x14fe
+	.byte	0x38
+	.uleb128 0x3
+	.long	.LASF333
+	.byte	0x17
+	.byte	0x70
+	.byte	0x9
+	.long	0x2e1
+	.byte	0x40
+	.uleb128 0x3
+	.long	.LASF334
+	.byte	0x17
+	.byte	0x71
+	.byte	0x9
+	.long	0x2e1
+	.byte	0x42
+	.uleb128 0x3
+	.long	.LASF335
+	.byte	0x17
+	.byte	0x72
+	.byte	0x9
+	.long	0x2377
+	.byte	0x48
+	.uleb128 0x3
+	.long	.LASF225
+	.byte	0x17
+	.byte	0x73
+	.byte	0xb
+	.long	0x236b
+	.byte	0x50
+	.uleb128 0x3
+	.long	.LASF336
+	.byte	0x17
+	.byte	0x74
+	.byte	0xa
+	.long	0x4feb
+	.byte	0x58
+	.uleb128 0x3
+	.long	.LASF337
+	.byte	0x17
+	.byte	0x75
+	.byte	0xb
+	.long	0x4ff0
+	.byte	0x60
+	.uleb128 0x3
+	.long	.LASF338
+	.byte	0x17
+	.byte	0x76
+	.byte	0xb
+	.long	0x236b
+	.byte	0x68
+	.uleb128 0x3
+	.long	.LASF339
+	.byte	0x17
+	.byte	0x79
+	.byte	0x8
+	.long	0x2ee
+	.byte	0x70
+	.uleb128 0x3
+	.long	.LASF340
+	.byte	0x17
+	.byte	0x7a
+	.byte	0xa
+	.long	0x228e
+	.byte	0x78
+	.uleb128 0x3
+	.long	.LASF341
+	.byte	0x17
+	.byte	0x7b
+	.byte	0xc
+	.long	0x2282
+	.byte	0x80
+	.uleb128 0x3
+	.long	.LASF342
+	.byte	0x17
+	.byte	0x7c
+	.byte	0x8
+	.long	0x4dd
+	.byte	0x88
+	.uleb128 0x3
+	.long	.LASF343
+	.byte	0x17
+	.byte	0x7d
+	.byte	0x9
+	.long	0x397
+	.byte	0x90
+	.uleb128 0x3
+	.long	.LASF344
+	.byte	0x17
+	.byte	0x80
+	.byte	0x9
+	.long	0x32f
+	.byte	0x98
+	.uleb128 0x3
+	.long	.LASF345
+	.byte	0x17
+	.byte	0x81
+	.byte	0x9
+	.long	0x237c
+	.byte	0xa0
+	.uleb128 0x3
+	.long	.LASF346
+	.byte	0x17
+	.byte	0x82
+	.byte	0x8
+	.long	0x4dd
+	.byte	0xa8
+	.uleb128 0x3
+	.long	.LASF347
+	.byte	0x17
+	.byte	0x83
+	.byte	0x9
+	.long	0x397
+	.byte	0xb0
+	.uleb128 0x11
+	.string	"pos"
+	.byte	0x17
+	.byte	0x84
+	.byte	0x9
+	.long	0x397
+	.byte	0xb8
+	.uleb128 0x3
+	.long	.LASF348
+	.byte	0x17
+	.byte	0x85
+	.byte	0x9
+	.long	0x397
+	.byte	0xc0
+	.uleb128 0x3
+	.long	.LASF349
+	.byte	0x17
+	.byte	0x86
+	.byte	0x7
+	.long	0xdff
+	.byte	0xc8
+	.uleb128 0x3
+	.long	.LASF350
+	.byte	0x17
+	.byte	0x87
+	.byte	0x7
+	.long	0xdff
+	.byte	0xd0
+	.uleb128 0x3
+	.long	.LASF351
+	.byte	0x17
+	.byte	0x89
+	.byte	0x8
+	.long	0x71a
+	.byte	0xd8
+	.uleb128 0x11
+	.string	"hdr"
+	.byte	0x17
+	.byte	0x8b
+	.byte	0x10
+	.long	0x4f6d
+	.byte	0xe0
+	.byte	0
+	.uleb128 0xb
+	.long	.LASF352
+	.byte	0xe
+	.byte	0x2c
+	.byte	0x1b
+	.long	0x13eb
+	.uleb128 0x5
+	.long	0x13f0
+	.uleb128 0x13
+	.long	.LASF353
+	.uleb128 0xb
+	.long	.LASF354
+	.byte	0xe
+	.byte	0x2e
+	.byte	0x1c
+	.long	0x1401
+	.uleb128 0x5
+	.long	0x1406
+	.uleb128 0xd
+	.long	.LASF355
+	.byte	0x80
+	.byte	0x18
+	.byte	0x3d
+	.byte	0x8
+	.long	0x14fe
+	.uleb128 0x3
+	.long	.LASF356
+	.byte	0x18
+	.byte	0x3e
+	.byte	0x8
+	.long	0x2ee
+	.byte	0
+	.uleb128 0x3
+	.long	.LASF357
+	.byte	0x18
+	.byte	0x3f
+	.byte	0x8
+	.long	0x2ee
+	.byte	0x8
+	.uleb128 0x3
+	.long	.LASF358
+	.byte	0x18
+	.byte	0x40
+	.byte	0x8
+	.long	0x2ee
+	.byte	0x10
+	.uleb128 0x3
+	.long	.LASF204
+	.byte	0x18
+	.byte	0x41
+	.byte	0x7
+	.long	0x322
+	.byte	0x18
+	.uleb128 0x3
+	.long	.LASF359
+	.byte	0x18
+	.byte	0x42
+	.byte	0x8
+	.long	0x2d4
+	.byte	0x20
+	.uleb128 0x3
+	.long	.LASF360
+	.byte	0x18
+	.byte	0x43
+	.byte	0x8
+	.long	0x2d4
+	.byte	0x21
+	.uleb128 0x3
+	.long	.LASF361
+	.byte	0x18
+	.byte	0x44
+	.byte	0x8
+	.long	0x2d4
+	.byte	0x22
+	.uleb128 0x3
+	.long	.LASF218
+	.byte	0x18
+	.byte	0x45
+	.byte	0x9
+	.long	0x2e1
+	.byte	0x24
+	.uleb128 0x11
+	.string	"tbl"
+	.byte	0x18
+	.byte	0x46
+	.byte	0x8
+	.long	0x583
+	.byte	0x28
+	.uleb128 0x3
+	.long	.LASF362
+	.byte	0x18
+	.byte	0x47
+	.byte	0xb
+	.long	0x2332
+	.byte	0x30
+	.uleb128 0x3
+	.long	.LASF89
+	.byte	0x18
+	.byte	0x48
+	.byte	0x9
+	.long	0x50e
+	.byte	0x38
+	.uleb128 0x3
+	.long	.LASF363
+	.byte	0x18
+	.byte	0x49
+	.byte	0xd
+	.long	0x15f4
+	.byte	0x40
+	.uleb128 0x3
+	.long	.LASF364
+	.byte	0x18
+	.byte	0x4a
+	.byte	0xc
+	.long	0x1c74
+	.byte	0x48
+	.uleb128 0x3
+	.long	.LASF365
+	.byte	0x18
+	.byte	0x4f
+	.byte	0x4
+	.long	0x52a1
+	.byte	0x50
+	.uleb128 0x3
+	.long	.LASF366
+	.byte	0x18
+	.byte	0x51
+	.byte	0xc
+	.long	0x2282
+	.byte	0x60
+	.uleb128 0x3
+	.long	.LASF367
+	.byte	0x18
+	.byte	0x52
+	.byte	0xb
+	.long	0x236b
+	.byte	0x68
+	.uleb128 0x3
+	.long	.LASF368
+	.byte	0x18
+	.byte	0x53
+	.byte	0xb
+	.long	0x236b
+	.byte	0x70
+	.uleb128 0x3
+	.long	.LASF369
+	.byte	0x18
+	.byte	0x54
+	.byte	0x8
+	.long	0x583
+	.byte	0x78
+	.byte	0
+	.uleb128 0xb
+	.long	.LASF370
+	.byte	0xe
+	.byte	0x2f
+	.byte	0x24
+	.long	0x150a
+	.uleb128 0x5
+	.long	0x150f
+	.uleb128 0xd
+	.long	.LASF371
+	.byte	0x10
+	.byte	0xe
+	.byte	0x56
+	.byte	0x10
+	.long	0x1537
+	.uleb128 0x3
+	.long	.LASF372
+	.byte	0xe
+	.byte	0x56
+	.byte	0x2e
+	.long	0x13f5
+	.byte	0
+	.uleb128 0x3
+	.long	.LASF90
+	.byte	0xe
+	.byte	0x56
+	.byte	0x4f
+	.long	0x150a
+	.byte	0x8
+	.byte	0
+	.uleb128 0xb
+	.long	.LASF373
+	.byte	0xe
+	.byte	0x30
+	.byte	0x1a
+	.long	0x1543
+	.uleb128 0x5
+	.long	0x1548
+	.uleb128 0x13
+	.long	.LASF374
+	.uleb128 0xb
+	.long	.LASF375
+	.byte	0xe
+	.byte	0x35
+	.byte	0xf
+	.long	0x2ee
+	.uleb128 0xb
+	.long	.LASF376
+	.byte	0xe
+	.byte	0x37
+	.byte	0x1a
+	.long	0x1565
+	.uleb128 0x5
+	.long	0x156a
+	.uleb128 0x13
+	.long	.LASF377
+	.uleb128 0xb
+	.long	.LASF378
+	.byte	0xe
+	.byte	0x38
+	.byte	0x1b
+	.long	0x157b
+	.uleb128 0x5
+	.long	0x1580
+	.uleb128 0x13
+	.long	.LASF379
+	.uleb128 0xb
+	.long	.LASF380
+	.byte	0xe
+	.byte	0x39
+	.byte	0x1b
+	.long	0x1591
+	.uleb128 0x5
+	.long	0x1596
+	.uleb128 0x13
+	.long	.LASF381
+	.uleb128 0xb
+	.long	.LASF382
+	.byte	0xe
+	.byte	0x3a
+	.byte	0x18
+	.long	0x15a7
+	.uleb128 0x5
+	.long	0x15ac
+	.uleb128 0x39
+	.long	.LASF786
+	.uleb128 0xb
+	.long	.LASF383
+	.byte	0xe
+	.byte	0x3d
+	.byte	0x22
+	.long	0x15bd
+	.uleb128 0x5
+	.long	0x15c2
+	.uleb128 0x13
+	.long	.LASF384
+	.uleb128 0xd
+	.long	.LASF385
+	.byte	0x10
+	.byte	0xe
+	.byte	0x49
+	.byte	0x10
+	.long	0x15ef
+	.uleb128 0x3
+	.long	.LASF372
+	.byte	0xe
+	.byte	0x49
+	.byte	0x28
+	.long	0x66d
+	.byte	0
+	.uleb128 0x3
+	.long	.LASF90
+	.byte	0xe
+	.byte	0x49
+	.byte	0x46
+	.long	0x15ef
+	.byte	0x8
+	.byte	0
+	.uleb128 0x5
+	.long	0x15c7
+	.uleb128 0xb
+	.long	.LASF386
+	.byte	0xe
+	.byte	0x49
+	.byte	0x4f
+	.long	0x15ef
+	.uleb128 0xd
+	.long	.LASF387
+	.byte	0x10
+	.byte	0xe
+	.byte	0x4d
+	.byte	0x10
+	.long	0x1628
+	.uleb128 0x3
+	.long	.LASF372
+	.byte	0xe
+	.byte	0x4d
+	.byte	0x2a
+	.long	0x606
+	.byte	0
+	.uleb128 0x3
+	.long	.LASF90
+	.byte	0xe
+	.byte	0x4d
+	.byte	0x49
+	.long	0x1628
+	.byte	0x8
+	.byte	0
+	.uleb128 0x5
+	.long	0x1600
+	.uleb128 0xb
+	.long	.LASF388
+	.byte	0xe
+	.byte	0x4d
+	.byte	0x52
+	.long	0x1628
+	.uleb128 0x23
+	.long	.LASF389
+	.value	0x140
+	.byte	0xe
+	.byte	0x4d
+	.byte	0x66
+	.long	0x187c
+	.uleb128 0x3
+	.long	.LASF390
+	.byte	0xe
+	.byte	0x4d
+	.byte	0x8c
+	.long	0x1895
+	.byte	0
+	.uleb128 0x3
+	.long	.LASF391
+	.byte	0xe
+	.byte	0x4d
+	.byte	0xb8
+	.long	0x18a9
+	.byte	0x8
+	.uleb128 0x3
+	.long	.LASF392
+	.byte	0xe
+	.byte	0x4d
+	.byte	0xdc
+	.long	0x18be
+	.byte	0x10
+	.uleb128 0x3
+	.long	.LASF393
+	.byte	0xe
+	.byte	0x4d
+	.byte	0xfe
+	.long	0x18d2
+	.byte	0x18
+	.uleb128 0xa
+	.long	.LASF394
+	.byte	0xe
+	.byte	0x4d
+	.value	0x123
+	.long	0x18e7
+	.byte	0x20
+	.uleb128 0xa
+	.long	.LASF395
+	.byte	0xe
+	.byte	0x4d
+	.value	0x144
+	.long	0x191e
+	.byte	0x28
+	.uleb128 0xa
+	.long	.LASF396
+	.byte	0xe
+	.byte	0x4d
+	.value	0x18f
+	.long	0x1941
+	.byte	0x30
+	.uleb128 0xa
+	.long	.LASF397
+	.byte	0xe
+	.byte	0x4d
+	.value	0x1df
+	.long	0x1955
+	.byte	0x38
+	.uleb128 0xa
+	.long	.LASF398
+	.byte	0xe
+	.byte	0x4d
+	.value	0x1ff
+	.long	0x1965
+	.byte	0x40
+	.uleb128 0xa
+	.long	.LASF399
+	.byte	0xe
+	.byte	0x4d
+	.value	0x222
+	.long	0x197e
+	.byte	0x48
+	.uleb128 0xa
+	.long	.LASF400
+	.byte	0xe
+	.byte	0x4d
+	.value	0x24d
+	.long	0x19a3
+	.byte	0x50
+	.uleb128 0xa
+	.long	.LASF401
+	.byte	0xe
+	.byte	0x4d
+	.value	0x28a
+	.long	0x19c1
+	.byte	0x58
+	.uleb128 0xa
+	.long	.LASF402
+	.byte	0xe
+	.byte	0x4d
+	.value	0x2d8
+	.long	0x19f3
+	.byte	0x60
+	.uleb128 0x1c
+	.string	"Elt"
+	.byte	0xe
+	.byte	0x4d
+	.value	0x324
+	.long	0x1a0c
+	.byte	0x68
+	.uleb128 0xa
+	.long	.LASF403
+	.byte	0xe
+	.byte	0x4d
+	.value	0x34e
+	.long	0x1a25
+	.byte	0x70
+	.uleb128 0xa
+	.long	.LASF404
+	.byte	0xe
+	.byte	0x4d
+	.value	0x379
+	.long	0x1955
+	.byte	0x78
+	.uleb128 0xa
+	.long	.LASF405
+	.byte	0xe
+	.byte	0x4d
+	.value	0x39b
+	.long	0x1a39
+	.byte	0x80
+	.uleb128 0xa
+	.long	.LASF406
+	.byte	0xe
+	.byte	0x4d
+	.value	0x3ba
+	.long	0x1a52
+	.byte	0x88
+	.uleb128 0xa
+	.long	.LASF407
+	.byte	0xe
+	.byte	0x4d
+	.value	0x3e2
+	.long	0x1a52
+	.byte	0x90
+	.uleb128 0xa
+	.long	.LASF408
+	.byte	0xe
+	.byte	0x4d
+	.value	0x40b
+	.long	0x1a52
+	.byte	0x98
+	.uleb128 0xa
+	.long	.LASF409
+	.byte	0xe
+	.byte	0x4d
+	.value	0x43a
+	.long	0x1955
+	.byte	0xa0
+	.uleb128 0xa
+	.long	.LASF410
+	.byte	0xe
+	.byte	0x4d
+	.value	0x45d
+	.long	0x197e
+	.byte	0xa8
+	.uleb128 0xa
+	.long	.LASF411
+	.byte	0xe
+	.byte	0x4d
+	.value	0x48f
+	.long	0x1a7f
+	.byte	0xb0
+	.uleb128 0xa
+	.long	.LASF412
+	.byte	0xe
+	.byte	0x4d
+	.value	0x4ce
+	.long	0x1a9d
+	.byte	0xb8
+	.uleb128 0x1c
+	.string	"Map"
+	.byte	0xe
+	.byte	0x4d
+	.value	0x51c
+	.long	0x1ab6
+	.byte	0xc0
+	.uleb128 0xa
+	.long	.LASF413
+	.byte	0xe
+	.byte	0x4d
+	.value	0x555
+	.long	0x1ab6
+	.byte	0xc8
+	.uleb128 0xa
+	.long	.LASF414
+	.byte	0xe
+	.byte	0x4d
+	.value	0x58f
+	.long	0x1955
+	.byte	0xd0
+	.uleb128 0xa
+	.long	.LASF415
+	.byte	0xe
+	.byte	0x4d
+	.value	0x5b5
+	.long	0x1955
+	.byte	0xd8
+	.uleb128 0xa
+	.long	.LASF416
+	.byte	0xe
+	.byte	0x4d
+	.value	0x5dc
+	.long	0x197e
+	.byte	0xe0
+	.uleb128 0xa
+	.long	.LASF417
+	.byte	0xe
+	.byte	0x4d
+	.value	0x60e
+	.long	0x197e
+	.byte	0xe8
+	.uleb128 0xa
+	.long	.LASF418
+	.byte	0xe
+	.byte	0x4d
+	.value	0x63a
+	.long	0x1acf
+	.byte	0xf0
+	.uleb128 0xa
+	.long	.LASF419
+	.byte	0xe
+	.byte	0x4d
+	.value	0x65f
+	.long	0x1aed
+	.byte	0xf8
+	.uleb128 0x10
+	.long	.LASF420
+	.byte	0xe
+	.byte	0x4d
+	.value	0x6a3
+	.long	0x1b06
+	.value	0x100
+	.uleb128 0x10
+	.long	.LASF421
+	.byte	0xe
+	.byte	0x4d
+	.value	0x6d3
+	.long	0x1b1f
+	.value	0x108
+	.uleb128 0x10
+	.long	.LASF422
+	.byte	0xe
+	.byte	0x4d
+	.value	0x6f7
+	.long	0x1b3d
+	.value	0x110
+	.uleb128 0x10
+	.long	.LASF423
+	.byte	0xe
+	.byte	0x4d
+	.value	0x744
+	.long	0x1b5b
+	.value	0x118
+	.uleb128 0x10
+	.long	.LASF424
+	.byte	0xe
+	.byte	0x4d
+	.value	0x789
+	.long	0x1b75
+	.value	0x120
+	.uleb128 0x10
+	.long	.LASF425
+	.byte	0xe
+	.byte	0x4d
+	.value	0x7b5
+	.long	0x1bac
+	.value	0x128
+	.uleb128 0x10
+	.long	.LASF426
+	.byte	0xe
+	.byte	0x4d
+	.value	0x7f6
+	.long	0x1bd9
+	.value	0x130
+	.uleb128 0x10
+	.long	.LASF427
+	.byte	0xe
+	.byte	0x4d
+	.value	0x850
+	.long	0x1bf7
+	.value	0x138
+	.byte	0
+	.uleb128 0x20
+	.long	0x1639
+	.uleb128 0x9
+	.long	0x162d
+	.long	0x1895
+	.uleb128 0x1
+	.long	0x606
+	.uleb128 0x1
+	.long	0x162d
+	.byte	0
+	.uleb128 0x5
+	.long	0x1881
+	.uleb128 0x9
+	.long	0x162d
+	.long	0x18a9
+	.uleb128 0x1
+	.long	0x606
+	.byte	0
+	.uleb128 0x5
+	.long	0x189a
+	.uleb128 0x9
+	.long	0x162d
+	.long	0x18be
+	.uleb128 0x1
+	.long	0x2e
+	.uleb128 0x1b
+	.byte	0
+	.uleb128 0x5
+	.long	0x18ae
+	.uleb128 0x9
+	.long	0x162d
+	.long	0x18d2
+	.uleb128 0x1
+	.long	0x4d8
+	.byte	0
+	.uleb128 0x5
+	.long	0x18c3
+	.uleb128 0x9
+	.long	0x162d
+	.long	0x18e7
+	.uleb128 0x1
+	.long	0x606
+	.uleb128 0x1b
+	.byte	0
+	.uleb128 0x5
+	.long	0x18d7
+	.uleb128 0x9
+	.long	0x315
+	.long	0x1905
+	.uleb128 0x1
+	.long	0x162d
+	.uleb128 0x1
+	.long	0x162d
+	.uleb128 0x1
+	.long	0x1905
+	.byte	0
+	.uleb128 0x5
+	.long	0x190a
+	.uleb128 0x9
+	.long	0x315
+	.long	0x191e
+	.uleb128 0x1
+	.long	0x606
+	.uleb128 0x1
+	.long	0x606
+	.byte	0
+	.uleb128 0x5
+	.long	0x18ec
+	.uleb128 0x9
+	.long	0x606
+	.long	0x1941
+	.uleb128 0x1
+	.long	0x162d
+	.uleb128 0x1
+	.long	0x606
+	.uleb128 0x1
+	.long	0x1905
+	.uleb128 0x1
+	.long	0x4dd
+	.byte	0
+	.uleb128 0x5
+	.long	0x1923
+	.uleb128 0x9
+	.long	0x162d
+	.long	0x1955
+	.uleb128 0x1
+	.long	0x162d
+	.byte	0
+	.uleb128 0x5
+	.long	0x1946
+	.uleb128 0x15
+	.long	0x1965
+	.uleb128 0x1
+	.long	0x162d
+	.byte	0
+	.uleb128 0x5
+	.long	0x195a
+	.uleb128 0x9
+	.long	0x162d
+	.long	0x197e
+	.uleb128 0x1
+	.long	0x162d
+	.uleb128 0x1
+	.long	0x162d
+	.byte	0
+	.uleb128 0x5
+	.long	0x196a
+	.uleb128 0x15
+	.long	0x1993
+	.uleb128 0x1
+	.long	0x162d
+	.uleb128 0x1
+	.long	0x1993
+	.byte	0
+	.uleb128 0x5
+	.long	0x1998
+	.uleb128 0x15
+	.long	0x19a3
+	.uleb128 0x1
+	.long	0x606
+	.byte	0
+	.uleb128 0x5
+	.long	0x1983
+	.uleb128 0x9
+	.long	0x162d
+	.long	0x19c1
+	.uleb128 0x1
+	.long	0x162d
+	.uleb128 0x1
+	.long	0x162d
+	.uleb128 0x1
+	.long	0x1993
+	.byte	0
+	.uleb128 0x5
+	.long	0x19a8
+	.uleb128 0x9
+	.long	0x162d
+	.long	0x19df
+	.uleb128 0x1
+	.long	0x162d
+	.uleb128 0x1
+	.long	0x1993
+	.uleb128 0x1
+	.long	0x19df
+	.byte	0
+	.uleb128 0x5
+	.long	0x19e4
+	.uleb128 0x9
+	.long	0x315
+	.long	0x19f3
+	.uleb128 0x1
+	.long	0x606
+	.byte	0
+	.uleb128 0x5
+	.long	0x19c6
+	.uleb128 0x9
+	.long	0x606
+	.long	0x1a0c
+	.uleb128 0x1
+	.long	0x162d
+	.uleb128 0x1
+	.long	0x32f
+	.byte	0
+	.uleb128 0x5
+	.long	0x19f8
+	.uleb128 0x9
+	.long	0x162d
+	.long	0x1a25
+	.uleb128 0x1
+	.long	0x162d
+	.uleb128 0x1
+	.long	0x32f
+	.byte	0
+	.uleb128 0x5
+	.long	0x1a11
+	.uleb128 0x9
+	.long	0x32f
+	.long	0x1a39
+	.uleb128 0x1
+	.long	0x162d
+	.byte	0
+	.uleb128 0x5
+	.long	0x1a2a
+	.uleb128 0x9
+	.long	0x315
+	.long	0x1a52
+	.uleb128 0x1
+	.long	0x162d
+	.uleb128 0x1
+	.long	0x32f
+	.byte	0
+	.uleb128 0x5
+	.long	0x1a3e
+	.uleb128 0x9
+	.long	0x162d
+	.long	0x1a6b
+	.uleb128 0x1
+	.long	0x162d
+	.uleb128 0x1
+	.long	0x1a6b
+	.byte	0
+	.uleb128 0x5
+	.long	0x1a70
+	.uleb128 0x9
+	.long	0x606
+	.long	0x1a7f
+	.uleb128 0x1
+	.long	0x606
+	.byte	0
+	.uleb128 0x5
+	.long	0x1a57
+	.uleb128 0x9
+	.long	0x162d
+	.long	0x1a9d
+	.uleb128 0x1
+	.long	0x162d
+	.uleb128 0x1
+	.long	0x162d
+	.uleb128 0x1
+	.long	0x1a6b
+	.byte	0
+	.uleb128 0x5
+	.long	0x1a84
+	.uleb128 0x9
+	.long	0x162d
+	.long	0x1ab6
+	.uleb128 0x1
+	.long	0x1a6b
+	.uleb128 0x1
+	.long	0x162d
+	.byte	0
+	.uleb128 0x5
+	.long	0x1aa2
+	.uleb128 0x9
+	.long	0x315
+	.long	0x1acf
+	.uleb128 0x1
+	.long	0x162d
+	.uleb128 0x1
+	.long	0x606
+	.byte	0
+	.uleb128 0x5
+	.long	0x1abb
+	.uleb128 0x9
+	.long	0x315
+	.long	0x1aed
+	.uleb128 0x1
+	.long	0x162d
+	.uleb128 0x1
+	.long	0x606
+	.uleb128 0x1
+	.long	0x1905
+	.byte	0
+	.uleb128 0x5
+	.long	0x1ad4
+	.uleb128 0x9
+	.long	0x315
+	.long	0x1b06
+	.uleb128 0x1
+	.long	0x162d
+	.uleb128 0x1
+	.long	0x162d
+	.byte	0
+	.uleb128 0x5
+	.long	0x1af2
+	.uleb128 0x9
+	.long	0x2e
+	.long	0x1b1f
+	.uleb128 0x1
+	.long	0x162d
+	.uleb128 0x1
+	.long	0x606
+	.byte	0
+	.uleb128 0x5
+	.long	0x1b0b
+	.uleb128 0x9
+	.long	0x2e
+	.long	0x1b3d
+	.uleb128 0x1
+	.long	0x162d
+	.uleb128 0x1
+	.long	0x606
+	.uleb128 0x1
+	.long	0x1905
+	.byte	0
+	.uleb128 0x5
+	.long	0x1b24
+	.uleb128 0x9
+	.long	0x162d
+	.long	0x1b5b
+	.uleb128 0x1
+	.long	0x162d
+	.uleb128 0x1
+	.long	0x606
+	.uleb128 0x1
+	.long	0x1905
+	.byte	0
+	.uleb128 0x5
+	.long	0x1b42
+	.uleb128 0x15
+	.long	0x1b70
+	.uleb128 0x1
+	.long	0x1b70
+	.uleb128 0x1
+	.long	0x162d
+	.byte	0
+	.uleb128 0x5
+	.long	0x606
+	.uleb128 0x5
+	.long	0x1b60
+	.uleb128 0x9
+	.long	0x2e
+	.long	0x1b93
+	.uleb128 0x1
+	.long	0x2c3
+	.uleb128 0x1
+	.long	0x162d
+	.uleb128 0x1
+	.long	0x1b93
+	.byte	0
+	.uleb128 0x5
+	.long	0x1b98
+	.uleb128 0x9
+	.long	0x2e
+	.long	0x1bac
+	.uleb128 0x1
+	.long	0x2c3
+	.uleb128 0x1
+	.long	0x606
+	.byte	0
+	.uleb128 0x5
+	.long	0x1b7a
+	.uleb128 0x9
+	.long	0x2e
+	.long	0x1bd9
+	.uleb128 0x1
+	.long	0x2c3
+	.uleb128 0x1
+	.long	0x162d
+	.uleb128 0x1
+	.long	0x1b93
+	.uleb128 0x1
+	.long	0x80
+	.uleb128 0x1
+	.long	0x80
+	.uleb128 0x1
+	.long	0x80
+	.byte	0
+	.uleb128 0x5
+	.long	0x1bb1
+	.uleb128 0x9
+	.long	0x2e
+	.long	0x1bf7
+	.uleb128 0x1
+	.long	0x3d2
+	.uleb128 0x1
+	.long	0x363
+	.uleb128 0x1
+	.long	0x162d
+	.byte	0
+	.uleb128 0x5
+	.long	0x1bde
+	.uleb128 0x27
+	.long	.LASF433
+	.byte	0xe
+	.byte	0x4d
+	.value	0x8a7
+	.long	0x1c09
+	.uleb128 0x5
+	.long	0x187c
+	.uleb128 0xd
+	.long	.LASF428
+	.byte	0x10
+	.byte	0xe
+	.byte	0x4e
+	.byte	0x10
+	.long	0x1c36
+	.uleb128 0x3
+	.long	.LASF372
+	.byte	0xe
+	.byte	0x4e
+	.byte	0x26
+	.long	0x6a6
+	.byte	0
+	.uleb128 0x3
+	.long	.LASF90
+	.byte	0xe
+	.byte	0x4e
+	.byte	0x43
+	.long	0x1c36
+	.byte	0x8
+	.byte	0
+	.uleb128 0x5
+	.long	0x1c0e
+	.uleb128 0xb
+	.long	.LASF429
+	.byte	0xe
+	.byte	0x4e
+	.byte	0x4c
+	.long	0x1c36
+	.uleb128 0xd
+	.long	.LASF430
+	.byte	0x10
+	.byte	0xe
+	.byte	0x4f
+	.byte	0x10
+	.long	0x1c6f
+	.uleb128 0x3
+	.long	.LASF372
+	.byte	0xe
+	.byte	0x4f
+	.byte	0x26
+	.long	0x71a
+	.byte	0
+	.uleb128 0x3
+	.long	.LASF90
+	.byte	0xe
+	.byte	0x4f
+	.byte	0x43
+	.long	0x1c6f
+	.byte	0x8
+	.byte	0
+	.uleb128 0x5
+	.long	0x1c47
+	.uleb128 0xb
+	.long	.LASF431
+	.byte	0xe
+	.byte	0x4f
+	.byte	0x4c
+	.long	0x1c6f
+	.uleb128 0x23
+	.long	.LASF432
+	.value	0x140
+	.byte	0xe
+	.byte	0x4f
+	.byte	0x5e
+	.long	0x1ec3
+	.uleb128 0x3
+	.long	.LASF390
+	.byte	0xe
+	.byte	0x4f
+	.byte	0x80
+	.long	0x1edc
+	.byte	0
+	.uleb128 0x3
+	.long	.LASF391
+	.byte	0xe
+	.byte	0x4f
+	.byte	0xa6
+	.long	0x1ef0
+	.byte	0x8
+	.uleb128 0x3
+	.long	.LASF392
+	.byte	0xe
+	.byte	0x4f
+	.byte	0xc6
+	.long	0x1f05
+	.byte	0x10
+	.uleb128 0x3
+	.long	.LASF393
+	.byte	0xe
+	.byte	0x4f
+	.byte	0xe6
+	.long	0x1f19
+	.byte	0x18
+	.uleb128 0xa
+	.long	.LASF394
+	.byte	0xe
+	.byte	0x4f
+	.value	0x109
+	.long	0x1f2e
+	.byte	0x20
+	.uleb128 0xa
+	.long	.LASF395
+	.byte	0xe
+	.byte	0x4f
+	.value	0x128
+	.long	0x1f65
+	.byte	0x28
+	.uleb128 0xa
+	.long	.LASF396
+	.byte	0xe
+	.byte	0x4f
+	.value	0x169
+	.long	0x1f88
+	.byte	0x30
+	.uleb128 0xa
+	.long	.LASF397
+	.byte	0xe
+	.byte	0x4f
+	.value	0x1af
+	.long	0x1f9c
+	.byte	0x38
+	.uleb128 0xa
+	.long	.LASF398
+	.byte	0xe
+	.byte	0x4f
+	.value	0x1cd
+	.long	0x1fac
+	.byte	0x40
+	.uleb128 0xa
+	.long	.LASF399
+	.byte	0xe
+	.byte	0x4f
+	.value	0x1ec
+	.long	0x1fc5
+	.byte	0x48
+	.uleb128 0xa
+	.long	.LASF400
+	.byte	0xe
+	.byte	0x4f
+	.value	0x213
+	.long	0x1fea
+	.byte	0x50
+	.uleb128 0xa
+	.long	.LASF401
+	.byte	0xe
+	.byte	0x4f
+	.value	0x24a
+	.long	0x2008
+	.byte	0x58
+	.uleb128 0xa
+	.long	.LASF402
+	.byte	0xe
+	.byte	0x4f
+	.value	0x290
+	.long	0x203a
+	.byte	0x60
+	.uleb128 0x1c
+	.string	"Elt"
+	.byte	0xe
+	.byte	0x4f
+	.value	0x2d4
+	.long	0x2053
+	.byte	0x68
+	.uleb128 0xa
+	.long	.LASF403
+	.byte	0xe
+	.byte	0x4f
+	.value	0x2fa
+	.long	0x206c
+	.byte	0x70
+	.uleb128 0xa
+	.long	.LASF404
+	.byte	0xe
+	.byte	0x4f
+	.value	0x321
+	.long	0x1f9c
+	.byte	0x78
+	.uleb128 0xa
+	.long	.LASF405
+	.byte	0xe
+	.byte	0x4f
+	.value	0x341
+	.long	0x2080
+	.byte	0x80
+	.uleb128 0xa
+	.long	.LASF406
+	.byte	0xe
+	.byte	0x4f
+	.value	0x35e
+	.long	0x2099
+	.byte	0x88
+	.uleb128 0xa
+	.long	.LASF407
+	.byte	0xe
+	.byte	0x4f
+	.value	0x384
+	.long	0x2099
+	.byte	0x90
+	.uleb128 0xa
+	.long	.LASF408
+	.byte	0xe
+	.byte	0x4f
+	.value	0x3ab
+	.long	0x2099
+	.byte	0x98
+	.uleb128 0xa
+	.long	.LASF409
+	.byte	0xe
+	.byte	0x4f
+	.value	0x3d6
+	.long	0x1f9c
+	.byte	0xa0
+	.uleb128 0xa
+	.long	.LASF410
+	.byte	0xe
+	.byte	0x4f
+	.value	0x3f5
+	.long	0x1fc5
+	.byte	0xa8
+	.uleb128 0xa
+	.long	.LASF411
+	.byte	0xe
+	.byte	0x4f
+	.value	0x421
+	.long	0x20c6
+	.byte	0xb0
+	.uleb128 0xa
+	.long	.LASF412
+	.byte	0xe
+	.byte	0x4f
+	.value	0x458
+	.long	0x20e4
+	.byte	0xb8
+	.uleb128 0x1c
+	.string	"Map"
+	.byte	0xe
+	.byte	0x4f
+	.value	0x49c
+	.long	0x20fd
+	.byte	0xc0
+	.uleb128 0xa
+	.long	.LASF413
+	.byte	0xe
+	.byte	0x4f
+	.value	0x4cd
+	.long	0x20fd
+	.byte	0xc8
+	.uleb128 0xa
+	.long	.LASF414
+	.byte	0xe
+	.byte	0x4f
+	.value	0x4ff
+	.long	0x1f9c
+	.byte	0xd0
+	.uleb128 0xa
+	.long	.LASF415
+	.byte	0xe
+	.byte	0x4f
+	.value	0x521
+	.long	0x1f9c
+	.byte	0xd8
+	.uleb128 0xa
+	.long	.LASF416
+	.byte	0xe
+	.byte	0x4f
+	.value	0x544
+	.long	0x1fc5
+	.byte	0xe0
+	.uleb128 0xa
+	.long	.LASF417
+	.byte	0xe
+	.byte	0x4f
+	.value	0x570
+	.long	0x1fc5
+	.byte	0xe8
+	.uleb128 0xa
+	.long	.LASF418
+	.byte	0xe
+	.byte	0x4f
+	.value	0x598
+	.long	0x2116
+	.byte	0xf0
+	.uleb128 0xa
+	.long	.LASF419
+	.byte	0xe
+	.byte	0x4f
+	.value	0x5b9
+	.long	0x2134
+	.byte	0xf8
+	.uleb128 0x10
+	.long	.LASF420
+	.byte	0xe
+	.byte	0x4f
+	.value	0x5f5
+	.long	0x214d
+	.value	0x100
+	.uleb128 0x10
+	.long	.LASF421
+	.byte	0xe
+	.byte	0x4f
+	.value	0x621
+	.long	0x2166
+	.value	0x108
+	.uleb128 0x10
+	.long	.LASF422
+	.byte	0xe
+	.byte	0x4f
+	.value	0x641
+	.long	0x2184
+	.value	0x110
+	.uleb128 0x10
+	.long	.LASF423
+	.byte	0xe
+	.byte	0x4f
+	.value	0x684
+	.long	0x21a2
+	.value	0x118
+	.uleb128 0x10
+	.long	.LASF424
+	.byte	0xe
+	.byte	0x4f
+	.value	0x6c1
+	.long	0x21bc
+	.value	0x120
+	.uleb128 0x10
+	.long	.LASF425
+	.byte	0xe
+	.byte	0x4f
+	.value	0x6e9
+	.long	0x21f3
+	.value	0x128
+	.uleb128 0x10
+	.long	.LASF426
+	.byte	0xe
+	.byte	0x4f
+	.value	0x726
+	.long	0x2220
+	.value	0x130
+	.uleb128 0x10
+	.long	.LASF427
+	.byte	0xe
+	.byte	0x4f
+	.value	0x77c
+	.long	0x223e
+	.value	0x138
+	.byte	0
+	.uleb128 0x20
+	.long	0x1c80
+	.uleb128 0x9
+	.long	0x1c74
+	.long	0x1edc
+	.uleb128 0x1
+	.long	0x71a
+	.uleb128 0x1
+	.long	0x1c74
+	.byte	0
+	.uleb128 0x5
+	.long	0x1ec8
+	.uleb128 0x9
+	.long	0x1c74
+	.long	0x1ef0
+	.uleb128 0x1
+	.long	0x71a
+	.byte	0
+	.uleb128 0x5
+	.long	0x1ee1
+	.uleb128 0x9
+	.long	0x1c74
+	.long	0x1f05
+	.uleb128 0x1
+	.long	0x2e
+	.uleb128 0x1b
+	.byte	0
+	.uleb128 0x5
+	.long	0x1ef5
+	.uleb128 0x9
+	.long	0x1c74
+	.long	0x1f19
+	.uleb128 0x1
+	.long	0x4d8
+	.byte	0
+	.uleb128 0x5
+	.long	0x1f0a
+	.uleb128 0x9
+	.long	0x1c74
+	.long	0x1f2e
+	.uleb128 0x1
+	.long	0x71a
+	.uleb128 0x1b
+	.byte	0
+	.uleb128 0x5
+	.long	0x1f1e
+	.uleb128 0x9
+	.long	0x315
+	.long	0x1f4c
+	.uleb128 0x1
+	.long	0x1c74
+	.uleb128 0x1
+	.long	0x1c74
+	.uleb128 0x1
+	.long	0x1f4c
+	.byte	0
+	.uleb128 0x5
+	.long	0x1f51
+	.uleb128 0x9
+	.long	0x315
+	.long	0x1f65
+	.uleb128 0x1
+	.long	0x71a
+	.uleb128 0x1
+	.long	0x71a
+	.byte	0
+	.uleb128 0x5
+	.long	0x1f33
+	.uleb128 0x9
+	.long	0x71a
+	.long	0x1f88
+	.uleb128 0x1
+	.long	0x1c74
+	.uleb128 0x1
+	.long	0x71a
+	.uleb128 0x1
+	.long	0x1f4c
+	.uleb128 0x1
+	.long	0x4dd
+	.byte	0
+	.uleb128 0x5
+	.long	0x1f6a
+	.uleb128 0x9
+	.long	0x1c74
+	.long	0x1f9c
+	.uleb128 0x1
+	.long	0x1c74
+	.byte	0
+	.uleb128 0x5
+	.long	0x1f8d
+	.uleb128 0x15
+	.long	0x1fac
+	.uleb128 0x1
+	.long	0x1c74
+	.byte	0
+	.uleb128 0x5
+	.long	0x1fa1
+	.uleb128 0x9
+	.long	0x1c74
+	.long	0x1fc5
+	.uleb128 0x1
+	.long	0x1c74
+	.uleb128 0x1
+	.long	0x1c74
+	.byte	0
+	.uleb128 0x5
+	.long	0x1fb1
+	.uleb128 0x15
+	.long	0x1fda
+	.uleb128 0x1
+	.long	0x1c74
+	.uleb128 0x1
+	.long	0x1fda
+	.byte	0
+	.uleb128 0x5
+	.long	0x1fdf
+	.uleb128 0x15
+	.long	0x1fea
+	.uleb128 0x1
+	.long	0x71a
+	.byte	0
+	.uleb128 0x5
+	.long	0x1fca
+	.uleb128 0x9
+	.long	0x1c74
+	.long	0x2008
+	.uleb128 0x1
+	.long	0x1c74
+	.uleb128 0x1
+	.long	0x1c74
+	.uleb128 0x1
+	.long	0x1fda
+	.byte	0
+	.uleb128 0x5
+	.long	0x1fef
+	.uleb128 0x9
+	.long	0x1c74
+	.long	0x2026
+	.uleb128 0x1
+	.long	0x1c74
+	.uleb128 0x1
+	.long	0x1fda
+	.uleb128 0x1
+	.long	0x2026
+	.byte	0
+	.uleb128 0x5
+	.long	0x202b
+	.uleb128 0x9
+	.long	0x315
+	.long	0x203a
+	.uleb128 0x1
+	.long	0x71a
+	.byte	0
+	.uleb128 0x5
+	.long	0x200d
+	.uleb128 0x9
+	.long	0x71a
+	.long	0x2053
+	.uleb128 0x1
+	.long	0x1c74
+	.uleb128 0x1
+	.long	0x32f
+	.byte	0
+	.uleb128 0x5
+	.long	0x203f
+	.uleb128 0x9
+	.long	0x1c74
+	.long	0x206c
+	.uleb128 0x1
+	.long	0x1c74
+	.uleb128 0x1
+	.long	0x32f
+	.byte	0
+	.uleb128 0x5
+	.long	0x2058
+	.uleb128 0x9
+	.long	0x32f
+	.long	0x2080
+	.uleb128 0x1
+	.long	0x1c74
+	.byte	0
+	.uleb128 0x5
+	.long	0x2071
+	.uleb128 0x9
+	.long	0x315
+	.long	0x2099
+	.uleb128 0x1
+	.long	0x1c74
+	.uleb128 0x1
+	.long	0x32f
+	.byte	0
+	.uleb128 0x5
+	.long	0x2085
+	.uleb128 0x9
+	.long	0x1c74
+	.long	0x20b2
+	.uleb128 0x1
+	.long	0x1c74
+	.uleb128 0x1
+	.long	0x20b2
+	.byte	0
+	.uleb128 0x5
+	.long	0x20b7
+	.uleb128 0x9
+	.long	0x71a
+	.long	0x20c6
+	.uleb128 0x1
+	.long	0x71a
+	.byte	0
+	.uleb128 0x5
+	.long	0x209e
+	.uleb128 0x9
+	.long	0x1c74
+	.long	0x20e4
+	.uleb128 0x1
+	.long	0x1c74
+	.uleb128 0x1
+	.long	0x1c74
+	.uleb128 0x1
+	.long	0x20b2
+	.byte	0
+	.uleb128 0x5
+	.long	0x20cb
+	.uleb128 0x9
+	.long	0x1c74
+	.long	0x20fd
+	.uleb128 0x1
+	.long	0x20b2
+	.uleb128 0x1
+	.long	0x1c74
+	.byte	0
+	.uleb128 0x5
+	.long	0x20e9
+	.uleb128 0x9
+	.long	0x315
+	.long	0x2116
+	.uleb128 0x1
+	.long	0x1c74
+	.uleb128 0x1
+	.long	0x71a
+	.byte	0
+	.uleb128 0x5
+	.long	0x2102
+	.uleb128 0x9
+	.long	0x315
+	.long	0x2134
+	.uleb128 0x1
+	.long	0x1c74
+	.uleb128 0x1
+	.long	0x71a
+	.uleb128 0x1
+	.long	0x1f4c
+	.byte	0
+	.uleb128 0x5
+	.long	0x211b
+	.uleb128 0x9
+	.long	0x315
+	.long	0x214d
+	.uleb128 0x1
+	.long	0x1c74
+	.uleb128 0x1
+	.long	0x1c74
+	.byte	0
+	.uleb128 0x5
+	.long	0x2139
+	.uleb128 0x9
+	.long	0x2e
+	.long	0x2166
+	.uleb128 0x1
+	.long	0x1c74
+	.uleb128 0x1
+	.long	0x71a
+	.byte	0
+	.uleb128 0x5
+	.long	0x2152
+	.uleb128 0x9
+	.long	0x2e
+	.long	0x2184
+	.uleb128 0x1
+	.long	0x1c74
+	.uleb128 0x1
+	.long	0x71a
+	.uleb128 0x1
+	.long	0x1f4c
+	.byte	0
+	.uleb128 0x5
+	.long	0x216b
+	.uleb128 0x9
+	.long	0x1c74
+	.long	0x21a2
+	.uleb128 0x1
+	.long	0x1c74
+	.uleb128 0x1
+	.long	0x71a
+	.uleb128 0x1
+	.long	0x1f4c
+	.byte	0
+	.uleb128 0x5
+	.long	0x2189
+	.uleb128 0x15
+	.long	0x21b7
+	.uleb128 0x1
+	.long	0x21b7
+	.uleb128 0x1
+	.long	0x1c74
+	.byte	0
+	.uleb128 0x5
+	.long	0x71a
+	.uleb128 0x5
+	.long	0x21a7
+	.uleb128 0x9
+	.long	0x2e
+	.long	0x21da
+	.uleb128 0x1
+	.long	0x2c3
+	.uleb128 0x1
+	.long	0x1c74
+	.uleb128 0x1
+	.long	0x21da
+	.byte	0
+	.uleb128 0x5
+	.long	0x21df
+	.uleb128 0x9
+	.long	0x2e
+	.long	0x21f3
+	.uleb128 0x1
+	.long	0x2c3
+	.uleb128 0x1
+	.long	0x71a
+	.byte	0
+	.uleb128 0x5
+	.long	0x21c1
+	.uleb128 0x9
+	.long	0x2e
+	.long	0x2220
+	.uleb128 0x1
+	.long	0x2c3
+	.uleb128 0x1
+	.long	0x1c74
+	.uleb128 0x1
+	.long	0x21da
+	.uleb128 0x1
+	.long	0x80
+	.uleb128 0x1
+	.long	0x80
+	.uleb128 0x1
+	.long	0x80
+	.byte	0
+	.uleb128 0x5
+	.long	0x21f8
+	.uleb128 0x9
+	.long	0x2e
+	.long	0x223e
+	.uleb128 0x1
+	.long	0x3d2
+	.uleb128 0x1
+	.long	0x363
+	.uleb128 0x1
+	.long	0x1c74
+	.byte	0
+	.uleb128 0x5
+	.long	0x2225
+	.uleb128 0x27
+	.long	.LASF434
+	.byte	0xe
+	.byte	0x4f
+	.value	0x7cf
+	.long	0x2250
+	.uleb128 0x5
+	.long	0x1ec3
+	.uleb128 0xd
+	.long	.LASF435
+	.byte	0x10
+	.byte	0xe
+	.byte	0x52
+	.byte	0x10
+	.long	0x227d
+	.uleb128 0x3
+	.long	.LASF372
+	.byte	0xe
+	.byte	0x52
+	.byte	0x26
+	.long	0xbff
+	.byte	0
+	.uleb128 0x3
+	.long	.LASF90
+	.byte	0xe
+	.byte	0x52
+	.byte	0x43
+	.long	0x227d
+	.byte	0x8
+	.byte	0
+	.uleb128 0x5
+	.long	0x2255
+	.uleb128 0xb
+	.long	.LASF436
+	.byte	0xe
+	.byte	0x52
+	.byte	0x4c
+	.long	0x227d
+	.uleb128 0x5
+	.long	0xbff
+	.uleb128 0xd
+	.long	.LASF437
+	.byte	0x10
+	.byte	0xe
+	.byte	0x53
+	.byte	0x10
+	.long	0x22bb
+	.uleb128 0x3
+	.long	.LASF372
+	.byte	0xe
+	.byte	0x53
+	.byte	0x28
+	.long	0xdd3
+	.byte	0
+	.uleb128 0x3
+	.long	.LASF90
+	.byte	0xe
+	.byte	0x53
+	.byte	0x46
+	.long	0x22bb
+	.byte	0x8
+	.byte	0
+	.uleb128 0x5
+	.long	0x2293
+	.uleb128 0xb
+	.long	.LASF438
+	.byte	0xe
+	.byte	0x53
+	.byte	0x4f
+	.long	0x22bb
+	.uleb128 0xd
+	.long	.LASF439
+	.byte	0x10
+	.byte	0xe
+	.byte	0x54
+	.byte	0x10
+	.long	0x22f4
+	.uleb128 0x3
+	.long	.LASF372
+	.byte	0xe
+	.byte	0x54
+	.byte	0x26
+	.long	0xde9
+	.byte	0
+	.uleb128 0x3
+	.long	.LASF90
+	.byte	0xe
+	.byte	0x54
+	.byte	0x43
+	.long	0x22f4
+	.byte	0x8
+	.byte	0
+	.uleb128 0x5
+	.long	0x22cc
+	.uleb128 0xb
+	.long	.LASF440
+	.byte	0xe
+	.byte	0x54
+	.byte	0x4c
+	.long	0x22f4
+	.uleb128 0xd
+	.long	.LASF441
+	.byte	0x10
+	.byte	0xe
+	.byte	0x55
+	.byte	0x10
+	.long	0x232d
+	.uleb128 0x3
+	.long	.LASF372
+	.byte	0xe
+	.byte	0x55
+	.byte	0x24
+	.long	0x14fe
+	.byte	0
+	.uleb128 0x3
+	.long	.LASF90
+	.byte	0xe
+	.byte	0x55
+	.byte	0x40
+	.long	0x232d
+	.byte	0x8
+	.byte	0
+	.uleb128 0x5
+	.long	0x2305
+	.uleb128 0xb
+	.long	.LASF442
+	.byte	0xe
+	.byte	0x55
+	.byte	0x49
+	.long	0x232d
+	.uleb128 0xd
+	.long	.LASF443
+	.byte	0x10
+	.byte	0xe
+	.byte	0x57
+	.byte	0x10
+	.long	0x2366
+	.uleb128 0x3
+	.long	.LASF372
+	.byte	0xe
+	.byte	0x57
+	.byte	0x24
+	.long	0xb52
+	.byte	0
+	.uleb128 0x3
+	.long	.LASF90
+	.byte	0xe
+	.byte	0x57
+	.byte	0x40
+	.long	0x2366
+	.byte	0x8
+	.byte	0
+	.uleb128 0x5
+	.long	0x233e
+	.uleb128 0xb
+	.long	.LASF444
+	.byte	0xe
+	.byte	0x57
+	.byte	0x49
+	.long	0x2366
+	.uleb128 0x5
+	.long	0xb52
+	.uleb128 0x5
+	.long	0xdff
+	.uleb128 0x5
+	.long	0x2fb
+	.uleb128 0xd
+	.long	.LASF445
+	.byte	0x10
+	.byte	0xe
+	.byte	0x5d
+	.byte	0x10
+	.long	0x23ae
+	.uleb128 0x3
+	.long	.LASF372
+	.byte	0xe
+	.byte	0x5d
+	.byte	0x28
+	.long	0x1559
+	.byte	0
+	.uleb128 0x3
+	.long	.LASF90
+	.byte	0xe
+	.byte	0x5d
+	.byte	0x46
+	.long	0x23ae
+	.byte	0x8
+	.byte	0
+	.uleb128 0x5
+	.long	0x2386
+	.uleb128 0xb
+	.long	.LASF446
+	.byte	0xe
+	.byte	0x5d
+	.byte	0x4f
+	.long	0x23ae
+	.uleb128 0x18
+	.long	0x356
+	.long	0x23cf
+	.uleb128 0x19
+	.long	0x4a
+	.byte	0x9
+	.byte	0
+	.uleb128 0x3a
+	.long	.LASF447
+	.byte	0xc
+	.byte	0x13
+	.byte	0xf
+	.long	0x50e
+	.uleb128 0xb
+	.long	.LASF448
+	.byte	0xd
+	.byte	0xe
+	.byte	0x11
+	.long	0x349
+	.uleb128 0xb
+	.long	.LASF449
+	.byte	0xd
+	.byte	0xf
+	.byte	0x11
+	.long	0x349
+	.uleb128 0xb
+	.long	.LASF450
+	.byte	0xd
+	.byte	0x11
+	.byte	0x11
+	.long	0x23ff
+	.uleb128 0x5
+	.long	0x2404
+	.uleb128 0x9
+	.long	0x322
+	.long	0x2413
+	.uleb128 0x1
+	.long	0x23db
+	.byte	0
+	.uleb128 0xb
+	.long	.LASF451
+	.byte	0xd
+	.byte	0x12
+	.byte	0x11
+	.long	0x241f
+	.uleb128 0x5
+	.long	0x2424
+	.uleb128 0x9
+	.long	0x315
+	.long	0x2438
+	.uleb128 0x1
+	.long	0x23db
+	.uleb128 0x1
+	.long	0x23db
+	.byte	0
+	.uleb128 0xd
+	.long	.LASF452
+	.byte	0x20
+	.byte	0xd
+	.byte	0x1a
+	.byte	0x8
+	.long	0x247a
+	.uleb128 0x11
+	.string	"key"
+	.byte	0xd
+	.byte	0x1b
+	.byte	0x9
+	.long	0x23db
+	.byte	0
+	.uleb128 0x11
+	.string	"elt"
+	.byte	0xd
+	.byte	0x1c
+	.byte	0x9
+	.long	0x23e7
+	.byte	0x8
+	.uleb128 0x3
+	.long	.LASF204
+	.byte	0xd
+	.byte	0x1d
+	.byte	0x7
+	.long	0x322
+	.byte	0x10
+	.uleb128 0x3
+	.long	.LASF453
+	.byte	0xd
+	.byte	0x1e
+	.byte	0x12
+	.long	0x247a
+	.byte	0x18
+	.byte	0
+	.uleb128 0x5
+	.long	0x2438
+	.uleb128 0x5
+	.long	0x247a
+	.uleb128 0x5
+	.long	0x38a
+	.uleb128 0xd
+	.long	.LASF454
+	.byte	0x8
+	.byte	0x10
+	.byte	0x2e
+	.byte	0x10
+	.long	0x24a4
+	.uleb128 0x3
+	.long	.LASF94
+	.byte	0x10
+	.byte	0x2e
+	.byte	0x24
+	.long	0x583
+	.byte	0
+	.byte	0
+	.uleb128 0xb
+	.long	.LASF455
+	.byte	0x10
+	.byte	0x2e
+	.byte	0x2e
+	.long	0x24b0
+	.uleb128 0x5
+	.long	0x2489
+	.uleb128 0x2b
+	.byte	0x11
+	.byte	0xc6
+	.long	0x24d5
+	.uleb128 0x22
+	.string	"str"
+	.byte	0x11
+	.byte	0xc7
+	.byte	0xa
+	.long	0x356
+	.uleb128 0x22
+	.string	"sym"
+	.byte	0x11
+	.byte	0xc8
+	.byte	0xa
+	.long	0x66d
+	.byte	0
+	.uleb128 0x28
+	.long	.LASF539
+	.long	0x43
+	.byte	0x16
+	.long	0x26d0
+	.uleb128 0x8
+	.long	.LASF456
+	.byte	0
+	.uleb128 0x8
+	.long	.LASF457
+	.byte	0
+	.uleb128 0x8
+	.long	.LASF458
+	.byte	0
+	.uleb128 0x8
+	.long	.LASF459
+	.byte	0x1
+	.uleb128 0x8
+	.long	.LASF460
+	.byte	0x2
+	.uleb128 0x8
+	.long	.LASF461
+	.byte	0x3
+	.uleb128 0x8
+	.long	.LASF462
+	.byte	0x3
+	.uleb128 0x8
+	.long	.LASF463
+	.byte	0x3
+	.uleb128 0x8
+	.long	.LASF464
+	.byte	0x4
+	.uleb128 0x8
+	.long	.LASF465
+	.byte	0x4
+	.uleb128 0x8
+	.long	.LASF466
+	.byte	0x4
+	.uleb128 0x8
+	.long	.LASF467
+	.byte	0x5
+	.uleb128 0x8
+	.long	.LASF468
+	.byte	0x6
+	.uleb128 0x8
+	.long	.LASF469
+	.byte	0x7
+	.uleb128 0x8
+	.long	.LASF470
+	.byte	0x7
+	.uleb128 0x8
+	.long	.LASF471
+	.byte	0x7
+	.uleb128 0x8
+	.long	.LASF472
+	.byte	0x8
+	.uleb128 0x8
+	.long	.LASF473
+	.byte	0x9
+	.uleb128 0x8
+	.long	.LASF474
+	.byte	0xa
+	.uleb128 0x8
+	.long	.LASF475
+	.byte	0xb
+	.uleb128 0x8
+	.long	.LASF476
+	.byte	0xc
+	.uleb128 0x8
+	.long	.LASF477
+	.byte	0xd
+	.uleb128 0x8
+	.long	.LASF478
+	.byte	0xe
+	.uleb128 0x8
+	.long	.LASF479
+	.byte	0xf
+	.uleb128 0x8
+	.long	.LASF480
+	.byte	0x10
+	.uleb128 0x8
+	.long	.LASF481
+	.byte	0x11
+	.uleb128 0x8
+	.long	.LASF482
+	.byte	0x12
+	.uleb128 0x8
+	.long	.LASF483
+	.byte	0x13
+	.uleb128 0x8
+	.long	.LASF484
+	.byte	0x14
+	.uleb128 0x8
+	.long	.LASF485
+	.byte	0x15
+	.uleb128 0x8
+	.long	.LASF486
+	.byte	0x16
+	.uleb128 0x8
+	.long	.LASF487
+	.byte	0x17
+	.uleb128 0x8
+	.long	.LASF488
+	.byte	0x18
+	.uleb128 0x8
+	.long	.LASF489
+	.byte	0x19
+	.uleb128 0x8
+	.long	.LASF490
+	.byte	0x1a
+	.uleb128 0x8
+	.long	.LASF491
+	.byte	0x1b
+	.uleb128 0x8
+	.long	.LASF492
+	.byte	0x1c
+	.uleb128 0x8
+	.long	.LASF493
+	.byte	0x1d
+	.uleb128 0x8
+	.long	.LASF494
+	.byte	0x1e
+	.uleb128 0x8
+	.long	.LASF495
+	.byte	0x1f
+	.uleb128 0x8
+	.long	.LASF496
+	.byte	0x20
+	.uleb128 0x8
+	.long	.LASF497
+	.byte	0x21
+	.uleb128 0x8
+	.long	.LASF498
+	.byte	0x22
+	.uleb128 0x8
+	.long	.LASF499
+	.byte	0x23
+	.uleb128 0x8
+	.long	.LASF500
+	.byte	0x24
+	.uleb128 0x8
+	.long	.LASF501
+	.byte	0x25
+	.uleb128 0x8
+	.long	.LASF502
+	.byte	0x26
+	.uleb128 0x8
+	.long	.LASF503
+	.byte	0x27
+	.uleb128 0x8
+	.long	.LASF504
+	.byte	0x28
+	.uleb128 0x8
+	.long	.LASF505
+	.byte	0x29
+	.uleb128 0x8
+	.long	.LASF506
+	.byte	0x2a
+	.uleb128 0x8
+	.long	.LASF507
+	.byte	0x2b
+	.uleb128 0x8
+	.long	.LASF508
+	.byte	0x2c
+	.uleb128 0x8
+	.long	.LASF509
+	.byte	0x2d
+	.uleb128 0x8
+	.long	.LASF510
+	.byte	0x2e
+	.uleb128 0x8
+	.long	.LASF511
+	.byte	0x2f
+	.uleb128 0x8
+	.long	.LASF512
+	.byte	0x30
+	.uleb128 0x8
+	.long	.LASF513
+	.byte	0x31
+	.uleb128 0x8
+	.long	.LASF514
+	.byte	0x32
+	.uleb128 0x8
+	.long	.LASF515
+	.byte	0x33
+	.uleb128 0x8
+	.long	.LASF516
+	.byte	0x34
+	.uleb128 0x8
+	.long	.LASF517
+	.byte	0x35
+	.uleb128 0x8
+	.long	.LASF518
+	.byte	0x36
+	.uleb128 0x8
+	.long	.LASF519
+	.byte	0x37
+	.uleb128 0x8
+	.long	.LASF520
+	.byte	0x38
+	.uleb128 0x8
+	.long	.LASF521
+	.byte	0x39
+	.uleb128 0x8
+	.long	.LASF522
+	.byte	0x3a
+	.uleb128 0x8
+	.long	.LASF523
+	.byte	0x3b
+	.uleb128 0x8
+	.long	.LASF524
+	.byte	0x3c
+	.uleb128 0x8
+	.long	.LASF525
+	.byte	0x3d
+	.uleb128 0x8
+	.long	.LASF526
+	.byte	0x3e
+	.uleb128 0x8
+	.long	.LASF527
+	.byte	0x3f
+	.uleb128 0x8
+	.long	.LASF528
+	.byte	0x40
+	.uleb128 0x8
+	.long	.LASF529
+	.byte	0x41
+	.uleb128 0x8
+	.long	.LASF530
+	.byte	0x42
+	.uleb128 0x8
+	.long	.LASF531
+	.byte	0x43
+	.uleb128 0x8
+	.long	.LASF532
+	.byte	0x44
+	.uleb128 0x8
+	.long	.LASF533
+	.byte	0x45
+	.uleb128 0x8
+	.long	.LASF534
+	.byte	0x46
+	.uleb128 0x8
+	.long	.LASF535
+	.byte	0x47
+	.uleb128 0x8
+	.long	.LASF536
+	.byte	0x48
+	.uleb128 0x8
+	.long	.LASF537
+	.byte	0x48
+	.byte	0
+	.uleb128 0xb
+	.long	.LASF538
+	.byte	0x12
+	.byte	0x75
+	.byte	0x17
+	.long	0x24d5
+	.uleb128 0x28
+	.long	.LASF540
+	.long	0x43
+	.byte	0xdc
+	.long	0x2739
+	.uleb128 0x8
+	.long	.LASF541
+	.byte	0
+	.uleb128 0x8
+	.long	.LASF542
+	.byte	0x1
+	.uleb128 0x8
+	.long	.LASF543
+	.byte	0x2
+	.uleb128 0x8
+	.long	.LASF544
+	.byte	0x3
+	.uleb128 0x8
+	.long	.LASF545
+	.byte	0x4
+	.uleb128 0x8
+	.long	.LASF546
+	.byte	0x5
+	.uleb128 0x8
+	.long	.LASF547
+	.byte	0x6
+	.uleb128 0x8
+	.long	.LASF548
+	.byte	0x7
+	.uleb128 0x8
+	.long	.LASF549
+	.byte	0x8
+	.uleb128 0x8
+	.long	.LASF550
+	.byte	0x9
+	.uleb128 0x8
+	.long	.LASF551
+	.byte	0xa
+	.uleb128 0x8
+	.long	.LASF552
+	.byte	0xb
+	.uleb128 0x8
+	.long	.LASF553
+	.byte	0xc
+	.byte	0
+	.uleb128 0xb
+	.long	.LASF554
+	.byte	0x12
+	.byte	0xec
+	.byte	0x15
+	.long	0x26dc
+	.uleb128 0x28
+	.long	.LASF555
+	.long	0x43
+	.byte	0xf2
+	.long	0x2772
+	.uleb128 0x8
+	.long	.LASF556
+	.byte	0
+	.uleb128 0x8
+	.long	.LASF557
+	.byte	0x1
+	.uleb128 0x8
+	.long	.LASF558
+	.byte	0x2
+	.uleb128 0x8
+	.long	.LASF559
+	.byte	0x3
+	.uleb128 0x8
+	.long	.LASF560
+	.byte	0x4
+	.byte	0
+	.uleb128 0x12
+	.long	.LASF561
+	.byte	0x12
+	.value	0x100
+	.byte	0xf
+	.long	0x2ee
+	.uleb128 0x7
+	.long	.LASF562
+	.byte	0x48
+	.byte	0x12
+	.value	0x11e
+	.long	0x280b
+	.uleb128 0x2
+	.long	.LASF563
+	.byte	0x12
+	.value	0x11f
+	.byte	0x6
+	.long	0x706
+	.byte	0
+	.uleb128 0x2
+	.long	.LASF221
+	.byte	0x12
+	.value	0x120
+	.byte	0x7
+	.long	0x14fe
+	.byte	0x8
+	.uleb128 0x2
+	.long	.LASF564
+	.byte	0x12
+	.value	0x121
+	.byte	0x6
+	.long	0x2e
+	.byte	0x10
+	.uleb128 0x2
+	.long	.LASF200
+	.byte	0x12
+	.value	0x122
+	.byte	0x7
+	.long	0xb52
+	.byte	0x18
+	.uleb128 0x2
+	.long	.LASF211
+	.byte	0x12
+	.value	0x123
+	.byte	0x8
+	.long	0xbff
+	.byte	0x20
+	.uleb128 0x2
+	.long	.LASF565
+	.byte	0x12
+	.value	0x124
+	.byte	0x8
+	.long	0x71a
+	.byte	0x28
+	.uleb128 0x2
+	.long	.LASF566
+	.byte	0x12
+	.value	0x125
+	.byte	0xa
+	.long	0x2772
+	.byte	0x30
+	.uleb128 0x2
+	.long	.LASF567
+	.byte	0x12
+	.value	0x126
+	.byte	0x8
+	.long	0x159b
+	.byte	0x38
+	.uleb128 0x2
+	.long	.LASF222
+	.byte	0x12
+	.value	0x127
+	.byte	0xb
+	.long	0x236b
+	.byte	0x40
+	.byte	0
+	.uleb128 0x12
+	.long	.LASF568
+	.byte	0x12
+	.value	0x12a
+	.byte	0x19
+	.long	0x2818
+	.uleb128 0x5
+	.long	0x277f
+	.uleb128 0x24
+	.byte	0x8
+	.byte	0x12
+	.value	0x13a
+	.long	0x2841
+	.uleb128 0x6
+	.long	.LASF569
+	.byte	0x12
+	.value	0x13b
+	.byte	0x9
+	.long	0xdbd
+	.uleb128 0x6
+	.long	.LASF570
+	.byte	0x12
+	.value	0x13c
+	.byte	0x9
+	.long	0xbff
+	.byte	0
+	.uleb128 0x7
+	.long	.LASF118
+	.byte	0x28
+	.byte	0x12
+	.value	0x130
+	.long	0x28b1
+	.uleb128 0x4
+	.string	"tag"
+	.byte	0x12
+	.value	0x131
+	.byte	0x8
+	.long	0x2d4
+	.byte	0
+	.uleb128 0x4
+	.string	"use"
+	.byte	0x12
+	.value	0x132
+	.byte	0x8
+	.long	0x2d4
+	.byte	0x1
+	.uleb128 0x2
+	.long	.LASF213
+	.byte	0x12
+	.value	0x133
+	.byte	0x8
+	.long	0x2d4
+	.byte	0x2
+	.uleb128 0x2
+	.long	.LASF219
+	.byte	0x12
+	.value	0x135
+	.byte	0x9
+	.long	0x32f
+	.byte	0x8
+	.uleb128 0x4
+	.string	"pos"
+	.byte	0x12
+	.value	0x136
+	.byte	0xe
+	.long	0x553
+	.byte	0x10
+	.uleb128 0x2
+	.long	.LASF571
+	.byte	0x12
+	.value	0x138
+	.byte	0xa
+	.long	0x280b
+	.byte	0x18
+	.uleb128 0x2
+	.long	.LASF205
+	.byte	0x12
+	.value	0x13d
+	.byte	0x4
+	.long	0x281d
+	.byte	0x20
+	.byte	0
+	.uleb128 0x24
+	.byte	0x50
+	.byte	0x12
+	.value	0x142
+	.long	0x28ef
+	.uleb128 0x1a
+	.string	"sym"
+	.byte	0x12
+	.value	0x143
+	.byte	0xa
+	.long	0x66d
+	.uleb128 0x1a
+	.string	"doc"
+	.byte	0x12
+	.value	0x144
+	.byte	0x7
+	.long	0x706
+	.uleb128 0x1a
+	.string	"str"
+	.byte	0x12
+	.value	0x145
+	.byte	0xa
+	.long	0x356
+	.uleb128 0x6
+	.long	.LASF220
+	.byte	0x12
+	.value	0x146
+	.byte	0x9
+	.long	0x28ef
+	.byte	0
+	.uleb128 0x18
+	.long	0x71a
+	.long	0x28ff
+	.uleb128 0x19
+	.long	0x4a
+	.byte	0x9
+	.byte	0
+	.uleb128 0x7
+	.long	.LASF119
+	.byte	0x78
+	.byte	0x12
+	.value	0x140
+	.long	0x2929
+	.uleb128 0x4
+	.string	"hdr"
+	.byte	0x12
+	.value	0x141
+	.byte	0xf
+	.long	0x2841
+	.byte	0
+	.uleb128 0x2
+	.long	.LASF74
+	.byte	0x12
+	.value	0x147
+	.byte	0x4
+	.long	0x28b1
+	.byte	0x28
+	.byte	0
+	.uleb128 0x7
+	.long	.LASF120
+	.byte	0x30
+	.byte	0x12
+	.value	0x14e
+	.long	0x2953
+	.uleb128 0x4
+	.string	"hdr"
+	.byte	0x12
+	.value	0x14f
+	.byte	0xf
+	.long	0x2841
+	.byte	0
+	.uleb128 0x4
+	.string	"sym"
+	.byte	0x12
+	.value	0x150
+	.byte	0x9
+	.long	0x66d
+	.byte	0x28
+	.byte	0
+	.uleb128 0x7
+	.long	.LASF121
+	.byte	0x30
+	.byte	0x12
+	.value	0x153
+	.long	0x297d
+	.uleb128 0x4
+	.string	"hdr"
+	.byte	0x12
+	.value	0x154
+	.byte	0xf
+	.long	0x2841
+	.byte	0
+	.uleb128 0x4
+	.string	"sym"
+	.byte	0x12
+	.value	0x155
+	.byte	0x9
+	.long	0x66d
+	.byte	0x28
+	.byte	0
+	.uleb128 0x7
+	.long	.LASF122
+	.byte	0x30
+	.byte	0x12
+	.value	0x158
+	.long	0x29a7
+	.uleb128 0x4
+	.string	"hdr"
+	.byte	0x12
+	.value	0x159
+	.byte	0xf
+	.long	0x2841
+	.byte	0
+	.uleb128 0x4
+	.string	"sym"
+	.byte	0x12
+	.value	0x15a
+	.byte	0x9
+	.long	0x66d
+	.byte	0x28
+	.byte	0
+	.uleb128 0x7
+	.long	.LASF123
+	.byte	0x30
+	.byte	0x12
+	.value	0x15d
+	.long	0x29d1
+	.uleb128 0x4
+	.string	"hdr"
+	.byte	0x12
+	.value	0x15e
+	.byte	0xf
+	.long	0x2841
+	.byte	0
+	.uleb128 0x4
+	.string	"doc"
+	.byte	0x12
+	.value	0x15f
+	.byte	0x6
+	.long	0x706
+	.byte	0x28
+	.byte	0
+	.uleb128 0x7
+	.long	.LASF124
+	.byte	0x30
+	.byte	0x12
+	.value	0x162
+	.long	0x29fb
+	.uleb128 0x4
+	.string	"hdr"
+	.byte	0x12
+	.value	0x163
+	.byte	0xf
+	.long	0x2841
+	.byte	0
+	.uleb128 0x4
+	.string	"str"
+	.byte	0x12
+	.value	0x164
+	.byte	0x9
+	.long	0x356
+	.byte	0x28
+	.byte	0
+	.uleb128 0x7
+	.long	.LASF126
+	.byte	0x30
+	.byte	0x12
+	.value	0x167
+	.long	0x2a25
+	.uleb128 0x4
+	.string	"hdr"
+	.byte	0x12
+	.value	0x168
+	.byte	0xf
+	.long	0x2841
+	.byte	0
+	.uleb128 0x4
+	.string	"str"
+	.byte	0x12
+	.value	0x169
+	.byte	0x9
+	.long	0x356
+	.byte	0x28
+	.byte	0
+	.uleb128 0x7
+	.long	.LASF125
+	.byte	0x30
+	.byte	0x12
+	.value	0x16c
+	.long	0x2a4f
+	.uleb128 0x4
+	.string	"hdr"
+	.byte	0x12
+	.value	0x16d
+	.byte	0xf
+	.long	0x2841
+	.byte	0
+	.uleb128 0x4
+	.string	"str"
+	.byte	0x12
+	.value	0x16e
+	.byte	0x9
+	.long	0x356
+	.byte	0x28
+	.byte	0
+	.uleb128 0x7
+	.long	.LASF127
+	.byte	0x38
+	.byte	0x12
+	.value	0x175
+	.long	0x2a87
+	.uleb128 0x4
+	.string	"hdr"
+	.byte	0x12
+	.value	0x176
+	.byte	0xf
+	.long	0x2841
+	.byte	0
+	.uleb128 0x2
+	.long	.LASF572
+	.byte	0x12
+	.value	0x177
+	.byte	0x8
+	.long	0x71a
+	.byte	0x28
+	.uleb128 0x2
+	.long	.LASF573
+	.byte	0x12
+	.value	0x178
+	.byte	0x8
+	.long	0x71a
+	.byte	0x30
+	.byte	0
+	.uleb128 0x7
+	.long	.LASF128
+	.byte	0x78
+	.byte	0x12
+	.value	0x17b
+	.long	0x2ab1
+	.uleb128 0x4
+	.string	"hdr"
+	.byte	0x12
+	.value	0x17c
+	.byte	0xf
+	.long	0x2841
+	.byte	0
+	.uleb128 0x2
+	.long	.LASF220
+	.byte	0x12
+	.value	0x17d
+	.byte	0x8
+	.long	0x28ef
+	.byte	0x28
+	.byte	0
+	.uleb128 0x7
+	.long	.LASF129
+	.byte	0x80
+	.byte	0x12
+	.value	0x180
+	.long	0x2ae8
+	.uleb128 0x4
+	.string	"hdr"
+	.byte	0x12
+	.value	0x181
+	.byte	0xf
+	.long	0x2841
+	.byte	0
+	.uleb128 0x4
+	.string	"op"
+	.byte	0x12
+	.value	0x182
+	.byte	0x8
+	.long	0x71a
+	.byte	0x28
+	.uleb128 0x2
+	.long	.LASF220
+	.byte	0x12
+	.value	0x183
+	.byte	0x8
+	.long	0x28ef
+	.byte	0x30
+	.byte	0
+	.uleb128 0x7
+	.long	.LASF130
+	.byte	0x30
+	.byte	0x12
+	.value	0x186
+	.long	0x2b12
+	.uleb128 0x4
+	.string	"hdr"
+	.byte	0x12
+	.value	0x187
+	.byte	0xf
+	.long	0x2841
+	.byte	0
+	.uleb128 0x2
+	.long	.LASF574
+	.byte	0x12
+	.value	0x188
+	.byte	0x8
+	.long	0x71a
+	.byte	0x28
+	.byte	0
+	.uleb128 0x7
+	.long	.LASF131
+	.byte	0x38
+	.byte	0x12
+	.value	0x18b
+	.long	0x2b4a
+	.uleb128 0x4
+	.string	"hdr"
+	.byte	0x12
+	.value	0x18c
+	.byte	0xf
+	.long	0x2841
+	.byte	0
+	.uleb128 0x4
+	.string	"lhs"
+	.byte	0x12
+	.value	0x18d
+	.byte	0x8
+	.long	0x71a
+	.byte	0x28
+	.uleb128 0x4
+	.string	"rhs"
+	.byte	0x12
+	.value	0x18e
+	.byte	0x8
+	.long	0x71a
+	.byte	0x30
+	.byte	0
+	.uleb128 0x7
+	.long	.LASF132
+	.byte	0x30
+	.byte	0x12
+	.value	0x191
+	.long	0x2b74
+	.uleb128 0x4
+	.string	"hdr"
+	.byte	0x12
+	.value	0x192
+	.byte	0xf
+	.long	0x2841
+	.byte	0
+	.uleb128 0x2
+	.long	.LASF575
+	.byte	0x12
+	.value	0x193
+	.byte	0x8
+	.long	0x71a
+	.byte	0x28
+	.byte	0
+	.uleb128 0x7
+	.long	.LASF133
+	.byte	0x30
+	.byte	0x12
+	.value	0x196
+	.long	0x2b9e
+	.uleb128 0x4
+	.string	"hdr"
+	.byte	0x12
+	.value	0x197
+	.byte	0xf
+	.long	0x2841
+	.byte	0
+	.uleb128 0x2
+	.long	.LASF576
+	.byte	0x12
+	.value	0x198
+	.byte	0x8
+	.long	0x71a
+	.byte	0x28
+	.byte	0
+	.uleb128 0x7
+	.long	.LASF134
+	.byte	0x38
+	.byte	0x12
+	.value	0x19b
+	.long	0x2bd5
+	.uleb128 0x4
+	.string	"hdr"
+	.byte	0x12
+	.value	0x19c
+	.byte	0xf
+	.long	0x2841
+	.byte	0
+	.uleb128 0x4
+	.string	"id"
+	.byte	0x12
+	.value	0x19d
+	.byte	0x8
+	.long	0x71a
+	.byte	0x28
+	.uleb128 0x2
+	.long	.LASF205
+	.byte	0x12
+	.value	0x19e
+	.byte	0x8
+	.long	0x71a
+	.byte	0x30
+	.byte	0
+	.uleb128 0x7
+	.long	.LASF141
+	.byte	0x30
+	.byte	0x12
+	.value	0x1a1
+	.long	0x2bff
+	.uleb128 0x4
+	.string	"hdr"
+	.byte	0x12
+	.value	0x1a2
+	.byte	0xf
+	.long	0x2841
+	.byte	0
+	.uleb128 0x2
+	.long	.LASF577
+	.byte	0x12
+	.value	0x1a3
+	.byte	0x8
+	.long	0x71a
+	.byte	0x28
+	.byte	0
+	.uleb128 0x7
+	.long	.LASF142
+	.byte	0x38
+	.byte	0x12
+	.value	0x1a6
+	.long	0x2c37
+	.uleb128 0x4
+	.string	"hdr"
+	.byte	0x12
+	.value	0x1a7
+	.byte	0xf
+	.long	0x2841
+	.byte	0
+	.uleb128 0x2
+	.long	.LASF577
+	.byte	0x12
+	.value	0x1a8
+	.byte	0x8
+	.long	0x71a
+	.byte	0x28
+	.uleb128 0x4
+	.string	"doc"
+	.byte	0x12
+	.value	0x1a9
+	.byte	0x8
+	.long	0x71a
+	.byte	0x30
+	.byte	0
+	.uleb128 0x7
+	.long	.LASF135
+	.byte	0x38
+	.byte	0x12
+	.value	0x1ac
+	.long	0x2c6f
+	.uleb128 0x4
+	.string	"hdr"
+	.byte	0x12
+	.value	0x1ad
+	.byte	0xf
+	.long	0x2841
+	.byte	0
+	.uleb128 0x2
+	.long	.LASF577
+	.byte	0x12
+	.value	0x1ae
+	.byte	0x8
+	.long	0x71a
+	.byte	0x28
+	.uleb128 0x2
+	.long	.LASF205
+	.byte	0x12
+	.value	0x1af
+	.byte	0x8
+	.long	0x71a
+	.byte	0x30
+	.byte	0
+	.uleb128 0x7
+	.long	.LASF136
+	.byte	0x80
+	.byte	0x12
+	.value	0x1b2
+	.long	0x2ca7
+	.uleb128 0x4
+	.string	"hdr"
+	.byte	0x12
+	.value	0x1b3
+	.byte	0xf
+	.long	0x2841
+	.byte	0
+	.uleb128 0x2
+	.long	.LASF578
+	.byte	0x12
+	.value	0x1b4
+	.byte	0x8
+	.long	0x71a
+	.byte	0x28
+	.uleb128 0x2
+	.long	.LASF579
+	.byte	0x12
+	.value	0x1b5
+	.byte	0x8
+	.long	0x28ef
+	.byte	0x30
+	.byte	0
+	.uleb128 0x7
+	.long	.LASF137
+	.byte	0x78
+	.byte	0x12
+	.value	0x1b8
+	.long	0x2cd1
+	.uleb128 0x4
+	.string	"hdr"
+	.byte	0x12
+	.value	0x1b9
+	.byte	0xf
+	.long	0x2841
+	.byte	0
+	.uleb128 0x2
+	.long	.LASF220
+	.byte	0x12
+	.value	0x1ba
+	.byte	0x8
+	.long	0x28ef
+	.byte	0x28
+	.byte	0
+	.uleb128 0x7
+	.long	.LASF138
+	.byte	0x30
+	.byte	0x12
+	.value	0x1bd
+	.long	0x2cfb
+	.uleb128 0x4
+	.string	"hdr"
+	.byte	0x12
+	.value	0x1be
+	.byte	0xf
+	.long	0x2841
+	.byte	0
+	.uleb128 0x2
+	.long	.LASF578
+	.byte	0x12
+	.value	0x1bf
+	.byte	0x8
+	.long	0x71a
+	.byte	0x28
+	.byte	0
+	.uleb128 0x7
+	.long	.LASF139
+	.byte	0x38
+	.byte	0x12
+	.value	0x1c2
+	.long	0x2d33
+	.uleb128 0x4
+	.string	"hdr"
+	.byte	0x12
+	.value	0x1c3
+	.byte	0xf
+	.long	0x2841
+	.byte	0
+	.uleb128 0x4
+	.string	"lhs"
+	.byte	0x12
+	.value	0x1c4
+	.byte	0x8
+	.long	0x71a
+	.byte	0x28
+	.uleb128 0x4
+	.string	"rhs"
+	.byte	0x12
+	.value	0x1c5
+	.byte	0x8
+	.long	0x71a
+	.byte	0x30
+	.byte	0
+	.uleb128 0x7
+	.long	.LASF140
+	.byte	0x30
+	.byte	0x12
+	.value	0x1c8
+	.long	0x2d5d
+	.uleb128 0x4
+	.string	"hdr"
+	.byte	0x12
+	.value	0x1c9
+	.byte	0xf
+	.long	0x2841
+	.byte	0
+	.uleb128 0x2
+	.long	.LASF578
+	.byte	0x12
+	.value	0x1ca
+	.byte	0x8
+	.long	0x71a
+	.byte	0x28
+	.byte	0
+	.uleb128 0x7
+	.long	.LASF143
+	.byte	0x38
+	.byte	0x12
+	.value	0x1cd
+	.long	0x2d95
+	.uleb128 0x4
+	.string	"hdr"
+	.byte	0x12
+	.value	0x1ce
+	.byte	0xf
+	.long	0x2841
+	.byte	0
+	.uleb128 0x2
+	.long	.LASF205
+	.byte	0x12
+	.value	0x1cf
+	.byte	0x8
+	.long	0x71a
+	.byte	0x28
+	.uleb128 0x2
+	.long	.LASF580
+	.byte	0x12
+	.value	0x1d0
+	.byte	0x8
+	.long	0x71a
+	.byte	0x30
+	.byte	0
+	.uleb128 0x7
+	.long	.LASF144
+	.byte	0x38
+	.byte	0x12
+	.value	0x1d3
+	.long	0x2dcd
+	.uleb128 0x4
+	.string	"hdr"
+	.byte	0x12
+	.value	0x1d4
+	.byte	0xf
+	.long	0x2841
+	.byte	0
+	.uleb128 0x2
+	.long	.LASF574
+	.byte	0x12
+	.value	0x1d5
+	.byte	0x8
+	.long	0x71a
+	.byte	0x28
+	.uleb128 0x2
+	.long	.LASF581
+	.byte	0x12
+	.value	0x1d6
+	.byte	0x8
+	.long	0x71a
+	.byte	0x30
+	.byte	0
+	.uleb128 0x7
+	.long	.LASF145
+	.byte	0x40
+	.byte	0x12
+	.value	0x1d9
+	.long	0x2e13
+	.uleb128 0x4
+	.string	"hdr"
+	.byte	0x12
+	.value	0x1da
+	.byte	0xf
+	.long	0x2841
+	.byte	0
+	.uleb128 0x2
+	.long	.LASF576
+	.byte	0x12
+	.value	0x1db
+	.byte	0x8
+	.long	0x71a
+	.byte	0x28
+	.uleb128 0x2
+	.long	.LASF582
+	.byte	0x12
+	.value	0x1dc
+	.byte	0x8
+	.long	0x71a
+	.byte	0x30
+	.uleb128 0x2
+	.long	.LASF583
+	.byte	0x12
+	.value	0x1dd
+	.byte	0x8
+	.long	0x71a
+	.byte	0x38
+	.byte	0
+	.uleb128 0x7
+	.long	.LASF146
+	.byte	0x30
+	.byte	0x12
+	.value	0x1e0
+	.long	0x2e3d
+	.uleb128 0x4
+	.string	"hdr"
+	.byte	0x12
+	.value	0x1e1
+	.byte	0xf
+	.long	0x2841
+	.byte	0
+	.uleb128 0x2
+	.long	.LASF578
+	.byte	0x12
+	.value	0x1e2
+	.byte	0x8
+	.long	0x71a
+	.byte	0x28
+	.byte	0
+	.uleb128 0x7
+	.long	.LASF147
+	.byte	0x30
+	.byte	0x12
+	.value	0x1e5
+	.long	0x2e67
+	.uleb128 0x4
+	.string	"hdr"
+	.byte	0x12
+	.value	0x1e6
+	.byte	0xf
+	.long	0x2841
+	.byte	0
+	.uleb128 0x2
+	.long	.LASF584
+	.byte	0x12
+	.value	0x1e7
+	.byte	0x8
+	.long	0x71a
+	.byte	0x28
+	.byte	0
+	.uleb128 0x7
+	.long	.LASF148
+	.byte	0x78
+	.byte	0x12
+	.value	0x1ea
+	.long	0x2e91
+	.uleb128 0x4
+	.string	"hdr"
+	.byte	0x12
+	.value	0x1eb
+	.byte	0xf
+	.long	0x2841
+	.byte	0
+	.uleb128 0x2
+	.long	.LASF220
+	.byte	0x12
+	.value	0x1ec
+	.byte	0x8
+	.long	0x28ef
+	.byte	0x28
+	.byte	0
+	.uleb128 0x7
+	.long	.LASF149
+	.byte	0x40
+	.byte	0x12
+	.value	0x1ef
+	.long	0x2ed7
+	.uleb128 0x4
+	.string	"hdr"
+	.byte	0x12
+	.value	0x1f0
+	.byte	0xf
+	.long	0x2841
+	.byte	0
+	.uleb128 0x4
+	.string	"lhs"
+	.byte	0x12
+	.value	0x1f1
+	.byte	0x8
+	.long	0x71a
+	.byte	0x28
+	.uleb128 0x2
+	.long	.LASF585
+	.byte	0x12
+	.value	0x1f2
+	.byte	0x8
+	.long	0x71a
+	.byte	0x30
+	.uleb128 0x2
+	.long	.LASF574
+	.byte	0x12
+	.value	0x1f3
+	.byte	0x8
+	.long	0x71a
+	.byte	0x38
+	.byte	0
+	.uleb128 0x7
+	.long	.LASF150
+	.byte	0x38
+	.byte	0x12
+	.value	0x1f6
+	.long	0x2f0f
+	.uleb128 0x4
+	.string	"hdr"
+	.byte	0x12
+	.value	0x1f7
+	.byte	0xf
+	.long	0x2841
+	.byte	0
+	.uleb128 0x2
+	.long	.LASF576
+	.byte	0x12
+	.value	0x1f8
+	.byte	0x8
+	.long	0x71a
+	.byte	0x28
+	.uleb128 0x2
+	.long	.LASF582
+	.byte	0x12
+	.value	0x1f9
+	.byte	0x8
+	.long	0x71a
+	.byte	0x30
+	.byte	0
+	.uleb128 0x7
+	.long	.LASF151
+	.byte	0x38
+	.byte	0x12
+	.value	0x1fc
+	.long	0x2f47
+	.uleb128 0x4
+	.string	"hdr"
+	.byte	0x12
+	.value	0x1fd
+	.byte	0xf
+	.long	0x2841
+	.byte	0
+	.uleb128 0x2
+	.long	.LASF576
+	.byte	0x12
+	.value	0x1fe
+	.byte	0x8
+	.long	0x71a
+	.byte	0x28
+	.uleb128 0x2
+	.long	.LASF586
+	.byte	0x12
+	.value	0x1ff
+	.byte	0x8
+	.long	0x71a
+	.byte	0x30
+	.byte	0
+	.uleb128 0x7
+	.long	.LASF152
+	.byte	0x78
+	.byte	0x12
+	.value	0x202
+	.long	0x2f71
+	.uleb128 0x4
+	.string	"hdr"
+	.byte	0x12
+	.value	0x203
+	.byte	0xf
+	.long	0x2841
+	.byte	0
+	.uleb128 0x2
+	.long	.LASF220
+	.byte	0x12
+	.value	0x204
+	.byte	0x8
+	.long	0x28ef
+	.byte	0x28
+	.byte	0
+	.uleb128 0x7
+	.long	.LASF153
+	.byte	0x38
+	.byte	0x12
+	.value	0x207
+	.long	0x2fa9
+	.uleb128 0x4
+	.string	"hdr"
+	.byte	0x12
+	.value	0x208
+	.byte	0xf
+	.long	0x2841
+	.byte	0
+	.uleb128 0x2
+	.long	.LASF98
+	.byte	0x12
+	.value	0x209
+	.byte	0x8
+	.long	0x71a
+	.byte	0x28
+	.uleb128 0x2
+	.long	.LASF578
+	.byte	0x12
+	.value	0x20a
+	.byte	0x8
+	.long	0x71a
+	.byte	0x30
+	.byte	0
+	.uleb128 0x7
+	.long	.LASF154
+	.byte	0x30
+	.byte	0x12
+	.value	0x20d
+	.long	0x2fd3
+	.uleb128 0x4
+	.string	"hdr"
+	.byte	0x12
+	.value	0x20e
+	.byte	0xf
+	.long	0x2841
+	.byte	0
+	.uleb128 0x2
+	.long	.LASF575
+	.byte	0x12
+	.value	0x20f
+	.byte	0x8
+	.long	0x71a
+	.byte	0x28
+	.byte	0
+	.uleb128 0x7
+	.long	.LASF155
+	.byte	0x38
+	.byte	0x12
+	.value	0x212
+	.long	0x300b
+	.uleb128 0x4
+	.string	"hdr"
+	.byte	0x12
+	.value	0x213
+	.byte	0xf
+	.long	0x2841
+	.byte	0
+	.uleb128 0x2
+	.long	.LASF577
+	.byte	0x12
+	.value	0x214
+	.byte	0x8
+	.long	0x71a
+	.byte	0x28
+	.uleb128 0x2
+	.long	.LASF587
+	.byte	0x12
+	.value	0x215
+	.byte	0x8
+	.long	0x71a
+	.byte	0x30
+	.byte	0
+	.uleb128 0x7
+	.long	.LASF156
+	.byte	0x30
+	.byte	0x12
+	.value	0x218
+	.long	0x3035
+	.uleb128 0x4
+	.string	"hdr"
+	.byte	0x12
+	.value	0x219
+	.byte	0xf
+	.long	0x2841
+	.byte	0
+	.uleb128 0x2
+	.long	.LASF205
+	.byte	0x12
+	.value	0x21a
+	.byte	0x8
+	.long	0x71a
+	.byte	0x28
+	.byte	0
+	.uleb128 0x7
+	.long	.LASF157
+	.byte	0x30
+	.byte	0x12
+	.value	0x21d
+	.long	0x305f
+	.uleb128 0x4
+	.string	"hdr"
+	.byte	0x12
+	.value	0x21e
+	.byte	0xf
+	.long	0x2841
+	.byte	0
+	.uleb128 0x2
+	.long	.LASF577
+	.byte	0x12
+	.value	0x21f
+	.byte	0x8
+	.long	0x71a
+	.byte	0x28
+	.byte	0
+	.uleb128 0x7
+	.long	.LASF158
+	.byte	0x40
+	.byte	0x12
+	.value	0x222
+	.long	0x30a5
+	.uleb128 0x4
+	.string	"hdr"
+	.byte	0x12
+	.value	0x223
+	.byte	0xf
+	.long	0x2841
+	.byte	0
+	.uleb128 0x2
+	.long	.LASF574
+	.byte	0x12
+	.value	0x224
+	.byte	0x8
+	.long	0x71a
+	.byte	0x28
+	.uleb128 0x2
+	.long	.LASF588
+	.byte	0x12
+	.value	0x225
+	.byte	0x8
+	.long	0x71a
+	.byte	0x30
+	.uleb128 0x2
+	.long	.LASF589
+	.byte	0x12
+	.value	0x226
+	.byte	0x8
+	.long	0x71a
+	.byte	0x38
+	.byte	0
+	.uleb128 0x7
+	.long	.LASF159
+	.byte	0x38
+	.byte	0x12
+	.value	0x229
+	.long	0x30dd
+	.uleb128 0x4
+	.string	"hdr"
+	.byte	0x12
+	.value	0x22a
+	.byte	0xf
+	.long	0x2841
+	.byte	0
+	.uleb128 0x2
+	.long	.LASF576
+	.byte	0x12
+	.value	0x22b
+	.byte	0x8
+	.long	0x71a
+	.byte	0x28
+	.uleb128 0x2
+	.long	.LASF582
+	.byte	0x12
+	.value	0x22c
+	.byte	0x8
+	.long	0x71a
+	.byte	0x30
+	.byte	0
+	.uleb128 0x7
+	.long	.LASF160
+	.byte	0x38
+	.byte	0x12
+	.value	0x22f
+	.long	0x3115
+	.uleb128 0x4
+	.string	"hdr"
+	.byte	0x12
+	.value	0x230
+	.byte	0xf
+	.long	0x2841
+	.byte	0
+	.uleb128 0x2
+	.long	.LASF576
+	.byte	0x12
+	.value	0x231
+	.byte	0x8
+	.long	0x71a
+	.byte	0x28
+	.uleb128 0x2
+	.long	.LASF582
+	.byte	0x12
+	.value	0x232
+	.byte	0x8
+	.long	0x71a
+	.byte	0x30
+	.byte	0
+	.uleb128 0x7
+	.long	.LASF161
+	.byte	0x30
+	.byte	0x12
+	.value	0x235
+	.long	0x313f
+	.uleb128 0x4
+	.string	"hdr"
+	.byte	0x12
+	.value	0x236
+	.byte	0xf
+	.long	0x2841
+	.byte	0
+	.uleb128 0x2
+	.long	.LASF575
+	.byte	0x12
+	.value	0x237
+	.byte	0x8
+	.long	0x71a
+	.byte	0x28
+	.byte	0
+	.uleb128 0x7
+	.long	.LASF162
+	.byte	0x38
+	.byte	0x12
+	.value	0x23a
+	.long	0x3177
+	.uleb128 0x4
+	.string	"hdr"
+	.byte	0x12
+	.value	0x23b
+	.byte	0xf
+	.long	0x2841
+	.byte	0
+	.uleb128 0x2
+	.long	.LASF575
+	.byte	0x12
+	.value	0x23c
+	.byte	0x8
+	.long	0x71a
+	.byte	0x28
+	.uleb128 0x2
+	.long	.LASF577
+	.byte	0x12
+	.value	0x23d
+	.byte	0x8
+	.long	0x71a
+	.byte	0x30
+	.byte	0
+	.uleb128 0x7
+	.long	.LASF163
+	.byte	0x40
+	.byte	0x12
+	.value	0x240
+	.long	0x31bd
+	.uleb128 0x4
+	.string	"hdr"
+	.byte	0x12
+	.value	0x241
+	.byte	0xf
+	.long	0x2841
+	.byte	0
+	.uleb128 0x2
+	.long	.LASF590
+	.byte	0x12
+	.value	0x242
+	.byte	0x8
+	.long	0x71a
+	.byte	0x28
+	.uleb128 0x2
+	.long	.LASF591
+	.byte	0x12
+	.value	0x243
+	.byte	0x8
+	.long	0x71a
+	.byte	0x30
+	.uleb128 0x2
+	.long	.LASF578
+	.byte	0x12
+	.value	0x244
+	.byte	0x8
+	.long	0x71a
+	.byte	0x38
+	.byte	0
+	.uleb128 0x7
+	.long	.LASF164
+	.byte	0x38
+	.byte	0x12
+	.value	0x247
+	.long	0x31f5
+	.uleb128 0x4
+	.string	"hdr"
+	.byte	0x12
+	.value	0x248
+	.byte	0xf
+	.long	0x2841
+	.byte	0
+	.uleb128 0x2
+	.long	.LASF592
+	.byte	0x12
+	.value	0x249
+	.byte	0x8
+	.long	0x71a
+	.byte	0x28
+	.uleb128 0x2
+	.long	.LASF577
+	.byte	0x12
+	.value	0x24a
+	.byte	0x8
+	.long	0x71a
+	.byte	0x30
+	.byte	0
+	.uleb128 0x7
+	.long	.LASF165
+	.byte	0x78
+	.byte	0x12
+	.value	0x24d
+	.long	0x321f
+	.uleb128 0x4
+	.string	"hdr"
+	.byte	0x12
+	.value	0x24e
+	.byte	0xf
+	.long	0x2841
+	.byte	0
+	.uleb128 0x2
+	.long	.LASF220
+	.byte	0x12
+	.value	0x24f
+	.byte	0x8
+	.long	0x28ef
+	.byte	0x28
+	.byte	0
+	.uleb128 0x7
+	.long	.LASF166
+	.byte	0x30
+	.byte	0x12
+	.value	0x252
+	.long	0x3249
+	.uleb128 0x4
+	.string	"hdr"
+	.byte	0x12
+	.value	0x253
+	.byte	0xf
+	.long	0x2841
+	.byte	0
+	.uleb128 0x2
+	.long	.LASF577
+	.byte	0x12
+	.value	0x254
+	.byte	0x8
+	.long	0x71a
+	.byte	0x28
+	.byte	0
+	.uleb128 0x7
+	.long	.LASF167
+	.byte	0x38
+	.byte	0x12
+	.value	0x257
+	.long	0x3281
+	.uleb128 0x4
+	.string	"hdr"
+	.byte	0x12
+	.value	0x258
+	.byte	0xf
+	.long	0x2841
+	.byte	0
+	.uleb128 0x4
+	.string	"lhs"
+	.byte	0x12
+	.value	0x259
+	.byte	0x8
+	.long	0x71a
+	.byte	0x28
+	.uleb128 0x4
+	.string	"rhs"
+	.byte	0x12
+	.value	0x25a
+	.byte	0x8
+	.long	0x71a
+	.byte	0x30
+	.byte	0
+	.uleb128 0x7
+	.long	.LASF168
+	.byte	0x38
+	.byte	0x12
+	.value	0x25d
+	.long	0x32b9
+	.uleb128 0x4
+	.string	"hdr"
+	.byte	0x12
+	.value	0x25e
+	.byte	0xf
+	.long	0x2841
+	.byte	0
+	.uleb128 0x2
+	.long	.LASF590
+	.byte	0x12
+	.value	0x25f
+	.byte	0x8
+	.long	0x71a
+	.byte	0x28
+	.uleb128 0x2
+	.long	.LASF578
+	.byte	0x12
+	.value	0x260
+	.byte	0x8
+	.long	0x71a
+	.byte	0x30
+	.byte	0
+	.uleb128 0x7
+	.long	.LASF169
+	.byte	0x28
+	.byte	0x12
+	.value	0x263
+	.long	0x32d5
+	.uleb128 0x4
+	.string	"hdr"
+	.byte	0x12
+	.value	0x264
+	.byte	0xf
+	.long	0x2841
+	.byte	0
+	.byte	0
+	.uleb128 0x7
+	.long	.LASF170
+	.byte	0x30
+	.byte	0x12
+	.value	0x267
+	.long	0x32ff
+	.uleb128 0x4
+	.string	"hdr"
+	.byte	0x12
+	.value	0x268
+	.byte	0xf
+	.long	0x2841
+	.byte	0
+	.uleb128 0x2
+	.long	.LASF577
+	.byte	0x12
+	.value	0x269
+	.byte	0x8
+	.long	0x71a
+	.byte	0x28
+	.byte	0
+	.uleb128 0x7
+	.long	.LASF171
+	.byte	0x28
+	.byte	0x12
+	.value	0x26c
+	.long	0x331b
+	.uleb128 0x4
+	.string	"hdr"
+	.byte	0x12
+	.value	0x26d
+	.byte	0xf
+	.long	0x2841
+	.byte	0
+	.byte	0
+	.uleb128 0x7
+	.long	.LASF172
+	.byte	0x78
+	.byte	0x12
+	.value	0x270
+	.long	0x3345
+	.uleb128 0x4
+	.string	"hdr"
+	.byte	0x12
+	.value	0x271
+	.byte	0xf
+	.long	0x2841
+	.byte	0
+	.uleb128 0x2
+	.long	.LASF220
+	.byte	0x12
+	.value	0x272
+	.byte	0x8
+	.long	0x28ef
+	.byte	0x28
+	.byte	0
+	.uleb128 0x7
+	.long	.LASF173
+	.byte	0x30
+	.byte	0x12
+	.value	0x275
+	.long	0x336f
+	.uleb128 0x4
+	.string	"hdr"
+	.byte	0x12
+	.value	0x276
+	.byte	0xf
+	.long	0x2841
+	.byte	0
+	.uleb128 0x2
+	.long	.LASF577
+	.byte	0x12
+	.value	0x277
+	.byte	0x8
+	.long	0x71a
+	.byte	0x28
+	.byte	0
+	.uleb128 0x7
+	.long	.LASF174
+	.byte	0x40
+	.byte	0x12
+	.value	0x27a
+	.long	0x33b5
+	.uleb128 0x4
+	.string	"hdr"
+	.byte	0x12
+	.value	0x27b
+	.byte	0xf
+	.long	0x2841
+	.byte	0
+	.uleb128 0x2
+	.long	.LASF590
+	.byte	0x12
+	.value	0x27c
+	.byte	0x8
+	.long	0x71a
+	.byte	0x28
+	.uleb128 0x2
+	.long	.LASF591
+	.byte	0x12
+	.value	0x27d
+	.byte	0x8
+	.long	0x71a
+	.byte	0x30
+	.uleb128 0x2
+	.long	.LASF578
+	.byte	0x12
+	.value	0x27e
+	.byte	0x8
+	.long	0x71a
+	.byte	0x38
+	.byte	0
+	.uleb128 0x7
+	.long	.LASF175
+	.byte	0x38
+	.byte	0x12
+	.value	0x281
+	.long	0x33ed
+	.uleb128 0x4
+	.string	"hdr"
+	.byte	0x12
+	.value	0x282
+	.byte	0xf
+	.long	0x2841
+	.byte	0
+	.uleb128 0x2
+	.long	.LASF577
+	.byte	0x12
+	.value	0x283
+	.byte	0x8
+	.long	0x71a
+	.byte	0x28
+	.uleb128 0x2
+	.long	.LASF205
+	.byte	0x12
+	.value	0x284
+	.byte	0x8
+	.long	0x71a
+	.byte	0x30
+	.byte	0
+	.uleb128 0x7
+	.long	.LASF176
+	.byte	0x38
+	.byte	0x12
+	.value	0x287
+	.long	0x3425
+	.uleb128 0x4
+	.string	"hdr"
+	.byte	0x12
+	.value	0x288
+	.byte	0xf
+	.long	0x2841
+	.byte	0
+	.uleb128 0x2
+	.long	.LASF576
+	.byte	0x12
+	.value	0x289
+	.byte	0x8
+	.long	0x71a
+	.byte	0x28
+	.uleb128 0x2
+	.long	.LASF582
+	.byte	0x12
+	.value	0x28a
+	.byte	0x8
+	.long	0x71a
+	.byte	0x30
+	.byte	0
+	.uleb128 0x7
+	.long	.LASF177
+	.byte	0x30
+	.byte	0x12
+	.value	0x28d
+	.long	0x344f
+	.uleb128 0x4
+	.string	"hdr"
+	.byte	0x12
+	.value	0x28e
+	.byte	0xf
+	.long	0x2841
+	.byte	0
+	.uleb128 0x2
+	.long	.LASF577
+	.byte	0x12
+	.value	0x28f
+	.byte	0x8
+	.long	0x71a
+	.byte	0x28
+	.byte	0
+	.uleb128 0x7
+	.long	.LASF178
+	.byte	0x30
+	.byte	0x12
+	.value	0x292
+	.long	0x3479
+	.uleb128 0x4
+	.string	"hdr"
+	.byte	0x12
+	.value	0x293
+	.byte	0xf
+	.long	0x2841
+	.byte	0
+	.uleb128 0x2
+	.long	.LASF578
+	.byte	0x12
+	.value	0x294
+	.byte	0x8
+	.long	0x71a
+	.byte	0x28
+	.byte	0
+	.uleb128 0x7
+	.long	.LASF179
+	.byte	0x80
+	.byte	0x12
+	.value	0x297
+	.long	0x34b1
+	.uleb128 0x4
+	.string	"hdr"
+	.byte	0x12
+	.value	0x298
+	.byte	0xf
+	.long	0x2841
+	.byte	0
+	.uleb128 0x2
+	.long	.LASF578
+	.byte	0x12
+	.value	0x299
+	.byte	0x8
+	.long	0x71a
+	.byte	0x28
+	.uleb128 0x2
+	.long	.LASF579
+	.byte	0x12
+	.value	0x29a
+	.byte	0x8
+	.long	0x28ef
+	.byte	0x30
+	.byte	0
+	.uleb128 0x7
+	.long	.LASF180
+	.byte	0x38
+	.byte	0x12
+	.value	0x29d
+	.long	0x34e9
+	.uleb128 0x4
+	.string	"hdr"
+	.byte	0x12
+	.value	0x29e
+	.byte	0xf
+	.long	0x2841
+	.byte	0
+	.uleb128 0x2
+	.long	.LASF577
+	.byte	0x12
+	.value	0x29f
+	.byte	0x8
+	.long	0x71a
+	.byte	0x28
+	.uleb128 0x2
+	.long	.LASF205
+	.byte	0x12
+	.value	0x2a0
+	.byte	0x8
+	.long	0x71a
+	.byte	0x30
+	.byte	0
+	.uleb128 0x7
+	.long	.LASF181
+	.byte	0x38
+	.byte	0x12
+	.value	0x2a3
+	.long	0x3521
+	.uleb128 0x4
+	.string	"hdr"
+	.byte	0x12
+	.value	0x2a4
+	.byte	0xf
+	.long	0x2841
+	.byte	0
+	.uleb128 0x2
+	.long	.LASF577
+	.byte	0x12
+	.value	0x2a5
+	.byte	0x8
+	.long	0x71a
+	.byte	0x28
+	.uleb128 0x2
+	.long	.LASF205
+	.byte	0x12
+	.value	0x2a6
+	.byte	0x8
+	.long	0x71a
+	.byte	0x30
+	.byte	0
+	.uleb128 0x7
+	.long	.LASF182
+	.byte	0x30
+	.byte	0x12
+	.value	0x2a9
+	.long	0x354b
+	.uleb128 0x4
+	.string	"hdr"
+	.byte	0x12
+	.value	0x2aa
+	.byte	0xf
+	.long	0x2841
+	.byte	0
+	.uleb128 0x2
+	.long	.LASF581
+	.byte	0x12
+	.value	0x2ab
+	.byte	0x8
+	.long	0x71a
+	.byte	0x28
+	.byte	0
+	.uleb128 0x7
+	.long	.LASF183
+	.byte	0x38
+	.byte	0x12
+	.value	0x2ae
+	.long	0x3583
+	.uleb128 0x4
+	.string	"hdr"
+	.byte	0x12
+	.value	0x2af
+	.byte	0xf
+	.long	0x2841
+	.byte	0
+	.uleb128 0x2
+	.long	.LASF593
+	.byte	0x12
+	.value	0x2b0
+	.byte	0x8
+	.long	0x71a
+	.byte	0x28
+	.uleb128 0x2
+	.long	.LASF594
+	.byte	0x12
+	.value	0x2b1
+	.byte	0x8
+	.long	0x71a
+	.byte	0x30
+	.byte	0
+	.uleb128 0x7
+	.long	.LASF184
+	.byte	0x78
+	.byte	0x12
+	.value	0x2b4
+	.long	0x35ad
+	.uleb128 0x4
+	.string	"hdr"
+	.byte	0x12
+	.value	0x2b5
+	.byte	0xf
+	.long	0x2841
+	.byte	0
+	.uleb128 0x2
+	.long	.LASF220
+	.byte	0x12
+	.value	0x2b6
+	.byte	0x8
+	.long	0x28ef
+	.byte	0x28
+	.byte	0
+	.uleb128 0x7
+	.long	.LASF185
+	.byte	0x30
+	.byte	0x12
+	.value	0x2b9
+	.long	0x35d7
+	.uleb128 0x4
+	.string	"hdr"
+	.byte	0x12
+	.value	0x2ba
+	.byte	0xf
+	.long	0x2841
+	.byte	0
+	.uleb128 0x2
+	.long	.LASF595
+	.byte	0x12
+	.value	0x2bb
+	.byte	0x8
+	.long	0x71a
+	.byte	0x28
+	.byte	0
+	.uleb128 0x7
+	.long	.LASF186
+	.byte	0x48
+	.byte	0x12
+	.value	0x2be
+	.long	0x362a
+	.uleb128 0x4
+	.string	"hdr"
+	.byte	0x12
+	.value	0x2bf
+	.byte	0xf
+	.long	0x2841
+	.byte	0
+	.uleb128 0x2
+	.long	.LASF577
+	.byte	0x12
+	.value	0x2c0
+	.byte	0x8
+	.long	0x71a
+	.byte	0x28
+	.uleb128 0x4
+	.string	"id"
+	.byte	0x12
+	.value	0x2c1
+	.byte	0x8
+	.long	0x71a
+	.byte	0x30
+	.uleb128 0x2
+	.long	.LASF580
+	.byte	0x12
+	.value	0x2c2
+	.byte	0x8
+	.long	0x71a
+	.byte	0x38
+	.uleb128 0x2
+	.long	.LASF596
+	.byte	0x12
+	.value	0x2c3
+	.byte	0x8
+	.long	0x71a
+	.byte	0x40
+	.byte	0
+	.uleb128 0x7
+	.long	.LASF187
+	.byte	0x38
+	.byte	0x12
+	.value	0x2c6
+	.long	0x3662
+	.uleb128 0x4
+	.string	"hdr"
+	.byte	0x12
+	.value	0x2c7
+	.byte	0xf
+	.long	0x2841
+	.byte	0
+	.uleb128 0x2
+	.long	.LASF592
+	.byte	0x12
+	.value	0x2c8
+	.byte	0x8
+	.long	0x71a
+	.byte	0x28
+	.uleb128 0x2
+	.long	.LASF577
+	.byte	0x12
+	.value	0x2c9
+	.byte	0x8
+	.long	0x71a
+	.byte	0x30
+	.byte	0
+	.uleb128 0x7
+	.long	.LASF188
+	.byte	0x30
+	.byte	0x12
+	.value	0x2cc
+	.long	0x368c
+	.uleb128 0x4
+	.string	"hdr"
+	.byte	0x12
+	.value	0x2cd
+	.byte	0xf
+	.long	0x2841
+	.byte	0
+	.uleb128 0x2
+	.long	.LASF574
+	.byte	0x12
+	.value	0x2ce
+	.byte	0x8
+	.long	0x71a
+	.byte	0x28
+	.byte	0
+	.uleb128 0x7
+	.long	.LASF189
+	.byte	0x38
+	.byte	0x12
+	.value	0x2d1
+	.long	0x36c4
+	.uleb128 0x4
+	.string	"hdr"
+	.byte	0x12
+	.value	0x2d2
+	.byte	0xf
+	.long	0x2841
+	.byte	0
+	.uleb128 0x2
+	.long	.LASF572
+	.byte	0x12
+	.value	0x2d3
+	.byte	0x8
+	.long	0x71a
+	.byte	0x28
+	.uleb128 0x2
+	.long	.LASF597
+	.byte	0x12
+	.value	0x2d4
+	.byte	0x8
+	.long	0x71a
+	.byte	0x30
+	.byte	0
+	.uleb128 0x7
+	.long	.LASF190
+	.byte	0x30
+	.byte	0x12
+	.value	0x2d7
+	.long	0x36ee
+	.uleb128 0x4
+	.string	"hdr"
+	.byte	0x12
+	.value	0x2d8
+	.byte	0xf
+	.long	0x2841
+	.byte	0
+	.uleb128 0x2
+	.long	.LASF581
+	.byte	0x12
+	.value	0x2d9
+	.byte	0x8
+	.long	0x71a
+	.byte	0x28
+	.byte	0
+	.uleb128 0x24
+	.byte	0x8
+	.byte	0x16
+	.value	0x1fd
+	.long	0x377a
+	.uleb128 0x1a
+	.string	"opt"
+	.byte	0x16
+	.value	0x1fe
+	.byte	0xb
+	.long	0x1537
+	.uleb128 0x6
+	.long	.LASF598
+	.byte	0x16
+	.value	0x1ff
+	.byte	0x8
+	.long	0x315
+	.uleb128 0x6
+	.long	.LASF599
+	.byte	0x16
+	.value	0x200
+	.byte	0x8
+	.long	0x315
+	.uleb128 0x1a
+	.string	"sym"
+	.byte	0x16
+	.value	0x201
+	.byte	0xa
+	.long	0x66d
+	.uleb128 0x6
+	.long	.LASF600
+	.byte	0x16
+	.value	0x202
+	.byte	0x8
+	.long	0x315
+	.uleb128 0x6
+	.long	.LASF601
+	.byte	0x16
+	.value	0x203
+	.byte	0x8
+	.long	0x2e
+	.uleb128 0x6
+	.long	.LASF602
+	.byte	0x16
+	.value	0x204
+	.byte	0xf
+	.long	0x23b3
+	.uleb128 0x6
+	.long	.LASF603
+	.byte	0x16
+	.value	0x205
+	.byte	0xb
+	.long	0x156f
+	.uleb128 0x6
+	.long	.LASF604
+	.byte	0x16
+	.value	0x206
+	.byte	0x19
+	.long	0x1585
+	.uleb128 0x6
+	.long	.LASF605
+	.byte	0x16
+	.value	0x208
+	.byte	0xc
+	.long	0x15b1
+	.byte	0
+	.uleb128 0x7
+	.long	.LASF606
+	.byte	0x30
+	.byte	0x16
+	.value	0x1f8
+	.long	0x37f8
+	.uleb128 0x4
+	.string	"tag"
+	.byte	0x16
+	.value	0x1f9
+	.byte	0x8
+	.long	0x2d4
+	.byte	0
+	.uleb128 0x2
+	.long	.LASF607
+	.byte	0x16
+	.value	0x1fa
+	.byte	0x8
+	.long	0x2d4
+	.byte	0x1
+	.uleb128 0x2
+	.long	.LASF608
+	.byte	0x16
+	.value	0x1fb
+	.byte	0x8
+	.long	0x2d4
+	.byte	0x2
+	.uleb128 0x4
+	.string	"pos"
+	.byte	0x16
+	.value	0x1fc
+	.byte	0x9
+	.long	0x50e
+	.byte	0x8
+	.uleb128 0x2
+	.long	.LASF97
+	.byte	0x16
+	.value	0x20a
+	.byte	0x4
+	.long	0x36ee
+	.byte	0x10
+	.uleb128 0x2
+	.long	.LASF609
+	.byte	0x16
+	.value	0x20b
+	.byte	0x6
+	.long	0x2e
+	.byte	0x18
+	.uleb128 0x2
+	.long	.LASF200
+	.byte	0x16
+	.value	0x20c
+	.byte	0x7
+	.long	0xb52
+	.byte	0x20
+	.uleb128 0x2
+	.long	.LASF219
+	.byte	0x16
+	.value	0x20d
+	.byte	0x9
+	.long	0x32f
+	.byte	0x28
+	.byte	0
+	.uleb128 0x24
+	.byte	0x8
+	.byte	0x16
+	.value	0x212
+	.long	0x3843
+	.uleb128 0x6
+	.long	.LASF610
+	.byte	0x16
+	.value	0x213
+	.byte	0x8
+	.long	0xdff
+	.uleb128 0x6
+	.long	.LASF74
+	.byte	0x16
+	.value	0x214
+	.byte	0x8
+	.long	0x2fb
+	.uleb128 0x1a
+	.string	"str"
+	.byte	0x16
+	.value	0x215
+	.byte	0xa
+	.long	0x356
+	.uleb128 0x6
+	.long	.LASF102
+	.byte	0x16
+	.value	0x216
+	.byte	0x8
+	.long	0x5f0
+	.uleb128 0x6
+	.long	.LASF611
+	.byte	0x16
+	.value	0x217
+	.byte	0xa
+	.long	0x370
+	.byte	0
+	.uleb128 0x7
+	.long	.LASF247
+	.byte	0x80
+	.byte	0x16
+	.value	0x210
+	.long	0x386d
+	.uleb128 0x4
+	.string	"hdr"
+	.byte	0x16
+	.value	0x211
+	.byte	0x11
+	.long	0x377a
+	.byte	0
+	.uleb128 0x2
+	.long	.LASF220
+	.byte	0x16
+	.value	0x218
+	.byte	0x4
+	.long	0x386d
+	.byte	0x30
+	.byte	0
+	.uleb128 0x18
+	.long	0x37f8
+	.long	0x387d
+	.uleb128 0x19
+	.long	0x4a
+	.byte	0x9
+	.byte	0
+	.uleb128 0x7
+	.long	.LASF248
+	.byte	0x30
+	.byte	0x16
+	.value	0x21e
+	.long	0x3899
+	.uleb128 0x4
+	.string	"hdr"
+	.byte	0x16
+	.value	0x21f
+	.byte	0x11
+	.long	0x377a
+	.byte	0
+	.byte	0
+	.uleb128 0x7
+	.long	.LASF249
+	.byte	0x38
+	.byte	0x16
+	.value	0x225
+	.long	0x38c3
+	.uleb128 0x4
+	.string	"hdr"
+	.byte	0x16
+	.value	0x226
+	.byte	0x11
+	.long	0x377a
+	.byte	0
+	.uleb128 0x2
+	.long	.LASF612
+	.byte	0x16
+	.value	0x227
+	.byte	0x7
+	.long	0x2fb
+	.byte	0x30
+	.byte	0
+	.uleb128 0x7
+	.long	.LASF250
+	.byte	0x38
+	.byte	0x16
+	.value	0x22d
+	.long	0x38ed
+	.uleb128 0x4
+	.string	"hdr"
+	.byte	0x16
+	.value	0x22e
+	.byte	0x11
+	.long	0x377a
+	.byte	0
+	.uleb128 0x2
+	.long	.LASF613
+	.byte	0x16
+	.value	0x22f
+	.byte	0x7
+	.long	0x2fb
+	.byte	0x30
+	.byte	0
+	.uleb128 0x7
+	.long	.LASF251
+	.byte	0x38
+	.byte	0x16
+	.value	0x235
+	.long	0x3917
+	.uleb128 0x4
+	.string	"hdr"
+	.byte	0x16
+	.value	0x236
+	.byte	0x11
+	.long	0x377a
+	.byte	0
+	.uleb128 0x2
+	.long	.LASF614
+	.byte	0x16
+	.value	0x237
+	.byte	0x7
+	.long	0x2fb
+	.byte	0x30
+	.byte	0
+	.uleb128 0x7
+	.long	.LASF252
+	.byte	0x38
+	.byte	0x16
+	.value	0x23d
+	.long	0x3941
+	.uleb128 0x4
+	.string	"hdr"
+	.byte	0x16
+	.value	0x23e
+	.byte	0x11
+	.long	0x377a
+	.byte	0
+	.uleb128 0x2
+	.long	.LASF615
+	.byte	0x16
+	.value	0x23f
+	.byte	0x7
+	.long	0x2fb
+	.byte	0x30
+	.byte	0
+	.uleb128 0x7
+	.long	.LASF253
+	.byte	0x38
+	.byte	0x16
+	.value	0x245
+	.long	0x396b
+	.uleb128 0x4
+	.string	"hdr"
+	.byte	0x16
+	.value	0x246
+	.byte	0x11
+	.long	0x377a
+	.byte	0
+	.uleb128 0x2
+	.long	.LASF616
+	.byte	0x16
+	.value	0x247
+	.byte	0x7
+	.long	0x2fb
+	.byte	0x30
+	.byte	0
+	.uleb128 0x7
+	.long	.LASF254
+	.byte	0x38
+	.byte	0x16
+	.value	0x24d
+	.long	0x3995
+	.uleb128 0x4
+	.string	"hdr"
+	.byte	0x16
+	.value	0x24e
+	.byte	0x11
+	.long	0x377a
+	.byte	0
+	.uleb128 0x2
+	.long	.LASF617
+	.byte	0x16
+	.value	0x24f
+	.byte	0x7
+	.long	0x5f0
+	.byte	0x30
+	.byte	0
+	.uleb128 0x7
+	.long	.LASF255
+	.byte	0x38
+	.byte	0x16
+	.value	0x255
+	.long	0x39bf
+	.uleb128 0x4
+	.string	"hdr"
+	.byte	0x16
+	.value	0x256
+	.byte	0x11
+	.long	0x377a
+	.byte	0
+	.uleb128 0x2
+	.long	.LASF618
+	.byte	0x16
+	.value	0x257
+	.byte	0x9
+	.long	0x370
+	.byte	0x30
+	.byte	0
+	.uleb128 0x7
+	.long	.LASF256
+	.byte	0x38
+	.byte	0x16
+	.value	0x25d
+	.long	0x39e9
+	.uleb128 0x4
+	.string	"hdr"
+	.byte	0x16
+	.value	0x25e
+	.byte	0x11
+	.long	0x377a
+	.byte	0
+	.uleb128 0x2
+	.long	.LASF619
+	.byte	0x16
+	.value	0x25f
+	.byte	0x9
+	.long	0x37d
+	.byte	0x30
+	.byte	0
+	.uleb128 0x7
+	.long	.LASF257
+	.byte	0x38
+	.byte	0x16
+	.value	0x262
+	.long	0x3a13
+	.uleb128 0x4
+	.string	"hdr"
+	.byte	0x16
+	.value	0x263
+	.byte	0x11
+	.long	0x377a
+	.byte	0
+	.uleb128 0x2
+	.long	.LASF74
+	.byte	0x16
+	.value	0x264
+	.byte	0x7
+	.long	0x2fb
+	.byte	0x30
+	.byte	0
+	.uleb128 0x7
+	.long	.LASF258
+	.byte	0x40
+	.byte	0x16
+	.value	0x267
+	.long	0x3a3d
+	.uleb128 0x4
+	.string	"hdr"
+	.byte	0x16
+	.value	0x268
+	.byte	0x11
+	.long	0x377a
+	.byte	0
+	.uleb128 0x2
+	.long	.LASF74
+	.byte	0x16
+	.value	0x269
+	.byte	0x7
+	.long	0x3a3d
+	.byte	0x30
+	.byte	0
+	.uleb128 0x18
+	.long	0x2fb
+	.long	0x3a4d
+	.uleb128 0x19
+	.long	0x4a
+	.byte	0x1
+	.byte	0
+	.uleb128 0x7
+	.long	.LASF259
+	.byte	0x88
+	.byte	0x16
+	.value	0x26c
+	.long	0x3a85
+	.uleb128 0x4
+	.string	"hdr"
+	.byte	0x16
+	.value	0x26d
+	.byte	0x11
+	.long	0x377a
+	.byte	0
+	.uleb128 0x2
+	.long	.LASF620
+	.byte	0x16
+	.value	0x26e
+	.byte	0x7
+	.long	0x2fb
+	.byte	0x30
+	.uleb128 0x2
+	.long	.LASF621
+	.byte	0x16
+	.value	0x26f
+	.byte	0x7
+	.long	0x3a85
+	.byte	0x38
+	.byte	0
+	.uleb128 0x18
+	.long	0x2fb
+	.long	0x3a95
+	.uleb128 0x19
+	.long	0x4a
+	.byte	0x9
+	.byte	0
+	.uleb128 0x7
+	.long	.LASF260
+	.byte	0x88
+	.byte	0x16
+	.value	0x274
+	.long	0x3acd
+	.uleb128 0x4
+	.string	"hdr"
+	.byte	0x16
+	.value	0x275
+	.byte	0x11
+	.long	0x377a
+	.byte	0
+	.uleb128 0x2
+	.long	.LASF622
+	.byte	0x16
+	.value	0x276
+	.byte	0x7
+	.long	0x2fb
+	.byte	0x30
+	.uleb128 0x2
+	.long	.LASF621
+	.byte	0x16
+	.value	0x277
+	.byte	0x7
+	.long	0x3acd
+	.byte	0x38
+	.byte	0
+	.uleb128 0x18
+	.long	0xdff
+	.long	0x3add
+	.uleb128 0x19
+	.long	0x4a
+	.byte	0x9
+	.byte	0
+	.uleb128 0x7
+	.long	.LASF261
+	.byte	0x48
+	.byte	0x16
+	.value	0x27a
+	.long	0x3b23
+	.uleb128 0x4
+	.string	"hdr"
+	.byte	0x16
+	.value	0x27b
+	.byte	0x11
+	.long	0x377a
+	.byte	0
+	.uleb128 0x2
+	.long	.LASF623
+	.byte	0x16
+	.value	0x27c
+	.byte	0x7
+	.long	0x2fb
+	.byte	0x30
+	.uleb128 0x4
+	.string	"fmt"
+	.byte	0x16
+	.value	0x27d
+	.byte	0x7
+	.long	0xdff
+	.byte	0x38
+	.uleb128 0x2
+	.long	.LASF624
+	.byte	0x16
+	.value	0x27e
+	.byte	0x7
+	.long	0xdff
+	.byte	0x40
+	.byte	0
+	.uleb128 0x7
+	.long	.LASF262
+	.byte	0x98
+	.byte	0x16
+	.value	0x28d
+	.long	0x3bf5
+	.uleb128 0x4
+	.string	"hdr"
+	.byte	0x16
+	.value	0x28e
+	.byte	0x11
+	.long	0x377a
+	.byte	0
+	.uleb128 0x2
+	.long	.LASF625
+	.byte	0x16
+	.value	0x28f
+	.byte	0x7
+	.long	0x2fb
+	.byte	0x30
+	.uleb128 0x2
+	.long	.LASF626
+	.byte	0x16
+	.value	0x290
+	.byte	0x7
+	.long	0x2fb
+	.byte	0x38
+	.uleb128 0x2
+	.long	.LASF627
+	.byte	0x16
+	.value	0x291
+	.byte	0x7
+	.long	0x2fb
+	.byte	0x40
+	.uleb128 0x2
+	.long	.LASF622
+	.byte	0x16
+	.value	0x292
+	.byte	0x7
+	.long	0x2fb
+	.byte	0x48
+	.uleb128 0x2
+	.long	.LASF628
+	.byte	0x16
+	.value	0x293
+	.byte	0x7
+	.long	0x2fb
+	.byte	0x50
+	.uleb128 0x2
+	.long	.LASF629
+	.byte	0x16
+	.value	0x295
+	.byte	0x7
+	.long	0x2fb
+	.byte	0x58
+	.uleb128 0x2
+	.long	.LASF630
+	.byte	0x16
+	.value	0x296
+	.byte	0x7
+	.long	0x2fb
+	.byte	0x60
+	.uleb128 0x2
+	.long	.LASF631
+	.byte	0x16
+	.value	0x297
+	.byte	0x7
+	.long	0x2fb
+	.byte	0x68
+	.uleb128 0x2
+	.long	.LASF632
+	.byte	0x16
+	.value	0x29c
+	.byte	0x7
+	.long	0xdff
+	.byte	0x70
+	.uleb128 0x2
+	.long	.LASF633
+	.byte	0x16
+	.value	0x29e
+	.byte	0x7
+	.long	0xdff
+	.byte	0x78
+	.uleb128 0x2
+	.long	.LASF634
+	.byte	0x16
+	.value	0x29f
+	.byte	0x7
+	.long	0xdff
+	.byte	0x80
+	.uleb128 0x2
+	.long	.LASF635
+	.byte	0x16
+	.value	0x2a0
+	.byte	0x7
+	.long	0xdff
+	.byte	0x88
+	.uleb128 0x2
+	.long	.LASF578
+	.byte	0x16
+	.value	0x2a1
+	.byte	0x7
+	.long	0xdff
+	.byte	0x90
+	.byte	0
+	.uleb128 0x7
+	.long	.LASF263
+	.byte	0x40
+	.byte	0x16
+	.value	0x2a6
+	.long	0x3c2d
+	.uleb128 0x4
+	.string	"hdr"
+	.byte	0x16
+	.value	0x2a7
+	.byte	0x11
+	.long	0x377a
+	.byte	0
+	.uleb128 0x4
+	.string	"env"
+	.byte	0x16
+	.value	0x2a8
+	.byte	0x7
+	.long	0xdff
+	.byte	0x30
+	.uleb128 0x2
+	.long	.LASF636
+	.byte	0x16
+	.value	0x2a9
+	.byte	0x7
+	.long	0xdff
+	.byte	0x38
+	.byte	0
+	.uleb128 0x7
+	.long	.LASF265
+	.byte	0x60
+	.byte	0x16
+	.value	0x2b4
+	.long	0x3c9c
+	.uleb128 0x4
+	.string	"hdr"
+	.byte	0x16
+	.value	0x2b5
+	.byte	0x11
+	.long	0x377a
+	.byte	0
+	.uleb128 0x2
+	.long	.LASF205
+	.byte	0x16
+	.value	0x2b6
+	.byte	0x7
+	.long	0x2fb
+	.byte	0x30
+	.uleb128 0x4
+	.string	"id"
+	.byte	0x16
+	.value	0x2b7
+	.byte	0x9
+	.long	0x356
+	.byte	0x38
+	.uleb128 0x2
+	.long	.LASF591
+	.byte	0x16
+	.value	0x2b8
+	.byte	0x7
+	.long	0x2fb
+	.byte	0x40
+	.uleb128 0x2
+	.long	.LASF622
+	.byte	0x16
+	.value	0x2b9
+	.byte	0x7
+	.long	0x2fb
+	.byte	0x48
+	.uleb128 0x4
+	.string	"dir"
+	.byte	0x16
+	.value	0x2ba
+	.byte	0x7
+	.long	0x2fb
+	.byte	0x50
+	.uleb128 0x2
+	.long	.LASF637
+	.byte	0x16
+	.value	0x2bb
+	.byte	0x7
+	.long	0x2fb
+	.byte	0x58
+	.byte	0
+	.uleb128 0x7
+	.long	.LASF264
+	.byte	0x50
+	.byte	0x16
+	.value	0x2c1
+	.long	0x3cef
+	.uleb128 0x4
+	.string	"hdr"
+	.byte	0x16
+	.value	0x2c2
+	.byte	0x11
+	.long	0x377a
+	.byte	0
+	.uleb128 0x2
+	.long	.LASF205
+	.byte	0x16
+	.value	0x2c3
+	.byte	0x7
+	.long	0x2fb
+	.byte	0x30
+	.uleb128 0x4
+	.string	"id"
+	.byte	0x16
+	.value	0x2c4
+	.byte	0x9
+	.long	0x356
+	.byte	0x38
+	.uleb128 0x2
+	.long	.LASF638
+	.byte	0x16
+	.value	0x2c5
+	.byte	0x7
+	.long	0x2fb
+	.byte	0x40
+	.uleb128 0x2
+	.long	.LASF622
+	.byte	0x16
+	.value	0x2c6
+	.byte	0x7
+	.long	0x2fb
+	.byte	0x48
+	.byte	0
+	.uleb128 0x7
+	.long	.LASF266
+	.byte	0x88
+	.byte	0x16
+	.value	0x2cd
+	.long	0x3d27
+	.uleb128 0x4
+	.string	"hdr"
+	.byte	0x16
+	.value	0x2ce
+	.byte	0x11
+	.long	0x377a
+	.byte	0
+	.uleb128 0x2
+	.long	.LASF639
+	.byte	0x16
+	.value	0x2cf
+	.byte	0x7
+	.long	0x2fb
+	.byte	0x30
+	.uleb128 0x2
+	.long	.LASF220
+	.byte	0x16
+	.value	0x2d0
+	.byte	0x7
+	.long	0x3acd
+	.byte	0x38
+	.byte	0
+	.uleb128 0x7
+	.long	.LASF267
+	.byte	0x80
+	.byte	0x16
+	.value	0x2d7
+	.long	0x3d51
+	.uleb128 0x4
+	.string	"hdr"
+	.byte	0x16
+	.value	0x2d8
+	.byte	0x11
+	.long	0x377a
+	.byte	0
+	.uleb128 0x2
+	.long	.LASF220
+	.byte	0x16
+	.value	0x2d9
+	.byte	0x7
+	.long	0x3a85
+	.byte	0x30
+	.byte	0
+	.uleb128 0x7
+	.long	.LASF268
+	.byte	0x80
+	.byte	0x16
+	.value	0x2de
+	.long	0x3d7b
+	.uleb128 0x4
+	.string	"hdr"
+	.byte	0x16
+	.value	0x2df
+	.byte	0x11
+	.long	0x377a
+	.byte	0
+	.uleb128 0x2
+	.long	.LASF220
+	.byte	0x16
+	.value	0x2e0
+	.byte	0x7
+	.long	0x3a85
+	.byte	0x30
+	.byte	0
+	.uleb128 0x7
+	.long	.LASF269
+	.byte	0x80
+	.byte	0x16
+	.value	0x2e5
+	.long	0x3da5
+	.uleb128 0x4
+	.string	"hdr"
+	.byte	0x16
+	.value	0x2e6
+	.byte	0x11
+	.long	0x377a
+	.byte	0
+	.uleb128 0x2
+	.long	.LASF220
+	.byte	0x16
+	.value	0x2e7
+	.byte	0x7
+	.long	0x3acd
+	.byte	0x30
+	.byte	0
+	.uleb128 0x7
+	.long	.LASF270
+	.byte	0x40
+	.byte	0x16
+	.value	0x2ed
+	.long	0x3ddd
+	.uleb128 0x4
+	.string	"hdr"
+	.byte	0x16
+	.value	0x2ee
+	.byte	0x11
+	.long	0x377a
+	.byte	0
+	.uleb128 0x4
+	.string	"lhs"
+	.byte	0x16
+	.value	0x2ef
+	.byte	0x7
+	.long	0xdff
+	.byte	0x30
+	.uleb128 0x4
+	.string	"rhs"
+	.byte	0x16
+	.value	0x2f0
+	.byte	0x7
+	.long	0xdff
+	.byte	0x38
+	.byte	0
+	.uleb128 0x7
+	.long	.LASF271
+	.byte	0x80
+	.byte	0x16
+	.value	0x2f3
+	.long	0x3e07
+	.uleb128 0x4
+	.string	"hdr"
+	.byte	0x16
+	.value	0x2f4
+	.byte	0x11
+	.long	0x377a
+	.byte	0
+	.uleb128 0x2
+	.long	.LASF220
+	.byte	0x16
+	.value	0x2f5
+	.byte	0x7
+	.long	0x3acd
+	.byte	0x30
+	.byte	0
+	.uleb128 0x7
+	.long	.LASF272
+	.byte	0x38
+	.byte	0x16
+	.value	0x2fa
+	.long	0x3e31
+	.uleb128 0x4
+	.string	"hdr"
+	.byte	0x16
+	.value	0x2fb
+	.byte	0x11
+	.long	0x377a
+	.byte	0
+	.uleb128 0x2
+	.long	.LASF640
+	.byte	0x16
+	.value	0x2fc
+	.byte	0x7
+	.long	0x2fb
+	.byte	0x30
+	.byte	0
+	.uleb128 0x7
+	.long	.LASF273
+	.byte	0x38
+	.byte	0x16
+	.value	0x303
+	.long	0x3e5b
+	.uleb128 0x4
+	.string	"hdr"
+	.byte	0x16
+	.value	0x304
+	.byte	0x11
+	.long	0x377a
+	.byte	0
+	.uleb128 0x2
+	.long	.LASF640
+	.byte	0x16
+	.value	0x305
+	.byte	0x7
+	.long	0x2fb
+	.byte	0x30
+	.byte	0
+	.uleb128 0x7
+	.long	.LASF274
+	.byte	0x40
+	.byte	0x16
+	.value	0x30b
+	.long	0x3e93
+	.uleb128 0x4
+	.string	"hdr"
+	.byte	0x16
+	.value	0x30c
+	.byte	0x11
+	.long	0x377a
+	.byte	0
+	.uleb128 0x2
+	.long	.LASF641
+	.byte	0x16
+	.value	0x30d
+	.byte	0x7
+	.long	0x2fb
+	.byte	0x30
+	.uleb128 0x2
+	.long	.LASF640
+	.byte	0x16
+	.value	0x30e
+	.byte	0x7
+	.long	0x2fb
+	.byte	0x38
+	.byte	0
+	.uleb128 0x7
+	.long	.LASF275
+	.byte	0x38
+	.byte	0x16
+	.value	0x313
+	.long	0x3ebd
+	.uleb128 0x4
+	.string	"hdr"
+	.byte	0x16
+	.value	0x314
+	.byte	0x11
+	.long	0x377a
+	.byte	0
+	.uleb128 0x2
+	.long	.LASF640
+	.byte	0x16
+	.value	0x315
+	.byte	0x7
+	.long	0x2fb
+	.byte	0x30
+	.byte	0
+	.uleb128 0x7
+	.long	.LASF277
+	.byte	0x38
+	.byte	0x16
+	.value	0x31a
+	.long	0x3ee7
+	.uleb128 0x4
+	.string	"hdr"
+	.byte	0x16
+	.value	0x31b
+	.byte	0x11
+	.long	0x377a
+	.byte	0
+	.uleb128 0x2
+	.long	.LASF640
+	.byte	0x16
+	.value	0x31c
+	.byte	0x7
+	.long	0x2fb
+	.byte	0x30
+	.byte	0
+	.uleb128 0x7
+	.long	.LASF276
+	.byte	0x38
+	.byte	0x16
+	.value	0x321
+	.long	0x3f11
+	.uleb128 0x4
+	.string	"hdr"
+	.byte	0x16
+	.value	0x322
+	.byte	0x11
+	.long	0x377a
+	.byte	0
+	.uleb128 0x2
+	.long	.LASF640
+	.byte	0x16
+	.value	0x323
+	.byte	0x7
+	.long	0x2fb
+	.byte	0x30
+	.byte	0
+	.uleb128 0x7
+	.long	.LASF278
+	.byte	0x38
+	.byte	0x16
+	.value	0x328
+	.long	0x3f3b
+	.uleb128 0x4
+	.string	"hdr"
+	.byte	0x16
+	.value	0x329
+	.byte	0x11
+	.long	0x377a
+	.byte	0
+	.uleb128 0x2
+	.long	.LASF641
+	.byte	0x16
+	.value	0x32a
+	.byte	0x7
+	.long	0x2fb
+	.byte	0x30
+	.byte	0
+	.uleb128 0x7
+	.long	.LASF279
+	.byte	0x40
+	.byte	0x16
+	.value	0x32f
+	.long	0x3f73
+	.uleb128 0x4
+	.string	"hdr"
+	.byte	0x16
+	.value	0x330
+	.byte	0x11
+	.long	0x377a
+	.byte	0
+	.uleb128 0x2
+	.long	.LASF641
+	.byte	0x16
+	.value	0x331
+	.byte	0x7
+	.long	0x2fb
+	.byte	0x30
+	.uleb128 0x4
+	.string	"env"
+	.byte	0x16
+	.value	0x332
+	.byte	0x7
+	.long	0xdff
+	.byte	0x38
+	.byte	0
+	.uleb128 0x7
+	.long	.LASF280
+	.byte	0x40
+	.byte	0x16
+	.value	0x337
+	.long	0x3fab
+	.uleb128 0x4
+	.string	"hdr"
+	.byte	0x16
+	.value	0x338
+	.byte	0x11
+	.long	0x377a
+	.byte	0
+	.uleb128 0x4
+	.string	"idx"
+	.byte	0x16
+	.value	0x339
+	.byte	0x7
+	.long	0x2fb
+	.byte	0x30
+	.uleb128 0x2
+	.long	.LASF636
+	.byte	0x16
+	.value	0x33a
+	.byte	0x7
+	.long	0xdff
+	.byte	0x38
+	.byte	0
+	.uleb128 0x7
+	.long	.LASF281
+	.byte	0x38
+	.byte	0x16
+	.value	0x33f
+	.long	0x3fd5
+	.uleb128 0x4
+	.string	"hdr"
+	.byte	0x16
+	.value	0x340
+	.byte	0x11
+	.long	0x377a
+	.byte	0
+	.uleb128 0x2
+	.long	.LASF575
+	.byte	0x16
+	.value	0x341
+	.byte	0x7
+	.long	0x2fb
+	.byte	0x30
+	.byte	0
+	.uleb128 0x7
+	.long	.LASF282
+	.byte	0x38
+	.byte	0x16
+	.value	0x346
+	.long	0x3fff
+	.uleb128 0x4
+	.string	"hdr"
+	.byte	0x16
+	.value	0x347
+	.byte	0x11
+	.long	0x377a
+	.byte	0
+	.uleb128 0x4
+	.string	"val"
+	.byte	0x16
+	.value	0x348
+	.byte	0x7
+	.long	0xdff
+	.byte	0x30
+	.byte	0
+	.uleb128 0x7
+	.long	.LASF283
+	.byte	0x38
+	.byte	0x16
+	.value	0x34d
+	.long	0x4029
+	.uleb128 0x4
+	.string	"hdr"
+	.byte	0x16
+	.value	0x34e
+	.byte	0x11
+	.long	0x377a
+	.byte	0
+	.uleb128 0x2
+	.long	.LASF636
+	.byte	0x16
+	.value	0x34f
+	.byte	0x7
+	.long	0xdff
+	.byte	0x30
+	.byte	0
+	.uleb128 0x7
+	.long	.LASF284
+	.byte	0x38
+	.byte	0x16
+	.value	0x354
+	.long	0x4053
+	.uleb128 0x4
+	.string	"hdr"
+	.byte	0x16
+	.value	0x355
+	.byte	0x11
+	.long	0x377a
+	.byte	0
+	.uleb128 0x4
+	.string	"env"
+	.byte	0x16
+	.value	0x356
+	.byte	0x7
+	.long	0xdff
+	.byte	0x30
+	.byte	0
+	.uleb128 0x7
+	.long	.LASF285
+	.byte	0x38
+	.byte	0x16
+	.value	0x35b
+	.long	0x407d
+	.uleb128 0x4
+	.string	"hdr"
+	.byte	0x16
+	.value	0x35c
+	.byte	0x11
+	.long	0x377a
+	.byte	0
+	.uleb128 0x4
+	.string	"loc"
+	.byte	0x16
+	.value	0x35d
+	.byte	0x7
+	.long	0xdff
+	.byte	0x30
+	.byte	0
+	.uleb128 0x7
+	.long	.LASF286
+	.byte	0x38
+	.byte	0x16
+	.value	0x362
+	.long	0x40a7
+	.uleb128 0x4
+	.string	"hdr"
+	.byte	0x16
+	.value	0x363
+	.byte	0x11
+	.long	0x377a
+	.byte	0
+	.uleb128 0x4
+	.string	"env"
+	.byte	0x16
+	.value	0x364
+	.byte	0x7
+	.long	0xdff
+	.byte	0x30
+	.byte	0
+	.uleb128 0x7
+	.long	.LASF287
+	.byte	0x38
+	.byte	0x16
+	.value	0x369
+	.long	0x40d1
+	.uleb128 0x4
+	.string	"hdr"
+	.byte	0x16
+	.value	0x36a
+	.byte	0x11
+	.long	0x377a
+	.byte	0
+	.uleb128 0x4
+	.string	"env"
+	.byte	0x16
+	.value	0x36b
+	.byte	0x7
+	.long	0xdff
+	.byte	0x30
+	.byte	0
+	.uleb128 0x7
+	.long	.LASF288
+	.byte	0x48
+	.byte	0x16
+	.value	0x370
+	.long	0x4117
+	.uleb128 0x4
+	.string	"hdr"
+	.byte	0x16
+	.value	0x371
+	.byte	0x11
+	.long	0x377a
+	.byte	0
+	.uleb128 0x2
+	.long	.LASF620
+	.byte	0x16
+	.value	0x372
+	.byte	0x7
+	.long	0x2fb
+	.byte	0x30
+	.uleb128 0x2
+	.long	.LASF640
+	.byte	0x16
+	.value	0x373
+	.byte	0x7
+	.long	0xdff
+	.byte	0x38
+	.uleb128 0x2
+	.long	.LASF577
+	.byte	0x16
+	.value	0x374
+	.byte	0x7
+	.long	0xdff
+	.byte	0x40
+	.byte	0
+	.uleb128 0x7
+	.long	.LASF303
+	.byte	0x40
+	.byte	0x16
+	.value	0x379
+	.long	0x414f
+	.uleb128 0x4
+	.string	"hdr"
+	.byte	0x16
+	.value	0x37a
+	.byte	0x11
+	.long	0x377a
+	.byte	0
+	.uleb128 0x2
+	.long	.LASF219
+	.byte	0x16
+	.value	0x37b
+	.byte	0x7
+	.long	0x2fb
+	.byte	0x30
+	.uleb128 0x4
+	.string	"fmt"
+	.byte	0x16
+	.value	0x37c
+	.byte	0x7
+	.long	0xdff
+	.byte	0x38
+	.byte	0
+	.uleb128 0x7
+	.long	.LASF290
+	.byte	0x48
+	.byte	0x16
+	.value	0x382
+	.long	0x4195
+	.uleb128 0x4
+	.string	"hdr"
+	.byte	0x16
+	.value	0x383
+	.byte	0x11
+	.long	0x377a
+	.byte	0
+	.uleb128 0x2
+	.long	.LASF642
+	.byte	0x16
+	.value	0x384
+	.byte	0x7
+	.long	0x2fb
+	.byte	0x30
+	.uleb128 0x4
+	.string	"fmt"
+	.byte	0x16
+	.value	0x385
+	.byte	0x7
+	.long	0xdff
+	.byte	0x38
+	.uleb128 0x2
+	.long	.LASF74
+	.byte	0x16
+	.value	0x386
+	.byte	0x7
+	.long	0xdff
+	.byte	0x40
+	.byte	0
+	.uleb128 0x7
+	.long	.LASF315
+	.byte	0x38
+	.byte	0x16
+	.value	0x38c
+	.long	0x41bf
+	.uleb128 0x4
+	.string	"hdr"
+	.byte	0x16
+	.value	0x38d
+	.byte	0x11
+	.long	0x377a
+	.byte	0
+	.uleb128 0x4
+	.string	"fmt"
+	.byte	0x16
+	.value	0x38e
+	.byte	0x7
+	.long	0xdff
+	.byte	0x30
+	.byte	0
+	.uleb128 0x7
+	.long	.LASF289
+	.byte	0x48
+	.byte	0x16
+	.value	0x394
+	.long	0x4205
+	.uleb128 0x4
+	.string	"hdr"
+	.byte	0x16
+	.value	0x395
+	.byte	0x11
+	.long	0x377a
+	.byte	0
+	.uleb128 0x2
+	.long	.LASF622
+	.byte	0x16
+	.value	0x396
+	.byte	0x7
+	.long	0x2fb
+	.byte	0x30
+	.uleb128 0x2
+	.long	.LASF577
+	.byte	0x16
+	.value	0x397
+	.byte	0x7
+	.long	0xdff
+	.byte	0x38
+	.uleb128 0x2
+	.long	.LASF642
+	.byte	0x16
+	.value	0x398
+	.byte	0x7
+	.long	0x2fb
+	.byte	0x40
+	.byte	0
+	.uleb128 0x7
+	.long	.LASF291
+	.byte	0x48
+	.byte	0x16
+	.value	0x39d
+	.long	0x424b
+	.uleb128 0x4
+	.string	"hdr"
+	.byte	0x16
+	.value	0x39e
+	.byte	0x11
+	.long	0x377a
+	.byte	0
+	.uleb128 0x2
+	.long	.LASF622
+	.byte	0x16
+	.value	0x39f
+	.byte	0x7
+	.long	0x2fb
+	.byte	0x30
+	.uleb128 0x2
+	.long	.LASF577
+	.byte	0x16
+	.value	0x3a0
+	.byte	0x7
+	.long	0xdff
+	.byte	0x38
+	.uleb128 0x2
+	.long	.LASF642
+	.byte	0x16
+	.value	0x3a1
+	.byte	0x7
+	.long	0x2fb
+	.byte	0x40
+	.byte	0
+	.uleb128 0x7
+	.long	.LASF292
+	.byte	0x50
+	.byte	0x16
+	.value	0x3a6
+	.long	0x429f
+	.uleb128 0x4
+	.string	"hdr"
+	.byte	0x16
+	.value	0x3a7
+	.byte	0x11
+	.long	0x377a
+	.byte	0
+	.uleb128 0x2
+	.long	.LASF622
+	.byte	0x16
+	.value	0x3a8
+	.byte	0x7
+	.long	0x2fb
+	.byte	0x30
+	.uleb128 0x2
+	.long	.LASF577
+	.byte	0x16
+	.value	0x3a9
+	.byte	0x7
+	.long	0xdff
+	.byte	0x38
+	.uleb128 0x2
+	.long	.LASF640
+	.byte	0x16
+	.value	0x3aa
+	.byte	0x7
+	.long	0xdff
+	.byte	0x40
+	.uleb128 0x2
+	.long	.LASF642
+	.byte	0x16
+	.value	0x3ab
+	.byte	0x7
+	.long	0x2fb
+	.byte	0x48
+	.byte	0
+	.uleb128 0x7
+	.long	.LASF293
+	.byte	0x50
+	.byte	0x16
+	.value	0x3b0
+	.long	0x42f3
+	.uleb128 0x4
+	.string	"hdr"
+	.byte	0x16
+	.value	0x3b1
+	.byte	0x11
+	.long	0x377a
+	.byte	0
+	.uleb128 0x4
+	.string	"env"
+	.byte	0x16
+	.value	0x3b2
+	.byte	0x7
+	.long	0x2fb
+	.byte	0x30
+	.uleb128 0x4
+	.string	"ref"
+	.byte	0x16
+	.value	0x3b3
+	.byte	0x7
+	.long	0xdff
+	.byte	0x38
+	.uleb128 0x2
+	.long	.LASF641
+	.byte	0x16
+	.value	0x3b4
+	.byte	0x7
+	.long	0x2fb
+	.byte	0x40
+	.uleb128 0x4
+	.string	"lex"
+	.byte	0x16
+	.value	0x3b5
+	.byte	0x7
+	.long	0x2fb
+	.byte	0x48
+	.byte	0
+	.uleb128 0x7
+	.long	.LASF294
+	.byte	0x38
+	.byte	0x16
+	.value	0x3bb
+	.long	0x431d
+	.uleb128 0x4
+	.string	"hdr"
+	.byte	0x16
+	.value	0x3bc
+	.byte	0x11
+	.long	0x377a
+	.byte	0
+	.uleb128 0x2
+	.long	.LASF643
+	.byte	0x16
+	.value	0x3bd
+	.byte	0x7
+	.long	0x2fb
+	.byte	0x30
+	.byte	0
+	.uleb128 0x7
+	.long	.LASF295
+	.byte	0x38
+	.byte	0x16
+	.value	0x3c3
+	.long	0x4347
+	.uleb128 0x4
+	.string	"hdr"
+	.byte	0x16
+	.value	0x3c4
+	.byte	0x11
+	.long	0x377a
+	.byte	0
+	.uleb128 0x4
+	.string	"str"
+	.byte	0x16
+	.value	0x3c5
+	.byte	0x9
+	.long	0x356
+	.byte	0x30
+	.byte	0
+	.uleb128 0x7
+	.long	.LASF296
+	.byte	0x30
+	.byte	0x16
+	.value	0x3cb
+	.long	0x4363
+	.uleb128 0x4
+	.string	"hdr"
+	.byte	0x16
+	.value	0x3cc
+	.byte	0x11
+	.long	0x377a
+	.byte	0
+	.byte	0
+	.uleb128 0x7
+	.long	.LASF297
+	.byte	0x40
+	.byte	0x16
+	.value	0x3d1
+	.long	0x439b
+	.uleb128 0x4
+	.string	"hdr"
+	.byte	0x16
+	.value	0x3d2
+	.byte	0x11
+	.long	0x377a
+	.byte	0
+	.uleb128 0x4
+	.string	"lhs"
+	.byte	0x16
+	.value	0x3d3
+	.byte	0x7
+	.long	0xdff
+	.byte	0x30
+	.uleb128 0x4
+	.string	"rhs"
+	.byte	0x16
+	.value	0x3d4
+	.byte	0x7
+	.long	0xdff
+	.byte	0x38
+	.byte	0
+	.uleb128 0x7
+	.long	.LASF298
+	.byte	0x40
+	.byte	0x16
+	.value	0x3d9
+	.long	0x43d3
+	.uleb128 0x4
+	.string	"hdr"
+	.byte	0x16
+	.value	0x3da
+	.byte	0x11
+	.long	0x377a
+	.byte	0
+	.uleb128 0x2
+	.long	.LASF574
+	.byte	0x16
+	.value	0x3db
+	.byte	0x7
+	.long	0xdff
+	.byte	0x30
+	.uleb128 0x2
+	.long	.LASF575
+	.byte	0x16
+	.value	0x3dc
+	.byte	0x7
+	.long	0x2fb
+	.byte	0x38
+	.byte	0
+	.uleb128 0x7
+	.long	.LASF299
+	.byte	0x80
+	.byte	0x16
+	.value	0x3e1
+	.long	0x43fd
+	.uleb128 0x4
+	.string	"hdr"
+	.byte	0x16
+	.value	0x3e2
+	.byte	0x11
+	.long	0x377a
+	.byte	0
+	.uleb128 0x2
+	.long	.LASF220
+	.byte	0x16
+	.value	0x3e3
+	.byte	0x7
+	.long	0x3acd
+	.byte	0x30
+	.byte	0
+	.uleb128 0x7
+	.long	.LASF301
+	.byte	0x40
+	.byte	0x16
+	.value	0x3e8
+	.long	0x4435
+	.uleb128 0x4
+	.string	"hdr"
+	.byte	0x16
+	.value	0x3e9
+	.byte	0x11
+	.long	0x377a
+	.byte	0
+	.uleb128 0x2
+	.long	.LASF644
+	.byte	0x16
+	.value	0x3ea
+	.byte	0x7
+	.long	0x2fb
+	.byte	0x30
+	.uleb128 0x2
+	.long	.LASF629
+	.byte	0x16
+	.value	0x3eb
+	.byte	0x7
+	.long	0xdff
+	.byte	0x38
+	.byte	0
+	.uleb128 0x7
+	.long	.LASF302
+	.byte	0x38
+	.byte	0x16
+	.value	0x3f0
+	.long	0x445f
+	.uleb128 0x4
+	.string	"hdr"
+	.byte	0x16
+	.value	0x3f1
+	.byte	0x11
+	.long	0x377a
+	.byte	0
+	.uleb128 0x2
+	.long	.LASF622
+	.byte	0x16
+	.value	0x3f2
+	.byte	0x7
+	.long	0x2fb
+	.byte	0x30
+	.byte	0
+	.uleb128 0x7
+	.long	.LASF304
+	.byte	0x40
+	.byte	0x16
+	.value	0x3f7
+	.long	0x4497
+	.uleb128 0x4
+	.string	"hdr"
+	.byte	0x16
+	.value	0x3f8
+	.byte	0x11
+	.long	0x377a
+	.byte	0
+	.uleb128 0x2
+	.long	.LASF622
+	.byte	0x16
+	.value	0x3f9
+	.byte	0x7
+	.long	0x2fb
+	.byte	0x30
+	.uleb128 0x2
+	.long	.LASF629
+	.byte	0x16
+	.value	0x3fa
+	.byte	0x7
+	.long	0xdff
+	.byte	0x38
+	.byte	0
+	.uleb128 0x7
+	.long	.LASF305
+	.byte	0x40
+	.byte	0x16
+	.value	0x3ff
+	.long	0x44cf
+	.uleb128 0x4
+	.string	"hdr"
+	.byte	0x16
+	.value	0x400
+	.byte	0x11
+	.long	0x377a
+	.byte	0
+	.uleb128 0x2
+	.long	.LASF205
+	.byte	0x16
+	.value	0x401
+	.byte	0x7
+	.long	0x2fb
+	.byte	0x30
+	.uleb128 0x2
+	.long	.LASF577
+	.byte	0x16
+	.value	0x402
+	.byte	0x7
+	.long	0xdff
+	.byte	0x38
+	.byte	0
+	.uleb128 0x7
+	.long	.LASF306
+	.byte	0x98
+	.byte	0x16
+	.value	0x408
+	.long	0x4522
+	.uleb128 0x4
+	.string	"hdr"
+	.byte	0x16
+	.value	0x409
+	.byte	0x11
+	.long	0x377a
+	.byte	0
+	.uleb128 0x2
+	.long	.LASF637
+	.byte	0x16
+	.value	0x40a
+	.byte	0x7
+	.long	0x2fb
+	.byte	0x30
+	.uleb128 0x2
+	.long	.LASF205
+	.byte	0x16
+	.value	0x40b
+	.byte	0x7
+	.long	0x2fb
+	.byte	0x38
+	.uleb128 0x4
+	.string	"op"
+	.byte	0x16
+	.value	0x40c
+	.byte	0x7
+	.long	0xdff
+	.byte	0x40
+	.uleb128 0x2
+	.long	.LASF220
+	.byte	0x16
+	.value	0x40d
+	.byte	0x7
+	.long	0x3acd
+	.byte	0x48
+	.byte	0
+	.uleb128 0x7
+	.long	.LASF307
+	.byte	0x88
+	.byte	0x16
+	.value	0x418
+	.long	0x4559
+	.uleb128 0x4
+	.string	"hdr"
+	.byte	0x16
+	.value	0x419
+	.byte	0x11
+	.long	0x377a
+	.byte	0
+	.uleb128 0x4
+	.string	"op"
+	.byte	0x16
+	.value	0x41a
+	.byte	0x7
+	.long	0x2fb
+	.byte	0x30
+	.uleb128 0x2
+	.long	.LASF220
+	.byte	0x16
+	.value	0x41b
+	.byte	0x7
+	.long	0x3acd
+	.byte	0x38
+	.byte	0
+	.uleb128 0x7
+	.long	.LASF308
+	.byte	0x90
+	.byte	0x16
+	.value	0x421
+	.long	0x459e
+	.uleb128 0x4
+	.string	"hdr"
+	.byte	0x16
+	.value	0x422
+	.byte	0x11
+	.long	0x377a
+	.byte	0
+	.uleb128 0x2
+	.long	.LASF205
+	.byte	0x16
+	.value	0x423
+	.byte	0x7
+	.long	0x2fb
+	.byte	0x30
+	.uleb128 0x4
+	.string	"op"
+	.byte	0x16
+	.value	0x424
+	.byte	0x7
+	.long	0xdff
+	.byte	0x38
+	.uleb128 0x2
+	.long	.LASF220
+	.byte	0x16
+	.value	0x425
+	.byte	0x7
+	.long	0x3acd
+	.byte	0x40
+	.byte	0
+	.uleb128 0x7
+	.long	.LASF309
+	.byte	0x98
+	.byte	0x16
+	.value	0x42d
+	.long	0x45f1
+	.uleb128 0x4
+	.string	"hdr"
+	.byte	0x16
+	.value	0x42e
+	.byte	0x11
+	.long	0x377a
+	.byte	0
+	.uleb128 0x2
+	.long	.LASF205
+	.byte	0x16
+	.value	0x42f
+	.byte	0x7
+	.long	0x2fb
+	.byte	0x30
+	.uleb128 0x4
+	.string	"op"
+	.byte	0x16
+	.value	0x430
+	.byte	0x7
+	.long	0xdff
+	.byte	0x38
+	.uleb128 0x4
+	.string	"env"
+	.byte	0x16
+	.value	0x431
+	.byte	0x7
+	.long	0xdff
+	.byte	0x40
+	.uleb128 0x2
+	.long	.LASF220
+	.byte	0x16
+	.value	0x432
+	.byte	0x7
+	.long	0x3acd
+	.byte	0x48
+	.byte	0
+	.uleb128 0x7
+	.long	.LASF310
+	.byte	0x50
+	.byte	0x16
+	.value	0x438
+	.long	0x4645
+	.uleb128 0x4
+	.string	"hdr"
+	.byte	0x16
+	.value	0x439
+	.byte	0x11
+	.long	0x377a
+	.byte	0
+	.uleb128 0x2
+	.long	.LASF645
+	.byte	0x16
+	.value	0x43a
+	.byte	0x7
+	.long	0xdff
+	.byte	0x30
+	.uleb128 0x4
+	.string	"fmt"
+	.byte	0x16
+	.value	0x43b
+	.byte	0x7
+	.long	0x2fb
+	.byte	0x38
+	.uleb128 0x2
+	.long	.LASF646
+	.byte	0x16
+	.value	0x43c
+	.byte	0x7
+	.long	0x2fb
+	.byte	0x40
+	.uleb128 0x2
+	.long	.LASF647
+	.byte	0x16
+	.value	0x43d
+	.byte	0x7
+	.long	0xdff
+	.byte	0x48
+	.byte	0
+	.uleb128 0x7
+	.long	.LASF311
+	.byte	0x58
+	.byte	0x16
+	.value	0x443
+	.long	0x46a7
+	.uleb128 0x4
+	.string	"hdr"
+	.byte	0x16
+	.value	0x444
+	.byte	0x11
+	.long	0x377a
+	.byte	0
+	.uleb128 0x2
+	.long	.LASF636
+	.byte	0x16
+	.value	0x445
+	.byte	0x7
+	.long	0xdff
+	.byte	0x30
+	.uleb128 0x4
+	.string	"env"
+	.byte	0x16
+	.value	0x446
+	.byte	0x7
+	.long	0xdff
+	.byte	0x38
+	.uleb128 0x4
+	.string	"fmt"
+	.byte	0x16
+	.value	0x447
+	.byte	0x7
+	.long	0x2fb
+	.byte	0x40
+	.uleb128 0x2
+	.long	.LASF646
+	.byte	0x16
+	.value	0x448
+	.byte	0x7
+	.long	0x2fb
+	.byte	0x48
+	.uleb128 0x2
+	.long	.LASF647
+	.byte	0x16
+	.value	0x449
+	.byte	0x7
+	.long	0xdff
+	.byte	0x50
+	.byte	0
+	.uleb128 0x7
+	.long	.LASF300
+	.byte	0x88
+	.byte	0x16
+	.value	0x44f
+	.long	0x46de
+	.uleb128 0x4
+	.string	"hdr"
+	.byte	0x16
+	.value	0x450
+	.byte	0x11
+	.long	0x377a
+	.byte	0
+	.uleb128 0x4
+	.string	"op"
+	.byte	0x16
+	.value	0x451
+	.byte	0x7
+	.long	0xdff
+	.byte	0x30
+	.uleb128 0x2
+	.long	.LASF220
+	.byte	0x16
+	.value	0x452
+	.byte	0x7
+	.long	0x3a85
+	.byte	0x38
+	.byte	0
+	.uleb128 0x7
+	.long	.LASF317
+	.byte	0x40
+	.byte	0x16
+	.value	0x457
+	.long	0x4716
+	.uleb128 0x4
+	.string	"hdr"
+	.byte	0x16
+	.value	0x458
+	.byte	0x11
+	.long	0x377a
+	.byte	0
+	.uleb128 0x2
+	.long	.LASF350
+	.byte	0x16
+	.value	0x459
+	.byte	0x7
+	.long	0xdff
+	.byte	0x30
+	.uleb128 0x2
+	.long	.LASF648
+	.byte	0x16
+	.value	0x45a
+	.byte	0x7
+	.long	0xdff
+	.byte	0x38
+	.byte	0
+	.uleb128 0x7
+	.long	.LASF312
+	.byte	0x40
+	.byte	0x16
+	.value	0x461
+	.long	0x474e
+	.uleb128 0x4
+	.string	"hdr"
+	.byte	0x16
+	.value	0x462
+	.byte	0x11
+	.long	0x377a
+	.byte	0
+	.uleb128 0x2
+	.long	.LASF622
+	.byte	0x16
+	.value	0x463
+	.byte	0x7
+	.long	0x2fb
+	.byte	0x30
+	.uleb128 0x2
+	.long	.LASF237
+	.byte	0x16
+	.value	0x464
+	.byte	0x7
+	.long	0xdff
+	.byte	0x38
+	.byte	0
+	.uleb128 0x7
+	.long	.LASF313
+	.byte	0x30
+	.byte	0x16
+	.value	0x469
+	.long	0x476a
+	.uleb128 0x4
+	.string	"hdr"
+	.byte	0x16
+	.value	0x46a
+	.byte	0x11
+	.long	0x377a
+	.byte	0
+	.byte	0
+	.uleb128 0x7
+	.long	.LASF314
+	.byte	0x40
+	.byte	0x16
+	.value	0x46f
+	.long	0x47a2
+	.uleb128 0x4
+	.string	"hdr"
+	.byte	0x16
+	.value	0x470
+	.byte	0x11
+	.long	0x377a
+	.byte	0
+	.uleb128 0x2
+	.long	.LASF622
+	.byte	0x16
+	.value	0x471
+	.byte	0x7
+	.long	0x2fb
+	.byte	0x30
+	.uleb128 0x2
+	.long	.LASF581
+	.byte	0x16
+	.value	0x472
+	.byte	0x7
+	.long	0xdff
+	.byte	0x38
+	.byte	0
+	.uleb128 0x7
+	.long	.LASF316
+	.byte	0x80
+	.byte	0x16
+	.value	0x476
+	.long	0x47cc
+	.uleb128 0x4
+	.string	"hdr"
+	.byte	0x16
+	.value	0x477
+	.byte	0x11
+	.long	0x377a
+	.byte	0
+	.uleb128 0x2
+	.long	.LASF220
+	.byte	0x16
+	.value	0x478
+	.byte	0x7
+	.long	0x3acd
+	.byte	0x30
+	.byte	0
+	.uleb128 0x7
+	.long	.LASF318
+	.byte	0x38
+	.byte	0x16
+	.value	0x47b
+	.long	0x47f6
+	.uleb128 0x4
+	.string	"hdr"
+	.byte	0x16
+	.value	0x47c
+	.byte	0x11
+	.long	0x377a
+	.byte	0
+	.uleb128 0x2
+	.long	.LASF649
+	.byte	0x16
+	.value	0x47d
+	.byte	0x7
+	.long	0xdff
+	.byte	0x30
+	.byte	0
+	.uleb128 0x7
+	.long	.LASF319
+	.byte	0x38
+	.byte	0x16
+	.value	0x482
+	.long	0x4820
+	.uleb128 0x4
+	.string	"hdr"
+	.byte	0x16
+	.value	0x483
+	.byte	0x11
+	.long	0x377a
+	.byte	0
+	.uleb128 0x2
+	.long	.LASF649
+	.byte	0x16
+	.value	0x484
+	.byte	0x7
+	.long	0xdff
+	.byte	0x30
+	.byte	0
+	.uleb128 0x7
+	.long	.LASF320
+	.byte	0x38
+	.byte	0x16
+	.value	0x489
+	.long	0x484a
+	.uleb128 0x4
+	.string	"hdr"
+	.byte	0x16
+	.value	0x48a
+	.byte	0x11
+	.long	0x377a
+	.byte	0
+	.uleb128 0x2
+	.long	.LASF575
+	.byte	0x16
+	.value	0x48b
+	.byte	0x7
+	.long	0x2fb
+	.byte	0x30
+	.byte	0
+	.uleb128 0x7
+	.long	.LASF321
+	.byte	0x40
+	.byte	0x16
+	.value	0x490
+	.long	0x4882
+	.uleb128 0x4
+	.string	"hdr"
+	.byte	0x16
+	.value	0x491
+	.byte	0x11
+	.long	0x377a
+	.byte	0
+	.uleb128 0x4
+	.string	"tag"
+	.byte	0x16
+	.value	0x492
+	.byte	0x7
+	.long	0xdff
+	.byte	0x30
+	.uleb128 0x4
+	.string	"val"
+	.byte	0x16
+	.value	0x493
+	.byte	0x7
+	.long	0xdff
+	.byte	0x38
+	.byte	0
+	.uleb128 0x7
+	.long	.LASF322
+	.byte	0x40
+	.byte	0x16
+	.value	0x498
+	.long	0x48ba
+	.uleb128 0x4
+	.string	"hdr"
+	.byte	0x16
+	.value	0x499
+	.byte	0x11
+	.long	0x377a
+	.byte	0
+	.uleb128 0x4
+	.string	"ref"
+	.byte	0x16
+	.value	0x49a
+	.byte	0x7
+	.long	0xdff
+	.byte	0x30
+	.uleb128 0x2
+	.long	.LASF577
+	.byte	0x16
+	.value	0x49b
+	.byte	0x7
+	.long	0xdff
+	.byte	0x38
+	.byte	0
+	.uleb128 0x7
+	.long	.LASF323
+	.byte	0x48
+	.byte	0x16
+	.value	0x4a0
+	.long	0x4900
+	.uleb128 0x4
+	.string	"hdr"
+	.byte	0x16
+	.value	0x4a1
+	.byte	0x11
+	.long	0x377a
+	.byte	0
+	.uleb128 0x4
+	.string	"val"
+	.byte	0x16
+	.value	0x4a2
+	.byte	0x7
+	.long	0xdff
+	.byte	0x30
+	.uleb128 0x2
+	.long	.LASF577
+	.byte	0x16
+	.value	0x4a3
+	.byte	0x7
+	.long	0xdff
+	.byte	0x38
+	.uleb128 0x2
+	.long	.LASF650
+	.byte	0x16
+	.value	0x4a4
+	.byte	0x7
+	.long	0xdff
+	.byte	0x40
+	.byte	0
+	.uleb128 0x7
+	.long	.LASF324
+	.byte	0x38
+	.byte	0x16
+	.value	0x4a9
+	.long	0x492a
+	.uleb128 0x4
+	.string	"hdr"
+	.byte	0x16
+	.value	0x4aa
+	.byte	0x11
+	.long	0x377a
+	.byte	0
+	.uleb128 0x2
+	.long	.LASF581
+	.byte	0x16
+	.value	0x4ab
+	.byte	0x7
+	.long	0xdff
+	.byte	0x30
+	.byte	0
+	.uleb128 0xd
+	.long	.LASF651
+	.byte	0x10
+	.byte	0x19
+	.byte	0x14
+	.byte	0x10
+	.long	0x4952
+	.uleb128 0x3
+	.long	.LASF372
+	.byte	0x19
+	.byte	0x14
+	.byte	0x28
+	.long	0x356
+	.byte	0
+	.uleb128 0x3
+	.long	.LASF90
+	.byte	0x19
+	.byte	0x14
+	.byte	0x46
+	.long	0x4952
+	.byte	0x8
+	.byte	0
+	.uleb128 0x5
+	.long	0x492a
+	.uleb128 0xb
+	.long	.LASF652
+	.byte	0x19
+	.byte	0x14
+	.byte	0x4f
+	.long	0x4952
+	.uleb128 0x23
+	.long	.LASF653
+	.value	0x140
+	.byte	0x19
+	.byte	0x14
+	.byte	0x62
+	.long	0x4ba6
+	.uleb128 0x3
+	.long	.LASF390
+	.byte	0x19
+	.byte	0x14
+	.byte	0x86
+	.long	0x4bbf
+	.byte	0
+	.uleb128 0x3
+	.long	.LASF391
+	.byte	0x19
+	.byte	0x14
+	.byte	0xaf
+	.long	0x4bd3
+	.byte	0x8
+	.uleb128 0x3
+	.long	.LASF392
+	.byte	0x19
+	.byte	0x14
+	.byte	0xd1
+	.long	0x4be8
+	.byte	0x10
+	.uleb128 0x3
+	.long	.LASF393
+	.byte	0x19
+	.byte	0x14
+	.byte	0xf2
+	.long	0x4bfc
+	.byte	0x18
+	.uleb128 0xa
+	.long	.LASF394
+	.byte	0x19
+	.byte	0x14
+	.value	0x116
+	.long	0x4c11
+	.byte	0x20
+	.uleb128 0xa
+	.long	.LASF395
+	.byte	0x19
+	.byte	0x14
+	.value	0x136
+	.long	0x4c48
+	.byte	0x28
+	.uleb128 0xa
+	.long	.LASF396
+	.byte	0x19
+	.byte	0x14
+	.value	0x17c
+	.long	0x4c6b
+	.byte	0x30
+	.uleb128 0xa
+	.long	.LASF397
+	.byte	0x19
+	.byte	0x14
+	.value	0x1c7
+	.long	0x4c7f
+	.byte	0x38
+	.uleb128 0xa
+	.long	.LASF398
+	.byte	0x19
+	.byte	0x14
+	.value	0x1e6
+	.long	0x4c8f
+	.byte	0x40
+	.uleb128 0xa
+	.long	.LASF399
+	.byte	0x19
+	.byte	0x14
+	.value	0x207
+	.long	0x4ca8
+	.byte	0x48
+	.uleb128 0xa
+	.long	.LASF400
+	.byte	0x19
+	.byte	0x14
+	.value	0x230
+	.long	0x4ccd
+	.byte	0x50
+	.uleb128 0xa
+	.long	.LASF401
+	.byte	0x19
+	.byte	0x14
+	.value	0x26a
+	.long	0x4ceb
+	.byte	0x58
+	.uleb128 0xa
+	.long	.LASF402
+	.byte	0x19
+	.byte	0x14
+	.value	0x2b4
+	.long	0x4d1d
+	.byte	0x60
+	.uleb128 0x1c
+	.string	"Elt"
+	.byte	0x19
+	.byte	0x14
+	.value	0x2fc
+	.long	0x4d36
+	.byte	0x68
+	.uleb128 0xa
+	.long	.LASF403
+	.byte	0x19
+	.byte	0x14
+	.value	0x324
+	.long	0x4d4f
+	.byte	0x70
+	.uleb128 0xa
+	.long	.LASF404
+	.byte	0x19
+	.byte	0x14
+	.value	0x34d
+	.long	0x4c7f
+	.byte	0x78
+	.uleb128 0xa
+	.long	.LASF405
+	.byte	0x19
+	.byte	0x14
+	.value	0x36e
+	.long	0x4d63
+	.byte	0x80
+	.uleb128 0xa
+	.long	.LASF406
+	.byte	0x19
+	.byte	0x14
+	.value	0x38c
+	.long	0x4d7c
+	.byte	0x88
+	.uleb128 0xa
+	.long	.LASF407
+	.byte	0x19
+	.byte	0x14
+	.value	0x3b3
+	.long	0x4d7c
+	.byte	0x90
+	.uleb128 0xa
+	.long	.LASF408
+	.byte	0x19
+	.byte	0x14
+	.value	0x3db
+	.long	0x4d7c
+	.byte	0x98
+	.uleb128 0xa
+	.long	.LASF409
+	.byte	0x19
+	.byte	0x14
+	.value	0x408
+	.long	0x4c7f
+	.byte	0xa0
+	.uleb128 0xa
+	.long	.LASF410
+	.byte	0x19
+	.byte	0x14
+	.value	0x429
+	.long	0x4ca8
+	.byte	0xa8
+	.uleb128 0xa
+	.long	.LASF411
+	.byte	0x19
+	.byte	0x14
+	.value	0x458
+	.long	0x4da9
+	.byte	0xb0
+	.uleb128 0xa
+	.long	.LASF412
+	.byte	0x19
+	.byte	0x14
+	.value	0x493
+	.long	0x4dc7
+	.byte	0xb8
+	.uleb128 0x1c
+	.string	"Map"
+	.byte	0x19
+	.byte	0x14
+	.value	0x4dc
+	.long	0x4de0
+	.byte	0xc0
+	.uleb128 0xa
+	.long	.LASF413
+	.byte	0x19
+	.byte	0x14
+	.value	0x511
+	.long	0x4de0
+	.byte	0xc8
+	.uleb128 0xa
+	.long	.LASF414
+	.byte	0x19
+	.byte	0x14
+	.value	0x547
+	.long	0x4c7f
+	.byte	0xd0
+	.uleb128 0xa
+	.long	.LASF415
+	.byte	0x19
+	.byte	0x14
+	.value	0x56b
+	.long	0x4c7f
+	.byte	0xd8
+	.uleb128 0xa
+	.long	.LASF416
+	.byte	0x19
+	.byte	0x14
+	.value	0x590
+	.long	0x4ca8
+	.byte	0xe0
+	.uleb128 0xa
+	.long	.LASF417
+	.byte	0x19
+	.byte	0x14
+	.value	0x5bf
+	.long	0x4ca8
+	.byte	0xe8
+	.uleb128 0xa
+	.long	.LASF418
+	.byte	0x19
+	.byte	0x14
+	.value	0x5e9
+	.long	0x4df9
+	.byte	0xf0
+	.uleb128 0xa
+	.long	.LASF419
+	.byte	0x19
+	.byte	0x14
+	.value	0x60c
+	.long	0x4e17
+	.byte	0xf8
+	.uleb128 0x10
+	.long	.LASF420
+	.byte	0x19
+	.byte	0x14
+	.value	0x64c
+	.long	0x4e30
+	.value	0x100
+	.uleb128 0x10
+	.long	.LASF421
+	.byte	0x19
+	.byte	0x14
+	.value	0x67a
+	.long	0x4e49
+	.value	0x108
+	.uleb128 0x10
+	.long	.LASF422
+	.byte	0x19
+	.byte	0x14
+	.value	0x69c
+	.long	0x4e67
+	.value	0x110
+	.uleb128 0x10
+	.long	.LASF423
+	.byte	0x19
+	.byte	0x14
+	.value	0x6e4
+	.long	0x4e85
+	.value	0x118
+	.uleb128 0x10
+	.long	.LASF424
+	.byte	0x19
+	.byte	0x14
+	.value	0x725
+	.long	0x4e9f
+	.value	0x120
+	.uleb128 0x10
+	.long	.LASF425
+	.byte	0x19
+	.byte	0x14
+	.value	0x74f
+	.long	0x4ed6
+	.value	0x128
+	.uleb128 0x10
+	.long	.LASF426
+	.byte	0x19
+	.byte	0x14
+	.value	0x78e
+	.long	0x4f03
+	.value	0x130
+	.uleb128 0x10
+	.long	.LASF427
+	.byte	0x19
+	.byte	0x14
+	.value	0x7e6
+	.long	0x4f21
+	.value	0x138
+	.byte	0
+	.uleb128 0x20
+	.long	0x4963
+	.uleb128 0x9
+	.long	0x4957
+	.long	0x4bbf
+	.uleb128 0x1
+	.long	0x356
+	.uleb128 0x1
+	.long	0x4957
+	.byte	0
+	.uleb128 0x5
+	.long	0x4bab
+	.uleb128 0x9
+	.long	0x4957
+	.long	0x4bd3
+	.uleb128 0x1
+	.long	0x356
+	.byte	0
+	.uleb128 0x5
+	.long	0x4bc4
+	.uleb128 0x9
+	.long	0x4957
+	.long	0x4be8
+	.uleb128 0x1
+	.long	0x2e
+	.uleb128 0x1b
+	.byte	0
+	.uleb128 0x5
+	.long	0x4bd8
+	.uleb128 0x9
+	.long	0x4957
+	.long	0x4bfc
+	.uleb128 0x1
+	.long	0x4d8
+	.byte	0
+	.uleb128 0x5
+	.long	0x4bed
+	.uleb128 0x9
+	.long	0x4957
+	.long	0x4c11
+	.uleb128 0x1
+	.long	0x356
+	.uleb128 0x1b
+	.byte	0
+	.uleb128 0x5
+	.long	0x4c01
+	.uleb128 0x9
+	.long	0x315
+	.long	0x4c2f
+	.uleb128 0x1
+	.long	0x4957
+	.uleb128 0x1
+	.long	0x4957
+	.uleb128 0x1
+	.long	0x4c2f
+	.byte	0
+	.uleb128 0x5
+	.long	0x4c34
+	.uleb128 0x9
+	.long	0x315
+	.long	0x4c48
+	.uleb128 0x1
+	.long	0x356
+	.uleb128 0x1
+	.long	0x356
+	.byte	0
+	.uleb128 0x5
+	.long	0x4c16
+	.uleb128 0x9
+	.long	0x356
+	.long	0x4c6b
+	.uleb128 0x1
+	.long	0x4957
+	.uleb128 0x1
+	.long	0x356
+	.uleb128 0x1
+	.long	0x4c2f
+	.uleb128 0x1
+	.long	0x4dd
+	.byte	0
+	.uleb128 0x5
+	.long	0x4c4d
+	.uleb128 0x9
+	.long	0x4957
+	.long	0x4c7f
+	.uleb128 0x1
+	.long	0x4957
+	.byte	0
+	.uleb128 0x5
+	.long	0x4c70
+	.uleb128 0x15
+	.long	0x4c8f
+	.uleb128 0x1
+	.long	0x4957
+	.byte	0
+	.uleb128 0x5
+	.long	0x4c84
+	.uleb128 0x9
+	.long	0x4957
+	.long	0x4ca8
+	.uleb128 0x1
+	.long	0x4957
+	.uleb128 0x1
+	.long	0x4957
+	.byte	0
+	.uleb128 0x5
+	.long	0x4c94
+	.uleb128 0x15
+	.long	0x4cbd
+	.uleb128 0x1
+	.long	0x4957
+	.uleb128 0x1
+	.long	0x4cbd
+	.byte	0
+	.uleb128 0x5
+	.long	0x4cc2
+	.uleb128 0x15
+	.long	0x4ccd
+	.uleb128 0x1
+	.long	0x356
+	.byte	0
+	.uleb128 0x5
+	.long	0x4cad
+	.uleb128 0x9
+	.long	0x4957
+	.long	0x4ceb
+	.uleb128 0x1
+	.long	0x4957
+	.uleb128 0x1
+	.long	0x4957
+	.uleb128 0x1
+	.long	0x4cbd
+	.byte	0
+	.uleb128 0x5
+	.long	0x4cd2
+	.uleb128 0x9
+	.long	0x4957
+	.long	0x4d09
+	.uleb128 0x1
+	.long	0x4957
+	.uleb128 0x1
+	.long	0x4cbd
+	.uleb128 0x1
+	.long	0x4d09
+	.byte	0
+	.uleb128 0x5
+	.long	0x4d0e
+	.uleb128 0x9
+	.long	0x315
+	.long	0x4d1d
+	.uleb128 0x1
+	.long	0x356
+	.byte	0
+	.uleb128 0x5
+	.long	0x4cf0
+	.uleb128 0x9
+	.long	0x356
+	.long	0x4d36
+	.uleb128 0x1
+	.long	0x4957
+	.uleb128 0x1
+	.long	0x32f
+	.byte	0
+	.uleb128 0x5
+	.long	0x4d22
+	.uleb128 0x9
+	.long	0x4957
+	.long	0x4d4f
+	.uleb128 0x1
+	.long	0x4957
+	.uleb128 0x1
+	.long	0x32f
+	.byte	0
+	.uleb128 0x5
+	.long	0x4d3b
+	.uleb128 0x9
+	.long	0x32f
+	.long	0x4d63
+	.uleb128 0x1
+	.long	0x4957
+	.byte	0
+	.uleb128 0x5
+	.long	0x4d54
+	.uleb128 0x9
+	.long	0x315
+	.long	0x4d7c
+	.uleb128 0x1
+	.long	0x4957
+	.uleb128 0x1
+	.long	0x32f
+	.byte	0
+	.uleb128 0x5
+	.long	0x4d68
+	.uleb128 0x9
+	.long	0x4957
+	.long	0x4d95
+	.uleb128 0x1
+	.long	0x4957
+	.uleb128 0x1
+	.long	0x4d95
+	.byte	0
+	.uleb128 0x5
+	.long	0x4d9a
+	.uleb128 0x9
+	.long	0x356
+	.long	0x4da9
+	.uleb128 0x1
+	.long	0x356
+	.byte	0
+	.uleb128 0x5
+	.long	0x4d81
+	.uleb128 0x9
+	.long	0x4957
+	.long	0x4dc7
+	.uleb128 0x1
+	.long	0x4957
+	.uleb128 0x1
+	.long	0x4957
+	.uleb128 0x1
+	.long	0x4d95
+	.byte	0
+	.uleb128 0x5
+	.long	0x4dae
+	.uleb128 0x9
+	.long	0x4957
+	.long	0x4de0
+	.uleb128 0x1
+	.long	0x4d95
+	.uleb128 0x1
+	.long	0x4957
+	.byte	0
+	.uleb128 0x5
+	.long	0x4dcc
+	.uleb128 0x9
+	.long	0x315
+	.long	0x4df9
+	.uleb128 0x1
+	.long	0x4957
+	.uleb128 0x1
+	.long	0x356
+	.byte	0
+	.uleb128 0x5
+	.long	0x4de5
+	.uleb128 0x9
+	.long	0x315
+	.long	0x4e17
+	.uleb128 0x1
+	.long	0x4957
+	.uleb128 0x1
+	.long	0x356
+	.uleb128 0x1
+	.long	0x4c2f
+	.byte	0
+	.uleb128 0x5
+	.long	0x4dfe
+	.uleb128 0x9
+	.long	0x315
+	.long	0x4e30
+	.uleb128 0x1
+	.long	0x4957
+	.uleb128 0x1
+	.long	0x4957
+	.byte	0
+	.uleb128 0x5
+	.long	0x4e1c
+	.uleb128 0x9
+	.long	0x2e
+	.long	0x4e49
+	.uleb128 0x1
+	.long	0x4957
+	.uleb128 0x1
+	.long	0x356
+	.byte	0
+	.uleb128 0x5
+	.long	0x4e35
+	.uleb128 0x9
+	.long	0x2e
+	.long	0x4e67
+	.uleb128 0x1
+	.long	0x4957
+	.uleb128 0x1
+	.long	0x356
+	.uleb128 0x1
+	.long	0x4c2f
+	.byte	0
+	.uleb128 0x5
+	.long	0x4e4e
+	.uleb128 0x9
+	.long	0x4957
+	.long	0x4e85
+	.uleb128 0x1
+	.long	0x4957
+	.uleb128 0x1
+	.long	0x356
+	.uleb128 0x1
+	.long	0x4c2f
+	.byte	0
+	.uleb128 0x5
+	.long	0x4e6c
+	.uleb128 0x15
+	.long	0x4e9a
+	.uleb128 0x1
+	.long	0x4e9a
+	.uleb128 0x1
+	.long	0x4957
+	.byte	0
+	.uleb128 0x5
+	.long	0x356
+	.uleb128 0x5
+	.long	0x4e8a
+	.uleb128 0x9
+	.long	0x2e
+	.long	0x4ebd
+	.uleb128 0x1
+	.long	0x2c3
+	.uleb128 0x1
+	.long	0x4957
+	.uleb128 0x1
+	.long	0x4ebd
+	.byte	0
+	.uleb128 0x5
+	.long	0x4ec2
+	.uleb128 0x9
+	.long	0x2e
+	.long	0x4ed6
+	.uleb128 0x1
+	.long	0x2c3
+	.uleb128 0x1
+	.long	0x356
+	.byte	0
+	.uleb128 0x5
+	.long	0x4ea4
+	.uleb128 0x9
+	.long	0x2e
+	.long	0x4f03
+	.uleb128 0x1
+	.long	0x2c3
+	.uleb128 0x1
+	.long	0x4957
+	.uleb128 0x1
+	.long	0x4ebd
+	.uleb128 0x1
+	.long	0x80
+	.uleb128 0x1
+	.long	0x80
+	.uleb128 0x1
+	.long	0x80
+	.byte	0
+	.uleb128 0x5
+	.long	0x4edb
+	.uleb128 0x9
+	.long	0x2e
+	.long	0x4f21
+	.uleb128 0x1
+	.long	0x3d2
+	.uleb128 0x1
+	.long	0x363
+	.uleb128 0x1
+	.long	0x4957
+	.byte	0
+	.uleb128 0x5
+	.long	0x4f08
+	.uleb128 0x27
+	.long	.LASF654
+	.byte	0x19
+	.byte	0x14
+	.value	0x83b
+	.long	0x4f33
+	.uleb128 0x5
+	.long	0x4ba6
+	.uleb128 0xd
+	.long	.LASF655
+	.byte	0x18
+	.byte	0x17
+	.byte	0x33
+	.byte	0x8
+	.long	0x4f6d
+	.uleb128 0x3
+	.long	.LASF325
+	.byte	0x17
+	.byte	0x34
+	.byte	0x8
+	.long	0x2d4
+	.byte	0
+	.uleb128 0x3
+	.long	.LASF332
+	.byte	0x17
+	.byte	0x35
+	.byte	0x9
+	.long	0x33c
+	.byte	0x8
+	.uleb128 0x3
+	.long	.LASF656
+	.byte	0x17
+	.byte	0x36
+	.byte	0x9
+	.long	0x33c
+	.byte	0x10
+	.byte	0
+	.uleb128 0x23
+	.long	.LASF657
+	.value	0x228
+	.byte	0x17
+	.byte	0x53
+	.byte	0x8
+	.long	0x4fcb
+	.uleb128 0x3
+	.long	.LASF658
+	.byte	0x17
+	.byte	0x54
+	.byte	0x9
+	.long	0x2e1
+	.byte	0
+	.uleb128 0x3
+	.long	.LASF659
+	.byte	0x17
+	.byte	0x55
+	.byte	0x8
+	.long	0x2ee
+	.byte	0x8
+	.uleb128 0x3
+	.long	.LASF660
+	.byte	0x17
+	.byte	0x56
+	.byte	0x8
+	.long	0x2ee
+	.byte	0x10
+	.uleb128 0x3
+	.long	.LASF661
+	.byte	0x17
+	.byte	0x57
+	.byte	0x9
+	.long	0x2e1
+	.byte	0x18
+	.uleb128 0x3
+	.long	.LASF662
+	.byte	0x17
+	.byte	0x59
+	.byte	0x11
+	.long	0x4fcb
+	.byte	0x20
+	.uleb128 0x3b
+	.long	.LASF663
+	.byte	0x17
+	.byte	0x5a
+	.byte	0x9
+	.long	0x4fdb
+	.value	0x200
+	.byte	0
+	.uleb128 0x18
+	.long	0x4f38
+	.long	0x4fdb
+	.uleb128 0x19
+	.long	0x4a
+	.byte	0x13
+	.byte	0
+	.uleb128 0x18
+	.long	0x2e1
+	.long	0x4feb
+	.uleb128 0x19
+	.long	0x4a
+	.byte	0x13
+	.byte	0
+	.uleb128 0x5
+	.long	0x2ee
+	.uleb128 0x5
+	.long	0x2e1
+	.uleb128 0xd
+	.long	.LASF664
+	.byte	0x18
+	.byte	0x1a
+	.byte	0x7
+	.byte	0x10
+	.long	0x502a
+	.uleb128 0x3
+	.long	.LASF221
+	.byte	0x1a
+	.byte	0x8
+	.byte	0x7
+	.long	0x14fe
+	.byte	0
+	.uleb128 0x3
+	.long	.LASF665
+	.byte	0x1a
+	.byte	0x9
+	.byte	0xc
+	.long	0x1c74
+	.byte	0x8
+	.uleb128 0x3
+	.long	.LASF666
+	.byte	0x1a
+	.byte	0xa
+	.byte	0xa
+	.long	0xb10
+	.byte	0x10
+	.byte	0
+	.uleb128 0xb
+	.long	.LASF667
+	.byte	0x1a
+	.byte	0xb
+	.byte	0x4
+	.long	0x5036
+	.uleb128 0x5
+	.long	0x4ff5
+	.uleb128 0xd
+	.long	.LASF668
+	.byte	0x10
+	.byte	0x1a
+	.byte	0xd
+	.byte	0x10
+	.long	0x5063
+	.uleb128 0x3
+	.long	.LASF372
+	.byte	0x1a
+	.byte	0xd
+	.byte	0x2e
+	.long	0x502a
+	.byte	0
+	.uleb128 0x3
+	.long	.LASF90
+	.byte	0x1a
+	.byte	0xd
+	.byte	0x4f
+	.long	0x5063
+	.byte	0x8
+	.byte	0
+	.uleb128 0x5
+	.long	0x503b
+	.uleb128 0xb
+	.long	.LASF669
+	.byte	0x1a
+	.byte	0xd
+	.byte	0x58
+	.long	0x5063
+	.uleb128 0xd
+	.long	.LASF670
+	.byte	0x18
+	.byte	0x1a
+	.byte	0xf
+	.byte	0x10
+	.long	0x50a9
+	.uleb128 0x3
+	.long	.LASF671
+	.byte	0x1a
+	.byte	0x10
+	.byte	0x7
+	.long	0x315
+	.byte	0
+	.uleb128 0x3
+	.long	.LASF234
+	.byte	0x1a
+	.byte	0x11
+	.byte	0x10
+	.long	0x5068
+	.byte	0x8
+	.uleb128 0x3
+	.long	.LASF666
+	.byte	0x1a
+	.byte	0x12
+	.byte	0xa
+	.long	0xb10
+	.byte	0x10
+	.byte	0
+	.uleb128 0xb
+	.long	.LASF672
+	.byte	0x1a
+	.byte	0x13
+	.byte	0x4
+	.long	0x50b5
+	.uleb128 0x5
+	.long	0x5074
+	.uleb128 0xd
+	.long	.LASF673
+	.byte	0x10
+	.byte	0x1b
+	.byte	0xc
+	.byte	0x10
+	.long	0x50e2
+	.uleb128 0x3
+	.long	.LASF674
+	.byte	0x1b
+	.byte	0xd
+	.byte	0xd
+	.long	0x24a4
+	.byte	0
+	.uleb128 0x3
+	.long	.LASF225
+	.byte	0x1b
+	.byte	0xe
+	.byte	0xb
+	.long	0x236b
+	.byte	0x8
+	.byte	0
+	.uleb128 0xb
+	.long	.LASF673
+	.byte	0x1b
+	.byte	0xf
+	.byte	0x4
+	.long	0x50ee
+	.uleb128 0x5
+	.long	0x50ba
+	.uleb128 0x5
+	.long	0x32f
+	.uleb128 0xb
+	.long	.LASF675
+	.byte	0x18
+	.byte	0x16
+	.byte	0x1b
+	.long	0x5104
+	.uleb128 0x5
+	.long	0x5109
+	.uleb128 0xd
+	.long	.LASF676
+	.byte	0xb0
+	.byte	0x18
+	.byte	0x1a
+	.byte	0x8
+	.long	0x5268
+	.uleb128 0x3
+	.long	.LASF677
+	.byte	0x18
+	.byte	0x1b
+	.byte	0x8
+	.long	0x2d4
+	.byte	0
+	.uleb128 0x3
+	.long	.LASF678
+	.byte	0x18
+	.byte	0x1c
+	.byte	0x8
+	.long	0x2d4
+	.byte	0x1
+	.uleb128 0x3
+	.long	.LASF679
+	.byte	0x18
+	.byte	0x1d
+	.byte	0x8
+	.long	0x2d4
+	.byte	0x2
+	.uleb128 0x3
+	.long	.LASF680
+	.byte	0x18
+	.byte	0x1e
+	.byte	0x8
+	.long	0x2d4
+	.byte	0x3
+	.uleb128 0x3
+	.long	.LASF681
+	.byte	0x18
+	.byte	0x1f
+	.byte	0x8
+	.long	0x2d4
+	.byte	0x4
+	.uleb128 0x11
+	.string	"tf"
+	.byte	0x18
+	.byte	0x20
+	.byte	0x8
+	.long	0xbff
+	.byte	0x8
+	.uleb128 0x3
+	.long	.LASF682
+	.byte	0x18
+	.byte	0x21
+	.byte	0x8
+	.long	0xde9
+	.byte	0x10
+	.uleb128 0x3
+	.long	.LASF683
+	.byte	0x18
+	.byte	0x22
+	.byte	0x8
+	.long	0xde9
+	.byte	0x18
+	.uleb128 0x3
+	.long	.LASF684
+	.byte	0x18
+	.byte	0x23
+	.byte	0x8
+	.long	0xde9
+	.byte	0x20
+	.uleb128 0x3
+	.long	.LASF233
+	.byte	0x18
+	.byte	0x24
+	.byte	0xc
+	.long	0x22f9
+	.byte	0x28
+	.uleb128 0x3
+	.long	.LASF685
+	.byte	0x18
+	.byte	0x25
+	.byte	0xc
+	.long	0x1c74
+	.byte	0x30
+	.uleb128 0x3
+	.long	.LASF686
+	.byte	0x18
+	.byte	0x26
+	.byte	0xc
+	.long	0x1c74
+	.byte	0x38
+	.uleb128 0x3
+	.long	.LASF687
+	.byte	0x18
+	.byte	0x27
+	.byte	0xd
+	.long	0x15f4
+	.byte	0x40
+	.uleb128 0x3
+	.long	.LASF688
+	.byte	0x18
+	.byte	0x28
+	.byte	0x10
+	.long	0x5295
+	.byte	0x48
+	.uleb128 0x3
+	.long	.LASF689
+	.byte	0x18
+	.byte	0x29
+	.byte	0x10
+	.long	0x5295
+	.byte	0x50
+	.uleb128 0x3
+	.long	.LASF690
+	.byte	0x18
+	.byte	0x2a
+	.byte	0x9
+	.long	0x32f
+	.byte	0x58
+	.uleb128 0x3
+	.long	.LASF691
+	.byte	0x18
+	.byte	0x2b
+	.byte	0x9
+	.long	0x32f
+	.byte	0x60
+	.uleb128 0x3
+	.long	.LASF692
+	.byte	0x18
+	.byte	0x2c
+	.byte	0x10
+	.long	0x5295
+	.byte	0x68
+	.uleb128 0x3
+	.long	.LASF693
+	.byte	0x18
+	.byte	0x2d
+	.byte	0x10
+	.long	0x5295
+	.byte	0x70
+	.uleb128 0x3
+	.long	.LASF694
+	.byte	0x18
+	.byte	0x2e
+	.byte	0x9
+	.long	0x32f
+	.byte	0x78
+	.uleb128 0x3
+	.long	.LASF695
+	.byte	0x18
+	.byte	0x2f
+	.byte	0x9
+	.long	0x32f
+	.byte	0x80
+	.uleb128 0x3
+	.long	.LASF696
+	.byte	0x18
+	.byte	0x30
+	.byte	0x7
+	.long	0x315
+	.byte	0x88
+	.uleb128 0x3
+	.long	.LASF697
+	.byte	0x18
+	.byte	0x31
+	.byte	0x10
+	.long	0x5295
+	.byte	0x90
+	.uleb128 0x3
+	.long	.LASF698
+	.byte	0x18
+	.byte	0x32
+	.byte	0x9
+	.long	0x32f
+	.byte	0x98
+	.uleb128 0x3
+	.long	.LASF699
+	.byte	0x18
+	.byte	0x33
+	.byte	0x7
+	.long	0x315
+	.byte	0xa0
+	.uleb128 0x3
+	.long	.LASF700
+	.byte	0x18
+	.byte	0x34
+	.byte	0xc
+	.long	0x50f8
+	.byte	0xa8
+	.byte	0
+	.uleb128 0xd
+	.long	.LASF701
+	.byte	0x10
+	.byte	0x18
+	.byte	0x18
+	.byte	0x10
+	.long	0x5290
+	.uleb128 0x3
+	.long	.LASF372
+	.byte	0x18
+	.byte	0x18
+	.byte	0x2e
+	.long	0x50f8
+	.byte	0
+	.uleb128 0x3
+	.long	.LASF90
+	.byte	0x18
+	.byte	0x18
+	.byte	0x4f
+	.long	0x5290
+	.byte	0x8
+	.byte	0
+	.uleb128 0x5
+	.long	0x5268
+	.uleb128 0xb
+	.long	.LASF702
+	.byte	0x18
+	.byte	0x18
+	.byte	0x58
+	.long	0x5290
+	.uleb128 0x3c
+	.byte	0x10
+	.byte	0x18
+	.byte	0x4c
+	.byte	0x2
+	.long	0x52c5
+	.uleb128 0x3
+	.long	.LASF665
+	.byte	0x18
+	.byte	0x4d
+	.byte	0x11
+	.long	0x5295
+	.byte	0
+	.uleb128 0x3
+	.long	.LASF94
+	.byte	0x18
+	.byte	0x4e
+	.byte	0x9
+	.long	0x583
+	.byte	0x8
+	.byte	0
+	.uleb128 0x1d
+	.long	.LASF703
+	.byte	0x1c
+	.byte	0xe
+	.byte	0xd
+	.long	0x52dc
+	.uleb128 0x1
+	.long	0x14fe
+	.uleb128 0x1
+	.long	0xaee
+	.byte	0
+	.uleb128 0x29
+	.long	.LASF705
+	.byte	0x18
+	.byte	0x85
+	.byte	0xd
+	.long	0x14fe
+	.uleb128 0x1d
+	.long	.LASF704
+	.byte	0x1d
+	.byte	0xf
+	.byte	0x6
+	.long	0x52ff
+	.uleb128 0x1
+	.long	0x356
+	.uleb128 0x1
+	.long	0x7e
+	.byte	0
+	.uleb128 0x16
+	.long	.LASF707
+	.byte	0x18
+	.byte	0x9c
+	.byte	0x11
+	.long	0x236b
+	.long	0x531f
+	.uleb128 0x1
+	.long	0x14fe
+	.uleb128 0x1
+	.long	0xb10
+	.uleb128 0x1
+	.long	0x66d
+	.byte	0
+	.uleb128 0x29
+	.long	.LASF706
+	.byte	0x13
+	.byte	0x24
+	.byte	0x10
+	.long	0xb10
+	.uleb128 0x16
+	.long	.LASF708
+	.byte	0x1e
+	.byte	0x4b
+	.byte	0xe
+	.long	0xbff
+	.long	0x5346
+	.uleb128 0x1
+	.long	0x14fe
+	.uleb128 0x1
+	.long	0x71a
+	.byte	0
+	.uleb128 0x1d
+	.long	.LASF709
+	.byte	0x1d
+	.byte	0x8
+	.byte	0x6
+	.long	0x5362
+	.uleb128 0x1
+	.long	0x356
+	.uleb128 0x1
+	.long	0x2e
+	.uleb128 0x1
+	.long	0x2e
+	.byte	0
+	.uleb128 0x29
+	.long	.LASF710
+	.byte	0x1f
+	.byte	0x49
+	.byte	0xc
+	.long	0x2e
+	.uleb128 0x1d
+	.long	.LASF711
+	.byte	0x1d
+	.byte	0xc
+	.byte	0x6
+	.long	0x5385
+	.uleb128 0x1
+	.long	0x356
+	.uleb128 0x1
+	.long	0x315
+	.byte	0
+	.uleb128 0x16
+	.long	.LASF712
+	.byte	0x1e
+	.byte	0x16
+	.byte	0xe
+	.long	0xbff
+	.long	0x53a0
+	.uleb128 0x1
+	.long	0x14fe
+	.uleb128 0x1
+	.long	0x71a
+	.byte	0
+	.uleb128 0x1d
+	.long	.LASF713
+	.byte	0x20
+	.byte	0xe
+	.byte	0xd
+	.long	0x53b7
+	.uleb128 0x1
+	.long	0x14fe
+	.uleb128 0x1
+	.long	0x71a
+	.byte	0
+	.uleb128 0x25
+	.long	.LASF714
+	.value	0x3ce
+	.byte	0xc
+	.long	0x2e
+	.long	0x53cd
+	.uleb128 0x1
+	.long	0x71a
+	.byte	0
+	.uleb128 0x16
+	.long	.LASF715
+	.byte	0x21
+	.byte	0xe
+	.byte	0xe
+	.long	0x71a
+	.long	0x53e8
+	.uleb128 0x1
+	.long	0x71a
+	.uleb128 0x1
+	.long	0x2739
+	.byte	0
+	.uleb128 0x25
+	.long	.LASF716
+	.value	0x3b9
+	.byte	0xe
+	.long	0x71a
+	.long	0x5408
+	.uleb128 0x1
+	.long	0x26d0
+	.uleb128 0x1
+	.long	0x50e
+	.uleb128 0x1
+	.long	0x1c74
+	.byte	0
+	.uleb128 0x1d
+	.long	.LASF717
+	.byte	0x19
+	.byte	0x37
+	.byte	0xd
+	.long	0x541a
+	.uleb128 0x1
+	.long	0x356
+	.byte	0
+	.uleb128 0x16
+	.long	.LASF718
+	.byte	0x19
+	.byte	0x25
+	.byte	0xf
+	.long	0x356
+	.long	0x5435
+	.uleb128 0x1
+	.long	0x356
+	.uleb128 0x1
+	.long	0x356
+	.byte	0
+	.uleb128 0x16
+	.long	.LASF719
+	.byte	0x22
+	.byte	0x11
+	.byte	0xe
+	.long	0x71a
+	.long	0x544b
+	.uleb128 0x1
+	.long	0x71a
+	.byte	0
+	.uleb128 0x16
+	.long	.LASF720
+	.byte	0x23
+	.byte	0xe
+	.byte	0xe
+	.long	0x71a
+	.long	0x5466
+	.uleb128 0x1
+	.long	0x71a
+	.uleb128 0x1
+	.long	0x315
+	.byte	0
+	.uleb128 0x16
+	.long	.LASF721
+	.byte	0x24
+	.byte	0x11
+	.byte	0xe
+	.long	0x71a
+	.long	0x547c
+	.uleb128 0x1
+	.long	0x547c
+	.byte	0
+	.uleb128 0x5
+	.long	0x1c3b
+	.uleb128 0x16
+	.long	.LASF722
+	.byte	0x25
+	.byte	0x15
+	.byte	0x12
+	.long	0x1c3b
+	.long	0x5497
+	.uleb128 0x1
+	.long	0x1c3b
+	.byte	0
+	.uleb128 0x16
+	.long	.LASF723
+	.byte	0x26
+	.byte	0xe
+	.byte	0x12
+	.long	0x1c3b
+	.long	0x54ad
+	.uleb128 0x1
+	.long	0x162d
+	.byte	0
+	.uleb128 0x16
+	.long	.LASF724
+	.byte	0xf
+	.byte	0x17
+	.byte	0x10
+	.long	0x606
+	.long	0x54cd
+	.uleb128 0x1
+	.long	0x50e
+	.uleb128 0x1
+	.long	0x2e
+	.uleb128 0x1
+	.long	0x356
+	.byte	0
+	.uleb128 0x3d
+	.long	.LASF152
+	.byte	0x12
+	.value	0x3b5
+	.byte	0xd
+	.long	0x54e0
+	.uleb128 0x1
+	.long	0x71a
+	.byte	0
+	.uleb128 0x25
+	.long	.LASF725
+	.value	0x3c0
+	.byte	0xe
+	.long	0x71a
+	.long	0x54f6
+	.uleb128 0x1
+	.long	0x71a
+	.byte	0
+	.uleb128 0x16
+	.long	.LASF726
+	.byte	0x10
+	.byte	0x29
+	.byte	0xf
+	.long	0x66d
+	.long	0x5511
+	.uleb128 0x1
+	.long	0x356
+	.uleb128 0x1
+	.long	0x2e
+	.byte	0
+	.uleb128 0x25
+	.long	.LASF727
+	.value	0x3b8
+	.byte	0xe
+	.long	0x71a
+	.long	0x5532
+	.uleb128 0x1
+	.long	0x26d0
+	.uleb128 0x1
+	.long	0x50e
+	.uleb128 0x1
+	.long	0x32f
+	.uleb128 0x1b
+	.byte	0
+	.uleb128 0xf
+	.long	.LASF728
+	.byte	0xf7
+	.byte	0x1
+	.long	0xaee
+	.quad	.LFB39
+	.quad	.LFE39-.LFB39
+	.uleb128 0x1
+	.byte	0x9c
+	.long	0x5562
+	.uleb128 0x14
+	.long	.LASF730
+	.byte	0xf7
+	.byte	0xc
+	.long	0x71a
+	.uleb128 0x2
+	.byte	0x91
+	.sleb128 -24
+	.byte	0
+	.uleb128 0xf
+	.long	.LASF729
+	.byte	0xea
+	.byte	0x1
+	.long	0xb52
+	.quad	.LFB38
+	.quad	.LFE38-.LFB38
+	.uleb128 0x1
+	.byte	0x9c
+	.long	0x55b8
+	.uleb128 0x14
+	.long	.LASF221
+	.byte	0xea
+	.byte	0x14
+	.long	0x14fe
+	.uleb128 0x2
+	.byte	0x91
+	.sleb128 -56
+	.uleb128 0xc
+	.string	"s"
+	.byte	0xea
+	.byte	0x21
+	.long	0x356
+	.uleb128 0x2
+	.byte	0x91
+	.sleb128 -64
+	.uleb128 0xe
+	.long	.LASF731
+	.byte	0xec
+	.byte	0xb
+	.long	0x236b
+	.uleb128 0x2
+	.byte	0x91
+	.sleb128 -40
+	.uleb128 0x1e
+	.string	"d"
+	.byte	0xed
+	.byte	0x7
+	.long	0xb52
+	.uleb128 0x2
+	.byte	0x91
+	.sleb128 -48
+	.byte	0
+	.uleb128 0x2f
+	.long	.LASF735
+	.byte	0xdd
+	.quad	.LFB37
+	.quad	.LFE37-.LFB37
+	.uleb128 0x1
+	.byte	0x9c
+	.long	0x560d
+	.uleb128 0x14
+	.long	.LASF221
+	.byte	0xdd
+	.byte	0x18
+	.long	0x14fe
+	.uleb128 0x2
+	.byte	0x91
+	.sleb128 -40
+	.uleb128 0xc
+	.string	"str"
+	.byte	0xdd
+	.byte	0x25
+	.long	0x356
+	.uleb128 0x2
+	.byte	0x91
+	.sleb128 -48
+	.uleb128 0xe
+	.long	.LASF730
+	.byte	0xdf
+	.byte	0x8
+	.long	0x71a
+	.uleb128 0x2
+	.byte	0x91
+	.sleb128 -24
+	.uleb128 0xe
+	.long	.LASF732
+	.byte	0xe0
+	.byte	0x6
+	.long	0x2e
+	.uleb128 0x2
+	.byte	0x91
+	.sleb128 -28
+	.byte	0
+	.uleb128 0xf
+	.long	.LASF733
+	.byte	0xcd
+	.byte	0x1
+	.long	0xaee
+	.quad	.LFB36
+	.quad	.LFE36-.LFB36
+	.uleb128 0x1
+	.byte	0x9c
+	.long	0x5667
+	.uleb128 0x14
+	.long	.LASF221
+	.byte	0xcd
+	.byte	0x13
+	.long	0x14fe
+	.uleb128 0x2
+	.byte	0x91
+	.sleb128 -40
+	.uleb128 0xc
+	.string	"str"
+	.byte	0xcd
+	.byte	0x20
+	.long	0x356
+	.uleb128 0x2
+	.byte	0x91
+	.sleb128 -48
+	.uleb128 0xe
+	.long	.LASF732
+	.byte	0xcf
+	.byte	0x6
+	.long	0x2e
+	.uleb128 0x2
+	.byte	0x91
+	.sleb128 -20
+	.uleb128 0xe
+	.long	.LASF730
+	.byte	0xd0
+	.byte	0x8
+	.long	0x71a
+	.uleb128 0x2
+	.byte	0x91
+	.sleb128 -32
+	.byte	0
+	.uleb128 0xf
+	.long	.LASF734
+	.byte	0xbe
+	.byte	0x1
+	.long	0xbff
+	.quad	.LFB35
+	.quad	.LFE35-.LFB35
+	.uleb128 0x1
+	.byte	0x9c
+	.long	0x56b3
+	.uleb128 0x14
+	.long	.LASF221
+	.byte	0xbe
+	.byte	0x12
+	.long	0x14fe
+	.uleb128 0x2
+	.byte	0x91
+	.sleb128 -40
+	.uleb128 0xc
+	.string	"str"
+	.byte	0xbe
+	.byte	0x1f
+	.long	0x356
+	.uleb128 0x2
+	.byte	0x91
+	.sleb128 -48
+	.uleb128 0xe
+	.long	.LASF730
+	.byte	0xc0
+	.byte	0x8
+	.long	0x71a
+	.uleb128 0x2
+	.byte	0x91
+	.sleb128 -24
+	.byte	0
+	.uleb128 0x2f
+	.long	.LASF736
+	.byte	0xae
+	.quad	.LFB34
+	.quad	.LFE34-.LFB34
+	.uleb128 0x1
+	.byte	0x9c
+	.long	0x5709
+	.uleb128 0x14
+	.long	.LASF221
+	.byte	0xae
+	.byte	0xf
+	.long	0x14fe
+	.uleb128 0x3
+	.byte	0x91
+	.sleb128 -72
+	.uleb128 0xe
+	.long	.LASF737
+	.byte	0xb0
+	.byte	0x9
+	.long	0x356
+	.uleb128 0x2
+	.byte	0x91
+	.sleb128 -40
+	.uleb128 0xe
+	.long	.LASF738
+	.byte	0xb1
+	.byte	0xd
+	.long	0x4957
+	.uleb128 0x2
+	.byte	0x91
+	.sleb128 -48
+	.uleb128 0xe
+	.long	.LASF730
+	.byte	0xb2
+	.byte	0x8
+	.long	0x71a
+	.uleb128 0x2
+	.byte	0x91
+	.sleb128 -56
+	.byte	0
+	.uleb128 0x3e
+	.long	.LASF739
+	.byte	0x1
+	.byte	0x95
+	.byte	0x1
+	.long	0x71a
+	.quad	.LFB33
+	.quad	.LFE33-.LFB33
+	.uleb128 0x1
+	.byte	0x9c
+	.long	0x57f8
+	.uleb128 0xe
+	.long	.LASF740
+	.byte	0x97
+	.byte	0x9
+	.long	0x356
+	.uleb128 0x2
+	.byte	0x91
+	.sleb128 -24
+	.uleb128 0xe
+	.long	.LASF741
+	.byte	0x98
+	.byte	0x9
+	.long	0x356
+	.uleb128 0x2
+	.byte	0x91
+	.sleb128 -32
+	.uleb128 0xe
+	.long	.LASF742
+	.byte	0x99
+	.byte	0x9
+	.long	0x356
+	.uleb128 0x2
+	.byte	0x91
+	.sleb128 -40
+	.uleb128 0xe
+	.long	.LASF743
+	.byte	0x9a
+	.byte	0x9
+	.long	0x356
+	.uleb128 0x2
+	.byte	0x91
+	.sleb128 -48
+	.uleb128 0xe
+	.long	.LASF744
+	.byte	0x9b
+	.byte	0x9
+	.long	0x356
+	.uleb128 0x2
+	.byte	0x91
+	.sleb128 -56
+	.uleb128 0xe
+	.long	.LASF745
+	.byte	0x9c
+	.byte	0x9
+	.long	0x356
+	.uleb128 0x2
+	.byte	0x91
+	.sleb128 -64
+	.uleb128 0xe
+	.long	.LASF746
+	.byte	0x9d
+	.byte	0x9
+	.long	0x356
+	.uleb128 0x3
+	.byte	0x91
+	.sleb128 -72
+	.uleb128 0xe
+	.long	.LASF747
+	.byte	0x9e
+	.byte	0x9
+	.long	0x356
+	.uleb128 0x3
+	.byte	0x91
+	.sleb128 -80
+	.uleb128 0xe
+	.long	.LASF748
+	.byte	0x9f
+	.byte	0x9
+	.long	0x356
+	.uleb128 0x3
+	.byte	0x91
+	.sleb128 -88
+	.uleb128 0xe
+	.long	.LASF749
+	.byte	0xa0
+	.byte	0x9
+	.long	0x356
+	.uleb128 0x3
+	.byte	0x91
+	.sleb128 -96
+	.uleb128 0xe
+	.long	.LASF750
+	.byte	0xa1
+	.byte	0x9
+	.long	0x356
+	.uleb128 0x3
+	.byte	0x91
+	.sleb128 -104
+	.uleb128 0xe
+	.long	.LASF738
+	.byte	0xa3
+	.byte	0xd
+	.long	0x4957
+	.uleb128 0x3
+	.byte	0x91
+	.sleb128 -112
+	.uleb128 0xe
+	.long	.LASF610
+	.byte	0xa7
+	.byte	0xc
+	.long	0x1c74
+	.uleb128 0x3
+	.byte	0x91
+	.sleb128 -120
+	.uleb128 0xe
+	.long	.LASF730
+	.byte	0xa8
+	.byte	0x8
+	.long	0x71a
+	.uleb128 0x3
+	.byte	0x91
+	.sleb128 -128
+	.byte	0
+	.uleb128 0xf
+	.long	.LASF751
+	.byte	0x88
+	.byte	0x1
+	.long	0x1c74
+	.quad	.LFB32
+	.quad	.LFE32-.LFB32
+	.uleb128 0x1
+	.byte	0x9c
+	.long	0x5836
+	.uleb128 0x14
+	.long	.LASF738
+	.byte	0x88
+	.byte	0x1a
+	.long	0x4957
+	.uleb128 0x2
+	.byte	0x91
+	.sleb128 -56
+	.uleb128 0xe
+	.long	.LASF752
+	.byte	0x8a
+	.byte	0xc
+	.long	0x1c74
+	.uleb128 0x2
+	.byte	0x91
+	.sleb128 -40
+	.byte	0
+	.uleb128 0xf
+	.long	.LASF753
+	.byte	0x72
+	.byte	0x1
+	.long	0x71a
+	.quad	.LFB31
+	.quad	.LFE31-.LFB31
+	.uleb128 0x1
+	.byte	0x9c
+	.long	0x58bd
+	.uleb128 0x14
+	.long	.LASF738
+	.byte	0x72
+	.byte	0x1f
+	.long	0x4957
+	.uleb128 0x3
+	.byte	0x91
+	.sleb128 -72
+	.uleb128 0x1e
+	.string	"sll"
+	.byte	0x74
+	.byte	0xe
+	.long	0x162d
+	.uleb128 0x2
+	.byte	0x91
+	.sleb128 -24
+	.uleb128 0x3f
+	.quad	.LBB2
+	.quad	.LBE2-.LBB2
+	.uleb128 0x1e
+	.string	"tmp"
+	.byte	0x78
+	.byte	0xa
+	.long	0x356
+	.uleb128 0x2
+	.byte	0x91
+	.sleb128 -48
+	.uleb128 0xe
+	.long	.LASF754
+	.byte	0x79
+	.byte	0xb
+	.long	0x606
+	.uleb128 0x2
+	.byte	0x91
+	.sleb128 -56
+	.uleb128 0xe
+	.long	.LASF755
+	.byte	0x7a
+	.byte	0x7
+	.long	0x2e
+	.uleb128 0x2
+	.byte	0x91
+	.sleb128 -28
+	.uleb128 0x1e
+	.string	"p"
+	.byte	0x7b
+	.byte	0x9
+	.long	0x80
+	.uleb128 0x2
+	.byte	0x91
+	.sleb128 -40
+	.byte	0
+	.byte	0
+	.uleb128 0x40
+	.long	.LASF787
+	.byte	0x1
+	.byte	0x62
+	.byte	0x1
+	.long	0x71a
+	.quad	.LFB30
+	.quad	.LFE30-.LFB30
+	.uleb128 0x1
+	.byte	0x9c
+	.long	0x5908
+	.uleb128 0xc
+	.string	"sll"
+	.byte	0x62
+	.byte	0x1e
+	.long	0x162d
+	.uleb128 0x2
+	.byte	0x91
+	.sleb128 -40
+	.uleb128 0x1e
+	.string	"ab"
+	.byte	0x64
+	.byte	0x8
+	.long	0x71a
+	.uleb128 0x2
+	.byte	0x91
+	.sleb128 -24
+	.uleb128 0x1e
+	.string	"tl"
+	.byte	0x65
+	.byte	0xc
+	.long	0x1c3b
+	.uleb128 0x2
+	.byte	0x91
+	.sleb128 -32
+	.byte	0
+	.uleb128 0xf
+	.long	.LASF756
+	.byte	0x5a
+	.byte	0x1
+	.long	0x71a
+	.quad	.LFB29
+	.quad	.LFE29-.LFB29
+	.uleb128 0x1
+	.byte	0x9c
+	.long	0x5946
+	.uleb128 0xc
+	.string	"txt"
+	.byte	0x5a
+	.byte	0x11
+	.long	0x356
+	.uleb128 0x2
+	.byte	0x91
+	.sleb128 -40
+	.uleb128 0xe
+	.long	.LASF104
+	.byte	0x5c
+	.byte	0xa
+	.long	0x606
+	.uleb128 0x2
+	.byte	0x91
+	.sleb128 -24
+	.byte	0
+	.uleb128 0xf
+	.long	.LASF757
+	.byte	0x48
+	.byte	0x1
+	.long	0x71a
+	.quad	.LFB28
+	.quad	.LFE28-.LFB28
+	.uleb128 0x1
+	.byte	0x9c
+	.long	0x59be
+	.uleb128 0x14
+	.long	.LASF325
+	.byte	0x48
+	.byte	0x14
+	.long	0x356
+	.uleb128 0x2
+	.byte	0x91
+	.sleb128 -56
+	.uleb128 0x14
+	.long	.LASF590
+	.byte	0x48
+	.byte	0x20
+	.long	0x71a
+	.uleb128 0x2
+	.byte	0x91
+	.sleb128 -64
+	.uleb128 0x14
+	.long	.LASF627
+	.byte	0x48
+	.byte	0x2d
+	.long	0x71a
+	.uleb128 0x3
+	.byte	0x91
+	.sleb128 -72
+	.uleb128 0xc
+	.string	"rhs"
+	.byte	0x48
+	.byte	0x3c
+	.long	0x71a
+	.uleb128 0x3
+	.byte	0x91
+	.sleb128 -80
+	.uleb128 0xe
+	.long	.LASF758
+	.byte	0x4a
+	.byte	0x8
+	.long	0x71a
+	.uleb128 0x2
+	.byte	0x91
+	.sleb128 -40
+	.uleb128 0xe
+	.long	.LASF759
+	.byte	0x4d
+	.byte	0x8
+	.long	0x71a
+	.uleb128 0x2
+	.byte	0x91
+	.sleb128 -48
+	.byte	0
+	.uleb128 0xf
+	.long	.LASF760
+	.byte	0x42
+	.byte	0x7
+	.long	0x71a
+	.quad	.LFB27
+	.quad	.LFE27-.LFB27
+	.uleb128 0x1
+	.byte	0x9c
+	.long	0x59ee
+	.uleb128 0x14
+	.long	.LASF325
+	.byte	0x42
+	.byte	0x17
+	.long	0x356
+	.uleb128 0x2
+	.byte	0x91
+	.sleb128 -40
+	.byte	0
+	.uleb128 0x30
+	.long	.LASF761
+	.byte	0x3d
+	.long	0x71a
+	.quad	.LFB26
+	.quad	.LFE26-.LFB26
+	.uleb128 0x1
+	.byte	0x9c
+	.uleb128 0x30
+	.long	.LASF762
+	.byte	0x38
+	.long	0x71a
+	.quad	.LFB25
+	.quad	.LFE25-.LFB25
+	.uleb128 0x1
+	.byte	0x9c
+	.uleb128 0x1f
+	.string	"_if"
+	.byte	0x32
+	.byte	0x1
+	.long	0x71a
+	.quad	.LFB24
+	.quad	.LFE24-.LFB24
+	.uleb128 0x1
+	.byte	0x9c
+	.long	0x5a72
+	.uleb128 0x14
+	.long	.LASF593
+	.byte	0x32
+	.byte	0xb
+	.long	0x71a
+	.uleb128 0x2
+	.byte	0x91
+	.sleb128 -24
+	.uleb128 0x14
+	.long	.LASF763
+	.byte	0x32
+	.byte	0x1b
+	.long	0x71a
+	.uleb128 0x2
+	.byte	0x91
+	.sleb128 -32
+	.uleb128 0x14
+	.long	.LASF764
+	.byte	0x32
+	.byte	0x2b
+	.long	0x71a
+	.uleb128 0x2
+	.byte	0x91
+	.sleb128 -40
+	.byte	0
+	.uleb128 0x1f
+	.string	"id"
+	.byte	0x2f
+	.byte	0x7
+	.long	0x71a
+	.quad	.LFB23
+	.quad	.LFE23-.LFB23
+	.uleb128 0x1
+	.byte	0x9c
+	.long	0x5aa1
+	.uleb128 0xc
+	.string	"txt"
+	.byte	0x2f
+	.byte	0x11
+	.long	0x356
+	.uleb128 0x2
+	.byte	0x91
+	.sleb128 -24
+	.byte	0
+	.uleb128 0x1f
+	.string	"and"
+	.byte	0x2d
+	.byte	0x7
+	.long	0x71a
+	.quad	.LFB22
+	.quad	.LFE22-.LFB22
+	.uleb128 0x1
+	.byte	0x9c
+	.long	0x5adb
+	.uleb128 0xc
+	.string	"x"
+	.byte	0x2d
+	.byte	0x11
+	.long	0x71a
+	.uleb128 0x2
+	.byte	0x91
+	.sleb128 -24
+	.uleb128 0xc
+	.string	"y"
+	.byte	0x2d
+	.byte	0x1a
+	.long	0x71a
+	.uleb128 0x2
+	.byte	0x91
+	.sleb128 -32
+	.byte	0
+	.uleb128 0xf
+	.long	.LASF574
+	.byte	0x2c
+	.byte	0x7
+	.long	0x71a
+	.quad	.LFB21
+	.quad	.LFE21-.LFB21
+	.uleb128 0x1
+	.byte	0x9c
+	.long	0x5b09
+	.uleb128 0xc
+	.string	"x"
+	.byte	0x2c
+	.byte	0x12
+	.long	0x71a
+	.uleb128 0x2
+	.byte	0x91
+	.sleb128 -24
+	.byte	0
+	.uleb128 0xf
+	.long	.LASF765
+	.byte	0x2b
+	.byte	0x7
+	.long	0x71a
+	.quad	.LFB20
+	.quad	.LFE20-.LFB20
+	.uleb128 0x1
+	.byte	0x9c
+	.long	0x5b43
+	.uleb128 0xc
+	.string	"x"
+	.byte	0x2b
+	.byte	0x18
+	.long	0x71a
+	.uleb128 0x2
+	.byte	0x91
+	.sleb128 -24
+	.uleb128 0xc
+	.string	"y"
+	.byte	0x2b
+	.byte	0x21
+	.long	0x71a
+	.uleb128 0x2
+	.byte	0x91
+	.sleb128 -32
+	.byte	0
+	.uleb128 0xf
+	.long	.LASF766
+	.byte	0x2a
+	.byte	0x7
+	.long	0x71a
+	.quad	.LFB19
+	.quad	.LFE19-.LFB19
+	.uleb128 0x1
+	.byte	0x9c
+	.long	0x5b7d
+	.uleb128 0xc
+	.string	"x"
+	.byte	0x2a
+	.byte	0x15
+	.long	0x71a
+	.uleb128 0x2
+	.byte	0x91
+	.sleb128 -24
+	.uleb128 0xc
+	.string	"y"
+	.byte	0x2a
+	.byte	0x1e
+	.long	0x71a
+	.uleb128 0x2
+	.byte	0x91
+	.sleb128 -32
+	.byte	0
+	.uleb128 0xf
+	.long	.LASF767
+	.byte	0x29
+	.byte	0x7
+	.long	0x71a
+	.quad	.LFB18
+	.quad	.LFE18-.LFB18
+	.uleb128 0x1
+	.byte	0x9c
+	.long	0x5bb7
+	.uleb128 0xc
+	.string	"x"
+	.byte	0x29
+	.byte	0x15
+	.long	0x71a
+	.uleb128 0x2
+	.byte	0x91
+	.sleb128 -24
+	.uleb128 0xc
+	.string	"y"
+	.byte	0x29
+	.byte	0x1e
+	.long	0x71a
+	.uleb128 0x2
+	.byte	0x91
+	.sleb128 -32
+	.byte	0
+	.uleb128 0xf
+	.long	.LASF768
+	.byte	0x28
+	.byte	0x7
+	.long	0x71a
+	.quad	.LFB17
+	.quad	.LFE17-.LFB17
+	.uleb128 0x1
+	.byte	0x9c
+	.long	0x5bf1
+	.uleb128 0xc
+	.string	"x"
+	.byte	0x28
+	.byte	0x14
+	.long	0x71a
+	.uleb128 0x2
+	.byte	0x91
+	.sleb128 -24
+	.uleb128 0xc
+	.string	"y"
+	.byte	0x28
+	.byte	0x1d
+	.long	0x71a
+	.uleb128 0x2
+	.byte	0x91
+	.sleb128 -32
+	.byte	0
+	.uleb128 0xf
+	.long	.LASF769
+	.byte	0x27
+	.byte	0x7
+	.long	0x71a
+	.quad	.LFB16
+	.quad	.LFE16-.LFB16
+	.uleb128 0x1
+	.byte	0x9c
+	.long	0x5c37
+	.uleb128 0xc
+	.string	"x"
+	.byte	0x27
+	.byte	0x12
+	.long	0x71a
+	.uleb128 0x2
+	.byte	0x91
+	.sleb128 -24
+	.uleb128 0xc
+	.string	"y"
+	.byte	0x27
+	.byte	0x1b
+	.long	0x71a
+	.uleb128 0x2
+	.byte	0x91
+	.sleb128 -32
+	.uleb128 0xc
+	.string	"z"
+	.byte	0x27
+	.byte	0x24
+	.long	0x71a
+	.uleb128 0x2
+	.byte	0x91
+	.sleb128 -40
+	.byte	0
+	.uleb128 0xf
+	.long	.LASF770
+	.byte	0x26
+	.byte	0x7
+	.long	0x71a
+	.quad	.LFB15
+	.quad	.LFE15-.LFB15
+	.uleb128 0x1
+	.byte	0x9c
+	.long	0x5c7d
+	.uleb128 0xc
+	.string	"x"
+	.byte	0x26
+	.byte	0x14
+	.long	0x71a
+	.uleb128 0x2
+	.byte	0x91
+	.sleb128 -24
+	.uleb128 0xc
+	.string	"y"
+	.byte	0x26
+	.byte	0x1d
+	.long	0x71a
+	.uleb128 0x2
+	.byte	0x91
+	.sleb128 -32
+	.uleb128 0xc
+	.string	"z"
+	.byte	0x26
+	.byte	0x26
+	.long	0x71a
+	.uleb128 0x2
+	.byte	0x91
+	.sleb128 -40
+	.byte	0
+	.uleb128 0xf
+	.long	.LASF771
+	.byte	0x25
+	.byte	0x7
+	.long	0x71a
+	.quad	.LFB14
+	.quad	.LFE14-.LFB14
+	.uleb128 0x1
+	.byte	0x9c
+	.long	0x5cc3
+	.uleb128 0xc
+	.string	"x"
+	.byte	0x25
+	.byte	0x14
+	.long	0x71a
+	.uleb128 0x2
+	.byte	0x91
+	.sleb128 -24
+	.uleb128 0xc
+	.string	"y"
+	.byte	0x25
+	.byte	0x1d
+	.long	0x71a
+	.uleb128 0x2
+	.byte	0x91
+	.sleb128 -32
+	.uleb128 0xc
+	.string	"z"
+	.byte	0x25
+	.byte	0x26
+	.long	0x71a
+	.uleb128 0x2
+	.byte	0x91
+	.sleb128 -40
+	.byte	0
+	.uleb128 0xf
+	.long	.LASF772
+	.byte	0x24
+	.byte	0x7
+	.long	0x71a
+	.quad	.LFB13
+	.quad	.LFE13-.LFB13
+	.uleb128 0x1
+	.byte	0x9c
+	.long	0x5cfd
+	.uleb128 0xc
+	.string	"x"
+	.byte	0x24
+	.byte	0x14
+	.long	0x71a
+	.uleb128 0x2
+	.byte	0x91
+	.sleb128 -24
+	.uleb128 0xc
+	.string	"y"
+	.byte	0x24
+	.byte	0x1d
+	.long	0x71a
+	.uleb128 0x2
+	.byte	0x91
+	.sleb128 -32
+	.byte	0
+	.uleb128 0x1f
+	.string	"has"
+	.byte	0x23
+	.byte	0x7
+	.long	0x71a
+	.quad	.LFB12
+	.quad	.LFE12-.LFB12
+	.uleb128 0x1
+	.byte	0x9c
+	.long	0x5d37
+	.uleb128 0xc
+	.string	"x"
+	.byte	0x23
+	.byte	0x11
+	.long	0x71a
+	.uleb128 0x2
+	.byte	0x91
+	.sleb128 -24
+	.uleb128 0xc
+	.string	"y"
+	.byte	0x23
+	.byte	0x1a
+	.long	0x71a
+	.uleb128 0x2
+	.byte	0x91
+	.sleb128 -32
+	.byte	0
+	.uleb128 0xf
+	.long	.LASF575
+	.byte	0x22
+	.byte	0x7
+	.long	0x71a
+	.quad	.LFB11
+	.quad	.LFE11-.LFB11
+	.uleb128 0x1
+	.byte	0x9c
+	.long	0x5d71
+	.uleb128 0xc
+	.string	"x"
+	.byte	0x22
+	.byte	0x13
+	.long	0x71a
+	.uleb128 0x2
+	.byte	0x91
+	.sleb128 -24
+	.uleb128 0xc
+	.string	"y"
+	.byte	0x22
+	.byte	0x1c
+	.long	0x71a
+	.uleb128 0x2
+	.byte	0x91
+	.sleb128 -32
+	.byte	0
+	.uleb128 0x1f
+	.string	"add"
+	.byte	0x21
+	.byte	0x7
+	.long	0x71a
+	.quad	.LFB10
+	.quad	.LFE10-.LFB10
+	.uleb128 0x1
+	.byte	0x9c
+	.long	0x5dab
+	.uleb128 0xc
+	.string	"x"
+	.byte	0x21
+	.byte	0x11
+	.long	0x71a
+	.uleb128 0x2
+	.byte	0x91
+	.sleb128 -24
+	.uleb128 0xc
+	.string	"y"
+	.byte	0x21
+	.byte	0x1a
+	.long	0x71a
+	.uleb128 0x2
+	.byte	0x91
+	.sleb128 -32
+	.byte	0
+	.uleb128 0xf
+	.long	.LASF773
+	.byte	0x20
+	.byte	0x7
+	.long	0x71a
+	.quad	.LFB9
+	.quad	.LFE9-.LFB9
+	.uleb128 0x1
+	.byte	0x9c
+	.long	0x5de5
+	.uleb128 0xc
+	.string	"x"
+	.byte	0x20
+	.byte	0x12
+	.long	0x71a
+	.uleb128 0x2
+	.byte	0x91
+	.sleb128 -24
+	.uleb128 0xc
+	.string	"y"
+	.byte	0x20
+	.byte	0x1b
+	.long	0x71a
+	.uleb128 0x2
+	.byte	0x91
+	.sleb128 -32
+	.byte	0
+	.uleb128 0xf
+	.long	.LASF774
+	.byte	0x1f
+	.byte	0x7
+	.long	0x71a
+	.quad	.LFB8
+	.quad	.LFE8-.LFB8
+	.uleb128 0x1
+	.byte	0x9c
+	.long	0x5e1f
+	.uleb128 0xc
+	.string	"x"
+	.byte	0x1f
+	.byte	0x15
+	.long	0x71a
+	.uleb128 0x2
+	.byte	0x91
+	.sleb128 -24
+	.uleb128 0xc
+	.string	"y"
+	.byte	0x1f
+	.byte	0x1e
+	.long	0x71a
+	.uleb128 0x2
+	.byte	0x91
+	.sleb128 -32
+	.byte	0
+	.uleb128 0xf
+	.long	.LASF775
+	.byte	0x1e
+	.byte	0x7
+	.long	0x71a
+	.quad	.LFB7
+	.quad	.LFE7-.LFB7
+	.uleb128 0x1
+	.byte	0x9c
+	.long	0x5e59
+	.uleb128 0xc
+	.string	"x"
+	.byte	0x1e
+	.byte	0x14
+	.long	0x71a
+	.uleb128 0x2
+	.byte	0x91
+	.sleb128 -24
+	.uleb128 0xc
+	.string	"y"
+	.byte	0x1e
+	.byte	0x1d
+	.long	0x71a
+	.uleb128 0x2
+	.byte	0x91
+	.sleb128 -32
+	.byte	0
+	.uleb128 0x2a
+	.long	.LASF778
+	.byte	0x1d
+	.long	0x71a
+	.quad	.LFB6
+	.quad	.LFE6-.LFB6
+	.uleb128 0x1
+	.byte	0x9c
+	.uleb128 0xf
+	.long	.LASF776
+	.byte	0x1c
+	.byte	0x7
+	.long	0x71a
+	.quad	.LFB5
+	.quad	.LFE5-.LFB5
+	.uleb128 0x1
+	.byte	0x9c
+	.long	0x5eaf
+	.uleb128 0xc
+	.string	"x"
+	.byte	0x1c
+	.byte	0x14
+	.long	0x71a
+	.uleb128 0x2
+	.byte	0x91
+	.sleb128 -24
+	.uleb128 0xc
+	.string	"y"
+	.byte	0x1c
+	.byte	0x1d
+	.long	0x71a
+	.uleb128 0x2
+	.byte	0x91
+	.sleb128 -32
+	.byte	0
+	.uleb128 0xf
+	.long	.LASF777
+	.byte	0x1b
+	.byte	0x7
+	.long	0x71a
+	.quad	.LFB4
+	.quad	.LFE4-.LFB4
+	.uleb128 0x1
+	.byte	0x9c
+	.long	0x5edd
+	.uleb128 0xc
+	.string	"x"
+	.byte	0x1b
+	.byte	0x14
+	.long	0x71a
+	.uleb128 0x2
+	.byte	0x91
+	.sleb128 -24
+	.byte	0
+	.uleb128 0x2a
+	.long	.LASF779
+	.byte	0x1a
+	.long	0x71a
+	.quad	.LFB3
+	.quad	.LFE3-.LFB3
+	.uleb128 0x1
+	.byte	0x9c
+	.uleb128 0xf
+	.long	.LASF780
+	.byte	0x19
+	.byte	0x7
+	.long	0x71a
+	.quad	.LFB2
+	.quad	.LFE2-.LFB2
+	.uleb128 0x1
+	.byte	0x9c
+	.long	0x5f33
+	.uleb128 0xc
+	.string	"x"
+	.byte	0x19
+	.byte	0x17
+	.long	0x71a
+	.uleb128 0x2
+	.byte	0x91
+	.sleb128 -24
+	.uleb128 0xc
+	.string	"y"
+	.byte	0x19
+	.byte	0x20
+	.long	0x71a
+	.uleb128 0x2
+	.byte	0x91
+	.sleb128 -32
+	.byte	0
+	.uleb128 0xf
+	.long	.LASF781
+	.byte	0x18
+	.byte	0x7
+	.long	0x71a
+	.quad	.LFB1
+	.quad	.LFE1-.LFB1
+	.uleb128 0x1
+	.byte	0x9c
+	.long	0x5f61
+	.uleb128 0xc
+	.string	"x"
+	.byte	0x18
+	.byte	0x17
+	.long	0x71a
+	.uleb128 0x2
+	.byte	0x91
+	.sleb128 -24
+	.byte	0
+	.uleb128 0x2a
+	.long	.LASF782
+	.byte	0x17
+	.long	0x71a
+	.quad	.LFB0
+	.quad	.LFE0-.LFB0
+	.uleb128 0x1
+	.byte	0x9c
+	.byte	0
+	.section	.debug_abbrev,"",@progbits
+.Ldebug_abbrev0:
+	.uleb128 0x1
+	.uleb128 0x5
+	.byte	0
+	.uleb128 0x49
+	.uleb128 0x13
+	.byte	0
+	.byte	0
+	.uleb128 0x2
+	.uleb128 0xd
+	.byte	0
+	.uleb128 0x3
+	.uleb128 0xe
+	.uleb128 0x3a
+	.uleb128 0xb
+	.uleb128 0x3b
+	.uleb128 0x5
+	.uleb128 0x39
+	.uleb128 0xb
+	.uleb128 0x49
+	.uleb128 0x13
+	.uleb128 0x38
+	.uleb128 0xb
+	.byte	0
+	.byte	0
+	.uleb128 0x3
+	.uleb128 0xd
+	.byte	0
+	.uleb128 0x3
+	.uleb128 0xe
+	.uleb128 0x3a
+	.uleb128 0xb
+	.uleb128 0x3b
+	.uleb128 0xb
+	.uleb128 0x39
+	.uleb128 0xb
+	.uleb128 0x49
+	.uleb128 0x13
+	.uleb128 0x38
+	.uleb128 0xb
+	.byte	0
+	.byte	0
+	.uleb128 0x4
+	.uleb128 0xd
+	.byte	0
+	.uleb128 0x3
+	.uleb128 0x8
+	.uleb128 0x3a
+	.uleb128 0xb
+	.uleb128 0x3b
+	.uleb128 0x5
+	.uleb128 0x39
+	.uleb128 0xb
+	.uleb128 0x49
+	.uleb128 0x13
+	.uleb128 0x38
+	.uleb128 0xb
+	.byte	0
+	.byte	0
+	.uleb128 0x5
+	.uleb128 0xf
+	.byte	0
+	.uleb128 0xb
+	.uleb128 0x21
+	.sleb128 8
+	.uleb128 0x49
+	.uleb128 0x13
+	.byte	0
+	.byte	0
+	.uleb128 0x6
+	.uleb128 0xd
+	.byte	0
+	.uleb128 0x3
+	.uleb128 0xe
+	.uleb128 0x3a
+	.uleb128 0xb
+	.uleb128 0x3b
+	.uleb128 0x5
+	.uleb128 0x39
+	.uleb128 0xb
+	.uleb128 0x49
+	.uleb128 0x13
+	.byte	0
+	.byte	0
+	.uleb128 0x7
+	.uleb128 0x13
+	.byte	0x1
+	.uleb128 0x3
+	.uleb128 0xe
+	.uleb128 0xb
+	.uleb128 0xb
+	.uleb128 0x3a
+	.uleb128 0xb
+	.uleb128 0x3b
+	.uleb128 0x5
+	.uleb128 0x39
+	.uleb128 0x21
+	.sleb128 8
+	.uleb128 0x1
+	.uleb128 0x13
+	.byte	0
+	.byte	0
+	.uleb128 0x8
+	.uleb128 0x28
+	.byte	0
+	.uleb128 0x3
+	.uleb128 0xe
+	.uleb128 0x1c
+	.uleb128 0xb
+	.byte	0
+	.byte	0
+	.uleb128 0x9
+	.uleb128 0x15
+	.byte	0x1
+	.uleb128 0x27
+	.uleb128 0x19
+	.uleb128 0x49
+	.uleb128 0x13
+	.uleb128 0x1
+	.uleb128 0x13
+	.byte	0
+	.byte	0
+	.uleb128 0xa
+	.uleb128 0xd
+	.byte	0
+	.uleb128 0x3
+	.uleb128 0xe
+	.uleb128 0x3a
+	.uleb128 0xb
+	.uleb128 0x3b
+	.uleb128 0xb
+	.uleb128 0x39
+	.uleb128 0x5
+	.uleb128 0x49
+	.uleb128 0x13
+	.uleb128 0x38
+	.uleb128 0xb
+	.byte	0
+	.byte	0
+	.uleb128 0xb
+	.uleb128 0x16
+	.byte	0
+	.uleb128 0x3
+	.uleb128 0xe
+	.uleb128 0x3a
+	.uleb128 0xb
+	.uleb128 0x3b
+	.uleb128 0xb
+	.uleb128 0x39
+	.uleb128 0xb
+	.uleb128 0x49
+	.uleb128 0x13
+	.byte	0
+	.byte	0
+	.uleb128 0xc
+	.uleb128 0x5
+	.byte	0
+	.uleb128 0x3
+	.uleb128 0x8
+	.uleb128 0x3a
+	.uleb128 0x21
+	.sleb128 1
+	.uleb128 0x3b
+	.uleb128 0xb
+	.uleb128 0x39
+	.uleb128 0xb
+	.uleb128 0x49
+	.uleb128 0x13
+	.uleb128 0x2
+	.uleb128 0x18
+	.byte	0
+	.byte	0
+	.uleb128 0xd
+	.uleb128 0x13
+	.byte	0x1
+	.uleb128 0x3
+	.uleb128 0xe
+	.uleb128 0xb
+	.uleb128 0xb
+	.uleb128 0x3a
+	.uleb128 0xb
+	.uleb128 0x3b
+	.uleb128 0xb
+	.uleb128 0x39
+	.uleb128 0xb
+	.uleb128 0x1
+	.uleb128 0x13
+	.byte	0
+	.byte	0
+	.uleb128 0xe
+	.uleb128 0x34
+	.byte	0
+	.uleb128 0x3
+	.uleb128 0xe
+	.uleb128 0x3a
+	.uleb128 0x21
+	.sleb128 1
+	.uleb128 0x3b
+	.uleb128 0xb
+	.uleb128 0x39
+	.uleb128 0xb
+	.uleb128 0x49
+	.uleb128 0x13
+	.uleb128 0x2
+	.uleb128 0x18
+	.byte	0
+	.byte	0
+	.uleb128 0xf
+	.uleb128 0x2e
+	.byte	0x1
+	.uleb128 0x3f
+	.uleb128 0x19
+	.uleb128 0x3
+	.uleb128 0xe
+	.uleb128 0x3a
+	.uleb128 0x21
+	.sleb128 1
+	.uleb128 0x3b
+	.uleb128 0xb
+	.uleb128 0x39
+	.uleb128 0xb
+	.uleb128 0x27
+	.uleb128 0x19
+	.uleb128 0x49
+	.uleb128 0x13
+	.uleb128 0x11
+	.uleb128 0x1
+	.uleb128 0x12
+	.uleb128 0x7
+	.uleb128 0x40
+	.uleb128 0x18
+	.uleb128 0x7c
+	.uleb128 0x19
+	.uleb128 0x1
+	.uleb128 0x13
+	.byte	0
+	.byte	0
+	.uleb128 0x10
+	.uleb128 0xd
+	.byte	0
+	.uleb128 0x3
+	.uleb128 0xe
+	.uleb128 0x3a
+	.uleb128 0xb
+	.uleb128 0x3b
+	.uleb128 0xb
+	.uleb128 0x39
+	.uleb128 0x5
+	.uleb128 0x49
+	.uleb128 0x13
+	.uleb128 0x38
+	.uleb128 0x5
+	.byte	0
+	.byte	0
+	.uleb128 0x11
+	.uleb128 0xd
+	.byte	0
+	.uleb128 0x3
+	.uleb128 0x8
+	.uleb128 0x3a
+	.uleb128 0xb
+	.uleb128 0x3b
+	.uleb128 0xb
+	.uleb128 0x39
+	.uleb128 0xb
+	.uleb128 0x49
+	.uleb128 0x13
+	.uleb128 0x38
+	.uleb128 0xb
+	.byte	0
+	.byte	0
+	.uleb128 0x12
+	.uleb128 0x16
+	.byte	0
+	.uleb128 0x3
+	.uleb128 0xe
+	.uleb128 0x3a
+	.uleb128 0xb
+	.uleb128 0x3b
+	.uleb128 0x5
+	.uleb128 0x39
+	.uleb128 0xb
+	.uleb128 0x49
+	.uleb128 0x13
+	.byte	0
+	.byte	0
+	.uleb128 0x13
+	.uleb128 0x13
+	.byte	0
+	.uleb128 0x3
+	.uleb128 0xe
+	.uleb128 0x3c
+	.uleb128 0x19
+	.byte	0
+	.byte	0
+	.uleb128 0x14
+	.uleb128 0x5
+	.byte	0
+	.uleb128 0x3
+	.uleb128 0xe
+	.uleb128 0x3a
+	.uleb128 0x21
+	.sleb128 1
+	.uleb128 0x3b
+	.uleb128 0xb
+	.uleb128 0x39
+	.uleb128 0xb
+	.uleb128 0x49
+	.uleb128 0x13
+	.uleb128 0x2
+	.uleb128 0x18
+	.byte	0
+	.byte	0
+	.uleb128 0x15
+	.uleb128 0x15
+	.byte	0x1
+	.uleb128 0x27
+	.uleb128 0x19
+	.uleb128 0x1
+	.uleb128 0x13
+	.byte	0
+	.byte	0
+	.uleb128 0x16
+	.uleb128 0x2e
+	.byte	0x1
+	.uleb128 0x3f
+	.uleb128 0x19
+	.uleb128 0x3
+	.uleb128 0xe
+	.uleb128 0x3a
+	.uleb128 0xb
+	.uleb128 0x3b
+	.uleb128 0xb
+	.uleb128 0x39
+	.uleb128 0xb
+	.uleb128 0x27
+	.uleb128 0x19
+	.uleb128 0x49
+	.uleb128 0x13
+	.uleb128 0x3c
+	.uleb128 0x19
+	.uleb128 0x1
+	.uleb128 0x13
+	.byte	0
+	.byte	0
+	.uleb128 0x17
+	.uleb128 0x24
+	.byte	0
+	.uleb128 0xb
+	.uleb128 0xb
+	.uleb128 0x3e
+	.uleb128 0xb
+	.uleb128 0x3
+	.uleb128 0xe
+	.byte	0
+	.byte	0
+	.uleb128 0x18
+	.uleb128 0x1
+	.byte	0x1
+	.uleb128 0x49
+	.uleb128 0x13
+	.uleb128 0x1
+	.uleb128 0x13
+	.byte	0
+	.byte	0
+	.uleb128 0x19
+	.uleb128 0x21
+	.byte	0
+	.uleb128 0x49
+	.uleb128 0x13
+	.uleb128 0x2f
+	.uleb128 0xb
+	.byte	0
+	.byte	0
+	.uleb128 0x1a
+	.uleb128 0xd
+	.byte	0
+	.uleb128 0x3
+	.uleb128 0x8
+	.uleb128 0x3a
+	.uleb128 0xb
+	.uleb128 0x3b
+	.uleb128 0x5
+	.uleb128 0x39
+	.uleb128 0xb
+	.uleb128 0x49
+	.uleb128 0x13
+	.byte	0
+	.byte	0
+	.uleb128 0x1b
+	.uleb128 0x18
+	.byte	0
+	.byte	0
+	.byte	0
+	.uleb128 0x1c
+	.uleb128 0xd
+	.byte	0
+	.uleb128 0x3
+	.uleb128 0x8
+	.uleb128 0x3a
+	.uleb128 0xb
+	.uleb128 0x3b
+	.uleb128 0xb
+	.uleb128 0x39
+	.uleb128 0x5
+	.uleb128 0x49
+	.uleb128 0x13
+	.uleb128 0x38
+	.uleb128 0xb
+	.byte	0
+	.byte	0
+	.uleb128 0x1d
+	.uleb128 0x2e
+	.byte	0x1
+	.uleb128 0x3f
+	.uleb128 0x19
+	.uleb128 0x3
+	.uleb128 0xe
+	.uleb128 0x3a
+	.uleb128 0xb
+	.uleb128 0x3b
+	.uleb128 0xb
+	.uleb128 0x39
+	.uleb128 0xb
+	.uleb128 0x27
+	.uleb128 0x19
+	.uleb128 0x3c
+	.uleb128 0x19
+	.uleb128 0x1
+	.uleb128 0x13
+	.byte	0
+	.byte	0
+	.uleb128 0x1e
+	.uleb128 0x34
+	.byte	0
+	.uleb128 0x3
+	.uleb128 0x8
+	.uleb128 0x3a
+	.uleb128 0x21
+	.sleb128 1
+	.uleb128 0x3b
+	.uleb128 0xb
+	.uleb128 0x39
+	.uleb128 0xb
+	.uleb128 0x49
+	.uleb128 0x13
+	.uleb128 0x2
+	.uleb128 0x18
+	.byte	0
+	.byte	0
+	.uleb128 0x1f
+	.uleb128 0x2e
+	.byte	0x1
+	.uleb128 0x3f
+	.uleb128 0x19
+	.uleb128 0x3
+	.uleb128 0x8
+	.uleb128 0x3a
+	.uleb128 0x21
+	.sleb128 1
+	.uleb128 0x3b
+	.uleb128 0xb
+	.uleb128 0x39
+	.uleb128 0xb
+	.uleb128 0x27
+	.uleb128 0x19
+	.uleb128 0x49
+	.uleb128 0x13
+	.uleb128 0x11
+	.uleb128 0x1
+	.uleb128 0x12
+	.uleb128 0x7
+	.uleb128 0x40
+	.uleb128 0x18
+	.uleb128 0x7c
+	.uleb128 0x19
+	.uleb128 0x1
+	.uleb128 0x13
+	.byte	0
+	.byte	0
+	.uleb128 0x20
+	.uleb128 0x26
+	.byte	0
+	.uleb128 0x49
+	.uleb128 0x13
+	.byte	0
+	.byte	0
+	.uleb128 0x21
+	.uleb128 0xd
+	.byte	0
+	.uleb128 0x3
+	.uleb128 0xe
+	.uleb128 0x3a
+	.uleb128 0x21
+	.sleb128 3
+	.uleb128 0x3b
+	.uleb128 0x21
+	.sleb128 0
+	.uleb128 0x49
+	.uleb128 0x13
+	.uleb128 0x38
+	.uleb128 0xb
+	.byte	0
+	.byte	0
+	.uleb128 0x22
+	.uleb128 0xd
+	.byte	0
+	.uleb128 0x3
+	.uleb128 0x8
+	.uleb128 0x3a
+	.uleb128 0xb
+	.uleb128 0x3b
+	.uleb128 0xb
+	.uleb128 0x39
+	.uleb128 0xb
+	.uleb128 0x49
+	.uleb128 0x13
+	.byte	0
+	.byte	0
+	.uleb128 0x23
+	.uleb128 0x13
+	.byte	0x1
+	.uleb128 0x3
+	.uleb128 0xe
+	.uleb128 0xb
+	.uleb128 0x5
+	.uleb128 0x3a
+	.uleb128 0xb
+	.uleb128 0x3b
+	.uleb128 0xb
+	.uleb128 0x39
+	.uleb128 0xb
+	.uleb128 0x1
+	.uleb128 0x13
+	.byte	0
+	.byte	0
+	.uleb128 0x24
+	.uleb128 0x17
+	.byte	0x1
+	.uleb128 0xb
+	.uleb128 0xb
+	.uleb128 0x3a
+	.uleb128 0xb
+	.uleb128 0x3b
+	.uleb128 0x5
+	.uleb128 0x39
+	.uleb128 0x21
+	.sleb128 2
+	.uleb128 0x1
+	.uleb128 0x13
+	.byte	0
+	.byte	0
+	.uleb128 0x25
+	.uleb128 0x2e
+	.byte	0x1
+	.uleb128 0x3f
+	.uleb128 0x19
+	.uleb128 0x3
+	.uleb128 0xe
+	.uleb128 0x3a
+	.uleb128 0x21
+	.sleb128 18
+	.uleb128 0x3b
+	.uleb128 0x5
+	.uleb128 0x39
+	.uleb128 0xb
+	.uleb128 0x27
+	.uleb128 0x19
+	.uleb128 0x49
+	.uleb128 0x13
+	.uleb128 0x3c
+	.uleb128 0x19
+	.uleb128 0x1
+	.uleb128 0x13
+	.byte	0
+	.byte	0
+	.uleb128 0x26
+	.uleb128 0xd
+	.byte	0
+	.uleb128 0x3
+	.uleb128 0xe
+	.uleb128 0x3a
+	.uleb128 0x21
+	.sleb128 15
+	.uleb128 0x3b
+	.uleb128 0xb
+	.uleb128 0x39
+	.uleb128 0x21
+	.sleb128 15
+	.uleb128 0x49
+	.uleb128 0x13
+	.uleb128 0xd
+	.uleb128 0x21
+	.sleb128 1
+	.uleb128 0x6b
+	.uleb128 0xb
+	.byte	0
+	.byte	0
+	.uleb128 0x27
+	.uleb128 0x34
+	.byte	0
+	.uleb128 0x3
+	.uleb128 0xe
+	.uleb128 0x3a
+	.uleb128 0xb
+	.uleb128 0x3b
+	.uleb128 0xb
+	.uleb128 0x39
+	.uleb128 0x5
+	.uleb128 0x49
+	.uleb128 0x13
+	.uleb128 0x3f
+	.uleb128 0x19
+	.uleb128 0x3c
+	.uleb128 0x19
+	.byte	0
+	.byte	0
+	.uleb128 0x28
+	.uleb128 0x4
+	.byte	0x1
+	.uleb128 0x3
+	.uleb128 0xe
+	.uleb128 0x3e
+	.uleb128 0x21
+	.sleb128 7
+	.uleb128 0xb
+	.uleb128 0x21
+	.sleb128 4
+	.uleb128 0x49
+	.uleb128 0x13
+	.uleb128 0x3a
+	.uleb128 0x21
+	.sleb128 18
+	.uleb128 0x3b
+	.uleb128 0xb
+	.uleb128 0x39
+	.uleb128 0x21
+	.sleb128 6
+	.uleb128 0x1
+	.uleb128 0x13
+	.byte	0
+	.byte	0
+	.uleb128 0x29
+	.uleb128 0x2e
+	.byte	0
+	.uleb128 0x3f
+	.uleb128 0x19
+	.uleb128 0x3
+	.uleb128 0xe
+	.uleb128 0x3a
+	.uleb128 0xb
+	.uleb128 0x3b
+	.uleb128 0xb
+	.uleb128 0x39
+	.uleb128 0xb
+	.uleb128 0x27
+	.uleb128 0x19
+	.uleb128 0x49
+	.uleb128 0x13
+	.uleb128 0x3c
+	.uleb128 0x19
+	.byte	0
+	.byte	0
+	.uleb128 0x2a
+	.uleb128 0x2e
+	.byte	0
+	.uleb128 0x3f
+	.uleb128 0x19
+	.uleb128 0x3
+	.uleb128 0xe
+	.uleb128 0x3a
+	.uleb128 0x21
+	.sleb128 1
+	.uleb128 0x3b
+	.uleb128 0xb
+	.uleb128 0x39
+	.uleb128 0x21
+	.sleb128 7
+	.uleb128 0x27
+	.uleb128 0x19
+	.uleb128 0x49
+	.uleb128 0x13
+	.uleb128 0x11
+	.uleb128 0x1
+	.uleb128 0x12
+	.uleb128 0x7
+	.uleb128 0x40
+	.uleb128 0x18
+	.uleb128 0x7c
+	.uleb128 0x19
+	.byte	0
+	.byte	0
+	.uleb128 0x2b
+	.uleb128 0x17
+	.byte	0x1
+	.uleb128 0xb
+	.uleb128 0x21
+	.sleb128 8
+	.uleb128 0x3a
+	.uleb128 0xb
+	.uleb128 0x3b
+	.uleb128 0xb
+	.uleb128 0x39
+	.uleb128 0x21
+	.sleb128 2
+	.uleb128 0x1
+	.uleb128 0x13
+	.byte	0
+	.byte	0
+	.uleb128 0x2c
+	.uleb128 0xd
+	.byte	0
+	.uleb128 0x3
+	.uleb128 0xe
+	.uleb128 0x3a
+	.uleb128 0x21
+	.sleb128 12
+	.uleb128 0x3b
+	.uleb128 0xb
+	.uleb128 0x39
+	.uleb128 0xb
+	.uleb128 0x49
+	.uleb128 0x13
+	.byte	0
+	.byte	0
+	.uleb128 0x2d
+	.uleb128 0x16
+	.byte	0
+	.uleb128 0x3
+	.uleb128 0x8
+	.uleb128 0x3a
+	.uleb128 0x21
+	.sleb128 14
+	.uleb128 0x3b
+	.uleb128 0xb
+	.uleb128 0x39
+	.uleb128 0x21
+	.sleb128 22
+	.uleb128 0x49
+	.uleb128 0x13
+	.byte	0
+	.byte	0
+	.uleb128 0x2e
+	.uleb128 0x17
+	.byte	0x1
+	.uleb128 0x3
+	.uleb128 0xe
+	.uleb128 0xb
+	.uleb128 0xb
+	.uleb128 0x3a
+	.uleb128 0xb
+	.uleb128 0x3b
+	.uleb128 0x5
+	.uleb128 0x39
+	.uleb128 0x21
+	.sleb128 7
+	.uleb128 0x1
+	.uleb128 0x13
+	.byte	0
+	.byte	0
+	.uleb128 0x2f
+	.uleb128 0x2e
+	.byte	0x1
+	.uleb128 0x3f
+	.uleb128 0x19
+	.uleb128 0x3
+	.uleb128 0xe
+	.uleb128 0x3a
+	.uleb128 0x21
+	.sleb128 1
+	.uleb128 0x3b
+	.uleb128 0xb
+	.uleb128 0x39
+	.uleb128 0x21
+	.sleb128 1
+	.uleb128 0x27
+	.uleb128 0x19
+	.uleb128 0x11
+	.uleb128 0x1
+	.uleb128 0x12
+	.uleb128 0x7
+	.uleb128 0x40
+	.uleb128 0x18
+	.uleb128 0x7c
+	.uleb128 0x19
+	.uleb128 0x1
+	.uleb128 0x13
+	.byte	0
+	.byte	0
+	.uleb128 0x30
+	.uleb128 0x2e
+	.byte	0
+	.uleb128 0x3f
+	.uleb128 0x19
+	.uleb128 0x3
+	.uleb128 0xe
+	.uleb128 0x3a
+	.uleb128 0x21
+	.sleb128 1
+	.uleb128 0x3b
+	.uleb128 0xb
+	.uleb128 0x39
+	.uleb128 0x21
+	.sleb128 7
+	.uleb128 0x49
+	.uleb128 0x13
+	.uleb128 0x11
+	.uleb128 0x1
+	.uleb128 0x12
+	.uleb128 0x7
+	.uleb128 0x40
+	.uleb128 0x18
+	.uleb128 0x7c
+	.uleb128 0x19
+	.byte	0
+	.byte	0
+	.uleb128 0x31
+	.uleb128 0x11
+	.byte	0x1
+	.uleb128 0x25
+	.uleb128 0xe
+	.uleb128 0x13
+	.uleb128 0xb
+	.uleb128 0x3
+	.uleb128 0x1f
+	.uleb128 0x1b
+	.uleb128 0x1f
+	.uleb128 0x11
+	.uleb128 0x1
+	.uleb128 0x12
+	.uleb128 0x7
+	.uleb128 0x10
+	.uleb128 0x17
+	.byte	0
+	.byte	0
+	.uleb128 0x32
+	.uleb128 0x24
+	.byte	0
+	.uleb128 0xb
+	.uleb128 0xb
+	.uleb128 0x3e
+	.uleb128 0xb
+	.uleb128 0x3
+	.uleb128 0x8
+	.byte	0
+	.byte	0
+	.uleb128 0x33
+	.uleb128 0xf
+	.byte	0
+	.uleb128 0xb
+	.uleb128 0xb
+	.byte	0
+	.byte	0
+	.uleb128 0x34
+	.uleb128 0x13
+	.byte	0x1
+	.uleb128 0x3
+	.uleb128 0xe
+	.uleb128 0xb
+	.uleb128 0xb
+	.uleb128 0x3a
+	.uleb128 0xb
+	.uleb128 0x3b
+	.uleb128 0xb
+	.uleb128 0x1
+	.uleb128 0x13
+	.byte	0
+	.byte	0
+	.uleb128 0x35
+	.uleb128 0x16
+	.byte	0
+	.uleb128 0x3
+	.uleb128 0xe
+	.uleb128 0x3a
+	.uleb128 0xb
+	.uleb128 0x3b
+	.uleb128 0xb
+	.uleb128 0x39
+	.uleb128 0xb
+	.byte	0
+	.byte	0
+	.uleb128 0x36
+	.uleb128 0x17
+	.byte	0x1
+	.uleb128 0x3
+	.uleb128 0xe
+	.uleb128 0xb
+	.uleb128 0xb
+	.uleb128 0x3a
+	.uleb128 0xb
+	.uleb128 0x3b
+	.uleb128 0xb
+	.uleb128 0x39
+	.uleb128 0xb
+	.uleb128 0x1
+	.uleb128 0x13
+	.byte	0
+	.byte	0
+	.uleb128 0x37
+	.uleb128 0x13
+	.byte	0
+	.uleb128 0x3
+	.uleb128 0x8
+	.uleb128 0x3c
+	.uleb128 0x19
+	.byte	0
+	.byte	0
+	.uleb128 0x38
+	.uleb128 0x13
+	.byte	0x1
+	.uleb128 0x3
+	.uleb128 0x8
+	.uleb128 0xb
+	.uleb128 0x5
+	.uleb128 0x3a
+	.uleb128 0xb
+	.uleb128 0x3b
+	.uleb128 0xb
+	.uleb128 0x39
+	.uleb128 0xb
+	.uleb128 0x1
+	.uleb128 0x13
+	.byte	0
+	.byte	0
+	.uleb128 0x39
+	.uleb128 0x17
+	.byte	0
+	.uleb128 0x3
+	.uleb128 0xe
+	.uleb128 0x3c
+	.uleb128 0x19
+	.byte	0
+	.byte	0
+	.uleb128 0x3a
+	.uleb128 0x34
+	.byte	0
+	.uleb128 0x3
+	.uleb128 0xe
+	.uleb128 0x3a
+	.uleb128 0xb
+	.uleb128 0x3b
+	.uleb128 0xb
+	.uleb128 0x39
+	.uleb128 0xb
+	.uleb128 0x49
+	.uleb128 0x13
+	.uleb128 0x3f
+	.uleb128 0x19
+	.uleb128 0x3c
+	.uleb128 0x19
+	.byte	0
+	.byte	0
+	.uleb128 0x3b
+	.uleb128 0xd
+	.byte	0
+	.uleb128 0x3
+	.uleb128 0xe
+	.uleb128 0x3a
+	.uleb128 0xb
+	.uleb128 0x3b
+	.uleb128 0xb
+	.uleb128 0x39
+	.uleb128 0xb
+	.uleb128 0x49
+	.uleb128 0x13
+	.uleb128 0x38
+	.uleb128 0x5
+	.byte	0
+	.byte	0
+	.uleb128 0x3c
+	.uleb128 0x13
+	.byte	0x1
+	.uleb128 0xb
+	.uleb128 0xb
+	.uleb128 0x3a
+	.uleb128 0xb
+	.uleb128 0x3b
+	.uleb128 0xb
+	.uleb128 0x39
+	.uleb128 0xb
+	.uleb128 0x1
+	.uleb128 0x13
+	.byte	0
+	.byte	0
+	.uleb128 0x3d
+	.uleb128 0x2e
+	.byte	0x1
+	.uleb128 0x3f
+	.uleb128 0x19
+	.uleb128 0x3
+	.uleb128 0xe
+	.uleb128 0x3a
+	.uleb128 0xb
+	.uleb128 0x3b
+	.uleb128 0x5
+	.uleb128 0x39
+	.uleb128 0xb
+	.uleb128 0x27
+	.uleb128 0x19
+	.uleb128 0x3c
+	.uleb128 0x19
+	.uleb128 0x1
+	.uleb128 0x13
+	.byte	0
+	.byte	0
+	.uleb128 0x3e
+	.uleb128 0x2e
+	.byte	0x1
+	.uleb128 0x3f
+	.uleb128 0x19
+	.uleb128 0x3
+	.uleb128 0xe
+	.uleb128 0x3a
+	.uleb128 0xb
+	.uleb128 0x3b
+	.uleb128 0xb
+	.uleb128 0x39
+	.uleb128 0xb
+	.uleb128 0x49
+	.uleb128 0x13
+	.uleb128 0x11
+	.uleb128 0x1
+	.uleb128 0x12
+	.uleb128 0x7
+	.uleb128 0x40
+	.uleb128 0x18
+	.uleb128 0x7c
+	.uleb128 0x19
+	.uleb128 0x1
+	.uleb128 0x13
+	.byte	0
+	.byte	0
+	.uleb128 0x3f
+	.uleb128 0xb
+	.byte	0x1
+	.uleb128 0x11
+	.uleb128 0x1
+	.uleb128 0x12
+	.uleb128 0x7
+	.byte	0
+	.byte	0
+	.uleb128 0x40
+	.uleb128 0x2e
+	.byte	0x1
+	.uleb128 0x3
+	.uleb128 0xe
+	.uleb128 0x3a
+	.uleb128 0xb
+	.uleb128 0x3b
+	.uleb128 0xb
+	.uleb128 0x39
+	.uleb128 0xb
+	.uleb128 0x27
+	.uleb128 0x19
+	.uleb128 0x49
+	.uleb128 0x13
+	.uleb128 0x11
+	.uleb128 0x1
+	.uleb128 0x12
+	.uleb128 0x7
+	.uleb128 0x40
+	.uleb128 0x18
+	.uleb128 0x7c
+	.uleb128 0x19
+	.uleb128 0x1
+	.uleb128 0x13
+	.byte	0
+	.byte	0
+	.byte	0
+	.section	.debug_aranges,"",@progbits
+	.long	0x2c
+	.value	0x2
+	.long	.Ldebug_info0
+	.byte	0x8
+	.byte	0
+	.value	0
+	.value	0
+	.quad	.Ltext0
+	.quad	.Letext0-.Ltext0
+	.quad	0
+	.quad	0
+	.section	.debug_line,"",@progbits
+.Ldebug_line0:
+	.section	.debug_str,"MS",@progbits,1
+.LASF283:
+	.string	"foamCProg"
+.LASF435:
+	.string	"TFormListCons"
+.LASF528:
+	.string	"AB_Sequence"
+.LASF492:
+	.string	"AB_Fix"
+.LASF47:
+	.string	"_unused2"
+.LASF33:
+	.string	"_fileno"
+.LASF378:
+	.string	"ExpInfo"
+.LASF520:
+	.string	"AB_Qualify"
+.LASF642:
+	.string	"field"
+.LASF165:
+	.string	"abLocal"
+.LASF177:
+	.string	"abRaise"
+.LASF466:
+	.string	"AB_LitInteger"
+.LASF303:
+	.string	"foamRRNew"
+.LASF123:
+	.string	"abDocText"
+.LASF420:
+	.string	"ContainsAllq"
+.LASF298:
+	.string	"foamIf"
+.LASF76:
+	.string	"OstWriteStringFn"
+.LASF147:
+	.string	"abFix"
+.LASF180:
+	.string	"abRestrictTo"
+.LASF173:
+	.string	"abParen"
+.LASF720:
+	.string	"abNormal"
+.LASF329:
+	.string	"intLoaded"
+.LASF308:
+	.string	"foamCCall"
+.LASF746:
+	.string	"Boolean_txt"
+.LASF762:
+	.string	"emptyAdd"
+.LASF133:
+	.string	"abBuiltin"
+.LASF38:
+	.string	"_shortbuf"
+.LASF695:
+	.string	"ncafter"
+.LASF605:
+	.string	"fuses"
+.LASF525:
+	.string	"AB_RestrictTo"
+.LASF75:
+	.string	"OstWriteCharFn"
+.LASF651:
+	.string	"StringListCons"
+.LASF107:
+	.string	"sysCmdHandled"
+.LASF758:
+	.string	"theLambda"
+.LASF80:
+	.string	"writeStringFn"
+.LASF735:
+	.string	"tfqTypeInferFails"
+.LASF119:
+	.string	"abGen"
+.LASF404:
+	.string	"LastCons"
+.LASF649:
+	.string	"place"
+.LASF176:
+	.string	"abQualify"
+.LASF287:
+	.string	"foamEInfo"
+.LASF686:
+	.string	"extendees"
+.LASF388:
+	.string	"SrcLineList"
+.LASF318:
+	.string	"foamKill"
+.LASF429:
+	.string	"TokenList"
+.LASF111:
+	.string	"symbol"
+.LASF244:
+	.string	"tqual"
+.LASF495:
+	.string	"AB_ForeignImport"
+.LASF601:
+	.string	"defNo"
+.LASF322:
+	.string	"foamCatch"
+.LASF16:
+	.string	"overflow_arg_area"
+.LASF500:
+	.string	"AB_Has"
+.LASF19:
+	.string	"_flags"
+.LASF456:
+	.string	"AB_START"
+.LASF453:
+	.string	"next"
+.LASF656:
+	.string	"length"
+.LASF17:
+	.string	"reg_save_area"
+.LASF266:
+	.string	"foamDDecl"
+.LASF146:
+	.string	"abExtend"
+.LASF9:
+	.string	"__off_t"
+.LASF347:
+	.string	"unitb"
+.LASF212:
+	.string	"ownSyntax"
+.LASF468:
+	.string	"AB_LitString"
+.LASF670:
+	.string	"tfCond"
+.LASF557:
+	.string	"AB_State_HasPoss"
+.LASF354:
+	.string	"StabLevel"
+.LASF639:
+	.string	"usage"
+.LASF660:
+	.string	"verMinor"
+.LASF553:
+	.string	"AB_Use_LIMIT"
+.LASF417:
+	.string	"NConcat"
+.LASF694:
+	.string	"ncbefore"
+.LASF155:
+	.string	"abHas"
+.LASF39:
+	.string	"_lock"
+.LASF749:
+	.string	"Union_txt"
+.LASF197:
+	.string	"FreeVar"
+.LASF218:
+	.string	"intStepNo"
+.LASF261:
+	.string	"foamRRec"
+.LASF274:
+	.string	"foamLex"
+.LASF607:
+	.string	"mark"
+.LASF494:
+	.string	"AB_For"
+.LASF78:
+	.string	"ostreamOps"
+.LASF497:
+	.string	"AB_Free"
+.LASF678:
+	.string	"isExplicitImport"
+.LASF306:
+	.string	"foamPCall"
+.LASF775:
+	.string	"define"
+.LASF401:
+	.string	"FreeDeeplyTo"
+.LASF159:
+	.string	"abImport"
+.LASF669:
+	.string	"TfCondEltList"
+.LASF84:
+	.string	"fileName"
+.LASF668:
+	.string	"TfCondEltListCons"
+.LASF370:
+	.string	"Stab"
+.LASF316:
+	.string	"foamValues"
+.LASF149:
+	.string	"abFor"
+.LASF280:
+	.string	"foamPRef"
+.LASF496:
+	.string	"AB_ForeignExport"
+.LASF561:
+	.string	"AbEmbed"
+.LASF232:
+	.string	"queries"
+.LASF663:
+	.string	"Index"
+.LASF390:
+	.string	"Cons"
+.LASF628:
+	.string	"infoBits"
+.LASF238:
+	.string	"libNum"
+.LASF620:
+	.string	"baseType"
+.LASF704:
+	.string	"testIsNull"
+.LASF118:
+	.string	"abHdr"
+.LASF594:
+	.string	"alternatives"
+.LASF547:
+	.string	"AB_Use_RetValue"
+.LASF666:
+	.string	"known"
+.LASF25:
+	.string	"_IO_write_end"
+.LASF636:
+	.string	"prog"
+.LASF327:
+	.string	"rdOnly"
+.LASF156:
+	.string	"abHide"
+.LASF690:
+	.string	"nbefore"
+.LASF784:
+	.string	"__va_list_tag"
+.LASF687:
+	.string	"declarees"
+.LASF264:
+	.string	"foamDecl"
+.LASF469:
+	.string	"AB_STR_LIMIT"
+.LASF698:
+	.string	"inDegree"
+.LASF110:
+	.string	"Symbol"
+.LASF286:
+	.string	"foamEEnsure"
+.LASF543:
+	.string	"AB_Use_Label"
+.LASF640:
+	.string	"index"
+.LASF371:
+	.string	"StabLevelListCons"
+.LASF328:
+	.string	"isOutput"
+.LASF626:
+	.string	"nLabels"
+.LASF60:
+	.string	"Length"
+.LASF712:
+	.string	"typeInfer"
+.LASF586:
+	.string	"dest"
+.LASF773:
+	.string	"with"
+.LASF355:
+	.string	"stabLevel"
+.LASF128:
+	.string	"abAnd"
+.LASF409:
+	.string	"Copy"
+.LASF243:
+	.string	"TQual"
+.LASF667:
+	.string	"TfCondElt"
+.LASF672:
+	.string	"TfCond"
+.LASF556:
+	.string	"AB_State_AbSyn"
+.LASF552:
+	.string	"AB_Use_Elided"
+.LASF433:
+	.string	"SrcLine_listPointer"
+.LASF145:
+	.string	"abExport"
+.LASF498:
+	.string	"AB_Generate"
+.LASF545:
+	.string	"AB_Use_Define"
+.LASF539:
+	.string	"abSynTag"
+.LASF692:
+	.string	"cdependents"
+.LASF346:
+	.string	"constp"
+.LASF747:
+	.string	"Join_txt"
+.LASF231:
+	.string	"consts"
+.LASF345:
+	.string	"constv"
+.LASF310:
+	.string	"foamCFCall"
+.LASF602:
+	.string	"defList"
+.LASF422:
+	.string	"Position"
+.LASF571:
+	.string	"seman"
+.LASF633:
+	.string	"locals"
+.LASF289:
+	.string	"foamRElt"
+.LASF113:
+	.string	"token"
+.LASF461:
+	.string	"AB_SYM_LIMIT"
+.LASF565:
+	.string	"implicit"
+.LASF440:
+	.string	"TQualList"
+.LASF205:
+	.string	"type"
+.LASF295:
+	.string	"foamUnimp"
+.LASF756:
+	.string	"abqParse"
+.LASF644:
+	.string	"eltType"
+.LASF386:
+	.string	"SymbolList"
+.LASF709:
+	.string	"testIntEqual"
+.LASF385:
+	.string	"SymbolListCons"
+.LASF229:
+	.string	"domImports"
+.LASF731:
+	.string	"symesForString"
+.LASF566:
+	.string	"embed"
+.LASF93:
+	.string	"Table"
+.LASF162:
+	.string	"abLabel"
+.LASF32:
+	.string	"_chain"
+.LASF333:
+	.string	"topc"
+.LASF97:
+	.string	"info"
+.LASF443:
+	.string	"SymeListCons"
+.LASF330:
+	.string	"idName"
+.LASF144:
+	.string	"abExit"
+.LASF745:
+	.string	"Map_txt"
+.LASF268:
+	.string	"foamDEnv"
+.LASF448:
+	.string	"TblKey"
+.LASF258:
+	.string	"foamArb"
+.LASF2:
+	.string	"unsigned char"
+.LASF259:
+	.string	"foamArr"
+.LASF564:
+	.string	"defnIdx"
+.LASF766:
+	.string	"pretend"
+.LASF785:
+	.string	"_IO_lock_t"
+.LASF81:
+	.string	"closeFn"
+.LASF12:
+	.string	"float"
+.LASF470:
+	.string	"AB_NODE_START"
+.LASF273:
+	.string	"foamLoc"
+.LASF105:
+	.string	"indentation"
+.LASF664:
+	.string	"tfCondElt"
+.LASF206:
+	.string	"locmask"
+.LASF585:
+	.string	"whole"
+.LASF710:
+	.string	"comsgErrorCount"
+.LASF67:
+	.string	"MostAlignedType"
+.LASF290:
+	.string	"foamRRElt"
+.LASF533:
+	.string	"AB_While"
+.LASF604:
+	.string	"invInfo"
+.LASF383:
+	.string	"FoamUses"
+.LASF59:
+	.string	"Hash"
+.LASF489:
+	.string	"AB_Exit"
+.LASF446:
+	.string	"UdInfoList"
+.LASF265:
+	.string	"foamGDecl"
+.LASF657:
+	.string	"libHdr"
+.LASF234:
+	.string	"conditions"
+.LASF91:
+	.string	"SrcPosStack"
+.LASF740:
+	.string	"Type_txt"
+.LASF451:
+	.string	"TblEqFun"
+.LASF597:
+	.string	"within"
+.LASF526:
+	.string	"AB_Return"
+.LASF717:
+	.string	"strFree"
+.LASF501:
+	.string	"AB_Hide"
+.LASF92:
+	.string	"stack"
+.LASF645:
+	.string	"clos"
+.LASF410:
+	.string	"CopyTo"
+.LASF240:
+	.string	"tposs"
+.LASF381:
+	.string	"_InvInfo"
+.LASF256:
+	.string	"foamDFlo"
+.LASF275:
+	.string	"foamGlo"
+.LASF397:
+	.string	"FreeCons"
+.LASF567:
+	.string	"impl"
+.LASF182:
+	.string	"abReturn"
+.LASF152:
+	.string	"abFree"
+.LASF228:
+	.string	"thdExports"
+.LASF24:
+	.string	"_IO_write_ptr"
+.LASF281:
+	.string	"foamLabel"
+.LASF282:
+	.string	"foamPtr"
+.LASF728:
+	.string	"sefo"
+.LASF707:
+	.string	"stabGetMeanings"
+.LASF706:
+	.string	"ablogTrue"
+.LASF415:
+	.string	"NReverse"
+.LASF269:
+	.string	"foamDFmt"
+.LASF368:
+	.string	"extendSymes"
+.LASF270:
+	.string	"foamDef"
+.LASF589:
+	.string	"elseAlt"
+.LASF600:
+	.string	"lazy"
+.LASF574:
+	.string	"test"
+.LASF317:
+	.string	"foamUnit"
+.LASF551:
+	.string	"AB_Use_Except"
+.LASF674:
+	.string	"names"
+.LASF311:
+	.string	"foamOFCall"
+.LASF374:
+	.string	"optInfo"
+.LASF230:
+	.string	"domExportNames"
+.LASF638:
+	.string	"symeIndex"
+.LASF544:
+	.string	"AB_Use_Assign"
+.LASF524:
+	.string	"AB_Repeat"
+.LASF215:
+	.string	"hasSelfSelf"
+.LASF227:
+	.string	"catExports"
+.LASF629:
+	.string	"size"
+.LASF139:
+	.string	"abDefine"
+.LASF99:
+	.string	"buckc"
+.LASF48:
+	.string	"FILE"
+.LASF137:
+	.string	"abComma"
+.LASF721:
+	.string	"parse"
+.LASF178:
+	.string	"abReference"
+.LASF555:
+	.string	"ab_state"
+.LASF621:
+	.string	"eltv"
+.LASF100:
+	.string	"buckv"
+.LASF352:
+	.string	"ArEntry"
+.LASF627:
+	.string	"retType"
+.LASF723:
+	.string	"scan"
+.LASF683:
+	.string	"imports"
+.LASF250:
+	.string	"foamBool"
+.LASF242:
+	.string	"tconst"
+.LASF18:
+	.string	"size_t"
+.LASF562:
+	.string	"abSeman"
+.LASF248:
+	.string	"foamNil"
+.LASF708:
+	.string	"tiGetTForm"
+.LASF90:
+	.string	"rest"
+.LASF312:
+	.string	"foamPushEnv"
+.LASF104:
+	.string	"srcLine"
+.LASF511:
+	.string	"AB_MDefine"
+.LASF393:
+	.string	"Listv"
+.LASF579:
+	.string	"iterv"
+.LASF767:
+	.string	"qualify"
+.LASF377:
+	.string	"_UdInfo"
+.LASF464:
+	.string	"AB_DOC_LIMIT"
+.LASF590:
+	.string	"param"
+.LASF245:
+	.string	"Foam"
+.LASF637:
+	.string	"protocol"
+.LASF181:
+	.string	"abRetractTo"
+.LASF521:
+	.string	"AB_Quote"
+.LASF482:
+	.string	"AB_Default"
+.LASF353:
+	.string	"ar_entry"
+.LASF28:
+	.string	"_IO_save_base"
+.LASF315:
+	.string	"foamRRFmt"
+.LASF467:
+	.string	"AB_LitFloat"
+.LASF548:
+	.string	"AB_Use_NoValue"
+.LASF233:
+	.string	"cascades"
+.LASF486:
+	.string	"AB_Do"
+.LASF693:
+	.string	"cdependees"
+.LASF755:
+	.string	"indent"
+.LASF783:
+	.string	"GNU C99 12.2.0 -mtune=generic -march=x86-64 -g -O0 -std=c99 -fasynchronous-unwind-tables"
+.LASF753:
+	.string	"abqParseLinesAsSeq"
+.LASF372:
+	.string	"first"
+.LASF399:
+	.string	"FreeTo"
+.LASF262:
+	.string	"foamProg"
+.LASF408:
+	.string	"IsLonger"
+.LASF680:
+	.string	"isCategoryImport"
+.LASF251:
+	.string	"foamByte"
+.LASF86:
+	.string	"SrcPos"
+.LASF331:
+	.string	"file"
+.LASF615:
+	.string	"HIntData"
+.LASF109:
+	.string	"text"
+.LASF610:
+	.string	"code"
+.LASF42:
+	.string	"_wide_data"
+.LASF239:
+	.string	"TPoss"
+.LASF167:
+	.string	"abMDefine"
+.LASF665:
+	.string	"list"
+.LASF323:
+	.string	"foamProtect"
+.LASF662:
+	.string	"Section"
+.LASF138:
+	.string	"abDefault"
+.LASF272:
+	.string	"foamPar"
+.LASF732:
+	.string	"nErrors"
+.LASF201:
+	.string	"fieldc"
+.LASF241:
+	.string	"TConst"
+.LASF363:
+	.string	"idsInScope"
+.LASF209:
+	.string	"fieldv"
+.LASF527:
+	.string	"AB_Select"
+.LASF714:
+	.string	"abPrintDb"
+.LASF499:
+	.string	"AB_Goto"
+.LASF452:
+	.string	"TblSlot"
+.LASF581:
+	.string	"value"
+.LASF384:
+	.string	"foamuses_struct"
+.LASF70:
+	.string	"OStreamPutFun"
+.LASF632:
+	.string	"params"
+.LASF471:
+	.string	"AB_Add"
+.LASF357:
+	.string	"lambdaLevel"
+.LASF577:
+	.string	"expr"
+.LASF360:
+	.string	"isChecked"
+.LASF407:
+	.string	"IsShorter"
+.LASF522:
+	.string	"AB_Raise"
+.LASF484:
+	.string	"AB_DDefine"
+.LASF217:
+	.string	"__absyn"
+.LASF772:
+	.string	"apply1"
+.LASF771:
+	.string	"apply2"
+.LASF291:
+	.string	"foamIRElt"
+.LASF364:
+	.string	"labelsInScope"
+.LASF646:
+	.string	"retFmt"
+.LASF192:
+	.string	"AbSub"
+.LASF120:
+	.string	"abBlank"
+.LASF699:
+	.string	"cmarked"
+.LASF614:
+	.string	"ByteData"
+.LASF389:
+	.string	"SrcLine_listOpsStruct"
+.LASF211:
+	.string	"tform"
+.LASF127:
+	.string	"abAdd"
+.LASF517:
+	.string	"AB_Paren"
+.LASF458:
+	.string	"AB_Id"
+.LASF502:
+	.string	"AB_If"
+.LASF558:
+	.string	"AB_State_HasUnique"
+.LASF689:
+	.string	"dependees"
+.LASF754:
+	.string	"line"
+.LASF781:
+	.string	"sequence1"
+.LASF780:
+	.string	"sequence2"
+.LASF382:
+	.string	"SImpl"
+.LASF518:
+	.string	"AB_PLambda"
+.LASF724:
+	.string	"slineNew"
+.LASF193:
+	.string	"abSub"
+.LASF184:
+	.string	"abSequence"
+.LASF198:
+	.string	"fvar"
+.LASF598:
+	.string	"pure"
+.LASF505:
+	.string	"AB_Iterate"
+.LASF114:
+	.string	"extra"
+.LASF351:
+	.string	"macros"
+.LASF190:
+	.string	"abYield"
+.LASF421:
+	.string	"Posq"
+.LASF140:
+	.string	"abDDefine"
+.LASF129:
+	.string	"abApply"
+.LASF653:
+	.string	"String_listOpsStruct"
+.LASF56:
+	.string	"AInt"
+.LASF641:
+	.string	"level"
+.LASF752:
+	.string	"result"
+.LASF367:
+	.string	"boundSymes"
+.LASF325:
+	.string	"name"
+.LASF787:
+	.string	"abqParseSrcLines"
+.LASF125:
+	.string	"abLitString"
+.LASF343:
+	.string	"typeb"
+.LASF339:
+	.string	"typec"
+.LASF673:
+	.string	"SymeSet"
+.LASF474:
+	.string	"AB_Assert"
+.LASF30:
+	.string	"_IO_save_end"
+.LASF406:
+	.string	"IsLength"
+.LASF342:
+	.string	"typep"
+.LASF341:
+	.string	"types"
+.LASF340:
+	.string	"typev"
+.LASF102:
+	.string	"bint"
+.LASF536:
+	.string	"AB_NODE_LIMIT"
+.LASF349:
+	.string	"unit"
+.LASF154:
+	.string	"abGoto"
+.LASF301:
+	.string	"foamANew"
+.LASF591:
+	.string	"rtype"
+.LASF15:
+	.string	"fp_offset"
+.LASF701:
+	.string	"TFormUsesListCons"
+.LASF725:
+	.string	"abCopy"
+.LASF546:
+	.string	"AB_Use_Value"
+.LASF14:
+	.string	"gp_offset"
+.LASF542:
+	.string	"AB_Use_Type"
+.LASF596:
+	.string	"always"
+.LASF174:
+	.string	"abPLambda"
+.LASF616:
+	.string	"SIntData"
+.LASF132:
+	.string	"abBreak"
+.LASF115:
+	.string	"AbSyn"
+.LASF223:
+	.string	"selfself"
+.LASF726:
+	.string	"symProbe"
+.LASF257:
+	.string	"foamWord"
+.LASF588:
+	.string	"thenAlt"
+.LASF161:
+	.string	"abIterate"
+.LASF195:
+	.string	"abLogic"
+.LASF186:
+	.string	"abTry"
+.LASF255:
+	.string	"foamSFlo"
+.LASF719:
+	.string	"macroExpand"
+.LASF236:
+	.string	"__mark"
+.LASF3:
+	.string	"short unsigned int"
+.LASF369:
+	.string	"exportedTypes"
+.LASF6:
+	.string	"signed char"
+.LASF164:
+	.string	"abLet"
+.LASF73:
+	.string	"ostream"
+.LASF263:
+	.string	"foamClos"
+.LASF786:
+	.string	"_SImpl"
+.LASF117:
+	.string	"abSyn"
+.LASF305:
+	.string	"foamCast"
+.LASF285:
+	.string	"foamLoose"
+.LASF179:
+	.string	"abRepeat"
+.LASF64:
+	.string	"CString"
+.LASF748:
+	.string	"Record_txt"
+.LASF439:
+	.string	"TQualListCons"
+.LASF697:
+	.string	"outEdges"
+.LASF98:
+	.string	"count"
+.LASF252:
+	.string	"foamHInt"
+.LASF187:
+	.string	"abWhere"
+.LASF684:
+	.string	"inlines"
+.LASF437:
+	.string	"TConstListCons"
+.LASF54:
+	.string	"UShort"
+.LASF764:
+	.string	"elsePart"
+.LASF148:
+	.string	"abFluid"
+.LASF444:
+	.string	"SymeList"
+.LASF483:
+	.string	"AB_Define"
+.LASF10:
+	.string	"__off64_t"
+.LASF208:
+	.string	"full"
+.LASF210:
+	.string	"TForm"
+.LASF402:
+	.string	"FreeIfSat"
+.LASF436:
+	.string	"TFormList"
+.LASF22:
+	.string	"_IO_read_base"
+.LASF278:
+	.string	"foamEnv"
+.LASF40:
+	.string	"_offset"
+.LASF82:
+	.string	"OStreamOps"
+.LASF516:
+	.string	"AB_Or"
+.LASF675:
+	.string	"TFormUses"
+.LASF213:
+	.string	"state"
+.LASF27:
+	.string	"_IO_buf_end"
+.LASF424:
+	.string	"FillVector"
+.LASF655:
+	.string	"libSect"
+.LASF380:
+	.string	"InvInfo"
+.LASF759:
+	.string	"theDefine"
+.LASF573:
+	.string	"capsule"
+.LASF537:
+	.string	"AB_LIMIT"
+.LASF46:
+	.string	"_mode"
+.LASF23:
+	.string	"_IO_write_base"
+.LASF677:
+	.string	"isImported"
+.LASF770:
+	.string	"lambda"
+.LASF584:
+	.string	"function"
+.LASF563:
+	.string	"comment"
+.LASF711:
+	.string	"testTrue"
+.LASF449:
+	.string	"TblElt"
+.LASF472:
+	.string	"AB_And"
+.LASF214:
+	.string	"hasSelf"
+.LASF203:
+	.string	"bits"
+.LASF630:
+	.string	"time"
+.LASF765:
+	.string	"restrictTo"
+.LASF224:
+	.string	"parents"
+.LASF87:
+	.string	"SrcPosCell"
+.LASF635:
+	.string	"levels"
+.LASF196:
+	.string	"fake"
+.LASF247:
+	.string	"foamGen"
+.LASF8:
+	.string	"long int"
+.LASF716:
+	.string	"abNewOfList"
+.LASF549:
+	.string	"AB_Use_Iterator"
+.LASF394:
+	.string	"ListNull"
+.LASF554:
+	.string	"AbUse"
+.LASF622:
+	.string	"format"
+.LASF49:
+	.string	"_IO_marker"
+.LASF313:
+	.string	"foamPopEnv"
+.LASF88:
+	.string	"sposCell"
+.LASF625:
+	.string	"endOffset"
+.LASF412:
+	.string	"CopyDeeplyTo"
+.LASF216:
+	.string	"hasCascades"
+.LASF595:
+	.string	"cond"
+.LASF431:
+	.string	"AbSynList"
+.LASF739:
+	.string	"stdtypes"
+.LASF661:
+	.string	"numSect"
+.LASF575:
+	.string	"label"
+.LASF592:
+	.string	"context"
+.LASF277:
+	.string	"foamConst"
+.LASF465:
+	.string	"AB_STR_START"
+.LASF183:
+	.string	"abSelect"
+.LASF376:
+	.string	"UdInfo"
+.LASF276:
+	.string	"foamFluid"
+.LASF373:
+	.string	"OptInfo"
+.LASF504:
+	.string	"AB_Inline"
+.LASF703:
+	.string	"tiSefo"
+.LASF50:
+	.string	"_IO_codecvt"
+.LASF189:
+	.string	"abWith"
+.LASF570:
+	.string	"unique"
+.LASF454:
+	.string	"Symbol_TSet"
+.LASF540:
+	.string	"ab_use"
+.LASF304:
+	.string	"foamTRNew"
+.LASF682:
+	.string	"exports"
+.LASF696:
+	.string	"sortMark"
+.LASF83:
+	.string	"FileName"
+.LASF738:
+	.string	"lines"
+.LASF506:
+	.string	"AB_Label"
+.LASF314:
+	.string	"foamMFmt"
+.LASF63:
+	.string	"String"
+.LASF254:
+	.string	"foamBInt"
+.LASF568:
+	.string	"AbSeman"
+.LASF5:
+	.string	"long unsigned int"
+.LASF432:
+	.string	"AbSyn_listOpsStruct"
+.LASF103:
+	.string	"SrcLine"
+.LASF530:
+	.string	"AB_Try"
+.LASF58:
+	.string	"Bool"
+.LASF200:
+	.string	"syme"
+.LASF260:
+	.string	"foamRec"
+.LASF608:
+	.string	"dvMark"
+.LASF400:
+	.string	"FreeDeeply"
+.LASF11:
+	.string	"char"
+.LASF534:
+	.string	"AB_With"
+.LASF510:
+	.string	"AB_Macro"
+.LASF85:
+	.string	"partv"
+.LASF319:
+	.string	"foamFree"
+.LASF457:
+	.string	"AB_SYM_START"
+.LASF763:
+	.string	"thenPart"
+.LASF508:
+	.string	"AB_Let"
+.LASF293:
+	.string	"foamEElt"
+.LASF434:
+	.string	"AbSyn_listPointer"
+.LASF676:
+	.string	"tformUses"
+.LASF94:
+	.string	"table"
+.LASF652:
+	.string	"StringList"
+.LASF750:
+	.string	"Enumeration_txt"
+.LASF580:
+	.string	"except"
+.LASF450:
+	.string	"TblHashFun"
+.LASF26:
+	.string	"_IO_buf_base"
+.LASF606:
+	.string	"foamHdr"
+.LASF619:
+	.string	"DFloData"
+.LASF350:
+	.string	"formats"
+.LASF488:
+	.string	"AB_Except"
+.LASF21:
+	.string	"_IO_read_end"
+.LASF294:
+	.string	"foamBVal"
+.LASF55:
+	.string	"ULong"
+.LASF718:
+	.string	"strConcat"
+.LASF603:
+	.string	"expInfo"
+.LASF204:
+	.string	"hash"
+.LASF72:
+	.string	"_IO_FILE"
+.LASF427:
+	.string	"Format"
+.LASF96:
+	.string	"eqFun"
+.LASF51:
+	.string	"_IO_wide_data"
+.LASF700:
+	.string	"crep"
+.LASF366:
+	.string	"tformsUnused"
+.LASF455:
+	.string	"SymbolTSet"
+.LASF302:
+	.string	"foamRNew"
+.LASF654:
+	.string	"String_listPointer"
+.LASF611:
+	.string	"sfloat"
+.LASF613:
+	.string	"BoolData"
+.LASF713:
+	.string	"scopeBind"
+.LASF130:
+	.string	"abAssert"
+.LASF69:
+	.string	"buffer"
+.LASF222:
+	.string	"self"
+.LASF279:
+	.string	"foamEEnv"
+.LASF79:
+	.string	"writeCharFn"
+.LASF398:
+	.string	"Free"
+.LASF169:
+	.string	"abNever"
+.LASF751:
+	.string	"abqParseLines"
+.LASF57:
+	.string	"UAInt"
+.LASF307:
+	.string	"foamBCall"
+.LASF778:
+	.string	"nothing"
+.LASF65:
+	.string	"SFloat"
+.LASF428:
+	.string	"TokenListCons"
+.LASF235:
+	.string	"sigma"
+.LASF379:
+	.string	"_ExpInfo"
+.LASF141:
+	.string	"abDo"
+.LASF515:
+	.string	"AB_Nothing"
+.LASF324:
+	.string	"foamReturn"
+.LASF727:
+	.string	"abNew"
+.LASF599:
+	.string	"fixed"
+.LASF121:
+	.string	"abId"
+.LASF112:
+	.string	"Token"
+.LASF158:
+	.string	"abIf"
+.LASF757:
+	.string	"defineUnary"
+.LASF45:
+	.string	"__pad5"
+.LASF478:
+	.string	"AB_CoerceTo"
+.LASF31:
+	.string	"_markers"
+.LASF191:
+	.string	"Sefo"
+.LASF559:
+	.string	"AB_State_Error"
+.LASF284:
+	.string	"foamCEnv"
+.LASF702:
+	.string	"TFormUsesList"
+.LASF288:
+	.string	"foamAElt"
+.LASF358:
+	.string	"serialNo"
+.LASF66:
+	.string	"DFloat"
+.LASF729:
+	.string	"uniqueMeaning"
+.LASF782:
+	.string	"sequence0"
+.LASF337:
+	.string	"codev"
+.LASF362:
+	.string	"children"
+.LASF576:
+	.string	"what"
+.LASF41:
+	.string	"_codecvt"
+.LASF13:
+	.string	"double"
+.LASF299:
+	.string	"foamSeq"
+.LASF297:
+	.string	"foamSet"
+.LASF219:
+	.string	"argc"
+.LASF658:
+	.string	"magic"
+.LASF513:
+	.string	"AB_Never"
+.LASF650:
+	.string	"after"
+.LASF344:
+	.string	"constc"
+.LASF171:
+	.string	"abNothing"
+.LASF220:
+	.string	"argv"
+.LASF480:
+	.string	"AB_Comma"
+.LASF135:
+	.string	"abCoerceTo"
+.LASF612:
+	.string	"CharData"
+.LASF679:
+	.string	"isParamImport"
+.LASF736:
+	.string	"stdscope"
+.LASF634:
+	.string	"fluids"
+.LASF475:
+	.string	"AB_Assign"
+.LASF74:
+	.string	"data"
+.LASF733:
+	.string	"tfqTypeInfer"
+.LASF743:
+	.string	"Cross_txt"
+.LASF185:
+	.string	"abTest"
+.LASF777:
+	.string	"comma1"
+.LASF776:
+	.string	"comma2"
+.LASF309:
+	.string	"foamOCall"
+.LASF116:
+	.string	"sposStack"
+.LASF199:
+	.string	"Syme"
+.LASF246:
+	.string	"foam"
+.LASF671:
+	.string	"containsEmpty"
+.LASF150:
+	.string	"abForeignImport"
+.LASF68:
+	.string	"Buffer"
+.LASF445:
+	.string	"UdInfoListCons"
+.LASF426:
+	.string	"GPrint"
+.LASF572:
+	.string	"base"
+.LASF108:
+	.string	"isEndifLine"
+.LASF681:
+	.string	"isCatConditionImport"
+.LASF163:
+	.string	"abLambda"
+.LASF479:
+	.string	"AB_Collect"
+.LASF550:
+	.string	"AB_Use_Default"
+.LASF77:
+	.string	"OstCloseFn"
+.LASF715:
+	.string	"abPutUse"
+.LASF106:
+	.string	"isSysCmd"
+.LASF326:
+	.string	"arent"
+.LASF356:
+	.string	"lexicalLevel"
+.LASF617:
+	.string	"BIntData"
+.LASF62:
+	.string	"Pointer"
+.LASF647:
+	.string	"argsPtr"
+.LASF730:
+	.string	"absyn"
+.LASF587:
+	.string	"property"
+.LASF267:
+	.string	"foamDFluid"
+.LASF44:
+	.string	"_freeres_buf"
+.LASF529:
+	.string	"AB_Test"
+.LASF153:
+	.string	"abGenerate"
+.LASF89:
+	.string	"spos"
+.LASF512:
+	.string	"AB_MLambda"
+.LASF541:
+	.string	"AB_Use_Declaration"
+.LASF194:
+	.string	"AbLogic"
+.LASF172:
+	.string	"abOr"
+.LASF332:
+	.string	"offset"
+.LASF659:
+	.string	"verMajor"
+.LASF36:
+	.string	"_cur_column"
+.LASF705:
+	.string	"stabFile"
+.LASF188:
+	.string	"abWhile"
+.LASF202:
+	.string	"kind"
+.LASF685:
+	.string	"extension"
+.LASF320:
+	.string	"foamGoto"
+.LASF462:
+	.string	"AB_DOC_START"
+.LASF160:
+	.string	"abInline"
+.LASF414:
+	.string	"Reverse"
+.LASF126:
+	.string	"abLitFloat"
+.LASF166:
+	.string	"abMacro"
+.LASF507:
+	.string	"AB_Lambda"
+.LASF441:
+	.string	"StabListCons"
+.LASF253:
+	.string	"foamSInt"
+.LASF136:
+	.string	"abCollect"
+.LASF531:
+	.string	"AB_Unit"
+.LASF761:
+	.string	"emptyWith"
+.LASF491:
+	.string	"AB_Extend"
+.LASF734:
+	.string	"tfqTypeForm"
+.LASF29:
+	.string	"_IO_backup_base"
+.LASF416:
+	.string	"Concat"
+.LASF20:
+	.string	"_IO_read_ptr"
+.LASF300:
+	.string	"foamSelect"
+.LASF737:
+	.string	"B_imp"
+.LASF151:
+	.string	"abForeignExport"
+.LASF207:
+	.string	"hasmask"
+.LASF122:
+	.string	"abIdSy"
+.LASF43:
+	.string	"_freeres_list"
+.LASF514:
+	.string	"AB_Not"
+.LASF175:
+	.string	"abPretendTo"
+.LASF460:
+	.string	"AB_Blank"
+.LASF95:
+	.string	"hashFun"
+.LASF168:
+	.string	"abMLambda"
+.LASF538:
+	.string	"AbSynTag"
+.LASF425:
+	.string	"Print"
+.LASF774:
+	.string	"declare"
+.LASF623:
+	.string	"nargs"
+.LASF624:
+	.string	"values"
+.LASF405:
+	.string	"_Length"
+.LASF35:
+	.string	"_old_offset"
+.LASF292:
+	.string	"foamTRElt"
+.LASF768:
+	.string	"import"
+.LASF519:
+	.string	"AB_PretendTo"
+.LASF509:
+	.string	"AB_Local"
+.LASF481:
+	.string	"AB_Declare"
+.LASF334:
+	.string	"symec"
+.LASF438:
+	.string	"TConstList"
+.LASF170:
+	.string	"abNot"
+.LASF336:
+	.string	"symep"
+.LASF225:
+	.string	"symes"
+.LASF335:
+	.string	"symev"
+.LASF52:
+	.string	"long long int"
+.LASF503:
+	.string	"AB_Import"
+.LASF321:
+	.string	"foamThrow"
+.LASF395:
+	.string	"Equal"
+.LASF34:
+	.string	"_flags2"
+.LASF744:
+	.string	"Generator_txt"
+.LASF459:
+	.string	"AB_IdSy"
+.LASF618:
+	.string	"SFloData"
+.LASF157:
+	.string	"abHook"
+.LASF375:
+	.string	"SefoMark"
+.LASF769:
+	.string	"_if0"
+.LASF143:
+	.string	"abExcept"
+.LASF142:
+	.string	"abDocumented"
+.LASF473:
+	.string	"AB_Apply"
+.LASF523:
+	.string	"AB_Reference"
+.LASF569:
+	.string	"poss"
+.LASF131:
+	.string	"abAssign"
+.LASF403:
+	.string	"Drop"
+.LASF578:
+	.string	"body"
+.LASF447:
+	.string	"sposNone"
+.LASF249:
+	.string	"foamChar"
+.LASF296:
+	.string	"foamNOp"
+.LASF61:
+	.string	"Offset"
+.LASF487:
+	.string	"AB_Documented"
+.LASF760:
+	.string	"typeDecl"
+.LASF237:
+	.string	"parent"
+.LASF413:
+	.string	"NMap"
+.LASF741:
+	.string	"Category_txt"
+.LASF419:
+	.string	"Member"
+.LASF359:
+	.string	"isLocked"
+.LASF134:
+	.string	"abDeclare"
+.LASF71:
+	.string	"OStream"
+.LASF423:
+	.string	"NRemove"
+.LASF53:
+	.string	"UByte"
+.LASF691:
+	.string	"nafter"
+.LASF582:
+	.string	"origin"
+.LASF476:
+	.string	"AB_Break"
+.LASF411:
+	.string	"CopyDeeply"
+.LASF583:
+	.string	"destination"
+.LASF648:
+	.string	"defs"
+.LASF387:
+	.string	"SrcLineListCons"
+.LASF226:
+	.string	"domExports"
+.LASF348:
+	.string	"postbl"
+.LASF391:
+	.string	"Singleton"
+.LASF742:
+	.string	"Tuple_txt"
+.LASF560:
+	.string	"AB_State_LIMIT"
+.LASF631:
+	.string	"auxInfo"
+.LASF4:
+	.string	"unsigned int"
+.LASF779:
+	.string	"comma0"
+.LASF490:
+	.string	"AB_Export"
+.LASF418:
+	.string	"Memq"
+.LASF593:
+	.string	"testPart"
+.LASF463:
+	.string	"AB_DocText"
+.LASF101:
+	.string	"BInt"
+.LASF7:
+	.string	"short int"
+.LASF392:
+	.string	"List"
+.LASF442:
+	.string	"StabList"
+.LASF365:
+	.string	"tformsUsed"
+.LASF532:
+	.string	"AB_Where"
+.LASF37:
+	.string	"_vtable_offset"
+.LASF493:
+	.string	"AB_Fluid"
+.LASF485:
+	.string	"AB_Delay"
+.LASF338:
+	.string	"triggers"
+.LASF361:
+	.string	"isSubstable"
+.LASF271:
+	.string	"foamDDef"
+.LASF221:
+	.string	"stab"
+.LASF535:
+	.string	"AB_Yield"
+.LASF609:
+	.string	"defnId"
+.LASF688:
+	.string	"dependents"
+.LASF722:
+	.string	"linearize"
+.LASF477:
+	.string	"AB_Builtin"
+.LASF124:
+	.string	"abLitInteger"
+.LASF396:
+	.string	"Find"
+.LASF643:
+	.string	"builtinTag"
+.LASF430:
+	.string	"AbSynListCons"
+	.section	.debug_line_str,"MS",@progbits,1
+.LASF0:
+	.string	"test/abquick.c"
+.LASF1:
+	.string	"/repo/aldor/aldor/src"
+	.ident	"GCC: (Debian 12.2.0-14+deb12u1) 12.2.0"
+	.section	.note.GNU-stack,"",@progbits
